@@ -5,6 +5,9 @@ use generic_array::{arr, ArrayLength, ConstArrayLength, GenericArray as GA, Into
 use generic_array::internals::{ArrayBuilder, ArrayConsumer, IntrusiveArrayBuilder};
 
 pub type Out = (usize, usize, u64, u64, isize);
+#[derive(Clone, Copy)]
+#[repr(align(16))]
+pub struct A16(pub u8);
 type N<const K: usize> = ConstArrayLength<K>;
 
 const fn mix(h: u64, v: u64) -> u64 { (h ^ v).wrapping_mul(0x100000001b3) }
@@ -526,6 +529,396 @@ const fn native_chunks_unit<const K: usize, const C: usize>() -> Out where Const
         if C > 0 && K > 0 { back[0][0] = mk_unit(31338); }
     }
     if C > 0 && K > 0 { assert!(cv_unit(&src[C - 1][K - 1]) == cv_unit(&mk_unit(31337)) || (C == 1 && K == 1)); assert!(cv_unit(&src[0][0]) == cv_unit(&mk_unit(31338))); }
+    (K, C, d, 0, 0)
+}
+
+
+// ------------------------------------------------------------------ element type A16
+const fn mk_a16(i: usize) -> A16 { A16(((i * 5 + 1) % 251) as u8) }
+const fn cv_a16(x: &A16) -> u64 { x.0 as u64 }
+const fn dg_a16(s: &[A16]) -> u64 { let mut h = 0xcbf29ce484222325u64; let mut i = 0; while i < s.len() { h = mix(h, cv_a16(&s[i])); i += 1; } mix(h, s.len() as u64) }
+const fn src_a16<const L: usize>() -> [A16; L] { let mut a = [mk_a16(0); L]; let mut i = 0; while i < L { a[i] = mk_a16(i); i += 1; } a }
+const fn off_a16(a: *const A16, base: *const A16) -> isize { unsafe { a.offset_from(base) } }
+
+const fn chunks_a16<const K: usize, const L: usize>() -> Out where Const<K>: IntoArrayLength {
+    let src = src_a16::<L>();
+    let (c, r) = GA::<A16, N<K>>::chunks_from_slice(&src);
+    if K == 0 { assert!(L == 0 && c.len() == 0 && r.len() == 0); return (0, 0, 0, 0, 0); }
+    assert!(c.len() == L / K);
+    assert!(r.len() == L % K);
+    // offsets are only taken for non-empty parts: where an empty part points is not pinned (C10), and offset_from on
+    // pointers into different allocations would be OUR error, not the crate's
+    let off = if r.len() > 0 { off_a16(r.as_ptr(), src.as_ptr()) } else { ((L / K) * K) as isize };
+    assert!(off == ((L / K) * K) as isize || false);
+    assert!(c.len() == 0 || off_a16(c.as_ptr() as *const A16, src.as_ptr()) == 0);
+    let mut k = 0;
+    while k < c.len() { let ch = c[k].as_slice(); assert!(ch.len() == K); let mut m = 0; while m < K { assert!(cv_a16(&ch[m]) == cv_a16(&src[k * K + m])); m += 1; } k += 1; }
+    let mut j = 0;
+    while j < r.len() { assert!(cv_a16(&r[j]) == cv_a16(&src[(L / K) * K + j])); j += 1; }
+    let flat = GA::<A16, N<K>>::slice_from_chunks(c);
+    assert!(flat.len() == (L / K) * K);
+    assert!(flat.len() == 0 || off_a16(flat.as_ptr(), src.as_ptr()) == 0);
+    (c.len(), r.len(), dg_a16(flat), dg_a16(r), off)
+}
+
+const fn chunks_mut_a16<const K: usize, const L: usize>() -> Out where Const<K>: IntoArrayLength {
+    let mut src = src_a16::<L>();
+    let base = src.as_ptr();
+    if K == 0 { let (c, r) = GA::<A16, N<K>>::chunks_from_slice_mut(&mut src); assert!(L == 0 && c.len() == 0 && r.len() == 0); return (0, 0, 0, 0, 0); }
+    let (nc, nr);
+    {
+        let (c, r) = GA::<A16, N<K>>::chunks_from_slice_mut(&mut src);
+        nc = c.len(); nr = r.len();
+        assert!(nc == L / K && nr == L % K);
+        assert!(nr == 0 || off_a16(r.as_ptr(), base) == ((L / K) * K) as isize || false);
+        let mut k = 0;
+        while k < nc { let ch = c[k].as_mut_slice(); let mut m = 0; while m < K { ch[m] = mk_a16(1000 + k * K + m); m += 1; } k += 1; }
+        let mut j = 0;
+        while j < nr { r[j] = mk_a16(5000 + j); j += 1; }
+        let flat = GA::<A16, N<K>>::slice_from_chunks_mut(c);
+        assert!(flat.len() == nc * K);
+        if flat.len() > 0 { flat[flat.len() - 1] = mk_a16(9000); }
+    }
+    // every write landed at the right index of the source, nothing else changed
+    let mut i = 0;
+    while i < L {
+        let want = if i < nc * K { if i == nc * K - 1 { mk_a16(9000) } else { mk_a16(1000 + i) } } else { mk_a16(5000 + i - nc * K) };
+        assert!(cv_a16(&src[i]) == cv_a16(&want));
+        i += 1;
+    }
+    (nc, nr, dg_a16(&src), 0, 0)
+}
+
+const fn reinterpret_a16<const K: usize, const L: usize>() -> Out where Const<K>: IntoArrayLength {
+    let mut src = src_a16::<L>();
+    let base = src.as_ptr();
+    // shared forms
+    let ok = match GA::<A16, N<K>>::try_from_slice(&src) {
+        Ok(a) => { assert!(L == K); assert!(a.as_slice().len() == K); assert!(off_a16(a.as_slice().as_ptr(), base) == 0); assert!(dg_a16(a.as_slice()) == dg_a16(&src)); true }
+        Err(_) => { assert!(L != K); false }
+    };
+    if ok {
+        let a = GA::<A16, N<K>>::from_slice(&src);
+        assert!(off_a16(a.as_slice().as_ptr(), base) == 0 && a.as_slice().len() == K);
+    }
+    // mutable forms
+    match GA::<A16, N<K>>::try_from_mut_slice(&mut src) {
+        Ok(a) => { assert!(L == K); if K > 0 { a.as_mut_slice()[K - 1] = mk_a16(777); } }
+        Err(_) => { assert!(L != K); }
+    }
+    if ok {
+        let a = GA::<A16, N<K>>::from_mut_slice(&mut src);
+        if K > 0 { a.as_mut_slice()[0] = mk_a16(778); }
+        if K > 0 { assert!(cv_a16(&src[0]) == cv_a16(&mk_a16(778))); assert!(K == 1 || cv_a16(&src[K - 1]) == cv_a16(&mk_a16(777))); }
+    }
+    (K, L, dg_a16(&src), ok as u64, 0)
+}
+
+const fn byvalue_a16<const K: usize>() -> Out where Const<K>: IntoArrayLength {
+    assert!(GA::<A16, N<K>>::len() == K);
+    let a = GA::<A16, N<K>>::from_array(src_a16::<K>());
+    let d = dg_a16(a.as_slice());
+    assert!(d == dg_a16(&src_a16::<K>()));
+    let mut a = a;
+    if K > 0 { a.as_mut_slice()[K / 2] = mk_a16(4242); }
+    let back: [A16; K] = a.into_array();
+    if K > 0 { assert!(cv_a16(&back[K / 2]) == cv_a16(&mk_a16(4242))); }
+    // uninit + element writes + assume_init
+    let mut u = GA::<A16, N<K>>::uninit();
+    let mut i = 0;
+    while i < K { u.as_mut_slice()[i] = MaybeUninit::new(mk_a16(i + 1)); i += 1; }
+    let init = unsafe { GA::<A16, N<K>>::assume_init(u) };
+    let d2 = dg_a16(init.as_slice());
+    let arr: [A16; K] = init.into_array();
+    let mut i = 0;
+    while i < K { assert!(cv_a16(&arr[i]) == cv_a16(&mk_a16(i + 1))); i += 1; }
+    (K, 0, d, d2, 0)
+}
+
+const fn native_chunks_a16<const K: usize, const C: usize>() -> Out where Const<K>: IntoArrayLength {
+    let mut src = [src_a16::<K>(); C];
+    let base = src.as_ptr();
+    let d;
+    {
+        let g: &[GA<A16, N<K>>] = GA::<A16, N<K>>::from_chunks(&src);
+        assert!(g.len() == C);
+        assert!(off_a16(g.as_ptr() as *const A16, base as *const A16) == 0);
+        let mut h = 0u64; let mut k = 0;
+        while k < C { h = mix(h, dg_a16(g[k].as_slice())); k += 1; }
+        d = h;
+        let back: &[[A16; K]] = GA::<A16, N<K>>::into_chunks(g);
+        assert!(back.len() == C);
+        let flat = GA::<A16, N<K>>::slice_from_chunks(g);
+        assert!(flat.len() == C * K);
+    }
+    {
+        let g: &mut [GA<A16, N<K>>] = GA::<A16, N<K>>::from_chunks_mut(&mut src);
+        if C > 0 && K > 0 { g[C - 1].as_mut_slice()[K - 1] = mk_a16(31337); }
+        let back: &mut [[A16; K]] = GA::<A16, N<K>>::into_chunks_mut(g);
+        assert!(back.len() == C);
+        if C > 0 && K > 0 { back[0][0] = mk_a16(31338); }
+    }
+    if C > 0 && K > 0 { assert!(cv_a16(&src[C - 1][K - 1]) == cv_a16(&mk_a16(31337)) || (C == 1 && K == 1)); assert!(cv_a16(&src[0][0]) == cv_a16(&mk_a16(31338))); }
+    (K, C, d, 0, 0)
+}
+
+
+// ------------------------------------------------------------------ element type [u8; 3]
+const fn mk_b3(i: usize) -> [u8; 3] { [(i % 251) as u8, ((i * 3) % 253) as u8, 9] }
+const fn cv_b3(x: &[u8; 3]) -> u64 { (x[0] as u64) | ((x[1] as u64) << 8) | ((x[2] as u64) << 16) }
+const fn dg_b3(s: &[[u8; 3]]) -> u64 { let mut h = 0xcbf29ce484222325u64; let mut i = 0; while i < s.len() { h = mix(h, cv_b3(&s[i])); i += 1; } mix(h, s.len() as u64) }
+const fn src_b3<const L: usize>() -> [[u8; 3]; L] { let mut a = [mk_b3(0); L]; let mut i = 0; while i < L { a[i] = mk_b3(i); i += 1; } a }
+const fn off_b3(a: *const [u8; 3], base: *const [u8; 3]) -> isize { unsafe { a.offset_from(base) } }
+
+const fn chunks_b3<const K: usize, const L: usize>() -> Out where Const<K>: IntoArrayLength {
+    let src = src_b3::<L>();
+    let (c, r) = GA::<[u8; 3], N<K>>::chunks_from_slice(&src);
+    if K == 0 { assert!(L == 0 && c.len() == 0 && r.len() == 0); return (0, 0, 0, 0, 0); }
+    assert!(c.len() == L / K);
+    assert!(r.len() == L % K);
+    // offsets are only taken for non-empty parts: where an empty part points is not pinned (C10), and offset_from on
+    // pointers into different allocations would be OUR error, not the crate's
+    let off = if r.len() > 0 { off_b3(r.as_ptr(), src.as_ptr()) } else { ((L / K) * K) as isize };
+    assert!(off == ((L / K) * K) as isize || false);
+    assert!(c.len() == 0 || off_b3(c.as_ptr() as *const [u8; 3], src.as_ptr()) == 0);
+    let mut k = 0;
+    while k < c.len() { let ch = c[k].as_slice(); assert!(ch.len() == K); let mut m = 0; while m < K { assert!(cv_b3(&ch[m]) == cv_b3(&src[k * K + m])); m += 1; } k += 1; }
+    let mut j = 0;
+    while j < r.len() { assert!(cv_b3(&r[j]) == cv_b3(&src[(L / K) * K + j])); j += 1; }
+    let flat = GA::<[u8; 3], N<K>>::slice_from_chunks(c);
+    assert!(flat.len() == (L / K) * K);
+    assert!(flat.len() == 0 || off_b3(flat.as_ptr(), src.as_ptr()) == 0);
+    (c.len(), r.len(), dg_b3(flat), dg_b3(r), off)
+}
+
+const fn chunks_mut_b3<const K: usize, const L: usize>() -> Out where Const<K>: IntoArrayLength {
+    let mut src = src_b3::<L>();
+    let base = src.as_ptr();
+    if K == 0 { let (c, r) = GA::<[u8; 3], N<K>>::chunks_from_slice_mut(&mut src); assert!(L == 0 && c.len() == 0 && r.len() == 0); return (0, 0, 0, 0, 0); }
+    let (nc, nr);
+    {
+        let (c, r) = GA::<[u8; 3], N<K>>::chunks_from_slice_mut(&mut src);
+        nc = c.len(); nr = r.len();
+        assert!(nc == L / K && nr == L % K);
+        assert!(nr == 0 || off_b3(r.as_ptr(), base) == ((L / K) * K) as isize || false);
+        let mut k = 0;
+        while k < nc { let ch = c[k].as_mut_slice(); let mut m = 0; while m < K { ch[m] = mk_b3(1000 + k * K + m); m += 1; } k += 1; }
+        let mut j = 0;
+        while j < nr { r[j] = mk_b3(5000 + j); j += 1; }
+        let flat = GA::<[u8; 3], N<K>>::slice_from_chunks_mut(c);
+        assert!(flat.len() == nc * K);
+        if flat.len() > 0 { flat[flat.len() - 1] = mk_b3(9000); }
+    }
+    // every write landed at the right index of the source, nothing else changed
+    let mut i = 0;
+    while i < L {
+        let want = if i < nc * K { if i == nc * K - 1 { mk_b3(9000) } else { mk_b3(1000 + i) } } else { mk_b3(5000 + i - nc * K) };
+        assert!(cv_b3(&src[i]) == cv_b3(&want));
+        i += 1;
+    }
+    (nc, nr, dg_b3(&src), 0, 0)
+}
+
+const fn reinterpret_b3<const K: usize, const L: usize>() -> Out where Const<K>: IntoArrayLength {
+    let mut src = src_b3::<L>();
+    let base = src.as_ptr();
+    // shared forms
+    let ok = match GA::<[u8; 3], N<K>>::try_from_slice(&src) {
+        Ok(a) => { assert!(L == K); assert!(a.as_slice().len() == K); assert!(off_b3(a.as_slice().as_ptr(), base) == 0); assert!(dg_b3(a.as_slice()) == dg_b3(&src)); true }
+        Err(_) => { assert!(L != K); false }
+    };
+    if ok {
+        let a = GA::<[u8; 3], N<K>>::from_slice(&src);
+        assert!(off_b3(a.as_slice().as_ptr(), base) == 0 && a.as_slice().len() == K);
+    }
+    // mutable forms
+    match GA::<[u8; 3], N<K>>::try_from_mut_slice(&mut src) {
+        Ok(a) => { assert!(L == K); if K > 0 { a.as_mut_slice()[K - 1] = mk_b3(777); } }
+        Err(_) => { assert!(L != K); }
+    }
+    if ok {
+        let a = GA::<[u8; 3], N<K>>::from_mut_slice(&mut src);
+        if K > 0 { a.as_mut_slice()[0] = mk_b3(778); }
+        if K > 0 { assert!(cv_b3(&src[0]) == cv_b3(&mk_b3(778))); assert!(K == 1 || cv_b3(&src[K - 1]) == cv_b3(&mk_b3(777))); }
+    }
+    (K, L, dg_b3(&src), ok as u64, 0)
+}
+
+const fn byvalue_b3<const K: usize>() -> Out where Const<K>: IntoArrayLength {
+    assert!(GA::<[u8; 3], N<K>>::len() == K);
+    let a = GA::<[u8; 3], N<K>>::from_array(src_b3::<K>());
+    let d = dg_b3(a.as_slice());
+    assert!(d == dg_b3(&src_b3::<K>()));
+    let mut a = a;
+    if K > 0 { a.as_mut_slice()[K / 2] = mk_b3(4242); }
+    let back: [[u8; 3]; K] = a.into_array();
+    if K > 0 { assert!(cv_b3(&back[K / 2]) == cv_b3(&mk_b3(4242))); }
+    // uninit + element writes + assume_init
+    let mut u = GA::<[u8; 3], N<K>>::uninit();
+    let mut i = 0;
+    while i < K { u.as_mut_slice()[i] = MaybeUninit::new(mk_b3(i + 1)); i += 1; }
+    let init = unsafe { GA::<[u8; 3], N<K>>::assume_init(u) };
+    let d2 = dg_b3(init.as_slice());
+    let arr: [[u8; 3]; K] = init.into_array();
+    let mut i = 0;
+    while i < K { assert!(cv_b3(&arr[i]) == cv_b3(&mk_b3(i + 1))); i += 1; }
+    (K, 0, d, d2, 0)
+}
+
+const fn native_chunks_b3<const K: usize, const C: usize>() -> Out where Const<K>: IntoArrayLength {
+    let mut src = [src_b3::<K>(); C];
+    let base = src.as_ptr();
+    let d;
+    {
+        let g: &[GA<[u8; 3], N<K>>] = GA::<[u8; 3], N<K>>::from_chunks(&src);
+        assert!(g.len() == C);
+        assert!(off_b3(g.as_ptr() as *const [u8; 3], base as *const [u8; 3]) == 0);
+        let mut h = 0u64; let mut k = 0;
+        while k < C { h = mix(h, dg_b3(g[k].as_slice())); k += 1; }
+        d = h;
+        let back: &[[[u8; 3]; K]] = GA::<[u8; 3], N<K>>::into_chunks(g);
+        assert!(back.len() == C);
+        let flat = GA::<[u8; 3], N<K>>::slice_from_chunks(g);
+        assert!(flat.len() == C * K);
+    }
+    {
+        let g: &mut [GA<[u8; 3], N<K>>] = GA::<[u8; 3], N<K>>::from_chunks_mut(&mut src);
+        if C > 0 && K > 0 { g[C - 1].as_mut_slice()[K - 1] = mk_b3(31337); }
+        let back: &mut [[[u8; 3]; K]] = GA::<[u8; 3], N<K>>::into_chunks_mut(g);
+        assert!(back.len() == C);
+        if C > 0 && K > 0 { back[0][0] = mk_b3(31338); }
+    }
+    if C > 0 && K > 0 { assert!(cv_b3(&src[C - 1][K - 1]) == cv_b3(&mk_b3(31337)) || (C == 1 && K == 1)); assert!(cv_b3(&src[0][0]) == cv_b3(&mk_b3(31338))); }
+    (K, C, d, 0, 0)
+}
+
+
+// ------------------------------------------------------------------ element type char
+const fn mk_ch(i: usize) -> char { (b'A' + (i % 26) as u8) as char }
+const fn cv_ch(x: &char) -> u64 { *x as u64 }
+const fn dg_ch(s: &[char]) -> u64 { let mut h = 0xcbf29ce484222325u64; let mut i = 0; while i < s.len() { h = mix(h, cv_ch(&s[i])); i += 1; } mix(h, s.len() as u64) }
+const fn src_ch<const L: usize>() -> [char; L] { let mut a = [mk_ch(0); L]; let mut i = 0; while i < L { a[i] = mk_ch(i); i += 1; } a }
+const fn off_ch(a: *const char, base: *const char) -> isize { unsafe { a.offset_from(base) } }
+
+const fn chunks_ch<const K: usize, const L: usize>() -> Out where Const<K>: IntoArrayLength {
+    let src = src_ch::<L>();
+    let (c, r) = GA::<char, N<K>>::chunks_from_slice(&src);
+    if K == 0 { assert!(L == 0 && c.len() == 0 && r.len() == 0); return (0, 0, 0, 0, 0); }
+    assert!(c.len() == L / K);
+    assert!(r.len() == L % K);
+    // offsets are only taken for non-empty parts: where an empty part points is not pinned (C10), and offset_from on
+    // pointers into different allocations would be OUR error, not the crate's
+    let off = if r.len() > 0 { off_ch(r.as_ptr(), src.as_ptr()) } else { ((L / K) * K) as isize };
+    assert!(off == ((L / K) * K) as isize || false);
+    assert!(c.len() == 0 || off_ch(c.as_ptr() as *const char, src.as_ptr()) == 0);
+    let mut k = 0;
+    while k < c.len() { let ch = c[k].as_slice(); assert!(ch.len() == K); let mut m = 0; while m < K { assert!(cv_ch(&ch[m]) == cv_ch(&src[k * K + m])); m += 1; } k += 1; }
+    let mut j = 0;
+    while j < r.len() { assert!(cv_ch(&r[j]) == cv_ch(&src[(L / K) * K + j])); j += 1; }
+    let flat = GA::<char, N<K>>::slice_from_chunks(c);
+    assert!(flat.len() == (L / K) * K);
+    assert!(flat.len() == 0 || off_ch(flat.as_ptr(), src.as_ptr()) == 0);
+    (c.len(), r.len(), dg_ch(flat), dg_ch(r), off)
+}
+
+const fn chunks_mut_ch<const K: usize, const L: usize>() -> Out where Const<K>: IntoArrayLength {
+    let mut src = src_ch::<L>();
+    let base = src.as_ptr();
+    if K == 0 { let (c, r) = GA::<char, N<K>>::chunks_from_slice_mut(&mut src); assert!(L == 0 && c.len() == 0 && r.len() == 0); return (0, 0, 0, 0, 0); }
+    let (nc, nr);
+    {
+        let (c, r) = GA::<char, N<K>>::chunks_from_slice_mut(&mut src);
+        nc = c.len(); nr = r.len();
+        assert!(nc == L / K && nr == L % K);
+        assert!(nr == 0 || off_ch(r.as_ptr(), base) == ((L / K) * K) as isize || false);
+        let mut k = 0;
+        while k < nc { let ch = c[k].as_mut_slice(); let mut m = 0; while m < K { ch[m] = mk_ch(1000 + k * K + m); m += 1; } k += 1; }
+        let mut j = 0;
+        while j < nr { r[j] = mk_ch(5000 + j); j += 1; }
+        let flat = GA::<char, N<K>>::slice_from_chunks_mut(c);
+        assert!(flat.len() == nc * K);
+        if flat.len() > 0 { flat[flat.len() - 1] = mk_ch(9000); }
+    }
+    // every write landed at the right index of the source, nothing else changed
+    let mut i = 0;
+    while i < L {
+        let want = if i < nc * K { if i == nc * K - 1 { mk_ch(9000) } else { mk_ch(1000 + i) } } else { mk_ch(5000 + i - nc * K) };
+        assert!(cv_ch(&src[i]) == cv_ch(&want));
+        i += 1;
+    }
+    (nc, nr, dg_ch(&src), 0, 0)
+}
+
+const fn reinterpret_ch<const K: usize, const L: usize>() -> Out where Const<K>: IntoArrayLength {
+    let mut src = src_ch::<L>();
+    let base = src.as_ptr();
+    // shared forms
+    let ok = match GA::<char, N<K>>::try_from_slice(&src) {
+        Ok(a) => { assert!(L == K); assert!(a.as_slice().len() == K); assert!(off_ch(a.as_slice().as_ptr(), base) == 0); assert!(dg_ch(a.as_slice()) == dg_ch(&src)); true }
+        Err(_) => { assert!(L != K); false }
+    };
+    if ok {
+        let a = GA::<char, N<K>>::from_slice(&src);
+        assert!(off_ch(a.as_slice().as_ptr(), base) == 0 && a.as_slice().len() == K);
+    }
+    // mutable forms
+    match GA::<char, N<K>>::try_from_mut_slice(&mut src) {
+        Ok(a) => { assert!(L == K); if K > 0 { a.as_mut_slice()[K - 1] = mk_ch(777); } }
+        Err(_) => { assert!(L != K); }
+    }
+    if ok {
+        let a = GA::<char, N<K>>::from_mut_slice(&mut src);
+        if K > 0 { a.as_mut_slice()[0] = mk_ch(778); }
+        if K > 0 { assert!(cv_ch(&src[0]) == cv_ch(&mk_ch(778))); assert!(K == 1 || cv_ch(&src[K - 1]) == cv_ch(&mk_ch(777))); }
+    }
+    (K, L, dg_ch(&src), ok as u64, 0)
+}
+
+const fn byvalue_ch<const K: usize>() -> Out where Const<K>: IntoArrayLength {
+    assert!(GA::<char, N<K>>::len() == K);
+    let a = GA::<char, N<K>>::from_array(src_ch::<K>());
+    let d = dg_ch(a.as_slice());
+    assert!(d == dg_ch(&src_ch::<K>()));
+    let mut a = a;
+    if K > 0 { a.as_mut_slice()[K / 2] = mk_ch(4242); }
+    let back: [char; K] = a.into_array();
+    if K > 0 { assert!(cv_ch(&back[K / 2]) == cv_ch(&mk_ch(4242))); }
+    // uninit + element writes + assume_init
+    let mut u = GA::<char, N<K>>::uninit();
+    let mut i = 0;
+    while i < K { u.as_mut_slice()[i] = MaybeUninit::new(mk_ch(i + 1)); i += 1; }
+    let init = unsafe { GA::<char, N<K>>::assume_init(u) };
+    let d2 = dg_ch(init.as_slice());
+    let arr: [char; K] = init.into_array();
+    let mut i = 0;
+    while i < K { assert!(cv_ch(&arr[i]) == cv_ch(&mk_ch(i + 1))); i += 1; }
+    (K, 0, d, d2, 0)
+}
+
+const fn native_chunks_ch<const K: usize, const C: usize>() -> Out where Const<K>: IntoArrayLength {
+    let mut src = [src_ch::<K>(); C];
+    let base = src.as_ptr();
+    let d;
+    {
+        let g: &[GA<char, N<K>>] = GA::<char, N<K>>::from_chunks(&src);
+        assert!(g.len() == C);
+        assert!(off_ch(g.as_ptr() as *const char, base as *const char) == 0);
+        let mut h = 0u64; let mut k = 0;
+        while k < C { h = mix(h, dg_ch(g[k].as_slice())); k += 1; }
+        d = h;
+        let back: &[[char; K]] = GA::<char, N<K>>::into_chunks(g);
+        assert!(back.len() == C);
+        let flat = GA::<char, N<K>>::slice_from_chunks(g);
+        assert!(flat.len() == C * K);
+    }
+    {
+        let g: &mut [GA<char, N<K>>] = GA::<char, N<K>>::from_chunks_mut(&mut src);
+        if C > 0 && K > 0 { g[C - 1].as_mut_slice()[K - 1] = mk_ch(31337); }
+        let back: &mut [[char; K]] = GA::<char, N<K>>::into_chunks_mut(g);
+        assert!(back.len() == C);
+        if C > 0 && K > 0 { back[0][0] = mk_ch(31338); }
+    }
+    if C > 0 && K > 0 { assert!(cv_ch(&src[C - 1][K - 1]) == cv_ch(&mk_ch(31337)) || (C == 1 && K == 1)); assert!(cv_ch(&src[0][0]) == cv_ch(&mk_ch(31338))); }
     (K, C, d, 0, 0)
 }
 
@@ -2913,6 +3306,1770 @@ const C_NATIVE_CHUNKS_UNIT_1024_0: Out = native_chunks_unit::<1024, 0>();
 const C_NATIVE_CHUNKS_UNIT_1024_1: Out = native_chunks_unit::<1024, 1>();
 const C_NATIVE_CHUNKS_UNIT_1024_2: Out = native_chunks_unit::<1024, 2>();
 const C_NATIVE_CHUNKS_UNIT_1024_3: Out = native_chunks_unit::<1024, 3>();
+const C_CHUNKS_A16_0_0: Out = chunks_a16::<0, 0>();
+const C_CHUNKS_MUT_A16_0_0: Out = chunks_mut_a16::<0, 0>();
+const C_REINTERPRET_A16_0_0: Out = reinterpret_a16::<0, 0>();
+const C_REINTERPRET_A16_0_1: Out = reinterpret_a16::<0, 1>();
+const C_REINTERPRET_A16_0_2: Out = reinterpret_a16::<0, 2>();
+const C_BYVALUE_A16_0: Out = byvalue_a16::<0>();
+const C_NATIVE_CHUNKS_A16_0_0: Out = native_chunks_a16::<0, 0>();
+const C_NATIVE_CHUNKS_A16_0_1: Out = native_chunks_a16::<0, 1>();
+const C_NATIVE_CHUNKS_A16_0_2: Out = native_chunks_a16::<0, 2>();
+const C_NATIVE_CHUNKS_A16_0_3: Out = native_chunks_a16::<0, 3>();
+const C_CHUNKS_A16_1_0: Out = chunks_a16::<1, 0>();
+const C_CHUNKS_MUT_A16_1_0: Out = chunks_mut_a16::<1, 0>();
+const C_CHUNKS_A16_1_1: Out = chunks_a16::<1, 1>();
+const C_CHUNKS_MUT_A16_1_1: Out = chunks_mut_a16::<1, 1>();
+const C_CHUNKS_A16_1_2: Out = chunks_a16::<1, 2>();
+const C_CHUNKS_MUT_A16_1_2: Out = chunks_mut_a16::<1, 2>();
+const C_CHUNKS_A16_1_3: Out = chunks_a16::<1, 3>();
+const C_CHUNKS_MUT_A16_1_3: Out = chunks_mut_a16::<1, 3>();
+const C_CHUNKS_A16_1_4: Out = chunks_a16::<1, 4>();
+const C_CHUNKS_MUT_A16_1_4: Out = chunks_mut_a16::<1, 4>();
+const C_CHUNKS_A16_1_5: Out = chunks_a16::<1, 5>();
+const C_CHUNKS_MUT_A16_1_5: Out = chunks_mut_a16::<1, 5>();
+const C_REINTERPRET_A16_1_0: Out = reinterpret_a16::<1, 0>();
+const C_REINTERPRET_A16_1_1: Out = reinterpret_a16::<1, 1>();
+const C_REINTERPRET_A16_1_2: Out = reinterpret_a16::<1, 2>();
+const C_REINTERPRET_A16_1_5: Out = reinterpret_a16::<1, 5>();
+const C_BYVALUE_A16_1: Out = byvalue_a16::<1>();
+const C_NATIVE_CHUNKS_A16_1_0: Out = native_chunks_a16::<1, 0>();
+const C_NATIVE_CHUNKS_A16_1_1: Out = native_chunks_a16::<1, 1>();
+const C_NATIVE_CHUNKS_A16_1_2: Out = native_chunks_a16::<1, 2>();
+const C_NATIVE_CHUNKS_A16_1_3: Out = native_chunks_a16::<1, 3>();
+const C_CHUNKS_A16_2_0: Out = chunks_a16::<2, 0>();
+const C_CHUNKS_MUT_A16_2_0: Out = chunks_mut_a16::<2, 0>();
+const C_CHUNKS_A16_2_1: Out = chunks_a16::<2, 1>();
+const C_CHUNKS_MUT_A16_2_1: Out = chunks_mut_a16::<2, 1>();
+const C_CHUNKS_A16_2_2: Out = chunks_a16::<2, 2>();
+const C_CHUNKS_MUT_A16_2_2: Out = chunks_mut_a16::<2, 2>();
+const C_CHUNKS_A16_2_3: Out = chunks_a16::<2, 3>();
+const C_CHUNKS_MUT_A16_2_3: Out = chunks_mut_a16::<2, 3>();
+const C_CHUNKS_A16_2_4: Out = chunks_a16::<2, 4>();
+const C_CHUNKS_MUT_A16_2_4: Out = chunks_mut_a16::<2, 4>();
+const C_CHUNKS_A16_2_5: Out = chunks_a16::<2, 5>();
+const C_CHUNKS_MUT_A16_2_5: Out = chunks_mut_a16::<2, 5>();
+const C_CHUNKS_A16_2_6: Out = chunks_a16::<2, 6>();
+const C_CHUNKS_MUT_A16_2_6: Out = chunks_mut_a16::<2, 6>();
+const C_CHUNKS_A16_2_7: Out = chunks_a16::<2, 7>();
+const C_CHUNKS_MUT_A16_2_7: Out = chunks_mut_a16::<2, 7>();
+const C_CHUNKS_A16_2_8: Out = chunks_a16::<2, 8>();
+const C_CHUNKS_MUT_A16_2_8: Out = chunks_mut_a16::<2, 8>();
+const C_REINTERPRET_A16_2_0: Out = reinterpret_a16::<2, 0>();
+const C_REINTERPRET_A16_2_1: Out = reinterpret_a16::<2, 1>();
+const C_REINTERPRET_A16_2_2: Out = reinterpret_a16::<2, 2>();
+const C_REINTERPRET_A16_2_3: Out = reinterpret_a16::<2, 3>();
+const C_REINTERPRET_A16_2_4: Out = reinterpret_a16::<2, 4>();
+const C_REINTERPRET_A16_2_8: Out = reinterpret_a16::<2, 8>();
+const C_BYVALUE_A16_2: Out = byvalue_a16::<2>();
+const C_NATIVE_CHUNKS_A16_2_0: Out = native_chunks_a16::<2, 0>();
+const C_NATIVE_CHUNKS_A16_2_1: Out = native_chunks_a16::<2, 1>();
+const C_NATIVE_CHUNKS_A16_2_2: Out = native_chunks_a16::<2, 2>();
+const C_NATIVE_CHUNKS_A16_2_3: Out = native_chunks_a16::<2, 3>();
+const C_CHUNKS_A16_3_0: Out = chunks_a16::<3, 0>();
+const C_CHUNKS_MUT_A16_3_0: Out = chunks_mut_a16::<3, 0>();
+const C_CHUNKS_A16_3_1: Out = chunks_a16::<3, 1>();
+const C_CHUNKS_MUT_A16_3_1: Out = chunks_mut_a16::<3, 1>();
+const C_CHUNKS_A16_3_2: Out = chunks_a16::<3, 2>();
+const C_CHUNKS_MUT_A16_3_2: Out = chunks_mut_a16::<3, 2>();
+const C_CHUNKS_A16_3_3: Out = chunks_a16::<3, 3>();
+const C_CHUNKS_MUT_A16_3_3: Out = chunks_mut_a16::<3, 3>();
+const C_CHUNKS_A16_3_4: Out = chunks_a16::<3, 4>();
+const C_CHUNKS_MUT_A16_3_4: Out = chunks_mut_a16::<3, 4>();
+const C_CHUNKS_A16_3_5: Out = chunks_a16::<3, 5>();
+const C_CHUNKS_MUT_A16_3_5: Out = chunks_mut_a16::<3, 5>();
+const C_CHUNKS_A16_3_6: Out = chunks_a16::<3, 6>();
+const C_CHUNKS_MUT_A16_3_6: Out = chunks_mut_a16::<3, 6>();
+const C_CHUNKS_A16_3_7: Out = chunks_a16::<3, 7>();
+const C_CHUNKS_MUT_A16_3_7: Out = chunks_mut_a16::<3, 7>();
+const C_CHUNKS_A16_3_8: Out = chunks_a16::<3, 8>();
+const C_CHUNKS_MUT_A16_3_8: Out = chunks_mut_a16::<3, 8>();
+const C_CHUNKS_A16_3_9: Out = chunks_a16::<3, 9>();
+const C_CHUNKS_MUT_A16_3_9: Out = chunks_mut_a16::<3, 9>();
+const C_CHUNKS_A16_3_10: Out = chunks_a16::<3, 10>();
+const C_CHUNKS_MUT_A16_3_10: Out = chunks_mut_a16::<3, 10>();
+const C_CHUNKS_A16_3_11: Out = chunks_a16::<3, 11>();
+const C_CHUNKS_MUT_A16_3_11: Out = chunks_mut_a16::<3, 11>();
+const C_REINTERPRET_A16_3_0: Out = reinterpret_a16::<3, 0>();
+const C_REINTERPRET_A16_3_1: Out = reinterpret_a16::<3, 1>();
+const C_REINTERPRET_A16_3_2: Out = reinterpret_a16::<3, 2>();
+const C_REINTERPRET_A16_3_3: Out = reinterpret_a16::<3, 3>();
+const C_REINTERPRET_A16_3_4: Out = reinterpret_a16::<3, 4>();
+const C_REINTERPRET_A16_3_6: Out = reinterpret_a16::<3, 6>();
+const C_REINTERPRET_A16_3_11: Out = reinterpret_a16::<3, 11>();
+const C_BYVALUE_A16_3: Out = byvalue_a16::<3>();
+const C_NATIVE_CHUNKS_A16_3_0: Out = native_chunks_a16::<3, 0>();
+const C_NATIVE_CHUNKS_A16_3_1: Out = native_chunks_a16::<3, 1>();
+const C_NATIVE_CHUNKS_A16_3_2: Out = native_chunks_a16::<3, 2>();
+const C_NATIVE_CHUNKS_A16_3_3: Out = native_chunks_a16::<3, 3>();
+const C_CHUNKS_A16_7_0: Out = chunks_a16::<7, 0>();
+const C_CHUNKS_MUT_A16_7_0: Out = chunks_mut_a16::<7, 0>();
+const C_CHUNKS_A16_7_1: Out = chunks_a16::<7, 1>();
+const C_CHUNKS_MUT_A16_7_1: Out = chunks_mut_a16::<7, 1>();
+const C_CHUNKS_A16_7_2: Out = chunks_a16::<7, 2>();
+const C_CHUNKS_MUT_A16_7_2: Out = chunks_mut_a16::<7, 2>();
+const C_CHUNKS_A16_7_3: Out = chunks_a16::<7, 3>();
+const C_CHUNKS_MUT_A16_7_3: Out = chunks_mut_a16::<7, 3>();
+const C_CHUNKS_A16_7_4: Out = chunks_a16::<7, 4>();
+const C_CHUNKS_MUT_A16_7_4: Out = chunks_mut_a16::<7, 4>();
+const C_CHUNKS_A16_7_5: Out = chunks_a16::<7, 5>();
+const C_CHUNKS_MUT_A16_7_5: Out = chunks_mut_a16::<7, 5>();
+const C_CHUNKS_A16_7_6: Out = chunks_a16::<7, 6>();
+const C_CHUNKS_MUT_A16_7_6: Out = chunks_mut_a16::<7, 6>();
+const C_CHUNKS_A16_7_7: Out = chunks_a16::<7, 7>();
+const C_CHUNKS_MUT_A16_7_7: Out = chunks_mut_a16::<7, 7>();
+const C_CHUNKS_A16_7_8: Out = chunks_a16::<7, 8>();
+const C_CHUNKS_MUT_A16_7_8: Out = chunks_mut_a16::<7, 8>();
+const C_CHUNKS_A16_7_9: Out = chunks_a16::<7, 9>();
+const C_CHUNKS_MUT_A16_7_9: Out = chunks_mut_a16::<7, 9>();
+const C_CHUNKS_A16_7_10: Out = chunks_a16::<7, 10>();
+const C_CHUNKS_MUT_A16_7_10: Out = chunks_mut_a16::<7, 10>();
+const C_CHUNKS_A16_7_11: Out = chunks_a16::<7, 11>();
+const C_CHUNKS_MUT_A16_7_11: Out = chunks_mut_a16::<7, 11>();
+const C_CHUNKS_A16_7_12: Out = chunks_a16::<7, 12>();
+const C_CHUNKS_MUT_A16_7_12: Out = chunks_mut_a16::<7, 12>();
+const C_CHUNKS_A16_7_13: Out = chunks_a16::<7, 13>();
+const C_CHUNKS_MUT_A16_7_13: Out = chunks_mut_a16::<7, 13>();
+const C_CHUNKS_A16_7_14: Out = chunks_a16::<7, 14>();
+const C_CHUNKS_MUT_A16_7_14: Out = chunks_mut_a16::<7, 14>();
+const C_CHUNKS_A16_7_15: Out = chunks_a16::<7, 15>();
+const C_CHUNKS_MUT_A16_7_15: Out = chunks_mut_a16::<7, 15>();
+const C_CHUNKS_A16_7_16: Out = chunks_a16::<7, 16>();
+const C_CHUNKS_MUT_A16_7_16: Out = chunks_mut_a16::<7, 16>();
+const C_CHUNKS_A16_7_17: Out = chunks_a16::<7, 17>();
+const C_CHUNKS_MUT_A16_7_17: Out = chunks_mut_a16::<7, 17>();
+const C_CHUNKS_A16_7_18: Out = chunks_a16::<7, 18>();
+const C_CHUNKS_MUT_A16_7_18: Out = chunks_mut_a16::<7, 18>();
+const C_CHUNKS_A16_7_19: Out = chunks_a16::<7, 19>();
+const C_CHUNKS_MUT_A16_7_19: Out = chunks_mut_a16::<7, 19>();
+const C_CHUNKS_A16_7_20: Out = chunks_a16::<7, 20>();
+const C_CHUNKS_MUT_A16_7_20: Out = chunks_mut_a16::<7, 20>();
+const C_CHUNKS_A16_7_21: Out = chunks_a16::<7, 21>();
+const C_CHUNKS_MUT_A16_7_21: Out = chunks_mut_a16::<7, 21>();
+const C_CHUNKS_A16_7_22: Out = chunks_a16::<7, 22>();
+const C_CHUNKS_MUT_A16_7_22: Out = chunks_mut_a16::<7, 22>();
+const C_CHUNKS_A16_7_23: Out = chunks_a16::<7, 23>();
+const C_CHUNKS_MUT_A16_7_23: Out = chunks_mut_a16::<7, 23>();
+const C_REINTERPRET_A16_7_0: Out = reinterpret_a16::<7, 0>();
+const C_REINTERPRET_A16_7_1: Out = reinterpret_a16::<7, 1>();
+const C_REINTERPRET_A16_7_6: Out = reinterpret_a16::<7, 6>();
+const C_REINTERPRET_A16_7_7: Out = reinterpret_a16::<7, 7>();
+const C_REINTERPRET_A16_7_8: Out = reinterpret_a16::<7, 8>();
+const C_REINTERPRET_A16_7_14: Out = reinterpret_a16::<7, 14>();
+const C_REINTERPRET_A16_7_23: Out = reinterpret_a16::<7, 23>();
+const C_BYVALUE_A16_7: Out = byvalue_a16::<7>();
+const C_NATIVE_CHUNKS_A16_7_0: Out = native_chunks_a16::<7, 0>();
+const C_NATIVE_CHUNKS_A16_7_1: Out = native_chunks_a16::<7, 1>();
+const C_NATIVE_CHUNKS_A16_7_2: Out = native_chunks_a16::<7, 2>();
+const C_NATIVE_CHUNKS_A16_7_3: Out = native_chunks_a16::<7, 3>();
+const C_CHUNKS_A16_8_0: Out = chunks_a16::<8, 0>();
+const C_CHUNKS_MUT_A16_8_0: Out = chunks_mut_a16::<8, 0>();
+const C_CHUNKS_A16_8_1: Out = chunks_a16::<8, 1>();
+const C_CHUNKS_MUT_A16_8_1: Out = chunks_mut_a16::<8, 1>();
+const C_CHUNKS_A16_8_2: Out = chunks_a16::<8, 2>();
+const C_CHUNKS_MUT_A16_8_2: Out = chunks_mut_a16::<8, 2>();
+const C_CHUNKS_A16_8_3: Out = chunks_a16::<8, 3>();
+const C_CHUNKS_MUT_A16_8_3: Out = chunks_mut_a16::<8, 3>();
+const C_CHUNKS_A16_8_4: Out = chunks_a16::<8, 4>();
+const C_CHUNKS_MUT_A16_8_4: Out = chunks_mut_a16::<8, 4>();
+const C_CHUNKS_A16_8_5: Out = chunks_a16::<8, 5>();
+const C_CHUNKS_MUT_A16_8_5: Out = chunks_mut_a16::<8, 5>();
+const C_CHUNKS_A16_8_6: Out = chunks_a16::<8, 6>();
+const C_CHUNKS_MUT_A16_8_6: Out = chunks_mut_a16::<8, 6>();
+const C_CHUNKS_A16_8_7: Out = chunks_a16::<8, 7>();
+const C_CHUNKS_MUT_A16_8_7: Out = chunks_mut_a16::<8, 7>();
+const C_CHUNKS_A16_8_8: Out = chunks_a16::<8, 8>();
+const C_CHUNKS_MUT_A16_8_8: Out = chunks_mut_a16::<8, 8>();
+const C_CHUNKS_A16_8_9: Out = chunks_a16::<8, 9>();
+const C_CHUNKS_MUT_A16_8_9: Out = chunks_mut_a16::<8, 9>();
+const C_CHUNKS_A16_8_10: Out = chunks_a16::<8, 10>();
+const C_CHUNKS_MUT_A16_8_10: Out = chunks_mut_a16::<8, 10>();
+const C_CHUNKS_A16_8_11: Out = chunks_a16::<8, 11>();
+const C_CHUNKS_MUT_A16_8_11: Out = chunks_mut_a16::<8, 11>();
+const C_CHUNKS_A16_8_12: Out = chunks_a16::<8, 12>();
+const C_CHUNKS_MUT_A16_8_12: Out = chunks_mut_a16::<8, 12>();
+const C_CHUNKS_A16_8_13: Out = chunks_a16::<8, 13>();
+const C_CHUNKS_MUT_A16_8_13: Out = chunks_mut_a16::<8, 13>();
+const C_CHUNKS_A16_8_14: Out = chunks_a16::<8, 14>();
+const C_CHUNKS_MUT_A16_8_14: Out = chunks_mut_a16::<8, 14>();
+const C_CHUNKS_A16_8_15: Out = chunks_a16::<8, 15>();
+const C_CHUNKS_MUT_A16_8_15: Out = chunks_mut_a16::<8, 15>();
+const C_CHUNKS_A16_8_16: Out = chunks_a16::<8, 16>();
+const C_CHUNKS_MUT_A16_8_16: Out = chunks_mut_a16::<8, 16>();
+const C_CHUNKS_A16_8_17: Out = chunks_a16::<8, 17>();
+const C_CHUNKS_MUT_A16_8_17: Out = chunks_mut_a16::<8, 17>();
+const C_CHUNKS_A16_8_18: Out = chunks_a16::<8, 18>();
+const C_CHUNKS_MUT_A16_8_18: Out = chunks_mut_a16::<8, 18>();
+const C_CHUNKS_A16_8_19: Out = chunks_a16::<8, 19>();
+const C_CHUNKS_MUT_A16_8_19: Out = chunks_mut_a16::<8, 19>();
+const C_CHUNKS_A16_8_20: Out = chunks_a16::<8, 20>();
+const C_CHUNKS_MUT_A16_8_20: Out = chunks_mut_a16::<8, 20>();
+const C_CHUNKS_A16_8_21: Out = chunks_a16::<8, 21>();
+const C_CHUNKS_MUT_A16_8_21: Out = chunks_mut_a16::<8, 21>();
+const C_CHUNKS_A16_8_22: Out = chunks_a16::<8, 22>();
+const C_CHUNKS_MUT_A16_8_22: Out = chunks_mut_a16::<8, 22>();
+const C_CHUNKS_A16_8_23: Out = chunks_a16::<8, 23>();
+const C_CHUNKS_MUT_A16_8_23: Out = chunks_mut_a16::<8, 23>();
+const C_CHUNKS_A16_8_24: Out = chunks_a16::<8, 24>();
+const C_CHUNKS_MUT_A16_8_24: Out = chunks_mut_a16::<8, 24>();
+const C_CHUNKS_A16_8_25: Out = chunks_a16::<8, 25>();
+const C_CHUNKS_MUT_A16_8_25: Out = chunks_mut_a16::<8, 25>();
+const C_CHUNKS_A16_8_26: Out = chunks_a16::<8, 26>();
+const C_CHUNKS_MUT_A16_8_26: Out = chunks_mut_a16::<8, 26>();
+const C_REINTERPRET_A16_8_0: Out = reinterpret_a16::<8, 0>();
+const C_REINTERPRET_A16_8_1: Out = reinterpret_a16::<8, 1>();
+const C_REINTERPRET_A16_8_7: Out = reinterpret_a16::<8, 7>();
+const C_REINTERPRET_A16_8_8: Out = reinterpret_a16::<8, 8>();
+const C_REINTERPRET_A16_8_9: Out = reinterpret_a16::<8, 9>();
+const C_REINTERPRET_A16_8_16: Out = reinterpret_a16::<8, 16>();
+const C_REINTERPRET_A16_8_26: Out = reinterpret_a16::<8, 26>();
+const C_BYVALUE_A16_8: Out = byvalue_a16::<8>();
+const C_NATIVE_CHUNKS_A16_8_0: Out = native_chunks_a16::<8, 0>();
+const C_NATIVE_CHUNKS_A16_8_1: Out = native_chunks_a16::<8, 1>();
+const C_NATIVE_CHUNKS_A16_8_2: Out = native_chunks_a16::<8, 2>();
+const C_NATIVE_CHUNKS_A16_8_3: Out = native_chunks_a16::<8, 3>();
+const C_CHUNKS_A16_16_0: Out = chunks_a16::<16, 0>();
+const C_CHUNKS_MUT_A16_16_0: Out = chunks_mut_a16::<16, 0>();
+const C_CHUNKS_A16_16_1: Out = chunks_a16::<16, 1>();
+const C_CHUNKS_MUT_A16_16_1: Out = chunks_mut_a16::<16, 1>();
+const C_CHUNKS_A16_16_2: Out = chunks_a16::<16, 2>();
+const C_CHUNKS_MUT_A16_16_2: Out = chunks_mut_a16::<16, 2>();
+const C_CHUNKS_A16_16_3: Out = chunks_a16::<16, 3>();
+const C_CHUNKS_MUT_A16_16_3: Out = chunks_mut_a16::<16, 3>();
+const C_CHUNKS_A16_16_4: Out = chunks_a16::<16, 4>();
+const C_CHUNKS_MUT_A16_16_4: Out = chunks_mut_a16::<16, 4>();
+const C_CHUNKS_A16_16_5: Out = chunks_a16::<16, 5>();
+const C_CHUNKS_MUT_A16_16_5: Out = chunks_mut_a16::<16, 5>();
+const C_CHUNKS_A16_16_6: Out = chunks_a16::<16, 6>();
+const C_CHUNKS_MUT_A16_16_6: Out = chunks_mut_a16::<16, 6>();
+const C_CHUNKS_A16_16_7: Out = chunks_a16::<16, 7>();
+const C_CHUNKS_MUT_A16_16_7: Out = chunks_mut_a16::<16, 7>();
+const C_CHUNKS_A16_16_8: Out = chunks_a16::<16, 8>();
+const C_CHUNKS_MUT_A16_16_8: Out = chunks_mut_a16::<16, 8>();
+const C_CHUNKS_A16_16_9: Out = chunks_a16::<16, 9>();
+const C_CHUNKS_MUT_A16_16_9: Out = chunks_mut_a16::<16, 9>();
+const C_CHUNKS_A16_16_10: Out = chunks_a16::<16, 10>();
+const C_CHUNKS_MUT_A16_16_10: Out = chunks_mut_a16::<16, 10>();
+const C_CHUNKS_A16_16_11: Out = chunks_a16::<16, 11>();
+const C_CHUNKS_MUT_A16_16_11: Out = chunks_mut_a16::<16, 11>();
+const C_CHUNKS_A16_16_12: Out = chunks_a16::<16, 12>();
+const C_CHUNKS_MUT_A16_16_12: Out = chunks_mut_a16::<16, 12>();
+const C_CHUNKS_A16_16_13: Out = chunks_a16::<16, 13>();
+const C_CHUNKS_MUT_A16_16_13: Out = chunks_mut_a16::<16, 13>();
+const C_CHUNKS_A16_16_14: Out = chunks_a16::<16, 14>();
+const C_CHUNKS_MUT_A16_16_14: Out = chunks_mut_a16::<16, 14>();
+const C_CHUNKS_A16_16_15: Out = chunks_a16::<16, 15>();
+const C_CHUNKS_MUT_A16_16_15: Out = chunks_mut_a16::<16, 15>();
+const C_CHUNKS_A16_16_16: Out = chunks_a16::<16, 16>();
+const C_CHUNKS_MUT_A16_16_16: Out = chunks_mut_a16::<16, 16>();
+const C_CHUNKS_A16_16_17: Out = chunks_a16::<16, 17>();
+const C_CHUNKS_MUT_A16_16_17: Out = chunks_mut_a16::<16, 17>();
+const C_CHUNKS_A16_16_18: Out = chunks_a16::<16, 18>();
+const C_CHUNKS_MUT_A16_16_18: Out = chunks_mut_a16::<16, 18>();
+const C_CHUNKS_A16_16_19: Out = chunks_a16::<16, 19>();
+const C_CHUNKS_MUT_A16_16_19: Out = chunks_mut_a16::<16, 19>();
+const C_CHUNKS_A16_16_20: Out = chunks_a16::<16, 20>();
+const C_CHUNKS_MUT_A16_16_20: Out = chunks_mut_a16::<16, 20>();
+const C_CHUNKS_A16_16_21: Out = chunks_a16::<16, 21>();
+const C_CHUNKS_MUT_A16_16_21: Out = chunks_mut_a16::<16, 21>();
+const C_CHUNKS_A16_16_22: Out = chunks_a16::<16, 22>();
+const C_CHUNKS_MUT_A16_16_22: Out = chunks_mut_a16::<16, 22>();
+const C_CHUNKS_A16_16_23: Out = chunks_a16::<16, 23>();
+const C_CHUNKS_MUT_A16_16_23: Out = chunks_mut_a16::<16, 23>();
+const C_CHUNKS_A16_16_24: Out = chunks_a16::<16, 24>();
+const C_CHUNKS_MUT_A16_16_24: Out = chunks_mut_a16::<16, 24>();
+const C_CHUNKS_A16_16_25: Out = chunks_a16::<16, 25>();
+const C_CHUNKS_MUT_A16_16_25: Out = chunks_mut_a16::<16, 25>();
+const C_CHUNKS_A16_16_26: Out = chunks_a16::<16, 26>();
+const C_CHUNKS_MUT_A16_16_26: Out = chunks_mut_a16::<16, 26>();
+const C_CHUNKS_A16_16_27: Out = chunks_a16::<16, 27>();
+const C_CHUNKS_MUT_A16_16_27: Out = chunks_mut_a16::<16, 27>();
+const C_CHUNKS_A16_16_28: Out = chunks_a16::<16, 28>();
+const C_CHUNKS_MUT_A16_16_28: Out = chunks_mut_a16::<16, 28>();
+const C_CHUNKS_A16_16_29: Out = chunks_a16::<16, 29>();
+const C_CHUNKS_MUT_A16_16_29: Out = chunks_mut_a16::<16, 29>();
+const C_CHUNKS_A16_16_30: Out = chunks_a16::<16, 30>();
+const C_CHUNKS_MUT_A16_16_30: Out = chunks_mut_a16::<16, 30>();
+const C_CHUNKS_A16_16_31: Out = chunks_a16::<16, 31>();
+const C_CHUNKS_MUT_A16_16_31: Out = chunks_mut_a16::<16, 31>();
+const C_CHUNKS_A16_16_32: Out = chunks_a16::<16, 32>();
+const C_CHUNKS_MUT_A16_16_32: Out = chunks_mut_a16::<16, 32>();
+const C_CHUNKS_A16_16_33: Out = chunks_a16::<16, 33>();
+const C_CHUNKS_MUT_A16_16_33: Out = chunks_mut_a16::<16, 33>();
+const C_CHUNKS_A16_16_34: Out = chunks_a16::<16, 34>();
+const C_CHUNKS_MUT_A16_16_34: Out = chunks_mut_a16::<16, 34>();
+const C_CHUNKS_A16_16_35: Out = chunks_a16::<16, 35>();
+const C_CHUNKS_MUT_A16_16_35: Out = chunks_mut_a16::<16, 35>();
+const C_CHUNKS_A16_16_36: Out = chunks_a16::<16, 36>();
+const C_CHUNKS_MUT_A16_16_36: Out = chunks_mut_a16::<16, 36>();
+const C_CHUNKS_A16_16_37: Out = chunks_a16::<16, 37>();
+const C_CHUNKS_MUT_A16_16_37: Out = chunks_mut_a16::<16, 37>();
+const C_CHUNKS_A16_16_38: Out = chunks_a16::<16, 38>();
+const C_CHUNKS_MUT_A16_16_38: Out = chunks_mut_a16::<16, 38>();
+const C_CHUNKS_A16_16_39: Out = chunks_a16::<16, 39>();
+const C_CHUNKS_MUT_A16_16_39: Out = chunks_mut_a16::<16, 39>();
+const C_CHUNKS_A16_16_40: Out = chunks_a16::<16, 40>();
+const C_CHUNKS_MUT_A16_16_40: Out = chunks_mut_a16::<16, 40>();
+const C_CHUNKS_A16_16_41: Out = chunks_a16::<16, 41>();
+const C_CHUNKS_MUT_A16_16_41: Out = chunks_mut_a16::<16, 41>();
+const C_CHUNKS_A16_16_42: Out = chunks_a16::<16, 42>();
+const C_CHUNKS_MUT_A16_16_42: Out = chunks_mut_a16::<16, 42>();
+const C_CHUNKS_A16_16_43: Out = chunks_a16::<16, 43>();
+const C_CHUNKS_MUT_A16_16_43: Out = chunks_mut_a16::<16, 43>();
+const C_CHUNKS_A16_16_44: Out = chunks_a16::<16, 44>();
+const C_CHUNKS_MUT_A16_16_44: Out = chunks_mut_a16::<16, 44>();
+const C_CHUNKS_A16_16_45: Out = chunks_a16::<16, 45>();
+const C_CHUNKS_MUT_A16_16_45: Out = chunks_mut_a16::<16, 45>();
+const C_CHUNKS_A16_16_46: Out = chunks_a16::<16, 46>();
+const C_CHUNKS_MUT_A16_16_46: Out = chunks_mut_a16::<16, 46>();
+const C_CHUNKS_A16_16_47: Out = chunks_a16::<16, 47>();
+const C_CHUNKS_MUT_A16_16_47: Out = chunks_mut_a16::<16, 47>();
+const C_CHUNKS_A16_16_48: Out = chunks_a16::<16, 48>();
+const C_CHUNKS_MUT_A16_16_48: Out = chunks_mut_a16::<16, 48>();
+const C_CHUNKS_A16_16_49: Out = chunks_a16::<16, 49>();
+const C_CHUNKS_MUT_A16_16_49: Out = chunks_mut_a16::<16, 49>();
+const C_CHUNKS_A16_16_50: Out = chunks_a16::<16, 50>();
+const C_CHUNKS_MUT_A16_16_50: Out = chunks_mut_a16::<16, 50>();
+const C_REINTERPRET_A16_16_0: Out = reinterpret_a16::<16, 0>();
+const C_REINTERPRET_A16_16_1: Out = reinterpret_a16::<16, 1>();
+const C_REINTERPRET_A16_16_15: Out = reinterpret_a16::<16, 15>();
+const C_REINTERPRET_A16_16_16: Out = reinterpret_a16::<16, 16>();
+const C_REINTERPRET_A16_16_17: Out = reinterpret_a16::<16, 17>();
+const C_REINTERPRET_A16_16_32: Out = reinterpret_a16::<16, 32>();
+const C_REINTERPRET_A16_16_50: Out = reinterpret_a16::<16, 50>();
+const C_BYVALUE_A16_16: Out = byvalue_a16::<16>();
+const C_NATIVE_CHUNKS_A16_16_0: Out = native_chunks_a16::<16, 0>();
+const C_NATIVE_CHUNKS_A16_16_1: Out = native_chunks_a16::<16, 1>();
+const C_NATIVE_CHUNKS_A16_16_2: Out = native_chunks_a16::<16, 2>();
+const C_NATIVE_CHUNKS_A16_16_3: Out = native_chunks_a16::<16, 3>();
+const C_CHUNKS_A16_17_0: Out = chunks_a16::<17, 0>();
+const C_CHUNKS_MUT_A16_17_0: Out = chunks_mut_a16::<17, 0>();
+const C_CHUNKS_A16_17_1: Out = chunks_a16::<17, 1>();
+const C_CHUNKS_MUT_A16_17_1: Out = chunks_mut_a16::<17, 1>();
+const C_CHUNKS_A16_17_2: Out = chunks_a16::<17, 2>();
+const C_CHUNKS_MUT_A16_17_2: Out = chunks_mut_a16::<17, 2>();
+const C_CHUNKS_A16_17_3: Out = chunks_a16::<17, 3>();
+const C_CHUNKS_MUT_A16_17_3: Out = chunks_mut_a16::<17, 3>();
+const C_CHUNKS_A16_17_4: Out = chunks_a16::<17, 4>();
+const C_CHUNKS_MUT_A16_17_4: Out = chunks_mut_a16::<17, 4>();
+const C_CHUNKS_A16_17_5: Out = chunks_a16::<17, 5>();
+const C_CHUNKS_MUT_A16_17_5: Out = chunks_mut_a16::<17, 5>();
+const C_CHUNKS_A16_17_6: Out = chunks_a16::<17, 6>();
+const C_CHUNKS_MUT_A16_17_6: Out = chunks_mut_a16::<17, 6>();
+const C_CHUNKS_A16_17_7: Out = chunks_a16::<17, 7>();
+const C_CHUNKS_MUT_A16_17_7: Out = chunks_mut_a16::<17, 7>();
+const C_CHUNKS_A16_17_8: Out = chunks_a16::<17, 8>();
+const C_CHUNKS_MUT_A16_17_8: Out = chunks_mut_a16::<17, 8>();
+const C_CHUNKS_A16_17_9: Out = chunks_a16::<17, 9>();
+const C_CHUNKS_MUT_A16_17_9: Out = chunks_mut_a16::<17, 9>();
+const C_CHUNKS_A16_17_10: Out = chunks_a16::<17, 10>();
+const C_CHUNKS_MUT_A16_17_10: Out = chunks_mut_a16::<17, 10>();
+const C_CHUNKS_A16_17_11: Out = chunks_a16::<17, 11>();
+const C_CHUNKS_MUT_A16_17_11: Out = chunks_mut_a16::<17, 11>();
+const C_CHUNKS_A16_17_12: Out = chunks_a16::<17, 12>();
+const C_CHUNKS_MUT_A16_17_12: Out = chunks_mut_a16::<17, 12>();
+const C_CHUNKS_A16_17_13: Out = chunks_a16::<17, 13>();
+const C_CHUNKS_MUT_A16_17_13: Out = chunks_mut_a16::<17, 13>();
+const C_CHUNKS_A16_17_14: Out = chunks_a16::<17, 14>();
+const C_CHUNKS_MUT_A16_17_14: Out = chunks_mut_a16::<17, 14>();
+const C_CHUNKS_A16_17_15: Out = chunks_a16::<17, 15>();
+const C_CHUNKS_MUT_A16_17_15: Out = chunks_mut_a16::<17, 15>();
+const C_CHUNKS_A16_17_16: Out = chunks_a16::<17, 16>();
+const C_CHUNKS_MUT_A16_17_16: Out = chunks_mut_a16::<17, 16>();
+const C_CHUNKS_A16_17_17: Out = chunks_a16::<17, 17>();
+const C_CHUNKS_MUT_A16_17_17: Out = chunks_mut_a16::<17, 17>();
+const C_CHUNKS_A16_17_18: Out = chunks_a16::<17, 18>();
+const C_CHUNKS_MUT_A16_17_18: Out = chunks_mut_a16::<17, 18>();
+const C_CHUNKS_A16_17_19: Out = chunks_a16::<17, 19>();
+const C_CHUNKS_MUT_A16_17_19: Out = chunks_mut_a16::<17, 19>();
+const C_CHUNKS_A16_17_20: Out = chunks_a16::<17, 20>();
+const C_CHUNKS_MUT_A16_17_20: Out = chunks_mut_a16::<17, 20>();
+const C_CHUNKS_A16_17_21: Out = chunks_a16::<17, 21>();
+const C_CHUNKS_MUT_A16_17_21: Out = chunks_mut_a16::<17, 21>();
+const C_CHUNKS_A16_17_22: Out = chunks_a16::<17, 22>();
+const C_CHUNKS_MUT_A16_17_22: Out = chunks_mut_a16::<17, 22>();
+const C_CHUNKS_A16_17_23: Out = chunks_a16::<17, 23>();
+const C_CHUNKS_MUT_A16_17_23: Out = chunks_mut_a16::<17, 23>();
+const C_CHUNKS_A16_17_24: Out = chunks_a16::<17, 24>();
+const C_CHUNKS_MUT_A16_17_24: Out = chunks_mut_a16::<17, 24>();
+const C_CHUNKS_A16_17_25: Out = chunks_a16::<17, 25>();
+const C_CHUNKS_MUT_A16_17_25: Out = chunks_mut_a16::<17, 25>();
+const C_CHUNKS_A16_17_26: Out = chunks_a16::<17, 26>();
+const C_CHUNKS_MUT_A16_17_26: Out = chunks_mut_a16::<17, 26>();
+const C_CHUNKS_A16_17_27: Out = chunks_a16::<17, 27>();
+const C_CHUNKS_MUT_A16_17_27: Out = chunks_mut_a16::<17, 27>();
+const C_CHUNKS_A16_17_28: Out = chunks_a16::<17, 28>();
+const C_CHUNKS_MUT_A16_17_28: Out = chunks_mut_a16::<17, 28>();
+const C_CHUNKS_A16_17_29: Out = chunks_a16::<17, 29>();
+const C_CHUNKS_MUT_A16_17_29: Out = chunks_mut_a16::<17, 29>();
+const C_CHUNKS_A16_17_30: Out = chunks_a16::<17, 30>();
+const C_CHUNKS_MUT_A16_17_30: Out = chunks_mut_a16::<17, 30>();
+const C_CHUNKS_A16_17_31: Out = chunks_a16::<17, 31>();
+const C_CHUNKS_MUT_A16_17_31: Out = chunks_mut_a16::<17, 31>();
+const C_CHUNKS_A16_17_32: Out = chunks_a16::<17, 32>();
+const C_CHUNKS_MUT_A16_17_32: Out = chunks_mut_a16::<17, 32>();
+const C_CHUNKS_A16_17_33: Out = chunks_a16::<17, 33>();
+const C_CHUNKS_MUT_A16_17_33: Out = chunks_mut_a16::<17, 33>();
+const C_CHUNKS_A16_17_34: Out = chunks_a16::<17, 34>();
+const C_CHUNKS_MUT_A16_17_34: Out = chunks_mut_a16::<17, 34>();
+const C_CHUNKS_A16_17_35: Out = chunks_a16::<17, 35>();
+const C_CHUNKS_MUT_A16_17_35: Out = chunks_mut_a16::<17, 35>();
+const C_CHUNKS_A16_17_36: Out = chunks_a16::<17, 36>();
+const C_CHUNKS_MUT_A16_17_36: Out = chunks_mut_a16::<17, 36>();
+const C_CHUNKS_A16_17_37: Out = chunks_a16::<17, 37>();
+const C_CHUNKS_MUT_A16_17_37: Out = chunks_mut_a16::<17, 37>();
+const C_CHUNKS_A16_17_38: Out = chunks_a16::<17, 38>();
+const C_CHUNKS_MUT_A16_17_38: Out = chunks_mut_a16::<17, 38>();
+const C_CHUNKS_A16_17_39: Out = chunks_a16::<17, 39>();
+const C_CHUNKS_MUT_A16_17_39: Out = chunks_mut_a16::<17, 39>();
+const C_CHUNKS_A16_17_40: Out = chunks_a16::<17, 40>();
+const C_CHUNKS_MUT_A16_17_40: Out = chunks_mut_a16::<17, 40>();
+const C_CHUNKS_A16_17_41: Out = chunks_a16::<17, 41>();
+const C_CHUNKS_MUT_A16_17_41: Out = chunks_mut_a16::<17, 41>();
+const C_CHUNKS_A16_17_42: Out = chunks_a16::<17, 42>();
+const C_CHUNKS_MUT_A16_17_42: Out = chunks_mut_a16::<17, 42>();
+const C_CHUNKS_A16_17_43: Out = chunks_a16::<17, 43>();
+const C_CHUNKS_MUT_A16_17_43: Out = chunks_mut_a16::<17, 43>();
+const C_CHUNKS_A16_17_44: Out = chunks_a16::<17, 44>();
+const C_CHUNKS_MUT_A16_17_44: Out = chunks_mut_a16::<17, 44>();
+const C_CHUNKS_A16_17_45: Out = chunks_a16::<17, 45>();
+const C_CHUNKS_MUT_A16_17_45: Out = chunks_mut_a16::<17, 45>();
+const C_CHUNKS_A16_17_46: Out = chunks_a16::<17, 46>();
+const C_CHUNKS_MUT_A16_17_46: Out = chunks_mut_a16::<17, 46>();
+const C_CHUNKS_A16_17_47: Out = chunks_a16::<17, 47>();
+const C_CHUNKS_MUT_A16_17_47: Out = chunks_mut_a16::<17, 47>();
+const C_CHUNKS_A16_17_48: Out = chunks_a16::<17, 48>();
+const C_CHUNKS_MUT_A16_17_48: Out = chunks_mut_a16::<17, 48>();
+const C_CHUNKS_A16_17_49: Out = chunks_a16::<17, 49>();
+const C_CHUNKS_MUT_A16_17_49: Out = chunks_mut_a16::<17, 49>();
+const C_CHUNKS_A16_17_50: Out = chunks_a16::<17, 50>();
+const C_CHUNKS_MUT_A16_17_50: Out = chunks_mut_a16::<17, 50>();
+const C_CHUNKS_A16_17_51: Out = chunks_a16::<17, 51>();
+const C_CHUNKS_MUT_A16_17_51: Out = chunks_mut_a16::<17, 51>();
+const C_CHUNKS_A16_17_52: Out = chunks_a16::<17, 52>();
+const C_CHUNKS_MUT_A16_17_52: Out = chunks_mut_a16::<17, 52>();
+const C_CHUNKS_A16_17_53: Out = chunks_a16::<17, 53>();
+const C_CHUNKS_MUT_A16_17_53: Out = chunks_mut_a16::<17, 53>();
+const C_REINTERPRET_A16_17_0: Out = reinterpret_a16::<17, 0>();
+const C_REINTERPRET_A16_17_1: Out = reinterpret_a16::<17, 1>();
+const C_REINTERPRET_A16_17_16: Out = reinterpret_a16::<17, 16>();
+const C_REINTERPRET_A16_17_17: Out = reinterpret_a16::<17, 17>();
+const C_REINTERPRET_A16_17_18: Out = reinterpret_a16::<17, 18>();
+const C_REINTERPRET_A16_17_34: Out = reinterpret_a16::<17, 34>();
+const C_REINTERPRET_A16_17_53: Out = reinterpret_a16::<17, 53>();
+const C_BYVALUE_A16_17: Out = byvalue_a16::<17>();
+const C_NATIVE_CHUNKS_A16_17_0: Out = native_chunks_a16::<17, 0>();
+const C_NATIVE_CHUNKS_A16_17_1: Out = native_chunks_a16::<17, 1>();
+const C_NATIVE_CHUNKS_A16_17_2: Out = native_chunks_a16::<17, 2>();
+const C_NATIVE_CHUNKS_A16_17_3: Out = native_chunks_a16::<17, 3>();
+const C_CHUNKS_A16_33_0: Out = chunks_a16::<33, 0>();
+const C_CHUNKS_MUT_A16_33_0: Out = chunks_mut_a16::<33, 0>();
+const C_CHUNKS_A16_33_1: Out = chunks_a16::<33, 1>();
+const C_CHUNKS_MUT_A16_33_1: Out = chunks_mut_a16::<33, 1>();
+const C_CHUNKS_A16_33_32: Out = chunks_a16::<33, 32>();
+const C_CHUNKS_MUT_A16_33_32: Out = chunks_mut_a16::<33, 32>();
+const C_CHUNKS_A16_33_33: Out = chunks_a16::<33, 33>();
+const C_CHUNKS_MUT_A16_33_33: Out = chunks_mut_a16::<33, 33>();
+const C_CHUNKS_A16_33_34: Out = chunks_a16::<33, 34>();
+const C_CHUNKS_MUT_A16_33_34: Out = chunks_mut_a16::<33, 34>();
+const C_CHUNKS_A16_33_65: Out = chunks_a16::<33, 65>();
+const C_CHUNKS_MUT_A16_33_65: Out = chunks_mut_a16::<33, 65>();
+const C_CHUNKS_A16_33_66: Out = chunks_a16::<33, 66>();
+const C_CHUNKS_MUT_A16_33_66: Out = chunks_mut_a16::<33, 66>();
+const C_CHUNKS_A16_33_67: Out = chunks_a16::<33, 67>();
+const C_CHUNKS_MUT_A16_33_67: Out = chunks_mut_a16::<33, 67>();
+const C_CHUNKS_A16_33_98: Out = chunks_a16::<33, 98>();
+const C_CHUNKS_MUT_A16_33_98: Out = chunks_mut_a16::<33, 98>();
+const C_CHUNKS_A16_33_99: Out = chunks_a16::<33, 99>();
+const C_CHUNKS_MUT_A16_33_99: Out = chunks_mut_a16::<33, 99>();
+const C_CHUNKS_A16_33_100: Out = chunks_a16::<33, 100>();
+const C_CHUNKS_MUT_A16_33_100: Out = chunks_mut_a16::<33, 100>();
+const C_CHUNKS_A16_33_101: Out = chunks_a16::<33, 101>();
+const C_CHUNKS_MUT_A16_33_101: Out = chunks_mut_a16::<33, 101>();
+const C_REINTERPRET_A16_33_0: Out = reinterpret_a16::<33, 0>();
+const C_REINTERPRET_A16_33_1: Out = reinterpret_a16::<33, 1>();
+const C_REINTERPRET_A16_33_32: Out = reinterpret_a16::<33, 32>();
+const C_REINTERPRET_A16_33_33: Out = reinterpret_a16::<33, 33>();
+const C_REINTERPRET_A16_33_34: Out = reinterpret_a16::<33, 34>();
+const C_REINTERPRET_A16_33_66: Out = reinterpret_a16::<33, 66>();
+const C_REINTERPRET_A16_33_101: Out = reinterpret_a16::<33, 101>();
+const C_BYVALUE_A16_33: Out = byvalue_a16::<33>();
+const C_NATIVE_CHUNKS_A16_33_0: Out = native_chunks_a16::<33, 0>();
+const C_NATIVE_CHUNKS_A16_33_1: Out = native_chunks_a16::<33, 1>();
+const C_NATIVE_CHUNKS_A16_33_2: Out = native_chunks_a16::<33, 2>();
+const C_NATIVE_CHUNKS_A16_33_3: Out = native_chunks_a16::<33, 3>();
+const C_CHUNKS_A16_64_0: Out = chunks_a16::<64, 0>();
+const C_CHUNKS_MUT_A16_64_0: Out = chunks_mut_a16::<64, 0>();
+const C_CHUNKS_A16_64_1: Out = chunks_a16::<64, 1>();
+const C_CHUNKS_MUT_A16_64_1: Out = chunks_mut_a16::<64, 1>();
+const C_CHUNKS_A16_64_63: Out = chunks_a16::<64, 63>();
+const C_CHUNKS_MUT_A16_64_63: Out = chunks_mut_a16::<64, 63>();
+const C_CHUNKS_A16_64_64: Out = chunks_a16::<64, 64>();
+const C_CHUNKS_MUT_A16_64_64: Out = chunks_mut_a16::<64, 64>();
+const C_CHUNKS_A16_64_65: Out = chunks_a16::<64, 65>();
+const C_CHUNKS_MUT_A16_64_65: Out = chunks_mut_a16::<64, 65>();
+const C_CHUNKS_A16_64_127: Out = chunks_a16::<64, 127>();
+const C_CHUNKS_MUT_A16_64_127: Out = chunks_mut_a16::<64, 127>();
+const C_CHUNKS_A16_64_128: Out = chunks_a16::<64, 128>();
+const C_CHUNKS_MUT_A16_64_128: Out = chunks_mut_a16::<64, 128>();
+const C_CHUNKS_A16_64_129: Out = chunks_a16::<64, 129>();
+const C_CHUNKS_MUT_A16_64_129: Out = chunks_mut_a16::<64, 129>();
+const C_CHUNKS_A16_64_191: Out = chunks_a16::<64, 191>();
+const C_CHUNKS_MUT_A16_64_191: Out = chunks_mut_a16::<64, 191>();
+const C_CHUNKS_A16_64_192: Out = chunks_a16::<64, 192>();
+const C_CHUNKS_MUT_A16_64_192: Out = chunks_mut_a16::<64, 192>();
+const C_CHUNKS_A16_64_193: Out = chunks_a16::<64, 193>();
+const C_CHUNKS_MUT_A16_64_193: Out = chunks_mut_a16::<64, 193>();
+const C_CHUNKS_A16_64_194: Out = chunks_a16::<64, 194>();
+const C_CHUNKS_MUT_A16_64_194: Out = chunks_mut_a16::<64, 194>();
+const C_REINTERPRET_A16_64_0: Out = reinterpret_a16::<64, 0>();
+const C_REINTERPRET_A16_64_1: Out = reinterpret_a16::<64, 1>();
+const C_REINTERPRET_A16_64_63: Out = reinterpret_a16::<64, 63>();
+const C_REINTERPRET_A16_64_64: Out = reinterpret_a16::<64, 64>();
+const C_REINTERPRET_A16_64_65: Out = reinterpret_a16::<64, 65>();
+const C_REINTERPRET_A16_64_128: Out = reinterpret_a16::<64, 128>();
+const C_REINTERPRET_A16_64_194: Out = reinterpret_a16::<64, 194>();
+const C_BYVALUE_A16_64: Out = byvalue_a16::<64>();
+const C_NATIVE_CHUNKS_A16_64_0: Out = native_chunks_a16::<64, 0>();
+const C_NATIVE_CHUNKS_A16_64_1: Out = native_chunks_a16::<64, 1>();
+const C_NATIVE_CHUNKS_A16_64_2: Out = native_chunks_a16::<64, 2>();
+const C_NATIVE_CHUNKS_A16_64_3: Out = native_chunks_a16::<64, 3>();
+const C_CHUNKS_A16_100_0: Out = chunks_a16::<100, 0>();
+const C_CHUNKS_MUT_A16_100_0: Out = chunks_mut_a16::<100, 0>();
+const C_CHUNKS_A16_100_1: Out = chunks_a16::<100, 1>();
+const C_CHUNKS_MUT_A16_100_1: Out = chunks_mut_a16::<100, 1>();
+const C_CHUNKS_A16_100_99: Out = chunks_a16::<100, 99>();
+const C_CHUNKS_MUT_A16_100_99: Out = chunks_mut_a16::<100, 99>();
+const C_CHUNKS_A16_100_100: Out = chunks_a16::<100, 100>();
+const C_CHUNKS_MUT_A16_100_100: Out = chunks_mut_a16::<100, 100>();
+const C_CHUNKS_A16_100_101: Out = chunks_a16::<100, 101>();
+const C_CHUNKS_MUT_A16_100_101: Out = chunks_mut_a16::<100, 101>();
+const C_CHUNKS_A16_100_199: Out = chunks_a16::<100, 199>();
+const C_CHUNKS_MUT_A16_100_199: Out = chunks_mut_a16::<100, 199>();
+const C_CHUNKS_A16_100_200: Out = chunks_a16::<100, 200>();
+const C_CHUNKS_MUT_A16_100_200: Out = chunks_mut_a16::<100, 200>();
+const C_CHUNKS_A16_100_201: Out = chunks_a16::<100, 201>();
+const C_CHUNKS_MUT_A16_100_201: Out = chunks_mut_a16::<100, 201>();
+const C_CHUNKS_A16_100_302: Out = chunks_a16::<100, 302>();
+const C_CHUNKS_MUT_A16_100_302: Out = chunks_mut_a16::<100, 302>();
+const C_REINTERPRET_A16_100_0: Out = reinterpret_a16::<100, 0>();
+const C_REINTERPRET_A16_100_1: Out = reinterpret_a16::<100, 1>();
+const C_REINTERPRET_A16_100_99: Out = reinterpret_a16::<100, 99>();
+const C_REINTERPRET_A16_100_100: Out = reinterpret_a16::<100, 100>();
+const C_REINTERPRET_A16_100_101: Out = reinterpret_a16::<100, 101>();
+const C_REINTERPRET_A16_100_200: Out = reinterpret_a16::<100, 200>();
+const C_REINTERPRET_A16_100_302: Out = reinterpret_a16::<100, 302>();
+const C_BYVALUE_A16_100: Out = byvalue_a16::<100>();
+const C_NATIVE_CHUNKS_A16_100_0: Out = native_chunks_a16::<100, 0>();
+const C_NATIVE_CHUNKS_A16_100_1: Out = native_chunks_a16::<100, 1>();
+const C_NATIVE_CHUNKS_A16_100_2: Out = native_chunks_a16::<100, 2>();
+const C_NATIVE_CHUNKS_A16_100_3: Out = native_chunks_a16::<100, 3>();
+const C_CHUNKS_A16_1024_0: Out = chunks_a16::<1024, 0>();
+const C_CHUNKS_MUT_A16_1024_0: Out = chunks_mut_a16::<1024, 0>();
+const C_CHUNKS_A16_1024_1: Out = chunks_a16::<1024, 1>();
+const C_CHUNKS_MUT_A16_1024_1: Out = chunks_mut_a16::<1024, 1>();
+const C_CHUNKS_A16_1024_1023: Out = chunks_a16::<1024, 1023>();
+const C_CHUNKS_MUT_A16_1024_1023: Out = chunks_mut_a16::<1024, 1023>();
+const C_CHUNKS_A16_1024_1024: Out = chunks_a16::<1024, 1024>();
+const C_CHUNKS_MUT_A16_1024_1024: Out = chunks_mut_a16::<1024, 1024>();
+const C_CHUNKS_A16_1024_1025: Out = chunks_a16::<1024, 1025>();
+const C_CHUNKS_MUT_A16_1024_1025: Out = chunks_mut_a16::<1024, 1025>();
+const C_CHUNKS_A16_1024_2047: Out = chunks_a16::<1024, 2047>();
+const C_CHUNKS_MUT_A16_1024_2047: Out = chunks_mut_a16::<1024, 2047>();
+const C_CHUNKS_A16_1024_2048: Out = chunks_a16::<1024, 2048>();
+const C_CHUNKS_MUT_A16_1024_2048: Out = chunks_mut_a16::<1024, 2048>();
+const C_CHUNKS_A16_1024_2049: Out = chunks_a16::<1024, 2049>();
+const C_CHUNKS_MUT_A16_1024_2049: Out = chunks_mut_a16::<1024, 2049>();
+const C_CHUNKS_A16_1024_3074: Out = chunks_a16::<1024, 3074>();
+const C_CHUNKS_MUT_A16_1024_3074: Out = chunks_mut_a16::<1024, 3074>();
+const C_REINTERPRET_A16_1024_0: Out = reinterpret_a16::<1024, 0>();
+const C_REINTERPRET_A16_1024_1: Out = reinterpret_a16::<1024, 1>();
+const C_REINTERPRET_A16_1024_1023: Out = reinterpret_a16::<1024, 1023>();
+const C_REINTERPRET_A16_1024_1024: Out = reinterpret_a16::<1024, 1024>();
+const C_REINTERPRET_A16_1024_1025: Out = reinterpret_a16::<1024, 1025>();
+const C_REINTERPRET_A16_1024_2048: Out = reinterpret_a16::<1024, 2048>();
+const C_REINTERPRET_A16_1024_3074: Out = reinterpret_a16::<1024, 3074>();
+const C_BYVALUE_A16_1024: Out = byvalue_a16::<1024>();
+const C_NATIVE_CHUNKS_A16_1024_0: Out = native_chunks_a16::<1024, 0>();
+const C_NATIVE_CHUNKS_A16_1024_1: Out = native_chunks_a16::<1024, 1>();
+const C_NATIVE_CHUNKS_A16_1024_2: Out = native_chunks_a16::<1024, 2>();
+const C_NATIVE_CHUNKS_A16_1024_3: Out = native_chunks_a16::<1024, 3>();
+const C_CHUNKS_B3_0_0: Out = chunks_b3::<0, 0>();
+const C_CHUNKS_MUT_B3_0_0: Out = chunks_mut_b3::<0, 0>();
+const C_REINTERPRET_B3_0_0: Out = reinterpret_b3::<0, 0>();
+const C_REINTERPRET_B3_0_1: Out = reinterpret_b3::<0, 1>();
+const C_REINTERPRET_B3_0_2: Out = reinterpret_b3::<0, 2>();
+const C_BYVALUE_B3_0: Out = byvalue_b3::<0>();
+const C_NATIVE_CHUNKS_B3_0_0: Out = native_chunks_b3::<0, 0>();
+const C_NATIVE_CHUNKS_B3_0_1: Out = native_chunks_b3::<0, 1>();
+const C_NATIVE_CHUNKS_B3_0_2: Out = native_chunks_b3::<0, 2>();
+const C_NATIVE_CHUNKS_B3_0_3: Out = native_chunks_b3::<0, 3>();
+const C_CHUNKS_B3_1_0: Out = chunks_b3::<1, 0>();
+const C_CHUNKS_MUT_B3_1_0: Out = chunks_mut_b3::<1, 0>();
+const C_CHUNKS_B3_1_1: Out = chunks_b3::<1, 1>();
+const C_CHUNKS_MUT_B3_1_1: Out = chunks_mut_b3::<1, 1>();
+const C_CHUNKS_B3_1_2: Out = chunks_b3::<1, 2>();
+const C_CHUNKS_MUT_B3_1_2: Out = chunks_mut_b3::<1, 2>();
+const C_CHUNKS_B3_1_3: Out = chunks_b3::<1, 3>();
+const C_CHUNKS_MUT_B3_1_3: Out = chunks_mut_b3::<1, 3>();
+const C_CHUNKS_B3_1_4: Out = chunks_b3::<1, 4>();
+const C_CHUNKS_MUT_B3_1_4: Out = chunks_mut_b3::<1, 4>();
+const C_CHUNKS_B3_1_5: Out = chunks_b3::<1, 5>();
+const C_CHUNKS_MUT_B3_1_5: Out = chunks_mut_b3::<1, 5>();
+const C_REINTERPRET_B3_1_0: Out = reinterpret_b3::<1, 0>();
+const C_REINTERPRET_B3_1_1: Out = reinterpret_b3::<1, 1>();
+const C_REINTERPRET_B3_1_2: Out = reinterpret_b3::<1, 2>();
+const C_REINTERPRET_B3_1_5: Out = reinterpret_b3::<1, 5>();
+const C_BYVALUE_B3_1: Out = byvalue_b3::<1>();
+const C_NATIVE_CHUNKS_B3_1_0: Out = native_chunks_b3::<1, 0>();
+const C_NATIVE_CHUNKS_B3_1_1: Out = native_chunks_b3::<1, 1>();
+const C_NATIVE_CHUNKS_B3_1_2: Out = native_chunks_b3::<1, 2>();
+const C_NATIVE_CHUNKS_B3_1_3: Out = native_chunks_b3::<1, 3>();
+const C_CHUNKS_B3_2_0: Out = chunks_b3::<2, 0>();
+const C_CHUNKS_MUT_B3_2_0: Out = chunks_mut_b3::<2, 0>();
+const C_CHUNKS_B3_2_1: Out = chunks_b3::<2, 1>();
+const C_CHUNKS_MUT_B3_2_1: Out = chunks_mut_b3::<2, 1>();
+const C_CHUNKS_B3_2_2: Out = chunks_b3::<2, 2>();
+const C_CHUNKS_MUT_B3_2_2: Out = chunks_mut_b3::<2, 2>();
+const C_CHUNKS_B3_2_3: Out = chunks_b3::<2, 3>();
+const C_CHUNKS_MUT_B3_2_3: Out = chunks_mut_b3::<2, 3>();
+const C_CHUNKS_B3_2_4: Out = chunks_b3::<2, 4>();
+const C_CHUNKS_MUT_B3_2_4: Out = chunks_mut_b3::<2, 4>();
+const C_CHUNKS_B3_2_5: Out = chunks_b3::<2, 5>();
+const C_CHUNKS_MUT_B3_2_5: Out = chunks_mut_b3::<2, 5>();
+const C_CHUNKS_B3_2_6: Out = chunks_b3::<2, 6>();
+const C_CHUNKS_MUT_B3_2_6: Out = chunks_mut_b3::<2, 6>();
+const C_CHUNKS_B3_2_7: Out = chunks_b3::<2, 7>();
+const C_CHUNKS_MUT_B3_2_7: Out = chunks_mut_b3::<2, 7>();
+const C_CHUNKS_B3_2_8: Out = chunks_b3::<2, 8>();
+const C_CHUNKS_MUT_B3_2_8: Out = chunks_mut_b3::<2, 8>();
+const C_REINTERPRET_B3_2_0: Out = reinterpret_b3::<2, 0>();
+const C_REINTERPRET_B3_2_1: Out = reinterpret_b3::<2, 1>();
+const C_REINTERPRET_B3_2_2: Out = reinterpret_b3::<2, 2>();
+const C_REINTERPRET_B3_2_3: Out = reinterpret_b3::<2, 3>();
+const C_REINTERPRET_B3_2_4: Out = reinterpret_b3::<2, 4>();
+const C_REINTERPRET_B3_2_8: Out = reinterpret_b3::<2, 8>();
+const C_BYVALUE_B3_2: Out = byvalue_b3::<2>();
+const C_NATIVE_CHUNKS_B3_2_0: Out = native_chunks_b3::<2, 0>();
+const C_NATIVE_CHUNKS_B3_2_1: Out = native_chunks_b3::<2, 1>();
+const C_NATIVE_CHUNKS_B3_2_2: Out = native_chunks_b3::<2, 2>();
+const C_NATIVE_CHUNKS_B3_2_3: Out = native_chunks_b3::<2, 3>();
+const C_CHUNKS_B3_3_0: Out = chunks_b3::<3, 0>();
+const C_CHUNKS_MUT_B3_3_0: Out = chunks_mut_b3::<3, 0>();
+const C_CHUNKS_B3_3_1: Out = chunks_b3::<3, 1>();
+const C_CHUNKS_MUT_B3_3_1: Out = chunks_mut_b3::<3, 1>();
+const C_CHUNKS_B3_3_2: Out = chunks_b3::<3, 2>();
+const C_CHUNKS_MUT_B3_3_2: Out = chunks_mut_b3::<3, 2>();
+const C_CHUNKS_B3_3_3: Out = chunks_b3::<3, 3>();
+const C_CHUNKS_MUT_B3_3_3: Out = chunks_mut_b3::<3, 3>();
+const C_CHUNKS_B3_3_4: Out = chunks_b3::<3, 4>();
+const C_CHUNKS_MUT_B3_3_4: Out = chunks_mut_b3::<3, 4>();
+const C_CHUNKS_B3_3_5: Out = chunks_b3::<3, 5>();
+const C_CHUNKS_MUT_B3_3_5: Out = chunks_mut_b3::<3, 5>();
+const C_CHUNKS_B3_3_6: Out = chunks_b3::<3, 6>();
+const C_CHUNKS_MUT_B3_3_6: Out = chunks_mut_b3::<3, 6>();
+const C_CHUNKS_B3_3_7: Out = chunks_b3::<3, 7>();
+const C_CHUNKS_MUT_B3_3_7: Out = chunks_mut_b3::<3, 7>();
+const C_CHUNKS_B3_3_8: Out = chunks_b3::<3, 8>();
+const C_CHUNKS_MUT_B3_3_8: Out = chunks_mut_b3::<3, 8>();
+const C_CHUNKS_B3_3_9: Out = chunks_b3::<3, 9>();
+const C_CHUNKS_MUT_B3_3_9: Out = chunks_mut_b3::<3, 9>();
+const C_CHUNKS_B3_3_10: Out = chunks_b3::<3, 10>();
+const C_CHUNKS_MUT_B3_3_10: Out = chunks_mut_b3::<3, 10>();
+const C_CHUNKS_B3_3_11: Out = chunks_b3::<3, 11>();
+const C_CHUNKS_MUT_B3_3_11: Out = chunks_mut_b3::<3, 11>();
+const C_REINTERPRET_B3_3_0: Out = reinterpret_b3::<3, 0>();
+const C_REINTERPRET_B3_3_1: Out = reinterpret_b3::<3, 1>();
+const C_REINTERPRET_B3_3_2: Out = reinterpret_b3::<3, 2>();
+const C_REINTERPRET_B3_3_3: Out = reinterpret_b3::<3, 3>();
+const C_REINTERPRET_B3_3_4: Out = reinterpret_b3::<3, 4>();
+const C_REINTERPRET_B3_3_6: Out = reinterpret_b3::<3, 6>();
+const C_REINTERPRET_B3_3_11: Out = reinterpret_b3::<3, 11>();
+const C_BYVALUE_B3_3: Out = byvalue_b3::<3>();
+const C_NATIVE_CHUNKS_B3_3_0: Out = native_chunks_b3::<3, 0>();
+const C_NATIVE_CHUNKS_B3_3_1: Out = native_chunks_b3::<3, 1>();
+const C_NATIVE_CHUNKS_B3_3_2: Out = native_chunks_b3::<3, 2>();
+const C_NATIVE_CHUNKS_B3_3_3: Out = native_chunks_b3::<3, 3>();
+const C_CHUNKS_B3_7_0: Out = chunks_b3::<7, 0>();
+const C_CHUNKS_MUT_B3_7_0: Out = chunks_mut_b3::<7, 0>();
+const C_CHUNKS_B3_7_1: Out = chunks_b3::<7, 1>();
+const C_CHUNKS_MUT_B3_7_1: Out = chunks_mut_b3::<7, 1>();
+const C_CHUNKS_B3_7_2: Out = chunks_b3::<7, 2>();
+const C_CHUNKS_MUT_B3_7_2: Out = chunks_mut_b3::<7, 2>();
+const C_CHUNKS_B3_7_3: Out = chunks_b3::<7, 3>();
+const C_CHUNKS_MUT_B3_7_3: Out = chunks_mut_b3::<7, 3>();
+const C_CHUNKS_B3_7_4: Out = chunks_b3::<7, 4>();
+const C_CHUNKS_MUT_B3_7_4: Out = chunks_mut_b3::<7, 4>();
+const C_CHUNKS_B3_7_5: Out = chunks_b3::<7, 5>();
+const C_CHUNKS_MUT_B3_7_5: Out = chunks_mut_b3::<7, 5>();
+const C_CHUNKS_B3_7_6: Out = chunks_b3::<7, 6>();
+const C_CHUNKS_MUT_B3_7_6: Out = chunks_mut_b3::<7, 6>();
+const C_CHUNKS_B3_7_7: Out = chunks_b3::<7, 7>();
+const C_CHUNKS_MUT_B3_7_7: Out = chunks_mut_b3::<7, 7>();
+const C_CHUNKS_B3_7_8: Out = chunks_b3::<7, 8>();
+const C_CHUNKS_MUT_B3_7_8: Out = chunks_mut_b3::<7, 8>();
+const C_CHUNKS_B3_7_9: Out = chunks_b3::<7, 9>();
+const C_CHUNKS_MUT_B3_7_9: Out = chunks_mut_b3::<7, 9>();
+const C_CHUNKS_B3_7_10: Out = chunks_b3::<7, 10>();
+const C_CHUNKS_MUT_B3_7_10: Out = chunks_mut_b3::<7, 10>();
+const C_CHUNKS_B3_7_11: Out = chunks_b3::<7, 11>();
+const C_CHUNKS_MUT_B3_7_11: Out = chunks_mut_b3::<7, 11>();
+const C_CHUNKS_B3_7_12: Out = chunks_b3::<7, 12>();
+const C_CHUNKS_MUT_B3_7_12: Out = chunks_mut_b3::<7, 12>();
+const C_CHUNKS_B3_7_13: Out = chunks_b3::<7, 13>();
+const C_CHUNKS_MUT_B3_7_13: Out = chunks_mut_b3::<7, 13>();
+const C_CHUNKS_B3_7_14: Out = chunks_b3::<7, 14>();
+const C_CHUNKS_MUT_B3_7_14: Out = chunks_mut_b3::<7, 14>();
+const C_CHUNKS_B3_7_15: Out = chunks_b3::<7, 15>();
+const C_CHUNKS_MUT_B3_7_15: Out = chunks_mut_b3::<7, 15>();
+const C_CHUNKS_B3_7_16: Out = chunks_b3::<7, 16>();
+const C_CHUNKS_MUT_B3_7_16: Out = chunks_mut_b3::<7, 16>();
+const C_CHUNKS_B3_7_17: Out = chunks_b3::<7, 17>();
+const C_CHUNKS_MUT_B3_7_17: Out = chunks_mut_b3::<7, 17>();
+const C_CHUNKS_B3_7_18: Out = chunks_b3::<7, 18>();
+const C_CHUNKS_MUT_B3_7_18: Out = chunks_mut_b3::<7, 18>();
+const C_CHUNKS_B3_7_19: Out = chunks_b3::<7, 19>();
+const C_CHUNKS_MUT_B3_7_19: Out = chunks_mut_b3::<7, 19>();
+const C_CHUNKS_B3_7_20: Out = chunks_b3::<7, 20>();
+const C_CHUNKS_MUT_B3_7_20: Out = chunks_mut_b3::<7, 20>();
+const C_CHUNKS_B3_7_21: Out = chunks_b3::<7, 21>();
+const C_CHUNKS_MUT_B3_7_21: Out = chunks_mut_b3::<7, 21>();
+const C_CHUNKS_B3_7_22: Out = chunks_b3::<7, 22>();
+const C_CHUNKS_MUT_B3_7_22: Out = chunks_mut_b3::<7, 22>();
+const C_CHUNKS_B3_7_23: Out = chunks_b3::<7, 23>();
+const C_CHUNKS_MUT_B3_7_23: Out = chunks_mut_b3::<7, 23>();
+const C_REINTERPRET_B3_7_0: Out = reinterpret_b3::<7, 0>();
+const C_REINTERPRET_B3_7_1: Out = reinterpret_b3::<7, 1>();
+const C_REINTERPRET_B3_7_6: Out = reinterpret_b3::<7, 6>();
+const C_REINTERPRET_B3_7_7: Out = reinterpret_b3::<7, 7>();
+const C_REINTERPRET_B3_7_8: Out = reinterpret_b3::<7, 8>();
+const C_REINTERPRET_B3_7_14: Out = reinterpret_b3::<7, 14>();
+const C_REINTERPRET_B3_7_23: Out = reinterpret_b3::<7, 23>();
+const C_BYVALUE_B3_7: Out = byvalue_b3::<7>();
+const C_NATIVE_CHUNKS_B3_7_0: Out = native_chunks_b3::<7, 0>();
+const C_NATIVE_CHUNKS_B3_7_1: Out = native_chunks_b3::<7, 1>();
+const C_NATIVE_CHUNKS_B3_7_2: Out = native_chunks_b3::<7, 2>();
+const C_NATIVE_CHUNKS_B3_7_3: Out = native_chunks_b3::<7, 3>();
+const C_CHUNKS_B3_8_0: Out = chunks_b3::<8, 0>();
+const C_CHUNKS_MUT_B3_8_0: Out = chunks_mut_b3::<8, 0>();
+const C_CHUNKS_B3_8_1: Out = chunks_b3::<8, 1>();
+const C_CHUNKS_MUT_B3_8_1: Out = chunks_mut_b3::<8, 1>();
+const C_CHUNKS_B3_8_2: Out = chunks_b3::<8, 2>();
+const C_CHUNKS_MUT_B3_8_2: Out = chunks_mut_b3::<8, 2>();
+const C_CHUNKS_B3_8_3: Out = chunks_b3::<8, 3>();
+const C_CHUNKS_MUT_B3_8_3: Out = chunks_mut_b3::<8, 3>();
+const C_CHUNKS_B3_8_4: Out = chunks_b3::<8, 4>();
+const C_CHUNKS_MUT_B3_8_4: Out = chunks_mut_b3::<8, 4>();
+const C_CHUNKS_B3_8_5: Out = chunks_b3::<8, 5>();
+const C_CHUNKS_MUT_B3_8_5: Out = chunks_mut_b3::<8, 5>();
+const C_CHUNKS_B3_8_6: Out = chunks_b3::<8, 6>();
+const C_CHUNKS_MUT_B3_8_6: Out = chunks_mut_b3::<8, 6>();
+const C_CHUNKS_B3_8_7: Out = chunks_b3::<8, 7>();
+const C_CHUNKS_MUT_B3_8_7: Out = chunks_mut_b3::<8, 7>();
+const C_CHUNKS_B3_8_8: Out = chunks_b3::<8, 8>();
+const C_CHUNKS_MUT_B3_8_8: Out = chunks_mut_b3::<8, 8>();
+const C_CHUNKS_B3_8_9: Out = chunks_b3::<8, 9>();
+const C_CHUNKS_MUT_B3_8_9: Out = chunks_mut_b3::<8, 9>();
+const C_CHUNKS_B3_8_10: Out = chunks_b3::<8, 10>();
+const C_CHUNKS_MUT_B3_8_10: Out = chunks_mut_b3::<8, 10>();
+const C_CHUNKS_B3_8_11: Out = chunks_b3::<8, 11>();
+const C_CHUNKS_MUT_B3_8_11: Out = chunks_mut_b3::<8, 11>();
+const C_CHUNKS_B3_8_12: Out = chunks_b3::<8, 12>();
+const C_CHUNKS_MUT_B3_8_12: Out = chunks_mut_b3::<8, 12>();
+const C_CHUNKS_B3_8_13: Out = chunks_b3::<8, 13>();
+const C_CHUNKS_MUT_B3_8_13: Out = chunks_mut_b3::<8, 13>();
+const C_CHUNKS_B3_8_14: Out = chunks_b3::<8, 14>();
+const C_CHUNKS_MUT_B3_8_14: Out = chunks_mut_b3::<8, 14>();
+const C_CHUNKS_B3_8_15: Out = chunks_b3::<8, 15>();
+const C_CHUNKS_MUT_B3_8_15: Out = chunks_mut_b3::<8, 15>();
+const C_CHUNKS_B3_8_16: Out = chunks_b3::<8, 16>();
+const C_CHUNKS_MUT_B3_8_16: Out = chunks_mut_b3::<8, 16>();
+const C_CHUNKS_B3_8_17: Out = chunks_b3::<8, 17>();
+const C_CHUNKS_MUT_B3_8_17: Out = chunks_mut_b3::<8, 17>();
+const C_CHUNKS_B3_8_18: Out = chunks_b3::<8, 18>();
+const C_CHUNKS_MUT_B3_8_18: Out = chunks_mut_b3::<8, 18>();
+const C_CHUNKS_B3_8_19: Out = chunks_b3::<8, 19>();
+const C_CHUNKS_MUT_B3_8_19: Out = chunks_mut_b3::<8, 19>();
+const C_CHUNKS_B3_8_20: Out = chunks_b3::<8, 20>();
+const C_CHUNKS_MUT_B3_8_20: Out = chunks_mut_b3::<8, 20>();
+const C_CHUNKS_B3_8_21: Out = chunks_b3::<8, 21>();
+const C_CHUNKS_MUT_B3_8_21: Out = chunks_mut_b3::<8, 21>();
+const C_CHUNKS_B3_8_22: Out = chunks_b3::<8, 22>();
+const C_CHUNKS_MUT_B3_8_22: Out = chunks_mut_b3::<8, 22>();
+const C_CHUNKS_B3_8_23: Out = chunks_b3::<8, 23>();
+const C_CHUNKS_MUT_B3_8_23: Out = chunks_mut_b3::<8, 23>();
+const C_CHUNKS_B3_8_24: Out = chunks_b3::<8, 24>();
+const C_CHUNKS_MUT_B3_8_24: Out = chunks_mut_b3::<8, 24>();
+const C_CHUNKS_B3_8_25: Out = chunks_b3::<8, 25>();
+const C_CHUNKS_MUT_B3_8_25: Out = chunks_mut_b3::<8, 25>();
+const C_CHUNKS_B3_8_26: Out = chunks_b3::<8, 26>();
+const C_CHUNKS_MUT_B3_8_26: Out = chunks_mut_b3::<8, 26>();
+const C_REINTERPRET_B3_8_0: Out = reinterpret_b3::<8, 0>();
+const C_REINTERPRET_B3_8_1: Out = reinterpret_b3::<8, 1>();
+const C_REINTERPRET_B3_8_7: Out = reinterpret_b3::<8, 7>();
+const C_REINTERPRET_B3_8_8: Out = reinterpret_b3::<8, 8>();
+const C_REINTERPRET_B3_8_9: Out = reinterpret_b3::<8, 9>();
+const C_REINTERPRET_B3_8_16: Out = reinterpret_b3::<8, 16>();
+const C_REINTERPRET_B3_8_26: Out = reinterpret_b3::<8, 26>();
+const C_BYVALUE_B3_8: Out = byvalue_b3::<8>();
+const C_NATIVE_CHUNKS_B3_8_0: Out = native_chunks_b3::<8, 0>();
+const C_NATIVE_CHUNKS_B3_8_1: Out = native_chunks_b3::<8, 1>();
+const C_NATIVE_CHUNKS_B3_8_2: Out = native_chunks_b3::<8, 2>();
+const C_NATIVE_CHUNKS_B3_8_3: Out = native_chunks_b3::<8, 3>();
+const C_CHUNKS_B3_16_0: Out = chunks_b3::<16, 0>();
+const C_CHUNKS_MUT_B3_16_0: Out = chunks_mut_b3::<16, 0>();
+const C_CHUNKS_B3_16_1: Out = chunks_b3::<16, 1>();
+const C_CHUNKS_MUT_B3_16_1: Out = chunks_mut_b3::<16, 1>();
+const C_CHUNKS_B3_16_2: Out = chunks_b3::<16, 2>();
+const C_CHUNKS_MUT_B3_16_2: Out = chunks_mut_b3::<16, 2>();
+const C_CHUNKS_B3_16_3: Out = chunks_b3::<16, 3>();
+const C_CHUNKS_MUT_B3_16_3: Out = chunks_mut_b3::<16, 3>();
+const C_CHUNKS_B3_16_4: Out = chunks_b3::<16, 4>();
+const C_CHUNKS_MUT_B3_16_4: Out = chunks_mut_b3::<16, 4>();
+const C_CHUNKS_B3_16_5: Out = chunks_b3::<16, 5>();
+const C_CHUNKS_MUT_B3_16_5: Out = chunks_mut_b3::<16, 5>();
+const C_CHUNKS_B3_16_6: Out = chunks_b3::<16, 6>();
+const C_CHUNKS_MUT_B3_16_6: Out = chunks_mut_b3::<16, 6>();
+const C_CHUNKS_B3_16_7: Out = chunks_b3::<16, 7>();
+const C_CHUNKS_MUT_B3_16_7: Out = chunks_mut_b3::<16, 7>();
+const C_CHUNKS_B3_16_8: Out = chunks_b3::<16, 8>();
+const C_CHUNKS_MUT_B3_16_8: Out = chunks_mut_b3::<16, 8>();
+const C_CHUNKS_B3_16_9: Out = chunks_b3::<16, 9>();
+const C_CHUNKS_MUT_B3_16_9: Out = chunks_mut_b3::<16, 9>();
+const C_CHUNKS_B3_16_10: Out = chunks_b3::<16, 10>();
+const C_CHUNKS_MUT_B3_16_10: Out = chunks_mut_b3::<16, 10>();
+const C_CHUNKS_B3_16_11: Out = chunks_b3::<16, 11>();
+const C_CHUNKS_MUT_B3_16_11: Out = chunks_mut_b3::<16, 11>();
+const C_CHUNKS_B3_16_12: Out = chunks_b3::<16, 12>();
+const C_CHUNKS_MUT_B3_16_12: Out = chunks_mut_b3::<16, 12>();
+const C_CHUNKS_B3_16_13: Out = chunks_b3::<16, 13>();
+const C_CHUNKS_MUT_B3_16_13: Out = chunks_mut_b3::<16, 13>();
+const C_CHUNKS_B3_16_14: Out = chunks_b3::<16, 14>();
+const C_CHUNKS_MUT_B3_16_14: Out = chunks_mut_b3::<16, 14>();
+const C_CHUNKS_B3_16_15: Out = chunks_b3::<16, 15>();
+const C_CHUNKS_MUT_B3_16_15: Out = chunks_mut_b3::<16, 15>();
+const C_CHUNKS_B3_16_16: Out = chunks_b3::<16, 16>();
+const C_CHUNKS_MUT_B3_16_16: Out = chunks_mut_b3::<16, 16>();
+const C_CHUNKS_B3_16_17: Out = chunks_b3::<16, 17>();
+const C_CHUNKS_MUT_B3_16_17: Out = chunks_mut_b3::<16, 17>();
+const C_CHUNKS_B3_16_18: Out = chunks_b3::<16, 18>();
+const C_CHUNKS_MUT_B3_16_18: Out = chunks_mut_b3::<16, 18>();
+const C_CHUNKS_B3_16_19: Out = chunks_b3::<16, 19>();
+const C_CHUNKS_MUT_B3_16_19: Out = chunks_mut_b3::<16, 19>();
+const C_CHUNKS_B3_16_20: Out = chunks_b3::<16, 20>();
+const C_CHUNKS_MUT_B3_16_20: Out = chunks_mut_b3::<16, 20>();
+const C_CHUNKS_B3_16_21: Out = chunks_b3::<16, 21>();
+const C_CHUNKS_MUT_B3_16_21: Out = chunks_mut_b3::<16, 21>();
+const C_CHUNKS_B3_16_22: Out = chunks_b3::<16, 22>();
+const C_CHUNKS_MUT_B3_16_22: Out = chunks_mut_b3::<16, 22>();
+const C_CHUNKS_B3_16_23: Out = chunks_b3::<16, 23>();
+const C_CHUNKS_MUT_B3_16_23: Out = chunks_mut_b3::<16, 23>();
+const C_CHUNKS_B3_16_24: Out = chunks_b3::<16, 24>();
+const C_CHUNKS_MUT_B3_16_24: Out = chunks_mut_b3::<16, 24>();
+const C_CHUNKS_B3_16_25: Out = chunks_b3::<16, 25>();
+const C_CHUNKS_MUT_B3_16_25: Out = chunks_mut_b3::<16, 25>();
+const C_CHUNKS_B3_16_26: Out = chunks_b3::<16, 26>();
+const C_CHUNKS_MUT_B3_16_26: Out = chunks_mut_b3::<16, 26>();
+const C_CHUNKS_B3_16_27: Out = chunks_b3::<16, 27>();
+const C_CHUNKS_MUT_B3_16_27: Out = chunks_mut_b3::<16, 27>();
+const C_CHUNKS_B3_16_28: Out = chunks_b3::<16, 28>();
+const C_CHUNKS_MUT_B3_16_28: Out = chunks_mut_b3::<16, 28>();
+const C_CHUNKS_B3_16_29: Out = chunks_b3::<16, 29>();
+const C_CHUNKS_MUT_B3_16_29: Out = chunks_mut_b3::<16, 29>();
+const C_CHUNKS_B3_16_30: Out = chunks_b3::<16, 30>();
+const C_CHUNKS_MUT_B3_16_30: Out = chunks_mut_b3::<16, 30>();
+const C_CHUNKS_B3_16_31: Out = chunks_b3::<16, 31>();
+const C_CHUNKS_MUT_B3_16_31: Out = chunks_mut_b3::<16, 31>();
+const C_CHUNKS_B3_16_32: Out = chunks_b3::<16, 32>();
+const C_CHUNKS_MUT_B3_16_32: Out = chunks_mut_b3::<16, 32>();
+const C_CHUNKS_B3_16_33: Out = chunks_b3::<16, 33>();
+const C_CHUNKS_MUT_B3_16_33: Out = chunks_mut_b3::<16, 33>();
+const C_CHUNKS_B3_16_34: Out = chunks_b3::<16, 34>();
+const C_CHUNKS_MUT_B3_16_34: Out = chunks_mut_b3::<16, 34>();
+const C_CHUNKS_B3_16_35: Out = chunks_b3::<16, 35>();
+const C_CHUNKS_MUT_B3_16_35: Out = chunks_mut_b3::<16, 35>();
+const C_CHUNKS_B3_16_36: Out = chunks_b3::<16, 36>();
+const C_CHUNKS_MUT_B3_16_36: Out = chunks_mut_b3::<16, 36>();
+const C_CHUNKS_B3_16_37: Out = chunks_b3::<16, 37>();
+const C_CHUNKS_MUT_B3_16_37: Out = chunks_mut_b3::<16, 37>();
+const C_CHUNKS_B3_16_38: Out = chunks_b3::<16, 38>();
+const C_CHUNKS_MUT_B3_16_38: Out = chunks_mut_b3::<16, 38>();
+const C_CHUNKS_B3_16_39: Out = chunks_b3::<16, 39>();
+const C_CHUNKS_MUT_B3_16_39: Out = chunks_mut_b3::<16, 39>();
+const C_CHUNKS_B3_16_40: Out = chunks_b3::<16, 40>();
+const C_CHUNKS_MUT_B3_16_40: Out = chunks_mut_b3::<16, 40>();
+const C_CHUNKS_B3_16_41: Out = chunks_b3::<16, 41>();
+const C_CHUNKS_MUT_B3_16_41: Out = chunks_mut_b3::<16, 41>();
+const C_CHUNKS_B3_16_42: Out = chunks_b3::<16, 42>();
+const C_CHUNKS_MUT_B3_16_42: Out = chunks_mut_b3::<16, 42>();
+const C_CHUNKS_B3_16_43: Out = chunks_b3::<16, 43>();
+const C_CHUNKS_MUT_B3_16_43: Out = chunks_mut_b3::<16, 43>();
+const C_CHUNKS_B3_16_44: Out = chunks_b3::<16, 44>();
+const C_CHUNKS_MUT_B3_16_44: Out = chunks_mut_b3::<16, 44>();
+const C_CHUNKS_B3_16_45: Out = chunks_b3::<16, 45>();
+const C_CHUNKS_MUT_B3_16_45: Out = chunks_mut_b3::<16, 45>();
+const C_CHUNKS_B3_16_46: Out = chunks_b3::<16, 46>();
+const C_CHUNKS_MUT_B3_16_46: Out = chunks_mut_b3::<16, 46>();
+const C_CHUNKS_B3_16_47: Out = chunks_b3::<16, 47>();
+const C_CHUNKS_MUT_B3_16_47: Out = chunks_mut_b3::<16, 47>();
+const C_CHUNKS_B3_16_48: Out = chunks_b3::<16, 48>();
+const C_CHUNKS_MUT_B3_16_48: Out = chunks_mut_b3::<16, 48>();
+const C_CHUNKS_B3_16_49: Out = chunks_b3::<16, 49>();
+const C_CHUNKS_MUT_B3_16_49: Out = chunks_mut_b3::<16, 49>();
+const C_CHUNKS_B3_16_50: Out = chunks_b3::<16, 50>();
+const C_CHUNKS_MUT_B3_16_50: Out = chunks_mut_b3::<16, 50>();
+const C_REINTERPRET_B3_16_0: Out = reinterpret_b3::<16, 0>();
+const C_REINTERPRET_B3_16_1: Out = reinterpret_b3::<16, 1>();
+const C_REINTERPRET_B3_16_15: Out = reinterpret_b3::<16, 15>();
+const C_REINTERPRET_B3_16_16: Out = reinterpret_b3::<16, 16>();
+const C_REINTERPRET_B3_16_17: Out = reinterpret_b3::<16, 17>();
+const C_REINTERPRET_B3_16_32: Out = reinterpret_b3::<16, 32>();
+const C_REINTERPRET_B3_16_50: Out = reinterpret_b3::<16, 50>();
+const C_BYVALUE_B3_16: Out = byvalue_b3::<16>();
+const C_NATIVE_CHUNKS_B3_16_0: Out = native_chunks_b3::<16, 0>();
+const C_NATIVE_CHUNKS_B3_16_1: Out = native_chunks_b3::<16, 1>();
+const C_NATIVE_CHUNKS_B3_16_2: Out = native_chunks_b3::<16, 2>();
+const C_NATIVE_CHUNKS_B3_16_3: Out = native_chunks_b3::<16, 3>();
+const C_CHUNKS_B3_17_0: Out = chunks_b3::<17, 0>();
+const C_CHUNKS_MUT_B3_17_0: Out = chunks_mut_b3::<17, 0>();
+const C_CHUNKS_B3_17_1: Out = chunks_b3::<17, 1>();
+const C_CHUNKS_MUT_B3_17_1: Out = chunks_mut_b3::<17, 1>();
+const C_CHUNKS_B3_17_2: Out = chunks_b3::<17, 2>();
+const C_CHUNKS_MUT_B3_17_2: Out = chunks_mut_b3::<17, 2>();
+const C_CHUNKS_B3_17_3: Out = chunks_b3::<17, 3>();
+const C_CHUNKS_MUT_B3_17_3: Out = chunks_mut_b3::<17, 3>();
+const C_CHUNKS_B3_17_4: Out = chunks_b3::<17, 4>();
+const C_CHUNKS_MUT_B3_17_4: Out = chunks_mut_b3::<17, 4>();
+const C_CHUNKS_B3_17_5: Out = chunks_b3::<17, 5>();
+const C_CHUNKS_MUT_B3_17_5: Out = chunks_mut_b3::<17, 5>();
+const C_CHUNKS_B3_17_6: Out = chunks_b3::<17, 6>();
+const C_CHUNKS_MUT_B3_17_6: Out = chunks_mut_b3::<17, 6>();
+const C_CHUNKS_B3_17_7: Out = chunks_b3::<17, 7>();
+const C_CHUNKS_MUT_B3_17_7: Out = chunks_mut_b3::<17, 7>();
+const C_CHUNKS_B3_17_8: Out = chunks_b3::<17, 8>();
+const C_CHUNKS_MUT_B3_17_8: Out = chunks_mut_b3::<17, 8>();
+const C_CHUNKS_B3_17_9: Out = chunks_b3::<17, 9>();
+const C_CHUNKS_MUT_B3_17_9: Out = chunks_mut_b3::<17, 9>();
+const C_CHUNKS_B3_17_10: Out = chunks_b3::<17, 10>();
+const C_CHUNKS_MUT_B3_17_10: Out = chunks_mut_b3::<17, 10>();
+const C_CHUNKS_B3_17_11: Out = chunks_b3::<17, 11>();
+const C_CHUNKS_MUT_B3_17_11: Out = chunks_mut_b3::<17, 11>();
+const C_CHUNKS_B3_17_12: Out = chunks_b3::<17, 12>();
+const C_CHUNKS_MUT_B3_17_12: Out = chunks_mut_b3::<17, 12>();
+const C_CHUNKS_B3_17_13: Out = chunks_b3::<17, 13>();
+const C_CHUNKS_MUT_B3_17_13: Out = chunks_mut_b3::<17, 13>();
+const C_CHUNKS_B3_17_14: Out = chunks_b3::<17, 14>();
+const C_CHUNKS_MUT_B3_17_14: Out = chunks_mut_b3::<17, 14>();
+const C_CHUNKS_B3_17_15: Out = chunks_b3::<17, 15>();
+const C_CHUNKS_MUT_B3_17_15: Out = chunks_mut_b3::<17, 15>();
+const C_CHUNKS_B3_17_16: Out = chunks_b3::<17, 16>();
+const C_CHUNKS_MUT_B3_17_16: Out = chunks_mut_b3::<17, 16>();
+const C_CHUNKS_B3_17_17: Out = chunks_b3::<17, 17>();
+const C_CHUNKS_MUT_B3_17_17: Out = chunks_mut_b3::<17, 17>();
+const C_CHUNKS_B3_17_18: Out = chunks_b3::<17, 18>();
+const C_CHUNKS_MUT_B3_17_18: Out = chunks_mut_b3::<17, 18>();
+const C_CHUNKS_B3_17_19: Out = chunks_b3::<17, 19>();
+const C_CHUNKS_MUT_B3_17_19: Out = chunks_mut_b3::<17, 19>();
+const C_CHUNKS_B3_17_20: Out = chunks_b3::<17, 20>();
+const C_CHUNKS_MUT_B3_17_20: Out = chunks_mut_b3::<17, 20>();
+const C_CHUNKS_B3_17_21: Out = chunks_b3::<17, 21>();
+const C_CHUNKS_MUT_B3_17_21: Out = chunks_mut_b3::<17, 21>();
+const C_CHUNKS_B3_17_22: Out = chunks_b3::<17, 22>();
+const C_CHUNKS_MUT_B3_17_22: Out = chunks_mut_b3::<17, 22>();
+const C_CHUNKS_B3_17_23: Out = chunks_b3::<17, 23>();
+const C_CHUNKS_MUT_B3_17_23: Out = chunks_mut_b3::<17, 23>();
+const C_CHUNKS_B3_17_24: Out = chunks_b3::<17, 24>();
+const C_CHUNKS_MUT_B3_17_24: Out = chunks_mut_b3::<17, 24>();
+const C_CHUNKS_B3_17_25: Out = chunks_b3::<17, 25>();
+const C_CHUNKS_MUT_B3_17_25: Out = chunks_mut_b3::<17, 25>();
+const C_CHUNKS_B3_17_26: Out = chunks_b3::<17, 26>();
+const C_CHUNKS_MUT_B3_17_26: Out = chunks_mut_b3::<17, 26>();
+const C_CHUNKS_B3_17_27: Out = chunks_b3::<17, 27>();
+const C_CHUNKS_MUT_B3_17_27: Out = chunks_mut_b3::<17, 27>();
+const C_CHUNKS_B3_17_28: Out = chunks_b3::<17, 28>();
+const C_CHUNKS_MUT_B3_17_28: Out = chunks_mut_b3::<17, 28>();
+const C_CHUNKS_B3_17_29: Out = chunks_b3::<17, 29>();
+const C_CHUNKS_MUT_B3_17_29: Out = chunks_mut_b3::<17, 29>();
+const C_CHUNKS_B3_17_30: Out = chunks_b3::<17, 30>();
+const C_CHUNKS_MUT_B3_17_30: Out = chunks_mut_b3::<17, 30>();
+const C_CHUNKS_B3_17_31: Out = chunks_b3::<17, 31>();
+const C_CHUNKS_MUT_B3_17_31: Out = chunks_mut_b3::<17, 31>();
+const C_CHUNKS_B3_17_32: Out = chunks_b3::<17, 32>();
+const C_CHUNKS_MUT_B3_17_32: Out = chunks_mut_b3::<17, 32>();
+const C_CHUNKS_B3_17_33: Out = chunks_b3::<17, 33>();
+const C_CHUNKS_MUT_B3_17_33: Out = chunks_mut_b3::<17, 33>();
+const C_CHUNKS_B3_17_34: Out = chunks_b3::<17, 34>();
+const C_CHUNKS_MUT_B3_17_34: Out = chunks_mut_b3::<17, 34>();
+const C_CHUNKS_B3_17_35: Out = chunks_b3::<17, 35>();
+const C_CHUNKS_MUT_B3_17_35: Out = chunks_mut_b3::<17, 35>();
+const C_CHUNKS_B3_17_36: Out = chunks_b3::<17, 36>();
+const C_CHUNKS_MUT_B3_17_36: Out = chunks_mut_b3::<17, 36>();
+const C_CHUNKS_B3_17_37: Out = chunks_b3::<17, 37>();
+const C_CHUNKS_MUT_B3_17_37: Out = chunks_mut_b3::<17, 37>();
+const C_CHUNKS_B3_17_38: Out = chunks_b3::<17, 38>();
+const C_CHUNKS_MUT_B3_17_38: Out = chunks_mut_b3::<17, 38>();
+const C_CHUNKS_B3_17_39: Out = chunks_b3::<17, 39>();
+const C_CHUNKS_MUT_B3_17_39: Out = chunks_mut_b3::<17, 39>();
+const C_CHUNKS_B3_17_40: Out = chunks_b3::<17, 40>();
+const C_CHUNKS_MUT_B3_17_40: Out = chunks_mut_b3::<17, 40>();
+const C_CHUNKS_B3_17_41: Out = chunks_b3::<17, 41>();
+const C_CHUNKS_MUT_B3_17_41: Out = chunks_mut_b3::<17, 41>();
+const C_CHUNKS_B3_17_42: Out = chunks_b3::<17, 42>();
+const C_CHUNKS_MUT_B3_17_42: Out = chunks_mut_b3::<17, 42>();
+const C_CHUNKS_B3_17_43: Out = chunks_b3::<17, 43>();
+const C_CHUNKS_MUT_B3_17_43: Out = chunks_mut_b3::<17, 43>();
+const C_CHUNKS_B3_17_44: Out = chunks_b3::<17, 44>();
+const C_CHUNKS_MUT_B3_17_44: Out = chunks_mut_b3::<17, 44>();
+const C_CHUNKS_B3_17_45: Out = chunks_b3::<17, 45>();
+const C_CHUNKS_MUT_B3_17_45: Out = chunks_mut_b3::<17, 45>();
+const C_CHUNKS_B3_17_46: Out = chunks_b3::<17, 46>();
+const C_CHUNKS_MUT_B3_17_46: Out = chunks_mut_b3::<17, 46>();
+const C_CHUNKS_B3_17_47: Out = chunks_b3::<17, 47>();
+const C_CHUNKS_MUT_B3_17_47: Out = chunks_mut_b3::<17, 47>();
+const C_CHUNKS_B3_17_48: Out = chunks_b3::<17, 48>();
+const C_CHUNKS_MUT_B3_17_48: Out = chunks_mut_b3::<17, 48>();
+const C_CHUNKS_B3_17_49: Out = chunks_b3::<17, 49>();
+const C_CHUNKS_MUT_B3_17_49: Out = chunks_mut_b3::<17, 49>();
+const C_CHUNKS_B3_17_50: Out = chunks_b3::<17, 50>();
+const C_CHUNKS_MUT_B3_17_50: Out = chunks_mut_b3::<17, 50>();
+const C_CHUNKS_B3_17_51: Out = chunks_b3::<17, 51>();
+const C_CHUNKS_MUT_B3_17_51: Out = chunks_mut_b3::<17, 51>();
+const C_CHUNKS_B3_17_52: Out = chunks_b3::<17, 52>();
+const C_CHUNKS_MUT_B3_17_52: Out = chunks_mut_b3::<17, 52>();
+const C_CHUNKS_B3_17_53: Out = chunks_b3::<17, 53>();
+const C_CHUNKS_MUT_B3_17_53: Out = chunks_mut_b3::<17, 53>();
+const C_REINTERPRET_B3_17_0: Out = reinterpret_b3::<17, 0>();
+const C_REINTERPRET_B3_17_1: Out = reinterpret_b3::<17, 1>();
+const C_REINTERPRET_B3_17_16: Out = reinterpret_b3::<17, 16>();
+const C_REINTERPRET_B3_17_17: Out = reinterpret_b3::<17, 17>();
+const C_REINTERPRET_B3_17_18: Out = reinterpret_b3::<17, 18>();
+const C_REINTERPRET_B3_17_34: Out = reinterpret_b3::<17, 34>();
+const C_REINTERPRET_B3_17_53: Out = reinterpret_b3::<17, 53>();
+const C_BYVALUE_B3_17: Out = byvalue_b3::<17>();
+const C_NATIVE_CHUNKS_B3_17_0: Out = native_chunks_b3::<17, 0>();
+const C_NATIVE_CHUNKS_B3_17_1: Out = native_chunks_b3::<17, 1>();
+const C_NATIVE_CHUNKS_B3_17_2: Out = native_chunks_b3::<17, 2>();
+const C_NATIVE_CHUNKS_B3_17_3: Out = native_chunks_b3::<17, 3>();
+const C_CHUNKS_B3_33_0: Out = chunks_b3::<33, 0>();
+const C_CHUNKS_MUT_B3_33_0: Out = chunks_mut_b3::<33, 0>();
+const C_CHUNKS_B3_33_1: Out = chunks_b3::<33, 1>();
+const C_CHUNKS_MUT_B3_33_1: Out = chunks_mut_b3::<33, 1>();
+const C_CHUNKS_B3_33_32: Out = chunks_b3::<33, 32>();
+const C_CHUNKS_MUT_B3_33_32: Out = chunks_mut_b3::<33, 32>();
+const C_CHUNKS_B3_33_33: Out = chunks_b3::<33, 33>();
+const C_CHUNKS_MUT_B3_33_33: Out = chunks_mut_b3::<33, 33>();
+const C_CHUNKS_B3_33_34: Out = chunks_b3::<33, 34>();
+const C_CHUNKS_MUT_B3_33_34: Out = chunks_mut_b3::<33, 34>();
+const C_CHUNKS_B3_33_65: Out = chunks_b3::<33, 65>();
+const C_CHUNKS_MUT_B3_33_65: Out = chunks_mut_b3::<33, 65>();
+const C_CHUNKS_B3_33_66: Out = chunks_b3::<33, 66>();
+const C_CHUNKS_MUT_B3_33_66: Out = chunks_mut_b3::<33, 66>();
+const C_CHUNKS_B3_33_67: Out = chunks_b3::<33, 67>();
+const C_CHUNKS_MUT_B3_33_67: Out = chunks_mut_b3::<33, 67>();
+const C_CHUNKS_B3_33_98: Out = chunks_b3::<33, 98>();
+const C_CHUNKS_MUT_B3_33_98: Out = chunks_mut_b3::<33, 98>();
+const C_CHUNKS_B3_33_99: Out = chunks_b3::<33, 99>();
+const C_CHUNKS_MUT_B3_33_99: Out = chunks_mut_b3::<33, 99>();
+const C_CHUNKS_B3_33_100: Out = chunks_b3::<33, 100>();
+const C_CHUNKS_MUT_B3_33_100: Out = chunks_mut_b3::<33, 100>();
+const C_CHUNKS_B3_33_101: Out = chunks_b3::<33, 101>();
+const C_CHUNKS_MUT_B3_33_101: Out = chunks_mut_b3::<33, 101>();
+const C_REINTERPRET_B3_33_0: Out = reinterpret_b3::<33, 0>();
+const C_REINTERPRET_B3_33_1: Out = reinterpret_b3::<33, 1>();
+const C_REINTERPRET_B3_33_32: Out = reinterpret_b3::<33, 32>();
+const C_REINTERPRET_B3_33_33: Out = reinterpret_b3::<33, 33>();
+const C_REINTERPRET_B3_33_34: Out = reinterpret_b3::<33, 34>();
+const C_REINTERPRET_B3_33_66: Out = reinterpret_b3::<33, 66>();
+const C_REINTERPRET_B3_33_101: Out = reinterpret_b3::<33, 101>();
+const C_BYVALUE_B3_33: Out = byvalue_b3::<33>();
+const C_NATIVE_CHUNKS_B3_33_0: Out = native_chunks_b3::<33, 0>();
+const C_NATIVE_CHUNKS_B3_33_1: Out = native_chunks_b3::<33, 1>();
+const C_NATIVE_CHUNKS_B3_33_2: Out = native_chunks_b3::<33, 2>();
+const C_NATIVE_CHUNKS_B3_33_3: Out = native_chunks_b3::<33, 3>();
+const C_CHUNKS_B3_64_0: Out = chunks_b3::<64, 0>();
+const C_CHUNKS_MUT_B3_64_0: Out = chunks_mut_b3::<64, 0>();
+const C_CHUNKS_B3_64_1: Out = chunks_b3::<64, 1>();
+const C_CHUNKS_MUT_B3_64_1: Out = chunks_mut_b3::<64, 1>();
+const C_CHUNKS_B3_64_63: Out = chunks_b3::<64, 63>();
+const C_CHUNKS_MUT_B3_64_63: Out = chunks_mut_b3::<64, 63>();
+const C_CHUNKS_B3_64_64: Out = chunks_b3::<64, 64>();
+const C_CHUNKS_MUT_B3_64_64: Out = chunks_mut_b3::<64, 64>();
+const C_CHUNKS_B3_64_65: Out = chunks_b3::<64, 65>();
+const C_CHUNKS_MUT_B3_64_65: Out = chunks_mut_b3::<64, 65>();
+const C_CHUNKS_B3_64_127: Out = chunks_b3::<64, 127>();
+const C_CHUNKS_MUT_B3_64_127: Out = chunks_mut_b3::<64, 127>();
+const C_CHUNKS_B3_64_128: Out = chunks_b3::<64, 128>();
+const C_CHUNKS_MUT_B3_64_128: Out = chunks_mut_b3::<64, 128>();
+const C_CHUNKS_B3_64_129: Out = chunks_b3::<64, 129>();
+const C_CHUNKS_MUT_B3_64_129: Out = chunks_mut_b3::<64, 129>();
+const C_CHUNKS_B3_64_191: Out = chunks_b3::<64, 191>();
+const C_CHUNKS_MUT_B3_64_191: Out = chunks_mut_b3::<64, 191>();
+const C_CHUNKS_B3_64_192: Out = chunks_b3::<64, 192>();
+const C_CHUNKS_MUT_B3_64_192: Out = chunks_mut_b3::<64, 192>();
+const C_CHUNKS_B3_64_193: Out = chunks_b3::<64, 193>();
+const C_CHUNKS_MUT_B3_64_193: Out = chunks_mut_b3::<64, 193>();
+const C_CHUNKS_B3_64_194: Out = chunks_b3::<64, 194>();
+const C_CHUNKS_MUT_B3_64_194: Out = chunks_mut_b3::<64, 194>();
+const C_REINTERPRET_B3_64_0: Out = reinterpret_b3::<64, 0>();
+const C_REINTERPRET_B3_64_1: Out = reinterpret_b3::<64, 1>();
+const C_REINTERPRET_B3_64_63: Out = reinterpret_b3::<64, 63>();
+const C_REINTERPRET_B3_64_64: Out = reinterpret_b3::<64, 64>();
+const C_REINTERPRET_B3_64_65: Out = reinterpret_b3::<64, 65>();
+const C_REINTERPRET_B3_64_128: Out = reinterpret_b3::<64, 128>();
+const C_REINTERPRET_B3_64_194: Out = reinterpret_b3::<64, 194>();
+const C_BYVALUE_B3_64: Out = byvalue_b3::<64>();
+const C_NATIVE_CHUNKS_B3_64_0: Out = native_chunks_b3::<64, 0>();
+const C_NATIVE_CHUNKS_B3_64_1: Out = native_chunks_b3::<64, 1>();
+const C_NATIVE_CHUNKS_B3_64_2: Out = native_chunks_b3::<64, 2>();
+const C_NATIVE_CHUNKS_B3_64_3: Out = native_chunks_b3::<64, 3>();
+const C_CHUNKS_B3_100_0: Out = chunks_b3::<100, 0>();
+const C_CHUNKS_MUT_B3_100_0: Out = chunks_mut_b3::<100, 0>();
+const C_CHUNKS_B3_100_1: Out = chunks_b3::<100, 1>();
+const C_CHUNKS_MUT_B3_100_1: Out = chunks_mut_b3::<100, 1>();
+const C_CHUNKS_B3_100_99: Out = chunks_b3::<100, 99>();
+const C_CHUNKS_MUT_B3_100_99: Out = chunks_mut_b3::<100, 99>();
+const C_CHUNKS_B3_100_100: Out = chunks_b3::<100, 100>();
+const C_CHUNKS_MUT_B3_100_100: Out = chunks_mut_b3::<100, 100>();
+const C_CHUNKS_B3_100_101: Out = chunks_b3::<100, 101>();
+const C_CHUNKS_MUT_B3_100_101: Out = chunks_mut_b3::<100, 101>();
+const C_CHUNKS_B3_100_199: Out = chunks_b3::<100, 199>();
+const C_CHUNKS_MUT_B3_100_199: Out = chunks_mut_b3::<100, 199>();
+const C_CHUNKS_B3_100_200: Out = chunks_b3::<100, 200>();
+const C_CHUNKS_MUT_B3_100_200: Out = chunks_mut_b3::<100, 200>();
+const C_CHUNKS_B3_100_201: Out = chunks_b3::<100, 201>();
+const C_CHUNKS_MUT_B3_100_201: Out = chunks_mut_b3::<100, 201>();
+const C_CHUNKS_B3_100_302: Out = chunks_b3::<100, 302>();
+const C_CHUNKS_MUT_B3_100_302: Out = chunks_mut_b3::<100, 302>();
+const C_REINTERPRET_B3_100_0: Out = reinterpret_b3::<100, 0>();
+const C_REINTERPRET_B3_100_1: Out = reinterpret_b3::<100, 1>();
+const C_REINTERPRET_B3_100_99: Out = reinterpret_b3::<100, 99>();
+const C_REINTERPRET_B3_100_100: Out = reinterpret_b3::<100, 100>();
+const C_REINTERPRET_B3_100_101: Out = reinterpret_b3::<100, 101>();
+const C_REINTERPRET_B3_100_200: Out = reinterpret_b3::<100, 200>();
+const C_REINTERPRET_B3_100_302: Out = reinterpret_b3::<100, 302>();
+const C_BYVALUE_B3_100: Out = byvalue_b3::<100>();
+const C_NATIVE_CHUNKS_B3_100_0: Out = native_chunks_b3::<100, 0>();
+const C_NATIVE_CHUNKS_B3_100_1: Out = native_chunks_b3::<100, 1>();
+const C_NATIVE_CHUNKS_B3_100_2: Out = native_chunks_b3::<100, 2>();
+const C_NATIVE_CHUNKS_B3_100_3: Out = native_chunks_b3::<100, 3>();
+const C_CHUNKS_B3_1024_0: Out = chunks_b3::<1024, 0>();
+const C_CHUNKS_MUT_B3_1024_0: Out = chunks_mut_b3::<1024, 0>();
+const C_CHUNKS_B3_1024_1: Out = chunks_b3::<1024, 1>();
+const C_CHUNKS_MUT_B3_1024_1: Out = chunks_mut_b3::<1024, 1>();
+const C_CHUNKS_B3_1024_1023: Out = chunks_b3::<1024, 1023>();
+const C_CHUNKS_MUT_B3_1024_1023: Out = chunks_mut_b3::<1024, 1023>();
+const C_CHUNKS_B3_1024_1024: Out = chunks_b3::<1024, 1024>();
+const C_CHUNKS_MUT_B3_1024_1024: Out = chunks_mut_b3::<1024, 1024>();
+const C_CHUNKS_B3_1024_1025: Out = chunks_b3::<1024, 1025>();
+const C_CHUNKS_MUT_B3_1024_1025: Out = chunks_mut_b3::<1024, 1025>();
+const C_CHUNKS_B3_1024_2047: Out = chunks_b3::<1024, 2047>();
+const C_CHUNKS_MUT_B3_1024_2047: Out = chunks_mut_b3::<1024, 2047>();
+const C_CHUNKS_B3_1024_2048: Out = chunks_b3::<1024, 2048>();
+const C_CHUNKS_MUT_B3_1024_2048: Out = chunks_mut_b3::<1024, 2048>();
+const C_CHUNKS_B3_1024_2049: Out = chunks_b3::<1024, 2049>();
+const C_CHUNKS_MUT_B3_1024_2049: Out = chunks_mut_b3::<1024, 2049>();
+const C_CHUNKS_B3_1024_3074: Out = chunks_b3::<1024, 3074>();
+const C_CHUNKS_MUT_B3_1024_3074: Out = chunks_mut_b3::<1024, 3074>();
+const C_REINTERPRET_B3_1024_0: Out = reinterpret_b3::<1024, 0>();
+const C_REINTERPRET_B3_1024_1: Out = reinterpret_b3::<1024, 1>();
+const C_REINTERPRET_B3_1024_1023: Out = reinterpret_b3::<1024, 1023>();
+const C_REINTERPRET_B3_1024_1024: Out = reinterpret_b3::<1024, 1024>();
+const C_REINTERPRET_B3_1024_1025: Out = reinterpret_b3::<1024, 1025>();
+const C_REINTERPRET_B3_1024_2048: Out = reinterpret_b3::<1024, 2048>();
+const C_REINTERPRET_B3_1024_3074: Out = reinterpret_b3::<1024, 3074>();
+const C_BYVALUE_B3_1024: Out = byvalue_b3::<1024>();
+const C_NATIVE_CHUNKS_B3_1024_0: Out = native_chunks_b3::<1024, 0>();
+const C_NATIVE_CHUNKS_B3_1024_1: Out = native_chunks_b3::<1024, 1>();
+const C_NATIVE_CHUNKS_B3_1024_2: Out = native_chunks_b3::<1024, 2>();
+const C_NATIVE_CHUNKS_B3_1024_3: Out = native_chunks_b3::<1024, 3>();
+const C_CHUNKS_CH_0_0: Out = chunks_ch::<0, 0>();
+const C_CHUNKS_MUT_CH_0_0: Out = chunks_mut_ch::<0, 0>();
+const C_REINTERPRET_CH_0_0: Out = reinterpret_ch::<0, 0>();
+const C_REINTERPRET_CH_0_1: Out = reinterpret_ch::<0, 1>();
+const C_REINTERPRET_CH_0_2: Out = reinterpret_ch::<0, 2>();
+const C_BYVALUE_CH_0: Out = byvalue_ch::<0>();
+const C_NATIVE_CHUNKS_CH_0_0: Out = native_chunks_ch::<0, 0>();
+const C_NATIVE_CHUNKS_CH_0_1: Out = native_chunks_ch::<0, 1>();
+const C_NATIVE_CHUNKS_CH_0_2: Out = native_chunks_ch::<0, 2>();
+const C_NATIVE_CHUNKS_CH_0_3: Out = native_chunks_ch::<0, 3>();
+const C_CHUNKS_CH_1_0: Out = chunks_ch::<1, 0>();
+const C_CHUNKS_MUT_CH_1_0: Out = chunks_mut_ch::<1, 0>();
+const C_CHUNKS_CH_1_1: Out = chunks_ch::<1, 1>();
+const C_CHUNKS_MUT_CH_1_1: Out = chunks_mut_ch::<1, 1>();
+const C_CHUNKS_CH_1_2: Out = chunks_ch::<1, 2>();
+const C_CHUNKS_MUT_CH_1_2: Out = chunks_mut_ch::<1, 2>();
+const C_CHUNKS_CH_1_3: Out = chunks_ch::<1, 3>();
+const C_CHUNKS_MUT_CH_1_3: Out = chunks_mut_ch::<1, 3>();
+const C_CHUNKS_CH_1_4: Out = chunks_ch::<1, 4>();
+const C_CHUNKS_MUT_CH_1_4: Out = chunks_mut_ch::<1, 4>();
+const C_CHUNKS_CH_1_5: Out = chunks_ch::<1, 5>();
+const C_CHUNKS_MUT_CH_1_5: Out = chunks_mut_ch::<1, 5>();
+const C_REINTERPRET_CH_1_0: Out = reinterpret_ch::<1, 0>();
+const C_REINTERPRET_CH_1_1: Out = reinterpret_ch::<1, 1>();
+const C_REINTERPRET_CH_1_2: Out = reinterpret_ch::<1, 2>();
+const C_REINTERPRET_CH_1_5: Out = reinterpret_ch::<1, 5>();
+const C_BYVALUE_CH_1: Out = byvalue_ch::<1>();
+const C_NATIVE_CHUNKS_CH_1_0: Out = native_chunks_ch::<1, 0>();
+const C_NATIVE_CHUNKS_CH_1_1: Out = native_chunks_ch::<1, 1>();
+const C_NATIVE_CHUNKS_CH_1_2: Out = native_chunks_ch::<1, 2>();
+const C_NATIVE_CHUNKS_CH_1_3: Out = native_chunks_ch::<1, 3>();
+const C_CHUNKS_CH_2_0: Out = chunks_ch::<2, 0>();
+const C_CHUNKS_MUT_CH_2_0: Out = chunks_mut_ch::<2, 0>();
+const C_CHUNKS_CH_2_1: Out = chunks_ch::<2, 1>();
+const C_CHUNKS_MUT_CH_2_1: Out = chunks_mut_ch::<2, 1>();
+const C_CHUNKS_CH_2_2: Out = chunks_ch::<2, 2>();
+const C_CHUNKS_MUT_CH_2_2: Out = chunks_mut_ch::<2, 2>();
+const C_CHUNKS_CH_2_3: Out = chunks_ch::<2, 3>();
+const C_CHUNKS_MUT_CH_2_3: Out = chunks_mut_ch::<2, 3>();
+const C_CHUNKS_CH_2_4: Out = chunks_ch::<2, 4>();
+const C_CHUNKS_MUT_CH_2_4: Out = chunks_mut_ch::<2, 4>();
+const C_CHUNKS_CH_2_5: Out = chunks_ch::<2, 5>();
+const C_CHUNKS_MUT_CH_2_5: Out = chunks_mut_ch::<2, 5>();
+const C_CHUNKS_CH_2_6: Out = chunks_ch::<2, 6>();
+const C_CHUNKS_MUT_CH_2_6: Out = chunks_mut_ch::<2, 6>();
+const C_CHUNKS_CH_2_7: Out = chunks_ch::<2, 7>();
+const C_CHUNKS_MUT_CH_2_7: Out = chunks_mut_ch::<2, 7>();
+const C_CHUNKS_CH_2_8: Out = chunks_ch::<2, 8>();
+const C_CHUNKS_MUT_CH_2_8: Out = chunks_mut_ch::<2, 8>();
+const C_REINTERPRET_CH_2_0: Out = reinterpret_ch::<2, 0>();
+const C_REINTERPRET_CH_2_1: Out = reinterpret_ch::<2, 1>();
+const C_REINTERPRET_CH_2_2: Out = reinterpret_ch::<2, 2>();
+const C_REINTERPRET_CH_2_3: Out = reinterpret_ch::<2, 3>();
+const C_REINTERPRET_CH_2_4: Out = reinterpret_ch::<2, 4>();
+const C_REINTERPRET_CH_2_8: Out = reinterpret_ch::<2, 8>();
+const C_BYVALUE_CH_2: Out = byvalue_ch::<2>();
+const C_NATIVE_CHUNKS_CH_2_0: Out = native_chunks_ch::<2, 0>();
+const C_NATIVE_CHUNKS_CH_2_1: Out = native_chunks_ch::<2, 1>();
+const C_NATIVE_CHUNKS_CH_2_2: Out = native_chunks_ch::<2, 2>();
+const C_NATIVE_CHUNKS_CH_2_3: Out = native_chunks_ch::<2, 3>();
+const C_CHUNKS_CH_3_0: Out = chunks_ch::<3, 0>();
+const C_CHUNKS_MUT_CH_3_0: Out = chunks_mut_ch::<3, 0>();
+const C_CHUNKS_CH_3_1: Out = chunks_ch::<3, 1>();
+const C_CHUNKS_MUT_CH_3_1: Out = chunks_mut_ch::<3, 1>();
+const C_CHUNKS_CH_3_2: Out = chunks_ch::<3, 2>();
+const C_CHUNKS_MUT_CH_3_2: Out = chunks_mut_ch::<3, 2>();
+const C_CHUNKS_CH_3_3: Out = chunks_ch::<3, 3>();
+const C_CHUNKS_MUT_CH_3_3: Out = chunks_mut_ch::<3, 3>();
+const C_CHUNKS_CH_3_4: Out = chunks_ch::<3, 4>();
+const C_CHUNKS_MUT_CH_3_4: Out = chunks_mut_ch::<3, 4>();
+const C_CHUNKS_CH_3_5: Out = chunks_ch::<3, 5>();
+const C_CHUNKS_MUT_CH_3_5: Out = chunks_mut_ch::<3, 5>();
+const C_CHUNKS_CH_3_6: Out = chunks_ch::<3, 6>();
+const C_CHUNKS_MUT_CH_3_6: Out = chunks_mut_ch::<3, 6>();
+const C_CHUNKS_CH_3_7: Out = chunks_ch::<3, 7>();
+const C_CHUNKS_MUT_CH_3_7: Out = chunks_mut_ch::<3, 7>();
+const C_CHUNKS_CH_3_8: Out = chunks_ch::<3, 8>();
+const C_CHUNKS_MUT_CH_3_8: Out = chunks_mut_ch::<3, 8>();
+const C_CHUNKS_CH_3_9: Out = chunks_ch::<3, 9>();
+const C_CHUNKS_MUT_CH_3_9: Out = chunks_mut_ch::<3, 9>();
+const C_CHUNKS_CH_3_10: Out = chunks_ch::<3, 10>();
+const C_CHUNKS_MUT_CH_3_10: Out = chunks_mut_ch::<3, 10>();
+const C_CHUNKS_CH_3_11: Out = chunks_ch::<3, 11>();
+const C_CHUNKS_MUT_CH_3_11: Out = chunks_mut_ch::<3, 11>();
+const C_REINTERPRET_CH_3_0: Out = reinterpret_ch::<3, 0>();
+const C_REINTERPRET_CH_3_1: Out = reinterpret_ch::<3, 1>();
+const C_REINTERPRET_CH_3_2: Out = reinterpret_ch::<3, 2>();
+const C_REINTERPRET_CH_3_3: Out = reinterpret_ch::<3, 3>();
+const C_REINTERPRET_CH_3_4: Out = reinterpret_ch::<3, 4>();
+const C_REINTERPRET_CH_3_6: Out = reinterpret_ch::<3, 6>();
+const C_REINTERPRET_CH_3_11: Out = reinterpret_ch::<3, 11>();
+const C_BYVALUE_CH_3: Out = byvalue_ch::<3>();
+const C_NATIVE_CHUNKS_CH_3_0: Out = native_chunks_ch::<3, 0>();
+const C_NATIVE_CHUNKS_CH_3_1: Out = native_chunks_ch::<3, 1>();
+const C_NATIVE_CHUNKS_CH_3_2: Out = native_chunks_ch::<3, 2>();
+const C_NATIVE_CHUNKS_CH_3_3: Out = native_chunks_ch::<3, 3>();
+const C_CHUNKS_CH_7_0: Out = chunks_ch::<7, 0>();
+const C_CHUNKS_MUT_CH_7_0: Out = chunks_mut_ch::<7, 0>();
+const C_CHUNKS_CH_7_1: Out = chunks_ch::<7, 1>();
+const C_CHUNKS_MUT_CH_7_1: Out = chunks_mut_ch::<7, 1>();
+const C_CHUNKS_CH_7_2: Out = chunks_ch::<7, 2>();
+const C_CHUNKS_MUT_CH_7_2: Out = chunks_mut_ch::<7, 2>();
+const C_CHUNKS_CH_7_3: Out = chunks_ch::<7, 3>();
+const C_CHUNKS_MUT_CH_7_3: Out = chunks_mut_ch::<7, 3>();
+const C_CHUNKS_CH_7_4: Out = chunks_ch::<7, 4>();
+const C_CHUNKS_MUT_CH_7_4: Out = chunks_mut_ch::<7, 4>();
+const C_CHUNKS_CH_7_5: Out = chunks_ch::<7, 5>();
+const C_CHUNKS_MUT_CH_7_5: Out = chunks_mut_ch::<7, 5>();
+const C_CHUNKS_CH_7_6: Out = chunks_ch::<7, 6>();
+const C_CHUNKS_MUT_CH_7_6: Out = chunks_mut_ch::<7, 6>();
+const C_CHUNKS_CH_7_7: Out = chunks_ch::<7, 7>();
+const C_CHUNKS_MUT_CH_7_7: Out = chunks_mut_ch::<7, 7>();
+const C_CHUNKS_CH_7_8: Out = chunks_ch::<7, 8>();
+const C_CHUNKS_MUT_CH_7_8: Out = chunks_mut_ch::<7, 8>();
+const C_CHUNKS_CH_7_9: Out = chunks_ch::<7, 9>();
+const C_CHUNKS_MUT_CH_7_9: Out = chunks_mut_ch::<7, 9>();
+const C_CHUNKS_CH_7_10: Out = chunks_ch::<7, 10>();
+const C_CHUNKS_MUT_CH_7_10: Out = chunks_mut_ch::<7, 10>();
+const C_CHUNKS_CH_7_11: Out = chunks_ch::<7, 11>();
+const C_CHUNKS_MUT_CH_7_11: Out = chunks_mut_ch::<7, 11>();
+const C_CHUNKS_CH_7_12: Out = chunks_ch::<7, 12>();
+const C_CHUNKS_MUT_CH_7_12: Out = chunks_mut_ch::<7, 12>();
+const C_CHUNKS_CH_7_13: Out = chunks_ch::<7, 13>();
+const C_CHUNKS_MUT_CH_7_13: Out = chunks_mut_ch::<7, 13>();
+const C_CHUNKS_CH_7_14: Out = chunks_ch::<7, 14>();
+const C_CHUNKS_MUT_CH_7_14: Out = chunks_mut_ch::<7, 14>();
+const C_CHUNKS_CH_7_15: Out = chunks_ch::<7, 15>();
+const C_CHUNKS_MUT_CH_7_15: Out = chunks_mut_ch::<7, 15>();
+const C_CHUNKS_CH_7_16: Out = chunks_ch::<7, 16>();
+const C_CHUNKS_MUT_CH_7_16: Out = chunks_mut_ch::<7, 16>();
+const C_CHUNKS_CH_7_17: Out = chunks_ch::<7, 17>();
+const C_CHUNKS_MUT_CH_7_17: Out = chunks_mut_ch::<7, 17>();
+const C_CHUNKS_CH_7_18: Out = chunks_ch::<7, 18>();
+const C_CHUNKS_MUT_CH_7_18: Out = chunks_mut_ch::<7, 18>();
+const C_CHUNKS_CH_7_19: Out = chunks_ch::<7, 19>();
+const C_CHUNKS_MUT_CH_7_19: Out = chunks_mut_ch::<7, 19>();
+const C_CHUNKS_CH_7_20: Out = chunks_ch::<7, 20>();
+const C_CHUNKS_MUT_CH_7_20: Out = chunks_mut_ch::<7, 20>();
+const C_CHUNKS_CH_7_21: Out = chunks_ch::<7, 21>();
+const C_CHUNKS_MUT_CH_7_21: Out = chunks_mut_ch::<7, 21>();
+const C_CHUNKS_CH_7_22: Out = chunks_ch::<7, 22>();
+const C_CHUNKS_MUT_CH_7_22: Out = chunks_mut_ch::<7, 22>();
+const C_CHUNKS_CH_7_23: Out = chunks_ch::<7, 23>();
+const C_CHUNKS_MUT_CH_7_23: Out = chunks_mut_ch::<7, 23>();
+const C_REINTERPRET_CH_7_0: Out = reinterpret_ch::<7, 0>();
+const C_REINTERPRET_CH_7_1: Out = reinterpret_ch::<7, 1>();
+const C_REINTERPRET_CH_7_6: Out = reinterpret_ch::<7, 6>();
+const C_REINTERPRET_CH_7_7: Out = reinterpret_ch::<7, 7>();
+const C_REINTERPRET_CH_7_8: Out = reinterpret_ch::<7, 8>();
+const C_REINTERPRET_CH_7_14: Out = reinterpret_ch::<7, 14>();
+const C_REINTERPRET_CH_7_23: Out = reinterpret_ch::<7, 23>();
+const C_BYVALUE_CH_7: Out = byvalue_ch::<7>();
+const C_NATIVE_CHUNKS_CH_7_0: Out = native_chunks_ch::<7, 0>();
+const C_NATIVE_CHUNKS_CH_7_1: Out = native_chunks_ch::<7, 1>();
+const C_NATIVE_CHUNKS_CH_7_2: Out = native_chunks_ch::<7, 2>();
+const C_NATIVE_CHUNKS_CH_7_3: Out = native_chunks_ch::<7, 3>();
+const C_CHUNKS_CH_8_0: Out = chunks_ch::<8, 0>();
+const C_CHUNKS_MUT_CH_8_0: Out = chunks_mut_ch::<8, 0>();
+const C_CHUNKS_CH_8_1: Out = chunks_ch::<8, 1>();
+const C_CHUNKS_MUT_CH_8_1: Out = chunks_mut_ch::<8, 1>();
+const C_CHUNKS_CH_8_2: Out = chunks_ch::<8, 2>();
+const C_CHUNKS_MUT_CH_8_2: Out = chunks_mut_ch::<8, 2>();
+const C_CHUNKS_CH_8_3: Out = chunks_ch::<8, 3>();
+const C_CHUNKS_MUT_CH_8_3: Out = chunks_mut_ch::<8, 3>();
+const C_CHUNKS_CH_8_4: Out = chunks_ch::<8, 4>();
+const C_CHUNKS_MUT_CH_8_4: Out = chunks_mut_ch::<8, 4>();
+const C_CHUNKS_CH_8_5: Out = chunks_ch::<8, 5>();
+const C_CHUNKS_MUT_CH_8_5: Out = chunks_mut_ch::<8, 5>();
+const C_CHUNKS_CH_8_6: Out = chunks_ch::<8, 6>();
+const C_CHUNKS_MUT_CH_8_6: Out = chunks_mut_ch::<8, 6>();
+const C_CHUNKS_CH_8_7: Out = chunks_ch::<8, 7>();
+const C_CHUNKS_MUT_CH_8_7: Out = chunks_mut_ch::<8, 7>();
+const C_CHUNKS_CH_8_8: Out = chunks_ch::<8, 8>();
+const C_CHUNKS_MUT_CH_8_8: Out = chunks_mut_ch::<8, 8>();
+const C_CHUNKS_CH_8_9: Out = chunks_ch::<8, 9>();
+const C_CHUNKS_MUT_CH_8_9: Out = chunks_mut_ch::<8, 9>();
+const C_CHUNKS_CH_8_10: Out = chunks_ch::<8, 10>();
+const C_CHUNKS_MUT_CH_8_10: Out = chunks_mut_ch::<8, 10>();
+const C_CHUNKS_CH_8_11: Out = chunks_ch::<8, 11>();
+const C_CHUNKS_MUT_CH_8_11: Out = chunks_mut_ch::<8, 11>();
+const C_CHUNKS_CH_8_12: Out = chunks_ch::<8, 12>();
+const C_CHUNKS_MUT_CH_8_12: Out = chunks_mut_ch::<8, 12>();
+const C_CHUNKS_CH_8_13: Out = chunks_ch::<8, 13>();
+const C_CHUNKS_MUT_CH_8_13: Out = chunks_mut_ch::<8, 13>();
+const C_CHUNKS_CH_8_14: Out = chunks_ch::<8, 14>();
+const C_CHUNKS_MUT_CH_8_14: Out = chunks_mut_ch::<8, 14>();
+const C_CHUNKS_CH_8_15: Out = chunks_ch::<8, 15>();
+const C_CHUNKS_MUT_CH_8_15: Out = chunks_mut_ch::<8, 15>();
+const C_CHUNKS_CH_8_16: Out = chunks_ch::<8, 16>();
+const C_CHUNKS_MUT_CH_8_16: Out = chunks_mut_ch::<8, 16>();
+const C_CHUNKS_CH_8_17: Out = chunks_ch::<8, 17>();
+const C_CHUNKS_MUT_CH_8_17: Out = chunks_mut_ch::<8, 17>();
+const C_CHUNKS_CH_8_18: Out = chunks_ch::<8, 18>();
+const C_CHUNKS_MUT_CH_8_18: Out = chunks_mut_ch::<8, 18>();
+const C_CHUNKS_CH_8_19: Out = chunks_ch::<8, 19>();
+const C_CHUNKS_MUT_CH_8_19: Out = chunks_mut_ch::<8, 19>();
+const C_CHUNKS_CH_8_20: Out = chunks_ch::<8, 20>();
+const C_CHUNKS_MUT_CH_8_20: Out = chunks_mut_ch::<8, 20>();
+const C_CHUNKS_CH_8_21: Out = chunks_ch::<8, 21>();
+const C_CHUNKS_MUT_CH_8_21: Out = chunks_mut_ch::<8, 21>();
+const C_CHUNKS_CH_8_22: Out = chunks_ch::<8, 22>();
+const C_CHUNKS_MUT_CH_8_22: Out = chunks_mut_ch::<8, 22>();
+const C_CHUNKS_CH_8_23: Out = chunks_ch::<8, 23>();
+const C_CHUNKS_MUT_CH_8_23: Out = chunks_mut_ch::<8, 23>();
+const C_CHUNKS_CH_8_24: Out = chunks_ch::<8, 24>();
+const C_CHUNKS_MUT_CH_8_24: Out = chunks_mut_ch::<8, 24>();
+const C_CHUNKS_CH_8_25: Out = chunks_ch::<8, 25>();
+const C_CHUNKS_MUT_CH_8_25: Out = chunks_mut_ch::<8, 25>();
+const C_CHUNKS_CH_8_26: Out = chunks_ch::<8, 26>();
+const C_CHUNKS_MUT_CH_8_26: Out = chunks_mut_ch::<8, 26>();
+const C_REINTERPRET_CH_8_0: Out = reinterpret_ch::<8, 0>();
+const C_REINTERPRET_CH_8_1: Out = reinterpret_ch::<8, 1>();
+const C_REINTERPRET_CH_8_7: Out = reinterpret_ch::<8, 7>();
+const C_REINTERPRET_CH_8_8: Out = reinterpret_ch::<8, 8>();
+const C_REINTERPRET_CH_8_9: Out = reinterpret_ch::<8, 9>();
+const C_REINTERPRET_CH_8_16: Out = reinterpret_ch::<8, 16>();
+const C_REINTERPRET_CH_8_26: Out = reinterpret_ch::<8, 26>();
+const C_BYVALUE_CH_8: Out = byvalue_ch::<8>();
+const C_NATIVE_CHUNKS_CH_8_0: Out = native_chunks_ch::<8, 0>();
+const C_NATIVE_CHUNKS_CH_8_1: Out = native_chunks_ch::<8, 1>();
+const C_NATIVE_CHUNKS_CH_8_2: Out = native_chunks_ch::<8, 2>();
+const C_NATIVE_CHUNKS_CH_8_3: Out = native_chunks_ch::<8, 3>();
+const C_CHUNKS_CH_16_0: Out = chunks_ch::<16, 0>();
+const C_CHUNKS_MUT_CH_16_0: Out = chunks_mut_ch::<16, 0>();
+const C_CHUNKS_CH_16_1: Out = chunks_ch::<16, 1>();
+const C_CHUNKS_MUT_CH_16_1: Out = chunks_mut_ch::<16, 1>();
+const C_CHUNKS_CH_16_2: Out = chunks_ch::<16, 2>();
+const C_CHUNKS_MUT_CH_16_2: Out = chunks_mut_ch::<16, 2>();
+const C_CHUNKS_CH_16_3: Out = chunks_ch::<16, 3>();
+const C_CHUNKS_MUT_CH_16_3: Out = chunks_mut_ch::<16, 3>();
+const C_CHUNKS_CH_16_4: Out = chunks_ch::<16, 4>();
+const C_CHUNKS_MUT_CH_16_4: Out = chunks_mut_ch::<16, 4>();
+const C_CHUNKS_CH_16_5: Out = chunks_ch::<16, 5>();
+const C_CHUNKS_MUT_CH_16_5: Out = chunks_mut_ch::<16, 5>();
+const C_CHUNKS_CH_16_6: Out = chunks_ch::<16, 6>();
+const C_CHUNKS_MUT_CH_16_6: Out = chunks_mut_ch::<16, 6>();
+const C_CHUNKS_CH_16_7: Out = chunks_ch::<16, 7>();
+const C_CHUNKS_MUT_CH_16_7: Out = chunks_mut_ch::<16, 7>();
+const C_CHUNKS_CH_16_8: Out = chunks_ch::<16, 8>();
+const C_CHUNKS_MUT_CH_16_8: Out = chunks_mut_ch::<16, 8>();
+const C_CHUNKS_CH_16_9: Out = chunks_ch::<16, 9>();
+const C_CHUNKS_MUT_CH_16_9: Out = chunks_mut_ch::<16, 9>();
+const C_CHUNKS_CH_16_10: Out = chunks_ch::<16, 10>();
+const C_CHUNKS_MUT_CH_16_10: Out = chunks_mut_ch::<16, 10>();
+const C_CHUNKS_CH_16_11: Out = chunks_ch::<16, 11>();
+const C_CHUNKS_MUT_CH_16_11: Out = chunks_mut_ch::<16, 11>();
+const C_CHUNKS_CH_16_12: Out = chunks_ch::<16, 12>();
+const C_CHUNKS_MUT_CH_16_12: Out = chunks_mut_ch::<16, 12>();
+const C_CHUNKS_CH_16_13: Out = chunks_ch::<16, 13>();
+const C_CHUNKS_MUT_CH_16_13: Out = chunks_mut_ch::<16, 13>();
+const C_CHUNKS_CH_16_14: Out = chunks_ch::<16, 14>();
+const C_CHUNKS_MUT_CH_16_14: Out = chunks_mut_ch::<16, 14>();
+const C_CHUNKS_CH_16_15: Out = chunks_ch::<16, 15>();
+const C_CHUNKS_MUT_CH_16_15: Out = chunks_mut_ch::<16, 15>();
+const C_CHUNKS_CH_16_16: Out = chunks_ch::<16, 16>();
+const C_CHUNKS_MUT_CH_16_16: Out = chunks_mut_ch::<16, 16>();
+const C_CHUNKS_CH_16_17: Out = chunks_ch::<16, 17>();
+const C_CHUNKS_MUT_CH_16_17: Out = chunks_mut_ch::<16, 17>();
+const C_CHUNKS_CH_16_18: Out = chunks_ch::<16, 18>();
+const C_CHUNKS_MUT_CH_16_18: Out = chunks_mut_ch::<16, 18>();
+const C_CHUNKS_CH_16_19: Out = chunks_ch::<16, 19>();
+const C_CHUNKS_MUT_CH_16_19: Out = chunks_mut_ch::<16, 19>();
+const C_CHUNKS_CH_16_20: Out = chunks_ch::<16, 20>();
+const C_CHUNKS_MUT_CH_16_20: Out = chunks_mut_ch::<16, 20>();
+const C_CHUNKS_CH_16_21: Out = chunks_ch::<16, 21>();
+const C_CHUNKS_MUT_CH_16_21: Out = chunks_mut_ch::<16, 21>();
+const C_CHUNKS_CH_16_22: Out = chunks_ch::<16, 22>();
+const C_CHUNKS_MUT_CH_16_22: Out = chunks_mut_ch::<16, 22>();
+const C_CHUNKS_CH_16_23: Out = chunks_ch::<16, 23>();
+const C_CHUNKS_MUT_CH_16_23: Out = chunks_mut_ch::<16, 23>();
+const C_CHUNKS_CH_16_24: Out = chunks_ch::<16, 24>();
+const C_CHUNKS_MUT_CH_16_24: Out = chunks_mut_ch::<16, 24>();
+const C_CHUNKS_CH_16_25: Out = chunks_ch::<16, 25>();
+const C_CHUNKS_MUT_CH_16_25: Out = chunks_mut_ch::<16, 25>();
+const C_CHUNKS_CH_16_26: Out = chunks_ch::<16, 26>();
+const C_CHUNKS_MUT_CH_16_26: Out = chunks_mut_ch::<16, 26>();
+const C_CHUNKS_CH_16_27: Out = chunks_ch::<16, 27>();
+const C_CHUNKS_MUT_CH_16_27: Out = chunks_mut_ch::<16, 27>();
+const C_CHUNKS_CH_16_28: Out = chunks_ch::<16, 28>();
+const C_CHUNKS_MUT_CH_16_28: Out = chunks_mut_ch::<16, 28>();
+const C_CHUNKS_CH_16_29: Out = chunks_ch::<16, 29>();
+const C_CHUNKS_MUT_CH_16_29: Out = chunks_mut_ch::<16, 29>();
+const C_CHUNKS_CH_16_30: Out = chunks_ch::<16, 30>();
+const C_CHUNKS_MUT_CH_16_30: Out = chunks_mut_ch::<16, 30>();
+const C_CHUNKS_CH_16_31: Out = chunks_ch::<16, 31>();
+const C_CHUNKS_MUT_CH_16_31: Out = chunks_mut_ch::<16, 31>();
+const C_CHUNKS_CH_16_32: Out = chunks_ch::<16, 32>();
+const C_CHUNKS_MUT_CH_16_32: Out = chunks_mut_ch::<16, 32>();
+const C_CHUNKS_CH_16_33: Out = chunks_ch::<16, 33>();
+const C_CHUNKS_MUT_CH_16_33: Out = chunks_mut_ch::<16, 33>();
+const C_CHUNKS_CH_16_34: Out = chunks_ch::<16, 34>();
+const C_CHUNKS_MUT_CH_16_34: Out = chunks_mut_ch::<16, 34>();
+const C_CHUNKS_CH_16_35: Out = chunks_ch::<16, 35>();
+const C_CHUNKS_MUT_CH_16_35: Out = chunks_mut_ch::<16, 35>();
+const C_CHUNKS_CH_16_36: Out = chunks_ch::<16, 36>();
+const C_CHUNKS_MUT_CH_16_36: Out = chunks_mut_ch::<16, 36>();
+const C_CHUNKS_CH_16_37: Out = chunks_ch::<16, 37>();
+const C_CHUNKS_MUT_CH_16_37: Out = chunks_mut_ch::<16, 37>();
+const C_CHUNKS_CH_16_38: Out = chunks_ch::<16, 38>();
+const C_CHUNKS_MUT_CH_16_38: Out = chunks_mut_ch::<16, 38>();
+const C_CHUNKS_CH_16_39: Out = chunks_ch::<16, 39>();
+const C_CHUNKS_MUT_CH_16_39: Out = chunks_mut_ch::<16, 39>();
+const C_CHUNKS_CH_16_40: Out = chunks_ch::<16, 40>();
+const C_CHUNKS_MUT_CH_16_40: Out = chunks_mut_ch::<16, 40>();
+const C_CHUNKS_CH_16_41: Out = chunks_ch::<16, 41>();
+const C_CHUNKS_MUT_CH_16_41: Out = chunks_mut_ch::<16, 41>();
+const C_CHUNKS_CH_16_42: Out = chunks_ch::<16, 42>();
+const C_CHUNKS_MUT_CH_16_42: Out = chunks_mut_ch::<16, 42>();
+const C_CHUNKS_CH_16_43: Out = chunks_ch::<16, 43>();
+const C_CHUNKS_MUT_CH_16_43: Out = chunks_mut_ch::<16, 43>();
+const C_CHUNKS_CH_16_44: Out = chunks_ch::<16, 44>();
+const C_CHUNKS_MUT_CH_16_44: Out = chunks_mut_ch::<16, 44>();
+const C_CHUNKS_CH_16_45: Out = chunks_ch::<16, 45>();
+const C_CHUNKS_MUT_CH_16_45: Out = chunks_mut_ch::<16, 45>();
+const C_CHUNKS_CH_16_46: Out = chunks_ch::<16, 46>();
+const C_CHUNKS_MUT_CH_16_46: Out = chunks_mut_ch::<16, 46>();
+const C_CHUNKS_CH_16_47: Out = chunks_ch::<16, 47>();
+const C_CHUNKS_MUT_CH_16_47: Out = chunks_mut_ch::<16, 47>();
+const C_CHUNKS_CH_16_48: Out = chunks_ch::<16, 48>();
+const C_CHUNKS_MUT_CH_16_48: Out = chunks_mut_ch::<16, 48>();
+const C_CHUNKS_CH_16_49: Out = chunks_ch::<16, 49>();
+const C_CHUNKS_MUT_CH_16_49: Out = chunks_mut_ch::<16, 49>();
+const C_CHUNKS_CH_16_50: Out = chunks_ch::<16, 50>();
+const C_CHUNKS_MUT_CH_16_50: Out = chunks_mut_ch::<16, 50>();
+const C_REINTERPRET_CH_16_0: Out = reinterpret_ch::<16, 0>();
+const C_REINTERPRET_CH_16_1: Out = reinterpret_ch::<16, 1>();
+const C_REINTERPRET_CH_16_15: Out = reinterpret_ch::<16, 15>();
+const C_REINTERPRET_CH_16_16: Out = reinterpret_ch::<16, 16>();
+const C_REINTERPRET_CH_16_17: Out = reinterpret_ch::<16, 17>();
+const C_REINTERPRET_CH_16_32: Out = reinterpret_ch::<16, 32>();
+const C_REINTERPRET_CH_16_50: Out = reinterpret_ch::<16, 50>();
+const C_BYVALUE_CH_16: Out = byvalue_ch::<16>();
+const C_NATIVE_CHUNKS_CH_16_0: Out = native_chunks_ch::<16, 0>();
+const C_NATIVE_CHUNKS_CH_16_1: Out = native_chunks_ch::<16, 1>();
+const C_NATIVE_CHUNKS_CH_16_2: Out = native_chunks_ch::<16, 2>();
+const C_NATIVE_CHUNKS_CH_16_3: Out = native_chunks_ch::<16, 3>();
+const C_CHUNKS_CH_17_0: Out = chunks_ch::<17, 0>();
+const C_CHUNKS_MUT_CH_17_0: Out = chunks_mut_ch::<17, 0>();
+const C_CHUNKS_CH_17_1: Out = chunks_ch::<17, 1>();
+const C_CHUNKS_MUT_CH_17_1: Out = chunks_mut_ch::<17, 1>();
+const C_CHUNKS_CH_17_2: Out = chunks_ch::<17, 2>();
+const C_CHUNKS_MUT_CH_17_2: Out = chunks_mut_ch::<17, 2>();
+const C_CHUNKS_CH_17_3: Out = chunks_ch::<17, 3>();
+const C_CHUNKS_MUT_CH_17_3: Out = chunks_mut_ch::<17, 3>();
+const C_CHUNKS_CH_17_4: Out = chunks_ch::<17, 4>();
+const C_CHUNKS_MUT_CH_17_4: Out = chunks_mut_ch::<17, 4>();
+const C_CHUNKS_CH_17_5: Out = chunks_ch::<17, 5>();
+const C_CHUNKS_MUT_CH_17_5: Out = chunks_mut_ch::<17, 5>();
+const C_CHUNKS_CH_17_6: Out = chunks_ch::<17, 6>();
+const C_CHUNKS_MUT_CH_17_6: Out = chunks_mut_ch::<17, 6>();
+const C_CHUNKS_CH_17_7: Out = chunks_ch::<17, 7>();
+const C_CHUNKS_MUT_CH_17_7: Out = chunks_mut_ch::<17, 7>();
+const C_CHUNKS_CH_17_8: Out = chunks_ch::<17, 8>();
+const C_CHUNKS_MUT_CH_17_8: Out = chunks_mut_ch::<17, 8>();
+const C_CHUNKS_CH_17_9: Out = chunks_ch::<17, 9>();
+const C_CHUNKS_MUT_CH_17_9: Out = chunks_mut_ch::<17, 9>();
+const C_CHUNKS_CH_17_10: Out = chunks_ch::<17, 10>();
+const C_CHUNKS_MUT_CH_17_10: Out = chunks_mut_ch::<17, 10>();
+const C_CHUNKS_CH_17_11: Out = chunks_ch::<17, 11>();
+const C_CHUNKS_MUT_CH_17_11: Out = chunks_mut_ch::<17, 11>();
+const C_CHUNKS_CH_17_12: Out = chunks_ch::<17, 12>();
+const C_CHUNKS_MUT_CH_17_12: Out = chunks_mut_ch::<17, 12>();
+const C_CHUNKS_CH_17_13: Out = chunks_ch::<17, 13>();
+const C_CHUNKS_MUT_CH_17_13: Out = chunks_mut_ch::<17, 13>();
+const C_CHUNKS_CH_17_14: Out = chunks_ch::<17, 14>();
+const C_CHUNKS_MUT_CH_17_14: Out = chunks_mut_ch::<17, 14>();
+const C_CHUNKS_CH_17_15: Out = chunks_ch::<17, 15>();
+const C_CHUNKS_MUT_CH_17_15: Out = chunks_mut_ch::<17, 15>();
+const C_CHUNKS_CH_17_16: Out = chunks_ch::<17, 16>();
+const C_CHUNKS_MUT_CH_17_16: Out = chunks_mut_ch::<17, 16>();
+const C_CHUNKS_CH_17_17: Out = chunks_ch::<17, 17>();
+const C_CHUNKS_MUT_CH_17_17: Out = chunks_mut_ch::<17, 17>();
+const C_CHUNKS_CH_17_18: Out = chunks_ch::<17, 18>();
+const C_CHUNKS_MUT_CH_17_18: Out = chunks_mut_ch::<17, 18>();
+const C_CHUNKS_CH_17_19: Out = chunks_ch::<17, 19>();
+const C_CHUNKS_MUT_CH_17_19: Out = chunks_mut_ch::<17, 19>();
+const C_CHUNKS_CH_17_20: Out = chunks_ch::<17, 20>();
+const C_CHUNKS_MUT_CH_17_20: Out = chunks_mut_ch::<17, 20>();
+const C_CHUNKS_CH_17_21: Out = chunks_ch::<17, 21>();
+const C_CHUNKS_MUT_CH_17_21: Out = chunks_mut_ch::<17, 21>();
+const C_CHUNKS_CH_17_22: Out = chunks_ch::<17, 22>();
+const C_CHUNKS_MUT_CH_17_22: Out = chunks_mut_ch::<17, 22>();
+const C_CHUNKS_CH_17_23: Out = chunks_ch::<17, 23>();
+const C_CHUNKS_MUT_CH_17_23: Out = chunks_mut_ch::<17, 23>();
+const C_CHUNKS_CH_17_24: Out = chunks_ch::<17, 24>();
+const C_CHUNKS_MUT_CH_17_24: Out = chunks_mut_ch::<17, 24>();
+const C_CHUNKS_CH_17_25: Out = chunks_ch::<17, 25>();
+const C_CHUNKS_MUT_CH_17_25: Out = chunks_mut_ch::<17, 25>();
+const C_CHUNKS_CH_17_26: Out = chunks_ch::<17, 26>();
+const C_CHUNKS_MUT_CH_17_26: Out = chunks_mut_ch::<17, 26>();
+const C_CHUNKS_CH_17_27: Out = chunks_ch::<17, 27>();
+const C_CHUNKS_MUT_CH_17_27: Out = chunks_mut_ch::<17, 27>();
+const C_CHUNKS_CH_17_28: Out = chunks_ch::<17, 28>();
+const C_CHUNKS_MUT_CH_17_28: Out = chunks_mut_ch::<17, 28>();
+const C_CHUNKS_CH_17_29: Out = chunks_ch::<17, 29>();
+const C_CHUNKS_MUT_CH_17_29: Out = chunks_mut_ch::<17, 29>();
+const C_CHUNKS_CH_17_30: Out = chunks_ch::<17, 30>();
+const C_CHUNKS_MUT_CH_17_30: Out = chunks_mut_ch::<17, 30>();
+const C_CHUNKS_CH_17_31: Out = chunks_ch::<17, 31>();
+const C_CHUNKS_MUT_CH_17_31: Out = chunks_mut_ch::<17, 31>();
+const C_CHUNKS_CH_17_32: Out = chunks_ch::<17, 32>();
+const C_CHUNKS_MUT_CH_17_32: Out = chunks_mut_ch::<17, 32>();
+const C_CHUNKS_CH_17_33: Out = chunks_ch::<17, 33>();
+const C_CHUNKS_MUT_CH_17_33: Out = chunks_mut_ch::<17, 33>();
+const C_CHUNKS_CH_17_34: Out = chunks_ch::<17, 34>();
+const C_CHUNKS_MUT_CH_17_34: Out = chunks_mut_ch::<17, 34>();
+const C_CHUNKS_CH_17_35: Out = chunks_ch::<17, 35>();
+const C_CHUNKS_MUT_CH_17_35: Out = chunks_mut_ch::<17, 35>();
+const C_CHUNKS_CH_17_36: Out = chunks_ch::<17, 36>();
+const C_CHUNKS_MUT_CH_17_36: Out = chunks_mut_ch::<17, 36>();
+const C_CHUNKS_CH_17_37: Out = chunks_ch::<17, 37>();
+const C_CHUNKS_MUT_CH_17_37: Out = chunks_mut_ch::<17, 37>();
+const C_CHUNKS_CH_17_38: Out = chunks_ch::<17, 38>();
+const C_CHUNKS_MUT_CH_17_38: Out = chunks_mut_ch::<17, 38>();
+const C_CHUNKS_CH_17_39: Out = chunks_ch::<17, 39>();
+const C_CHUNKS_MUT_CH_17_39: Out = chunks_mut_ch::<17, 39>();
+const C_CHUNKS_CH_17_40: Out = chunks_ch::<17, 40>();
+const C_CHUNKS_MUT_CH_17_40: Out = chunks_mut_ch::<17, 40>();
+const C_CHUNKS_CH_17_41: Out = chunks_ch::<17, 41>();
+const C_CHUNKS_MUT_CH_17_41: Out = chunks_mut_ch::<17, 41>();
+const C_CHUNKS_CH_17_42: Out = chunks_ch::<17, 42>();
+const C_CHUNKS_MUT_CH_17_42: Out = chunks_mut_ch::<17, 42>();
+const C_CHUNKS_CH_17_43: Out = chunks_ch::<17, 43>();
+const C_CHUNKS_MUT_CH_17_43: Out = chunks_mut_ch::<17, 43>();
+const C_CHUNKS_CH_17_44: Out = chunks_ch::<17, 44>();
+const C_CHUNKS_MUT_CH_17_44: Out = chunks_mut_ch::<17, 44>();
+const C_CHUNKS_CH_17_45: Out = chunks_ch::<17, 45>();
+const C_CHUNKS_MUT_CH_17_45: Out = chunks_mut_ch::<17, 45>();
+const C_CHUNKS_CH_17_46: Out = chunks_ch::<17, 46>();
+const C_CHUNKS_MUT_CH_17_46: Out = chunks_mut_ch::<17, 46>();
+const C_CHUNKS_CH_17_47: Out = chunks_ch::<17, 47>();
+const C_CHUNKS_MUT_CH_17_47: Out = chunks_mut_ch::<17, 47>();
+const C_CHUNKS_CH_17_48: Out = chunks_ch::<17, 48>();
+const C_CHUNKS_MUT_CH_17_48: Out = chunks_mut_ch::<17, 48>();
+const C_CHUNKS_CH_17_49: Out = chunks_ch::<17, 49>();
+const C_CHUNKS_MUT_CH_17_49: Out = chunks_mut_ch::<17, 49>();
+const C_CHUNKS_CH_17_50: Out = chunks_ch::<17, 50>();
+const C_CHUNKS_MUT_CH_17_50: Out = chunks_mut_ch::<17, 50>();
+const C_CHUNKS_CH_17_51: Out = chunks_ch::<17, 51>();
+const C_CHUNKS_MUT_CH_17_51: Out = chunks_mut_ch::<17, 51>();
+const C_CHUNKS_CH_17_52: Out = chunks_ch::<17, 52>();
+const C_CHUNKS_MUT_CH_17_52: Out = chunks_mut_ch::<17, 52>();
+const C_CHUNKS_CH_17_53: Out = chunks_ch::<17, 53>();
+const C_CHUNKS_MUT_CH_17_53: Out = chunks_mut_ch::<17, 53>();
+const C_REINTERPRET_CH_17_0: Out = reinterpret_ch::<17, 0>();
+const C_REINTERPRET_CH_17_1: Out = reinterpret_ch::<17, 1>();
+const C_REINTERPRET_CH_17_16: Out = reinterpret_ch::<17, 16>();
+const C_REINTERPRET_CH_17_17: Out = reinterpret_ch::<17, 17>();
+const C_REINTERPRET_CH_17_18: Out = reinterpret_ch::<17, 18>();
+const C_REINTERPRET_CH_17_34: Out = reinterpret_ch::<17, 34>();
+const C_REINTERPRET_CH_17_53: Out = reinterpret_ch::<17, 53>();
+const C_BYVALUE_CH_17: Out = byvalue_ch::<17>();
+const C_NATIVE_CHUNKS_CH_17_0: Out = native_chunks_ch::<17, 0>();
+const C_NATIVE_CHUNKS_CH_17_1: Out = native_chunks_ch::<17, 1>();
+const C_NATIVE_CHUNKS_CH_17_2: Out = native_chunks_ch::<17, 2>();
+const C_NATIVE_CHUNKS_CH_17_3: Out = native_chunks_ch::<17, 3>();
+const C_CHUNKS_CH_33_0: Out = chunks_ch::<33, 0>();
+const C_CHUNKS_MUT_CH_33_0: Out = chunks_mut_ch::<33, 0>();
+const C_CHUNKS_CH_33_1: Out = chunks_ch::<33, 1>();
+const C_CHUNKS_MUT_CH_33_1: Out = chunks_mut_ch::<33, 1>();
+const C_CHUNKS_CH_33_32: Out = chunks_ch::<33, 32>();
+const C_CHUNKS_MUT_CH_33_32: Out = chunks_mut_ch::<33, 32>();
+const C_CHUNKS_CH_33_33: Out = chunks_ch::<33, 33>();
+const C_CHUNKS_MUT_CH_33_33: Out = chunks_mut_ch::<33, 33>();
+const C_CHUNKS_CH_33_34: Out = chunks_ch::<33, 34>();
+const C_CHUNKS_MUT_CH_33_34: Out = chunks_mut_ch::<33, 34>();
+const C_CHUNKS_CH_33_65: Out = chunks_ch::<33, 65>();
+const C_CHUNKS_MUT_CH_33_65: Out = chunks_mut_ch::<33, 65>();
+const C_CHUNKS_CH_33_66: Out = chunks_ch::<33, 66>();
+const C_CHUNKS_MUT_CH_33_66: Out = chunks_mut_ch::<33, 66>();
+const C_CHUNKS_CH_33_67: Out = chunks_ch::<33, 67>();
+const C_CHUNKS_MUT_CH_33_67: Out = chunks_mut_ch::<33, 67>();
+const C_CHUNKS_CH_33_98: Out = chunks_ch::<33, 98>();
+const C_CHUNKS_MUT_CH_33_98: Out = chunks_mut_ch::<33, 98>();
+const C_CHUNKS_CH_33_99: Out = chunks_ch::<33, 99>();
+const C_CHUNKS_MUT_CH_33_99: Out = chunks_mut_ch::<33, 99>();
+const C_CHUNKS_CH_33_100: Out = chunks_ch::<33, 100>();
+const C_CHUNKS_MUT_CH_33_100: Out = chunks_mut_ch::<33, 100>();
+const C_CHUNKS_CH_33_101: Out = chunks_ch::<33, 101>();
+const C_CHUNKS_MUT_CH_33_101: Out = chunks_mut_ch::<33, 101>();
+const C_REINTERPRET_CH_33_0: Out = reinterpret_ch::<33, 0>();
+const C_REINTERPRET_CH_33_1: Out = reinterpret_ch::<33, 1>();
+const C_REINTERPRET_CH_33_32: Out = reinterpret_ch::<33, 32>();
+const C_REINTERPRET_CH_33_33: Out = reinterpret_ch::<33, 33>();
+const C_REINTERPRET_CH_33_34: Out = reinterpret_ch::<33, 34>();
+const C_REINTERPRET_CH_33_66: Out = reinterpret_ch::<33, 66>();
+const C_REINTERPRET_CH_33_101: Out = reinterpret_ch::<33, 101>();
+const C_BYVALUE_CH_33: Out = byvalue_ch::<33>();
+const C_NATIVE_CHUNKS_CH_33_0: Out = native_chunks_ch::<33, 0>();
+const C_NATIVE_CHUNKS_CH_33_1: Out = native_chunks_ch::<33, 1>();
+const C_NATIVE_CHUNKS_CH_33_2: Out = native_chunks_ch::<33, 2>();
+const C_NATIVE_CHUNKS_CH_33_3: Out = native_chunks_ch::<33, 3>();
+const C_CHUNKS_CH_64_0: Out = chunks_ch::<64, 0>();
+const C_CHUNKS_MUT_CH_64_0: Out = chunks_mut_ch::<64, 0>();
+const C_CHUNKS_CH_64_1: Out = chunks_ch::<64, 1>();
+const C_CHUNKS_MUT_CH_64_1: Out = chunks_mut_ch::<64, 1>();
+const C_CHUNKS_CH_64_63: Out = chunks_ch::<64, 63>();
+const C_CHUNKS_MUT_CH_64_63: Out = chunks_mut_ch::<64, 63>();
+const C_CHUNKS_CH_64_64: Out = chunks_ch::<64, 64>();
+const C_CHUNKS_MUT_CH_64_64: Out = chunks_mut_ch::<64, 64>();
+const C_CHUNKS_CH_64_65: Out = chunks_ch::<64, 65>();
+const C_CHUNKS_MUT_CH_64_65: Out = chunks_mut_ch::<64, 65>();
+const C_CHUNKS_CH_64_127: Out = chunks_ch::<64, 127>();
+const C_CHUNKS_MUT_CH_64_127: Out = chunks_mut_ch::<64, 127>();
+const C_CHUNKS_CH_64_128: Out = chunks_ch::<64, 128>();
+const C_CHUNKS_MUT_CH_64_128: Out = chunks_mut_ch::<64, 128>();
+const C_CHUNKS_CH_64_129: Out = chunks_ch::<64, 129>();
+const C_CHUNKS_MUT_CH_64_129: Out = chunks_mut_ch::<64, 129>();
+const C_CHUNKS_CH_64_191: Out = chunks_ch::<64, 191>();
+const C_CHUNKS_MUT_CH_64_191: Out = chunks_mut_ch::<64, 191>();
+const C_CHUNKS_CH_64_192: Out = chunks_ch::<64, 192>();
+const C_CHUNKS_MUT_CH_64_192: Out = chunks_mut_ch::<64, 192>();
+const C_CHUNKS_CH_64_193: Out = chunks_ch::<64, 193>();
+const C_CHUNKS_MUT_CH_64_193: Out = chunks_mut_ch::<64, 193>();
+const C_CHUNKS_CH_64_194: Out = chunks_ch::<64, 194>();
+const C_CHUNKS_MUT_CH_64_194: Out = chunks_mut_ch::<64, 194>();
+const C_REINTERPRET_CH_64_0: Out = reinterpret_ch::<64, 0>();
+const C_REINTERPRET_CH_64_1: Out = reinterpret_ch::<64, 1>();
+const C_REINTERPRET_CH_64_63: Out = reinterpret_ch::<64, 63>();
+const C_REINTERPRET_CH_64_64: Out = reinterpret_ch::<64, 64>();
+const C_REINTERPRET_CH_64_65: Out = reinterpret_ch::<64, 65>();
+const C_REINTERPRET_CH_64_128: Out = reinterpret_ch::<64, 128>();
+const C_REINTERPRET_CH_64_194: Out = reinterpret_ch::<64, 194>();
+const C_BYVALUE_CH_64: Out = byvalue_ch::<64>();
+const C_NATIVE_CHUNKS_CH_64_0: Out = native_chunks_ch::<64, 0>();
+const C_NATIVE_CHUNKS_CH_64_1: Out = native_chunks_ch::<64, 1>();
+const C_NATIVE_CHUNKS_CH_64_2: Out = native_chunks_ch::<64, 2>();
+const C_NATIVE_CHUNKS_CH_64_3: Out = native_chunks_ch::<64, 3>();
+const C_CHUNKS_CH_100_0: Out = chunks_ch::<100, 0>();
+const C_CHUNKS_MUT_CH_100_0: Out = chunks_mut_ch::<100, 0>();
+const C_CHUNKS_CH_100_1: Out = chunks_ch::<100, 1>();
+const C_CHUNKS_MUT_CH_100_1: Out = chunks_mut_ch::<100, 1>();
+const C_CHUNKS_CH_100_99: Out = chunks_ch::<100, 99>();
+const C_CHUNKS_MUT_CH_100_99: Out = chunks_mut_ch::<100, 99>();
+const C_CHUNKS_CH_100_100: Out = chunks_ch::<100, 100>();
+const C_CHUNKS_MUT_CH_100_100: Out = chunks_mut_ch::<100, 100>();
+const C_CHUNKS_CH_100_101: Out = chunks_ch::<100, 101>();
+const C_CHUNKS_MUT_CH_100_101: Out = chunks_mut_ch::<100, 101>();
+const C_CHUNKS_CH_100_199: Out = chunks_ch::<100, 199>();
+const C_CHUNKS_MUT_CH_100_199: Out = chunks_mut_ch::<100, 199>();
+const C_CHUNKS_CH_100_200: Out = chunks_ch::<100, 200>();
+const C_CHUNKS_MUT_CH_100_200: Out = chunks_mut_ch::<100, 200>();
+const C_CHUNKS_CH_100_201: Out = chunks_ch::<100, 201>();
+const C_CHUNKS_MUT_CH_100_201: Out = chunks_mut_ch::<100, 201>();
+const C_CHUNKS_CH_100_302: Out = chunks_ch::<100, 302>();
+const C_CHUNKS_MUT_CH_100_302: Out = chunks_mut_ch::<100, 302>();
+const C_REINTERPRET_CH_100_0: Out = reinterpret_ch::<100, 0>();
+const C_REINTERPRET_CH_100_1: Out = reinterpret_ch::<100, 1>();
+const C_REINTERPRET_CH_100_99: Out = reinterpret_ch::<100, 99>();
+const C_REINTERPRET_CH_100_100: Out = reinterpret_ch::<100, 100>();
+const C_REINTERPRET_CH_100_101: Out = reinterpret_ch::<100, 101>();
+const C_REINTERPRET_CH_100_200: Out = reinterpret_ch::<100, 200>();
+const C_REINTERPRET_CH_100_302: Out = reinterpret_ch::<100, 302>();
+const C_BYVALUE_CH_100: Out = byvalue_ch::<100>();
+const C_NATIVE_CHUNKS_CH_100_0: Out = native_chunks_ch::<100, 0>();
+const C_NATIVE_CHUNKS_CH_100_1: Out = native_chunks_ch::<100, 1>();
+const C_NATIVE_CHUNKS_CH_100_2: Out = native_chunks_ch::<100, 2>();
+const C_NATIVE_CHUNKS_CH_100_3: Out = native_chunks_ch::<100, 3>();
+const C_CHUNKS_CH_1024_0: Out = chunks_ch::<1024, 0>();
+const C_CHUNKS_MUT_CH_1024_0: Out = chunks_mut_ch::<1024, 0>();
+const C_CHUNKS_CH_1024_1: Out = chunks_ch::<1024, 1>();
+const C_CHUNKS_MUT_CH_1024_1: Out = chunks_mut_ch::<1024, 1>();
+const C_CHUNKS_CH_1024_1023: Out = chunks_ch::<1024, 1023>();
+const C_CHUNKS_MUT_CH_1024_1023: Out = chunks_mut_ch::<1024, 1023>();
+const C_CHUNKS_CH_1024_1024: Out = chunks_ch::<1024, 1024>();
+const C_CHUNKS_MUT_CH_1024_1024: Out = chunks_mut_ch::<1024, 1024>();
+const C_CHUNKS_CH_1024_1025: Out = chunks_ch::<1024, 1025>();
+const C_CHUNKS_MUT_CH_1024_1025: Out = chunks_mut_ch::<1024, 1025>();
+const C_CHUNKS_CH_1024_2047: Out = chunks_ch::<1024, 2047>();
+const C_CHUNKS_MUT_CH_1024_2047: Out = chunks_mut_ch::<1024, 2047>();
+const C_CHUNKS_CH_1024_2048: Out = chunks_ch::<1024, 2048>();
+const C_CHUNKS_MUT_CH_1024_2048: Out = chunks_mut_ch::<1024, 2048>();
+const C_CHUNKS_CH_1024_2049: Out = chunks_ch::<1024, 2049>();
+const C_CHUNKS_MUT_CH_1024_2049: Out = chunks_mut_ch::<1024, 2049>();
+const C_CHUNKS_CH_1024_3074: Out = chunks_ch::<1024, 3074>();
+const C_CHUNKS_MUT_CH_1024_3074: Out = chunks_mut_ch::<1024, 3074>();
+const C_REINTERPRET_CH_1024_0: Out = reinterpret_ch::<1024, 0>();
+const C_REINTERPRET_CH_1024_1: Out = reinterpret_ch::<1024, 1>();
+const C_REINTERPRET_CH_1024_1023: Out = reinterpret_ch::<1024, 1023>();
+const C_REINTERPRET_CH_1024_1024: Out = reinterpret_ch::<1024, 1024>();
+const C_REINTERPRET_CH_1024_1025: Out = reinterpret_ch::<1024, 1025>();
+const C_REINTERPRET_CH_1024_2048: Out = reinterpret_ch::<1024, 2048>();
+const C_REINTERPRET_CH_1024_3074: Out = reinterpret_ch::<1024, 3074>();
+const C_BYVALUE_CH_1024: Out = byvalue_ch::<1024>();
+const C_NATIVE_CHUNKS_CH_1024_0: Out = native_chunks_ch::<1024, 0>();
+const C_NATIVE_CHUNKS_CH_1024_1: Out = native_chunks_ch::<1024, 1>();
+const C_NATIVE_CHUNKS_CH_1024_2: Out = native_chunks_ch::<1024, 2>();
+const C_NATIVE_CHUNKS_CH_1024_3: Out = native_chunks_ch::<1024, 3>();
 const C_TRANSMUTE: Out = transmute_case();
 const C_BUILDERS_FINISH_EMPTY: Out = builders_finish_empty();
 const C_BUILDERS_0: Out = builders_case::<0>();
@@ -5348,6 +7505,1770 @@ fn table() -> Vec<(&'static str, Out, fn() -> Out)> { vec![
     ("native_chunks_unit_1024_1", C_NATIVE_CHUNKS_UNIT_1024_1, native_chunks_unit::<1024, 1> as fn() -> Out),
     ("native_chunks_unit_1024_2", C_NATIVE_CHUNKS_UNIT_1024_2, native_chunks_unit::<1024, 2> as fn() -> Out),
     ("native_chunks_unit_1024_3", C_NATIVE_CHUNKS_UNIT_1024_3, native_chunks_unit::<1024, 3> as fn() -> Out),
+    ("chunks_a16_0_0", C_CHUNKS_A16_0_0, chunks_a16::<0, 0> as fn() -> Out),
+    ("chunks_mut_a16_0_0", C_CHUNKS_MUT_A16_0_0, chunks_mut_a16::<0, 0> as fn() -> Out),
+    ("reinterpret_a16_0_0", C_REINTERPRET_A16_0_0, reinterpret_a16::<0, 0> as fn() -> Out),
+    ("reinterpret_a16_0_1", C_REINTERPRET_A16_0_1, reinterpret_a16::<0, 1> as fn() -> Out),
+    ("reinterpret_a16_0_2", C_REINTERPRET_A16_0_2, reinterpret_a16::<0, 2> as fn() -> Out),
+    ("byvalue_a16_0", C_BYVALUE_A16_0, byvalue_a16::<0> as fn() -> Out),
+    ("native_chunks_a16_0_0", C_NATIVE_CHUNKS_A16_0_0, native_chunks_a16::<0, 0> as fn() -> Out),
+    ("native_chunks_a16_0_1", C_NATIVE_CHUNKS_A16_0_1, native_chunks_a16::<0, 1> as fn() -> Out),
+    ("native_chunks_a16_0_2", C_NATIVE_CHUNKS_A16_0_2, native_chunks_a16::<0, 2> as fn() -> Out),
+    ("native_chunks_a16_0_3", C_NATIVE_CHUNKS_A16_0_3, native_chunks_a16::<0, 3> as fn() -> Out),
+    ("chunks_a16_1_0", C_CHUNKS_A16_1_0, chunks_a16::<1, 0> as fn() -> Out),
+    ("chunks_mut_a16_1_0", C_CHUNKS_MUT_A16_1_0, chunks_mut_a16::<1, 0> as fn() -> Out),
+    ("chunks_a16_1_1", C_CHUNKS_A16_1_1, chunks_a16::<1, 1> as fn() -> Out),
+    ("chunks_mut_a16_1_1", C_CHUNKS_MUT_A16_1_1, chunks_mut_a16::<1, 1> as fn() -> Out),
+    ("chunks_a16_1_2", C_CHUNKS_A16_1_2, chunks_a16::<1, 2> as fn() -> Out),
+    ("chunks_mut_a16_1_2", C_CHUNKS_MUT_A16_1_2, chunks_mut_a16::<1, 2> as fn() -> Out),
+    ("chunks_a16_1_3", C_CHUNKS_A16_1_3, chunks_a16::<1, 3> as fn() -> Out),
+    ("chunks_mut_a16_1_3", C_CHUNKS_MUT_A16_1_3, chunks_mut_a16::<1, 3> as fn() -> Out),
+    ("chunks_a16_1_4", C_CHUNKS_A16_1_4, chunks_a16::<1, 4> as fn() -> Out),
+    ("chunks_mut_a16_1_4", C_CHUNKS_MUT_A16_1_4, chunks_mut_a16::<1, 4> as fn() -> Out),
+    ("chunks_a16_1_5", C_CHUNKS_A16_1_5, chunks_a16::<1, 5> as fn() -> Out),
+    ("chunks_mut_a16_1_5", C_CHUNKS_MUT_A16_1_5, chunks_mut_a16::<1, 5> as fn() -> Out),
+    ("reinterpret_a16_1_0", C_REINTERPRET_A16_1_0, reinterpret_a16::<1, 0> as fn() -> Out),
+    ("reinterpret_a16_1_1", C_REINTERPRET_A16_1_1, reinterpret_a16::<1, 1> as fn() -> Out),
+    ("reinterpret_a16_1_2", C_REINTERPRET_A16_1_2, reinterpret_a16::<1, 2> as fn() -> Out),
+    ("reinterpret_a16_1_5", C_REINTERPRET_A16_1_5, reinterpret_a16::<1, 5> as fn() -> Out),
+    ("byvalue_a16_1", C_BYVALUE_A16_1, byvalue_a16::<1> as fn() -> Out),
+    ("native_chunks_a16_1_0", C_NATIVE_CHUNKS_A16_1_0, native_chunks_a16::<1, 0> as fn() -> Out),
+    ("native_chunks_a16_1_1", C_NATIVE_CHUNKS_A16_1_1, native_chunks_a16::<1, 1> as fn() -> Out),
+    ("native_chunks_a16_1_2", C_NATIVE_CHUNKS_A16_1_2, native_chunks_a16::<1, 2> as fn() -> Out),
+    ("native_chunks_a16_1_3", C_NATIVE_CHUNKS_A16_1_3, native_chunks_a16::<1, 3> as fn() -> Out),
+    ("chunks_a16_2_0", C_CHUNKS_A16_2_0, chunks_a16::<2, 0> as fn() -> Out),
+    ("chunks_mut_a16_2_0", C_CHUNKS_MUT_A16_2_0, chunks_mut_a16::<2, 0> as fn() -> Out),
+    ("chunks_a16_2_1", C_CHUNKS_A16_2_1, chunks_a16::<2, 1> as fn() -> Out),
+    ("chunks_mut_a16_2_1", C_CHUNKS_MUT_A16_2_1, chunks_mut_a16::<2, 1> as fn() -> Out),
+    ("chunks_a16_2_2", C_CHUNKS_A16_2_2, chunks_a16::<2, 2> as fn() -> Out),
+    ("chunks_mut_a16_2_2", C_CHUNKS_MUT_A16_2_2, chunks_mut_a16::<2, 2> as fn() -> Out),
+    ("chunks_a16_2_3", C_CHUNKS_A16_2_3, chunks_a16::<2, 3> as fn() -> Out),
+    ("chunks_mut_a16_2_3", C_CHUNKS_MUT_A16_2_3, chunks_mut_a16::<2, 3> as fn() -> Out),
+    ("chunks_a16_2_4", C_CHUNKS_A16_2_4, chunks_a16::<2, 4> as fn() -> Out),
+    ("chunks_mut_a16_2_4", C_CHUNKS_MUT_A16_2_4, chunks_mut_a16::<2, 4> as fn() -> Out),
+    ("chunks_a16_2_5", C_CHUNKS_A16_2_5, chunks_a16::<2, 5> as fn() -> Out),
+    ("chunks_mut_a16_2_5", C_CHUNKS_MUT_A16_2_5, chunks_mut_a16::<2, 5> as fn() -> Out),
+    ("chunks_a16_2_6", C_CHUNKS_A16_2_6, chunks_a16::<2, 6> as fn() -> Out),
+    ("chunks_mut_a16_2_6", C_CHUNKS_MUT_A16_2_6, chunks_mut_a16::<2, 6> as fn() -> Out),
+    ("chunks_a16_2_7", C_CHUNKS_A16_2_7, chunks_a16::<2, 7> as fn() -> Out),
+    ("chunks_mut_a16_2_7", C_CHUNKS_MUT_A16_2_7, chunks_mut_a16::<2, 7> as fn() -> Out),
+    ("chunks_a16_2_8", C_CHUNKS_A16_2_8, chunks_a16::<2, 8> as fn() -> Out),
+    ("chunks_mut_a16_2_8", C_CHUNKS_MUT_A16_2_8, chunks_mut_a16::<2, 8> as fn() -> Out),
+    ("reinterpret_a16_2_0", C_REINTERPRET_A16_2_0, reinterpret_a16::<2, 0> as fn() -> Out),
+    ("reinterpret_a16_2_1", C_REINTERPRET_A16_2_1, reinterpret_a16::<2, 1> as fn() -> Out),
+    ("reinterpret_a16_2_2", C_REINTERPRET_A16_2_2, reinterpret_a16::<2, 2> as fn() -> Out),
+    ("reinterpret_a16_2_3", C_REINTERPRET_A16_2_3, reinterpret_a16::<2, 3> as fn() -> Out),
+    ("reinterpret_a16_2_4", C_REINTERPRET_A16_2_4, reinterpret_a16::<2, 4> as fn() -> Out),
+    ("reinterpret_a16_2_8", C_REINTERPRET_A16_2_8, reinterpret_a16::<2, 8> as fn() -> Out),
+    ("byvalue_a16_2", C_BYVALUE_A16_2, byvalue_a16::<2> as fn() -> Out),
+    ("native_chunks_a16_2_0", C_NATIVE_CHUNKS_A16_2_0, native_chunks_a16::<2, 0> as fn() -> Out),
+    ("native_chunks_a16_2_1", C_NATIVE_CHUNKS_A16_2_1, native_chunks_a16::<2, 1> as fn() -> Out),
+    ("native_chunks_a16_2_2", C_NATIVE_CHUNKS_A16_2_2, native_chunks_a16::<2, 2> as fn() -> Out),
+    ("native_chunks_a16_2_3", C_NATIVE_CHUNKS_A16_2_3, native_chunks_a16::<2, 3> as fn() -> Out),
+    ("chunks_a16_3_0", C_CHUNKS_A16_3_0, chunks_a16::<3, 0> as fn() -> Out),
+    ("chunks_mut_a16_3_0", C_CHUNKS_MUT_A16_3_0, chunks_mut_a16::<3, 0> as fn() -> Out),
+    ("chunks_a16_3_1", C_CHUNKS_A16_3_1, chunks_a16::<3, 1> as fn() -> Out),
+    ("chunks_mut_a16_3_1", C_CHUNKS_MUT_A16_3_1, chunks_mut_a16::<3, 1> as fn() -> Out),
+    ("chunks_a16_3_2", C_CHUNKS_A16_3_2, chunks_a16::<3, 2> as fn() -> Out),
+    ("chunks_mut_a16_3_2", C_CHUNKS_MUT_A16_3_2, chunks_mut_a16::<3, 2> as fn() -> Out),
+    ("chunks_a16_3_3", C_CHUNKS_A16_3_3, chunks_a16::<3, 3> as fn() -> Out),
+    ("chunks_mut_a16_3_3", C_CHUNKS_MUT_A16_3_3, chunks_mut_a16::<3, 3> as fn() -> Out),
+    ("chunks_a16_3_4", C_CHUNKS_A16_3_4, chunks_a16::<3, 4> as fn() -> Out),
+    ("chunks_mut_a16_3_4", C_CHUNKS_MUT_A16_3_4, chunks_mut_a16::<3, 4> as fn() -> Out),
+    ("chunks_a16_3_5", C_CHUNKS_A16_3_5, chunks_a16::<3, 5> as fn() -> Out),
+    ("chunks_mut_a16_3_5", C_CHUNKS_MUT_A16_3_5, chunks_mut_a16::<3, 5> as fn() -> Out),
+    ("chunks_a16_3_6", C_CHUNKS_A16_3_6, chunks_a16::<3, 6> as fn() -> Out),
+    ("chunks_mut_a16_3_6", C_CHUNKS_MUT_A16_3_6, chunks_mut_a16::<3, 6> as fn() -> Out),
+    ("chunks_a16_3_7", C_CHUNKS_A16_3_7, chunks_a16::<3, 7> as fn() -> Out),
+    ("chunks_mut_a16_3_7", C_CHUNKS_MUT_A16_3_7, chunks_mut_a16::<3, 7> as fn() -> Out),
+    ("chunks_a16_3_8", C_CHUNKS_A16_3_8, chunks_a16::<3, 8> as fn() -> Out),
+    ("chunks_mut_a16_3_8", C_CHUNKS_MUT_A16_3_8, chunks_mut_a16::<3, 8> as fn() -> Out),
+    ("chunks_a16_3_9", C_CHUNKS_A16_3_9, chunks_a16::<3, 9> as fn() -> Out),
+    ("chunks_mut_a16_3_9", C_CHUNKS_MUT_A16_3_9, chunks_mut_a16::<3, 9> as fn() -> Out),
+    ("chunks_a16_3_10", C_CHUNKS_A16_3_10, chunks_a16::<3, 10> as fn() -> Out),
+    ("chunks_mut_a16_3_10", C_CHUNKS_MUT_A16_3_10, chunks_mut_a16::<3, 10> as fn() -> Out),
+    ("chunks_a16_3_11", C_CHUNKS_A16_3_11, chunks_a16::<3, 11> as fn() -> Out),
+    ("chunks_mut_a16_3_11", C_CHUNKS_MUT_A16_3_11, chunks_mut_a16::<3, 11> as fn() -> Out),
+    ("reinterpret_a16_3_0", C_REINTERPRET_A16_3_0, reinterpret_a16::<3, 0> as fn() -> Out),
+    ("reinterpret_a16_3_1", C_REINTERPRET_A16_3_1, reinterpret_a16::<3, 1> as fn() -> Out),
+    ("reinterpret_a16_3_2", C_REINTERPRET_A16_3_2, reinterpret_a16::<3, 2> as fn() -> Out),
+    ("reinterpret_a16_3_3", C_REINTERPRET_A16_3_3, reinterpret_a16::<3, 3> as fn() -> Out),
+    ("reinterpret_a16_3_4", C_REINTERPRET_A16_3_4, reinterpret_a16::<3, 4> as fn() -> Out),
+    ("reinterpret_a16_3_6", C_REINTERPRET_A16_3_6, reinterpret_a16::<3, 6> as fn() -> Out),
+    ("reinterpret_a16_3_11", C_REINTERPRET_A16_3_11, reinterpret_a16::<3, 11> as fn() -> Out),
+    ("byvalue_a16_3", C_BYVALUE_A16_3, byvalue_a16::<3> as fn() -> Out),
+    ("native_chunks_a16_3_0", C_NATIVE_CHUNKS_A16_3_0, native_chunks_a16::<3, 0> as fn() -> Out),
+    ("native_chunks_a16_3_1", C_NATIVE_CHUNKS_A16_3_1, native_chunks_a16::<3, 1> as fn() -> Out),
+    ("native_chunks_a16_3_2", C_NATIVE_CHUNKS_A16_3_2, native_chunks_a16::<3, 2> as fn() -> Out),
+    ("native_chunks_a16_3_3", C_NATIVE_CHUNKS_A16_3_3, native_chunks_a16::<3, 3> as fn() -> Out),
+    ("chunks_a16_7_0", C_CHUNKS_A16_7_0, chunks_a16::<7, 0> as fn() -> Out),
+    ("chunks_mut_a16_7_0", C_CHUNKS_MUT_A16_7_0, chunks_mut_a16::<7, 0> as fn() -> Out),
+    ("chunks_a16_7_1", C_CHUNKS_A16_7_1, chunks_a16::<7, 1> as fn() -> Out),
+    ("chunks_mut_a16_7_1", C_CHUNKS_MUT_A16_7_1, chunks_mut_a16::<7, 1> as fn() -> Out),
+    ("chunks_a16_7_2", C_CHUNKS_A16_7_2, chunks_a16::<7, 2> as fn() -> Out),
+    ("chunks_mut_a16_7_2", C_CHUNKS_MUT_A16_7_2, chunks_mut_a16::<7, 2> as fn() -> Out),
+    ("chunks_a16_7_3", C_CHUNKS_A16_7_3, chunks_a16::<7, 3> as fn() -> Out),
+    ("chunks_mut_a16_7_3", C_CHUNKS_MUT_A16_7_3, chunks_mut_a16::<7, 3> as fn() -> Out),
+    ("chunks_a16_7_4", C_CHUNKS_A16_7_4, chunks_a16::<7, 4> as fn() -> Out),
+    ("chunks_mut_a16_7_4", C_CHUNKS_MUT_A16_7_4, chunks_mut_a16::<7, 4> as fn() -> Out),
+    ("chunks_a16_7_5", C_CHUNKS_A16_7_5, chunks_a16::<7, 5> as fn() -> Out),
+    ("chunks_mut_a16_7_5", C_CHUNKS_MUT_A16_7_5, chunks_mut_a16::<7, 5> as fn() -> Out),
+    ("chunks_a16_7_6", C_CHUNKS_A16_7_6, chunks_a16::<7, 6> as fn() -> Out),
+    ("chunks_mut_a16_7_6", C_CHUNKS_MUT_A16_7_6, chunks_mut_a16::<7, 6> as fn() -> Out),
+    ("chunks_a16_7_7", C_CHUNKS_A16_7_7, chunks_a16::<7, 7> as fn() -> Out),
+    ("chunks_mut_a16_7_7", C_CHUNKS_MUT_A16_7_7, chunks_mut_a16::<7, 7> as fn() -> Out),
+    ("chunks_a16_7_8", C_CHUNKS_A16_7_8, chunks_a16::<7, 8> as fn() -> Out),
+    ("chunks_mut_a16_7_8", C_CHUNKS_MUT_A16_7_8, chunks_mut_a16::<7, 8> as fn() -> Out),
+    ("chunks_a16_7_9", C_CHUNKS_A16_7_9, chunks_a16::<7, 9> as fn() -> Out),
+    ("chunks_mut_a16_7_9", C_CHUNKS_MUT_A16_7_9, chunks_mut_a16::<7, 9> as fn() -> Out),
+    ("chunks_a16_7_10", C_CHUNKS_A16_7_10, chunks_a16::<7, 10> as fn() -> Out),
+    ("chunks_mut_a16_7_10", C_CHUNKS_MUT_A16_7_10, chunks_mut_a16::<7, 10> as fn() -> Out),
+    ("chunks_a16_7_11", C_CHUNKS_A16_7_11, chunks_a16::<7, 11> as fn() -> Out),
+    ("chunks_mut_a16_7_11", C_CHUNKS_MUT_A16_7_11, chunks_mut_a16::<7, 11> as fn() -> Out),
+    ("chunks_a16_7_12", C_CHUNKS_A16_7_12, chunks_a16::<7, 12> as fn() -> Out),
+    ("chunks_mut_a16_7_12", C_CHUNKS_MUT_A16_7_12, chunks_mut_a16::<7, 12> as fn() -> Out),
+    ("chunks_a16_7_13", C_CHUNKS_A16_7_13, chunks_a16::<7, 13> as fn() -> Out),
+    ("chunks_mut_a16_7_13", C_CHUNKS_MUT_A16_7_13, chunks_mut_a16::<7, 13> as fn() -> Out),
+    ("chunks_a16_7_14", C_CHUNKS_A16_7_14, chunks_a16::<7, 14> as fn() -> Out),
+    ("chunks_mut_a16_7_14", C_CHUNKS_MUT_A16_7_14, chunks_mut_a16::<7, 14> as fn() -> Out),
+    ("chunks_a16_7_15", C_CHUNKS_A16_7_15, chunks_a16::<7, 15> as fn() -> Out),
+    ("chunks_mut_a16_7_15", C_CHUNKS_MUT_A16_7_15, chunks_mut_a16::<7, 15> as fn() -> Out),
+    ("chunks_a16_7_16", C_CHUNKS_A16_7_16, chunks_a16::<7, 16> as fn() -> Out),
+    ("chunks_mut_a16_7_16", C_CHUNKS_MUT_A16_7_16, chunks_mut_a16::<7, 16> as fn() -> Out),
+    ("chunks_a16_7_17", C_CHUNKS_A16_7_17, chunks_a16::<7, 17> as fn() -> Out),
+    ("chunks_mut_a16_7_17", C_CHUNKS_MUT_A16_7_17, chunks_mut_a16::<7, 17> as fn() -> Out),
+    ("chunks_a16_7_18", C_CHUNKS_A16_7_18, chunks_a16::<7, 18> as fn() -> Out),
+    ("chunks_mut_a16_7_18", C_CHUNKS_MUT_A16_7_18, chunks_mut_a16::<7, 18> as fn() -> Out),
+    ("chunks_a16_7_19", C_CHUNKS_A16_7_19, chunks_a16::<7, 19> as fn() -> Out),
+    ("chunks_mut_a16_7_19", C_CHUNKS_MUT_A16_7_19, chunks_mut_a16::<7, 19> as fn() -> Out),
+    ("chunks_a16_7_20", C_CHUNKS_A16_7_20, chunks_a16::<7, 20> as fn() -> Out),
+    ("chunks_mut_a16_7_20", C_CHUNKS_MUT_A16_7_20, chunks_mut_a16::<7, 20> as fn() -> Out),
+    ("chunks_a16_7_21", C_CHUNKS_A16_7_21, chunks_a16::<7, 21> as fn() -> Out),
+    ("chunks_mut_a16_7_21", C_CHUNKS_MUT_A16_7_21, chunks_mut_a16::<7, 21> as fn() -> Out),
+    ("chunks_a16_7_22", C_CHUNKS_A16_7_22, chunks_a16::<7, 22> as fn() -> Out),
+    ("chunks_mut_a16_7_22", C_CHUNKS_MUT_A16_7_22, chunks_mut_a16::<7, 22> as fn() -> Out),
+    ("chunks_a16_7_23", C_CHUNKS_A16_7_23, chunks_a16::<7, 23> as fn() -> Out),
+    ("chunks_mut_a16_7_23", C_CHUNKS_MUT_A16_7_23, chunks_mut_a16::<7, 23> as fn() -> Out),
+    ("reinterpret_a16_7_0", C_REINTERPRET_A16_7_0, reinterpret_a16::<7, 0> as fn() -> Out),
+    ("reinterpret_a16_7_1", C_REINTERPRET_A16_7_1, reinterpret_a16::<7, 1> as fn() -> Out),
+    ("reinterpret_a16_7_6", C_REINTERPRET_A16_7_6, reinterpret_a16::<7, 6> as fn() -> Out),
+    ("reinterpret_a16_7_7", C_REINTERPRET_A16_7_7, reinterpret_a16::<7, 7> as fn() -> Out),
+    ("reinterpret_a16_7_8", C_REINTERPRET_A16_7_8, reinterpret_a16::<7, 8> as fn() -> Out),
+    ("reinterpret_a16_7_14", C_REINTERPRET_A16_7_14, reinterpret_a16::<7, 14> as fn() -> Out),
+    ("reinterpret_a16_7_23", C_REINTERPRET_A16_7_23, reinterpret_a16::<7, 23> as fn() -> Out),
+    ("byvalue_a16_7", C_BYVALUE_A16_7, byvalue_a16::<7> as fn() -> Out),
+    ("native_chunks_a16_7_0", C_NATIVE_CHUNKS_A16_7_0, native_chunks_a16::<7, 0> as fn() -> Out),
+    ("native_chunks_a16_7_1", C_NATIVE_CHUNKS_A16_7_1, native_chunks_a16::<7, 1> as fn() -> Out),
+    ("native_chunks_a16_7_2", C_NATIVE_CHUNKS_A16_7_2, native_chunks_a16::<7, 2> as fn() -> Out),
+    ("native_chunks_a16_7_3", C_NATIVE_CHUNKS_A16_7_3, native_chunks_a16::<7, 3> as fn() -> Out),
+    ("chunks_a16_8_0", C_CHUNKS_A16_8_0, chunks_a16::<8, 0> as fn() -> Out),
+    ("chunks_mut_a16_8_0", C_CHUNKS_MUT_A16_8_0, chunks_mut_a16::<8, 0> as fn() -> Out),
+    ("chunks_a16_8_1", C_CHUNKS_A16_8_1, chunks_a16::<8, 1> as fn() -> Out),
+    ("chunks_mut_a16_8_1", C_CHUNKS_MUT_A16_8_1, chunks_mut_a16::<8, 1> as fn() -> Out),
+    ("chunks_a16_8_2", C_CHUNKS_A16_8_2, chunks_a16::<8, 2> as fn() -> Out),
+    ("chunks_mut_a16_8_2", C_CHUNKS_MUT_A16_8_2, chunks_mut_a16::<8, 2> as fn() -> Out),
+    ("chunks_a16_8_3", C_CHUNKS_A16_8_3, chunks_a16::<8, 3> as fn() -> Out),
+    ("chunks_mut_a16_8_3", C_CHUNKS_MUT_A16_8_3, chunks_mut_a16::<8, 3> as fn() -> Out),
+    ("chunks_a16_8_4", C_CHUNKS_A16_8_4, chunks_a16::<8, 4> as fn() -> Out),
+    ("chunks_mut_a16_8_4", C_CHUNKS_MUT_A16_8_4, chunks_mut_a16::<8, 4> as fn() -> Out),
+    ("chunks_a16_8_5", C_CHUNKS_A16_8_5, chunks_a16::<8, 5> as fn() -> Out),
+    ("chunks_mut_a16_8_5", C_CHUNKS_MUT_A16_8_5, chunks_mut_a16::<8, 5> as fn() -> Out),
+    ("chunks_a16_8_6", C_CHUNKS_A16_8_6, chunks_a16::<8, 6> as fn() -> Out),
+    ("chunks_mut_a16_8_6", C_CHUNKS_MUT_A16_8_6, chunks_mut_a16::<8, 6> as fn() -> Out),
+    ("chunks_a16_8_7", C_CHUNKS_A16_8_7, chunks_a16::<8, 7> as fn() -> Out),
+    ("chunks_mut_a16_8_7", C_CHUNKS_MUT_A16_8_7, chunks_mut_a16::<8, 7> as fn() -> Out),
+    ("chunks_a16_8_8", C_CHUNKS_A16_8_8, chunks_a16::<8, 8> as fn() -> Out),
+    ("chunks_mut_a16_8_8", C_CHUNKS_MUT_A16_8_8, chunks_mut_a16::<8, 8> as fn() -> Out),
+    ("chunks_a16_8_9", C_CHUNKS_A16_8_9, chunks_a16::<8, 9> as fn() -> Out),
+    ("chunks_mut_a16_8_9", C_CHUNKS_MUT_A16_8_9, chunks_mut_a16::<8, 9> as fn() -> Out),
+    ("chunks_a16_8_10", C_CHUNKS_A16_8_10, chunks_a16::<8, 10> as fn() -> Out),
+    ("chunks_mut_a16_8_10", C_CHUNKS_MUT_A16_8_10, chunks_mut_a16::<8, 10> as fn() -> Out),
+    ("chunks_a16_8_11", C_CHUNKS_A16_8_11, chunks_a16::<8, 11> as fn() -> Out),
+    ("chunks_mut_a16_8_11", C_CHUNKS_MUT_A16_8_11, chunks_mut_a16::<8, 11> as fn() -> Out),
+    ("chunks_a16_8_12", C_CHUNKS_A16_8_12, chunks_a16::<8, 12> as fn() -> Out),
+    ("chunks_mut_a16_8_12", C_CHUNKS_MUT_A16_8_12, chunks_mut_a16::<8, 12> as fn() -> Out),
+    ("chunks_a16_8_13", C_CHUNKS_A16_8_13, chunks_a16::<8, 13> as fn() -> Out),
+    ("chunks_mut_a16_8_13", C_CHUNKS_MUT_A16_8_13, chunks_mut_a16::<8, 13> as fn() -> Out),
+    ("chunks_a16_8_14", C_CHUNKS_A16_8_14, chunks_a16::<8, 14> as fn() -> Out),
+    ("chunks_mut_a16_8_14", C_CHUNKS_MUT_A16_8_14, chunks_mut_a16::<8, 14> as fn() -> Out),
+    ("chunks_a16_8_15", C_CHUNKS_A16_8_15, chunks_a16::<8, 15> as fn() -> Out),
+    ("chunks_mut_a16_8_15", C_CHUNKS_MUT_A16_8_15, chunks_mut_a16::<8, 15> as fn() -> Out),
+    ("chunks_a16_8_16", C_CHUNKS_A16_8_16, chunks_a16::<8, 16> as fn() -> Out),
+    ("chunks_mut_a16_8_16", C_CHUNKS_MUT_A16_8_16, chunks_mut_a16::<8, 16> as fn() -> Out),
+    ("chunks_a16_8_17", C_CHUNKS_A16_8_17, chunks_a16::<8, 17> as fn() -> Out),
+    ("chunks_mut_a16_8_17", C_CHUNKS_MUT_A16_8_17, chunks_mut_a16::<8, 17> as fn() -> Out),
+    ("chunks_a16_8_18", C_CHUNKS_A16_8_18, chunks_a16::<8, 18> as fn() -> Out),
+    ("chunks_mut_a16_8_18", C_CHUNKS_MUT_A16_8_18, chunks_mut_a16::<8, 18> as fn() -> Out),
+    ("chunks_a16_8_19", C_CHUNKS_A16_8_19, chunks_a16::<8, 19> as fn() -> Out),
+    ("chunks_mut_a16_8_19", C_CHUNKS_MUT_A16_8_19, chunks_mut_a16::<8, 19> as fn() -> Out),
+    ("chunks_a16_8_20", C_CHUNKS_A16_8_20, chunks_a16::<8, 20> as fn() -> Out),
+    ("chunks_mut_a16_8_20", C_CHUNKS_MUT_A16_8_20, chunks_mut_a16::<8, 20> as fn() -> Out),
+    ("chunks_a16_8_21", C_CHUNKS_A16_8_21, chunks_a16::<8, 21> as fn() -> Out),
+    ("chunks_mut_a16_8_21", C_CHUNKS_MUT_A16_8_21, chunks_mut_a16::<8, 21> as fn() -> Out),
+    ("chunks_a16_8_22", C_CHUNKS_A16_8_22, chunks_a16::<8, 22> as fn() -> Out),
+    ("chunks_mut_a16_8_22", C_CHUNKS_MUT_A16_8_22, chunks_mut_a16::<8, 22> as fn() -> Out),
+    ("chunks_a16_8_23", C_CHUNKS_A16_8_23, chunks_a16::<8, 23> as fn() -> Out),
+    ("chunks_mut_a16_8_23", C_CHUNKS_MUT_A16_8_23, chunks_mut_a16::<8, 23> as fn() -> Out),
+    ("chunks_a16_8_24", C_CHUNKS_A16_8_24, chunks_a16::<8, 24> as fn() -> Out),
+    ("chunks_mut_a16_8_24", C_CHUNKS_MUT_A16_8_24, chunks_mut_a16::<8, 24> as fn() -> Out),
+    ("chunks_a16_8_25", C_CHUNKS_A16_8_25, chunks_a16::<8, 25> as fn() -> Out),
+    ("chunks_mut_a16_8_25", C_CHUNKS_MUT_A16_8_25, chunks_mut_a16::<8, 25> as fn() -> Out),
+    ("chunks_a16_8_26", C_CHUNKS_A16_8_26, chunks_a16::<8, 26> as fn() -> Out),
+    ("chunks_mut_a16_8_26", C_CHUNKS_MUT_A16_8_26, chunks_mut_a16::<8, 26> as fn() -> Out),
+    ("reinterpret_a16_8_0", C_REINTERPRET_A16_8_0, reinterpret_a16::<8, 0> as fn() -> Out),
+    ("reinterpret_a16_8_1", C_REINTERPRET_A16_8_1, reinterpret_a16::<8, 1> as fn() -> Out),
+    ("reinterpret_a16_8_7", C_REINTERPRET_A16_8_7, reinterpret_a16::<8, 7> as fn() -> Out),
+    ("reinterpret_a16_8_8", C_REINTERPRET_A16_8_8, reinterpret_a16::<8, 8> as fn() -> Out),
+    ("reinterpret_a16_8_9", C_REINTERPRET_A16_8_9, reinterpret_a16::<8, 9> as fn() -> Out),
+    ("reinterpret_a16_8_16", C_REINTERPRET_A16_8_16, reinterpret_a16::<8, 16> as fn() -> Out),
+    ("reinterpret_a16_8_26", C_REINTERPRET_A16_8_26, reinterpret_a16::<8, 26> as fn() -> Out),
+    ("byvalue_a16_8", C_BYVALUE_A16_8, byvalue_a16::<8> as fn() -> Out),
+    ("native_chunks_a16_8_0", C_NATIVE_CHUNKS_A16_8_0, native_chunks_a16::<8, 0> as fn() -> Out),
+    ("native_chunks_a16_8_1", C_NATIVE_CHUNKS_A16_8_1, native_chunks_a16::<8, 1> as fn() -> Out),
+    ("native_chunks_a16_8_2", C_NATIVE_CHUNKS_A16_8_2, native_chunks_a16::<8, 2> as fn() -> Out),
+    ("native_chunks_a16_8_3", C_NATIVE_CHUNKS_A16_8_3, native_chunks_a16::<8, 3> as fn() -> Out),
+    ("chunks_a16_16_0", C_CHUNKS_A16_16_0, chunks_a16::<16, 0> as fn() -> Out),
+    ("chunks_mut_a16_16_0", C_CHUNKS_MUT_A16_16_0, chunks_mut_a16::<16, 0> as fn() -> Out),
+    ("chunks_a16_16_1", C_CHUNKS_A16_16_1, chunks_a16::<16, 1> as fn() -> Out),
+    ("chunks_mut_a16_16_1", C_CHUNKS_MUT_A16_16_1, chunks_mut_a16::<16, 1> as fn() -> Out),
+    ("chunks_a16_16_2", C_CHUNKS_A16_16_2, chunks_a16::<16, 2> as fn() -> Out),
+    ("chunks_mut_a16_16_2", C_CHUNKS_MUT_A16_16_2, chunks_mut_a16::<16, 2> as fn() -> Out),
+    ("chunks_a16_16_3", C_CHUNKS_A16_16_3, chunks_a16::<16, 3> as fn() -> Out),
+    ("chunks_mut_a16_16_3", C_CHUNKS_MUT_A16_16_3, chunks_mut_a16::<16, 3> as fn() -> Out),
+    ("chunks_a16_16_4", C_CHUNKS_A16_16_4, chunks_a16::<16, 4> as fn() -> Out),
+    ("chunks_mut_a16_16_4", C_CHUNKS_MUT_A16_16_4, chunks_mut_a16::<16, 4> as fn() -> Out),
+    ("chunks_a16_16_5", C_CHUNKS_A16_16_5, chunks_a16::<16, 5> as fn() -> Out),
+    ("chunks_mut_a16_16_5", C_CHUNKS_MUT_A16_16_5, chunks_mut_a16::<16, 5> as fn() -> Out),
+    ("chunks_a16_16_6", C_CHUNKS_A16_16_6, chunks_a16::<16, 6> as fn() -> Out),
+    ("chunks_mut_a16_16_6", C_CHUNKS_MUT_A16_16_6, chunks_mut_a16::<16, 6> as fn() -> Out),
+    ("chunks_a16_16_7", C_CHUNKS_A16_16_7, chunks_a16::<16, 7> as fn() -> Out),
+    ("chunks_mut_a16_16_7", C_CHUNKS_MUT_A16_16_7, chunks_mut_a16::<16, 7> as fn() -> Out),
+    ("chunks_a16_16_8", C_CHUNKS_A16_16_8, chunks_a16::<16, 8> as fn() -> Out),
+    ("chunks_mut_a16_16_8", C_CHUNKS_MUT_A16_16_8, chunks_mut_a16::<16, 8> as fn() -> Out),
+    ("chunks_a16_16_9", C_CHUNKS_A16_16_9, chunks_a16::<16, 9> as fn() -> Out),
+    ("chunks_mut_a16_16_9", C_CHUNKS_MUT_A16_16_9, chunks_mut_a16::<16, 9> as fn() -> Out),
+    ("chunks_a16_16_10", C_CHUNKS_A16_16_10, chunks_a16::<16, 10> as fn() -> Out),
+    ("chunks_mut_a16_16_10", C_CHUNKS_MUT_A16_16_10, chunks_mut_a16::<16, 10> as fn() -> Out),
+    ("chunks_a16_16_11", C_CHUNKS_A16_16_11, chunks_a16::<16, 11> as fn() -> Out),
+    ("chunks_mut_a16_16_11", C_CHUNKS_MUT_A16_16_11, chunks_mut_a16::<16, 11> as fn() -> Out),
+    ("chunks_a16_16_12", C_CHUNKS_A16_16_12, chunks_a16::<16, 12> as fn() -> Out),
+    ("chunks_mut_a16_16_12", C_CHUNKS_MUT_A16_16_12, chunks_mut_a16::<16, 12> as fn() -> Out),
+    ("chunks_a16_16_13", C_CHUNKS_A16_16_13, chunks_a16::<16, 13> as fn() -> Out),
+    ("chunks_mut_a16_16_13", C_CHUNKS_MUT_A16_16_13, chunks_mut_a16::<16, 13> as fn() -> Out),
+    ("chunks_a16_16_14", C_CHUNKS_A16_16_14, chunks_a16::<16, 14> as fn() -> Out),
+    ("chunks_mut_a16_16_14", C_CHUNKS_MUT_A16_16_14, chunks_mut_a16::<16, 14> as fn() -> Out),
+    ("chunks_a16_16_15", C_CHUNKS_A16_16_15, chunks_a16::<16, 15> as fn() -> Out),
+    ("chunks_mut_a16_16_15", C_CHUNKS_MUT_A16_16_15, chunks_mut_a16::<16, 15> as fn() -> Out),
+    ("chunks_a16_16_16", C_CHUNKS_A16_16_16, chunks_a16::<16, 16> as fn() -> Out),
+    ("chunks_mut_a16_16_16", C_CHUNKS_MUT_A16_16_16, chunks_mut_a16::<16, 16> as fn() -> Out),
+    ("chunks_a16_16_17", C_CHUNKS_A16_16_17, chunks_a16::<16, 17> as fn() -> Out),
+    ("chunks_mut_a16_16_17", C_CHUNKS_MUT_A16_16_17, chunks_mut_a16::<16, 17> as fn() -> Out),
+    ("chunks_a16_16_18", C_CHUNKS_A16_16_18, chunks_a16::<16, 18> as fn() -> Out),
+    ("chunks_mut_a16_16_18", C_CHUNKS_MUT_A16_16_18, chunks_mut_a16::<16, 18> as fn() -> Out),
+    ("chunks_a16_16_19", C_CHUNKS_A16_16_19, chunks_a16::<16, 19> as fn() -> Out),
+    ("chunks_mut_a16_16_19", C_CHUNKS_MUT_A16_16_19, chunks_mut_a16::<16, 19> as fn() -> Out),
+    ("chunks_a16_16_20", C_CHUNKS_A16_16_20, chunks_a16::<16, 20> as fn() -> Out),
+    ("chunks_mut_a16_16_20", C_CHUNKS_MUT_A16_16_20, chunks_mut_a16::<16, 20> as fn() -> Out),
+    ("chunks_a16_16_21", C_CHUNKS_A16_16_21, chunks_a16::<16, 21> as fn() -> Out),
+    ("chunks_mut_a16_16_21", C_CHUNKS_MUT_A16_16_21, chunks_mut_a16::<16, 21> as fn() -> Out),
+    ("chunks_a16_16_22", C_CHUNKS_A16_16_22, chunks_a16::<16, 22> as fn() -> Out),
+    ("chunks_mut_a16_16_22", C_CHUNKS_MUT_A16_16_22, chunks_mut_a16::<16, 22> as fn() -> Out),
+    ("chunks_a16_16_23", C_CHUNKS_A16_16_23, chunks_a16::<16, 23> as fn() -> Out),
+    ("chunks_mut_a16_16_23", C_CHUNKS_MUT_A16_16_23, chunks_mut_a16::<16, 23> as fn() -> Out),
+    ("chunks_a16_16_24", C_CHUNKS_A16_16_24, chunks_a16::<16, 24> as fn() -> Out),
+    ("chunks_mut_a16_16_24", C_CHUNKS_MUT_A16_16_24, chunks_mut_a16::<16, 24> as fn() -> Out),
+    ("chunks_a16_16_25", C_CHUNKS_A16_16_25, chunks_a16::<16, 25> as fn() -> Out),
+    ("chunks_mut_a16_16_25", C_CHUNKS_MUT_A16_16_25, chunks_mut_a16::<16, 25> as fn() -> Out),
+    ("chunks_a16_16_26", C_CHUNKS_A16_16_26, chunks_a16::<16, 26> as fn() -> Out),
+    ("chunks_mut_a16_16_26", C_CHUNKS_MUT_A16_16_26, chunks_mut_a16::<16, 26> as fn() -> Out),
+    ("chunks_a16_16_27", C_CHUNKS_A16_16_27, chunks_a16::<16, 27> as fn() -> Out),
+    ("chunks_mut_a16_16_27", C_CHUNKS_MUT_A16_16_27, chunks_mut_a16::<16, 27> as fn() -> Out),
+    ("chunks_a16_16_28", C_CHUNKS_A16_16_28, chunks_a16::<16, 28> as fn() -> Out),
+    ("chunks_mut_a16_16_28", C_CHUNKS_MUT_A16_16_28, chunks_mut_a16::<16, 28> as fn() -> Out),
+    ("chunks_a16_16_29", C_CHUNKS_A16_16_29, chunks_a16::<16, 29> as fn() -> Out),
+    ("chunks_mut_a16_16_29", C_CHUNKS_MUT_A16_16_29, chunks_mut_a16::<16, 29> as fn() -> Out),
+    ("chunks_a16_16_30", C_CHUNKS_A16_16_30, chunks_a16::<16, 30> as fn() -> Out),
+    ("chunks_mut_a16_16_30", C_CHUNKS_MUT_A16_16_30, chunks_mut_a16::<16, 30> as fn() -> Out),
+    ("chunks_a16_16_31", C_CHUNKS_A16_16_31, chunks_a16::<16, 31> as fn() -> Out),
+    ("chunks_mut_a16_16_31", C_CHUNKS_MUT_A16_16_31, chunks_mut_a16::<16, 31> as fn() -> Out),
+    ("chunks_a16_16_32", C_CHUNKS_A16_16_32, chunks_a16::<16, 32> as fn() -> Out),
+    ("chunks_mut_a16_16_32", C_CHUNKS_MUT_A16_16_32, chunks_mut_a16::<16, 32> as fn() -> Out),
+    ("chunks_a16_16_33", C_CHUNKS_A16_16_33, chunks_a16::<16, 33> as fn() -> Out),
+    ("chunks_mut_a16_16_33", C_CHUNKS_MUT_A16_16_33, chunks_mut_a16::<16, 33> as fn() -> Out),
+    ("chunks_a16_16_34", C_CHUNKS_A16_16_34, chunks_a16::<16, 34> as fn() -> Out),
+    ("chunks_mut_a16_16_34", C_CHUNKS_MUT_A16_16_34, chunks_mut_a16::<16, 34> as fn() -> Out),
+    ("chunks_a16_16_35", C_CHUNKS_A16_16_35, chunks_a16::<16, 35> as fn() -> Out),
+    ("chunks_mut_a16_16_35", C_CHUNKS_MUT_A16_16_35, chunks_mut_a16::<16, 35> as fn() -> Out),
+    ("chunks_a16_16_36", C_CHUNKS_A16_16_36, chunks_a16::<16, 36> as fn() -> Out),
+    ("chunks_mut_a16_16_36", C_CHUNKS_MUT_A16_16_36, chunks_mut_a16::<16, 36> as fn() -> Out),
+    ("chunks_a16_16_37", C_CHUNKS_A16_16_37, chunks_a16::<16, 37> as fn() -> Out),
+    ("chunks_mut_a16_16_37", C_CHUNKS_MUT_A16_16_37, chunks_mut_a16::<16, 37> as fn() -> Out),
+    ("chunks_a16_16_38", C_CHUNKS_A16_16_38, chunks_a16::<16, 38> as fn() -> Out),
+    ("chunks_mut_a16_16_38", C_CHUNKS_MUT_A16_16_38, chunks_mut_a16::<16, 38> as fn() -> Out),
+    ("chunks_a16_16_39", C_CHUNKS_A16_16_39, chunks_a16::<16, 39> as fn() -> Out),
+    ("chunks_mut_a16_16_39", C_CHUNKS_MUT_A16_16_39, chunks_mut_a16::<16, 39> as fn() -> Out),
+    ("chunks_a16_16_40", C_CHUNKS_A16_16_40, chunks_a16::<16, 40> as fn() -> Out),
+    ("chunks_mut_a16_16_40", C_CHUNKS_MUT_A16_16_40, chunks_mut_a16::<16, 40> as fn() -> Out),
+    ("chunks_a16_16_41", C_CHUNKS_A16_16_41, chunks_a16::<16, 41> as fn() -> Out),
+    ("chunks_mut_a16_16_41", C_CHUNKS_MUT_A16_16_41, chunks_mut_a16::<16, 41> as fn() -> Out),
+    ("chunks_a16_16_42", C_CHUNKS_A16_16_42, chunks_a16::<16, 42> as fn() -> Out),
+    ("chunks_mut_a16_16_42", C_CHUNKS_MUT_A16_16_42, chunks_mut_a16::<16, 42> as fn() -> Out),
+    ("chunks_a16_16_43", C_CHUNKS_A16_16_43, chunks_a16::<16, 43> as fn() -> Out),
+    ("chunks_mut_a16_16_43", C_CHUNKS_MUT_A16_16_43, chunks_mut_a16::<16, 43> as fn() -> Out),
+    ("chunks_a16_16_44", C_CHUNKS_A16_16_44, chunks_a16::<16, 44> as fn() -> Out),
+    ("chunks_mut_a16_16_44", C_CHUNKS_MUT_A16_16_44, chunks_mut_a16::<16, 44> as fn() -> Out),
+    ("chunks_a16_16_45", C_CHUNKS_A16_16_45, chunks_a16::<16, 45> as fn() -> Out),
+    ("chunks_mut_a16_16_45", C_CHUNKS_MUT_A16_16_45, chunks_mut_a16::<16, 45> as fn() -> Out),
+    ("chunks_a16_16_46", C_CHUNKS_A16_16_46, chunks_a16::<16, 46> as fn() -> Out),
+    ("chunks_mut_a16_16_46", C_CHUNKS_MUT_A16_16_46, chunks_mut_a16::<16, 46> as fn() -> Out),
+    ("chunks_a16_16_47", C_CHUNKS_A16_16_47, chunks_a16::<16, 47> as fn() -> Out),
+    ("chunks_mut_a16_16_47", C_CHUNKS_MUT_A16_16_47, chunks_mut_a16::<16, 47> as fn() -> Out),
+    ("chunks_a16_16_48", C_CHUNKS_A16_16_48, chunks_a16::<16, 48> as fn() -> Out),
+    ("chunks_mut_a16_16_48", C_CHUNKS_MUT_A16_16_48, chunks_mut_a16::<16, 48> as fn() -> Out),
+    ("chunks_a16_16_49", C_CHUNKS_A16_16_49, chunks_a16::<16, 49> as fn() -> Out),
+    ("chunks_mut_a16_16_49", C_CHUNKS_MUT_A16_16_49, chunks_mut_a16::<16, 49> as fn() -> Out),
+    ("chunks_a16_16_50", C_CHUNKS_A16_16_50, chunks_a16::<16, 50> as fn() -> Out),
+    ("chunks_mut_a16_16_50", C_CHUNKS_MUT_A16_16_50, chunks_mut_a16::<16, 50> as fn() -> Out),
+    ("reinterpret_a16_16_0", C_REINTERPRET_A16_16_0, reinterpret_a16::<16, 0> as fn() -> Out),
+    ("reinterpret_a16_16_1", C_REINTERPRET_A16_16_1, reinterpret_a16::<16, 1> as fn() -> Out),
+    ("reinterpret_a16_16_15", C_REINTERPRET_A16_16_15, reinterpret_a16::<16, 15> as fn() -> Out),
+    ("reinterpret_a16_16_16", C_REINTERPRET_A16_16_16, reinterpret_a16::<16, 16> as fn() -> Out),
+    ("reinterpret_a16_16_17", C_REINTERPRET_A16_16_17, reinterpret_a16::<16, 17> as fn() -> Out),
+    ("reinterpret_a16_16_32", C_REINTERPRET_A16_16_32, reinterpret_a16::<16, 32> as fn() -> Out),
+    ("reinterpret_a16_16_50", C_REINTERPRET_A16_16_50, reinterpret_a16::<16, 50> as fn() -> Out),
+    ("byvalue_a16_16", C_BYVALUE_A16_16, byvalue_a16::<16> as fn() -> Out),
+    ("native_chunks_a16_16_0", C_NATIVE_CHUNKS_A16_16_0, native_chunks_a16::<16, 0> as fn() -> Out),
+    ("native_chunks_a16_16_1", C_NATIVE_CHUNKS_A16_16_1, native_chunks_a16::<16, 1> as fn() -> Out),
+    ("native_chunks_a16_16_2", C_NATIVE_CHUNKS_A16_16_2, native_chunks_a16::<16, 2> as fn() -> Out),
+    ("native_chunks_a16_16_3", C_NATIVE_CHUNKS_A16_16_3, native_chunks_a16::<16, 3> as fn() -> Out),
+    ("chunks_a16_17_0", C_CHUNKS_A16_17_0, chunks_a16::<17, 0> as fn() -> Out),
+    ("chunks_mut_a16_17_0", C_CHUNKS_MUT_A16_17_0, chunks_mut_a16::<17, 0> as fn() -> Out),
+    ("chunks_a16_17_1", C_CHUNKS_A16_17_1, chunks_a16::<17, 1> as fn() -> Out),
+    ("chunks_mut_a16_17_1", C_CHUNKS_MUT_A16_17_1, chunks_mut_a16::<17, 1> as fn() -> Out),
+    ("chunks_a16_17_2", C_CHUNKS_A16_17_2, chunks_a16::<17, 2> as fn() -> Out),
+    ("chunks_mut_a16_17_2", C_CHUNKS_MUT_A16_17_2, chunks_mut_a16::<17, 2> as fn() -> Out),
+    ("chunks_a16_17_3", C_CHUNKS_A16_17_3, chunks_a16::<17, 3> as fn() -> Out),
+    ("chunks_mut_a16_17_3", C_CHUNKS_MUT_A16_17_3, chunks_mut_a16::<17, 3> as fn() -> Out),
+    ("chunks_a16_17_4", C_CHUNKS_A16_17_4, chunks_a16::<17, 4> as fn() -> Out),
+    ("chunks_mut_a16_17_4", C_CHUNKS_MUT_A16_17_4, chunks_mut_a16::<17, 4> as fn() -> Out),
+    ("chunks_a16_17_5", C_CHUNKS_A16_17_5, chunks_a16::<17, 5> as fn() -> Out),
+    ("chunks_mut_a16_17_5", C_CHUNKS_MUT_A16_17_5, chunks_mut_a16::<17, 5> as fn() -> Out),
+    ("chunks_a16_17_6", C_CHUNKS_A16_17_6, chunks_a16::<17, 6> as fn() -> Out),
+    ("chunks_mut_a16_17_6", C_CHUNKS_MUT_A16_17_6, chunks_mut_a16::<17, 6> as fn() -> Out),
+    ("chunks_a16_17_7", C_CHUNKS_A16_17_7, chunks_a16::<17, 7> as fn() -> Out),
+    ("chunks_mut_a16_17_7", C_CHUNKS_MUT_A16_17_7, chunks_mut_a16::<17, 7> as fn() -> Out),
+    ("chunks_a16_17_8", C_CHUNKS_A16_17_8, chunks_a16::<17, 8> as fn() -> Out),
+    ("chunks_mut_a16_17_8", C_CHUNKS_MUT_A16_17_8, chunks_mut_a16::<17, 8> as fn() -> Out),
+    ("chunks_a16_17_9", C_CHUNKS_A16_17_9, chunks_a16::<17, 9> as fn() -> Out),
+    ("chunks_mut_a16_17_9", C_CHUNKS_MUT_A16_17_9, chunks_mut_a16::<17, 9> as fn() -> Out),
+    ("chunks_a16_17_10", C_CHUNKS_A16_17_10, chunks_a16::<17, 10> as fn() -> Out),
+    ("chunks_mut_a16_17_10", C_CHUNKS_MUT_A16_17_10, chunks_mut_a16::<17, 10> as fn() -> Out),
+    ("chunks_a16_17_11", C_CHUNKS_A16_17_11, chunks_a16::<17, 11> as fn() -> Out),
+    ("chunks_mut_a16_17_11", C_CHUNKS_MUT_A16_17_11, chunks_mut_a16::<17, 11> as fn() -> Out),
+    ("chunks_a16_17_12", C_CHUNKS_A16_17_12, chunks_a16::<17, 12> as fn() -> Out),
+    ("chunks_mut_a16_17_12", C_CHUNKS_MUT_A16_17_12, chunks_mut_a16::<17, 12> as fn() -> Out),
+    ("chunks_a16_17_13", C_CHUNKS_A16_17_13, chunks_a16::<17, 13> as fn() -> Out),
+    ("chunks_mut_a16_17_13", C_CHUNKS_MUT_A16_17_13, chunks_mut_a16::<17, 13> as fn() -> Out),
+    ("chunks_a16_17_14", C_CHUNKS_A16_17_14, chunks_a16::<17, 14> as fn() -> Out),
+    ("chunks_mut_a16_17_14", C_CHUNKS_MUT_A16_17_14, chunks_mut_a16::<17, 14> as fn() -> Out),
+    ("chunks_a16_17_15", C_CHUNKS_A16_17_15, chunks_a16::<17, 15> as fn() -> Out),
+    ("chunks_mut_a16_17_15", C_CHUNKS_MUT_A16_17_15, chunks_mut_a16::<17, 15> as fn() -> Out),
+    ("chunks_a16_17_16", C_CHUNKS_A16_17_16, chunks_a16::<17, 16> as fn() -> Out),
+    ("chunks_mut_a16_17_16", C_CHUNKS_MUT_A16_17_16, chunks_mut_a16::<17, 16> as fn() -> Out),
+    ("chunks_a16_17_17", C_CHUNKS_A16_17_17, chunks_a16::<17, 17> as fn() -> Out),
+    ("chunks_mut_a16_17_17", C_CHUNKS_MUT_A16_17_17, chunks_mut_a16::<17, 17> as fn() -> Out),
+    ("chunks_a16_17_18", C_CHUNKS_A16_17_18, chunks_a16::<17, 18> as fn() -> Out),
+    ("chunks_mut_a16_17_18", C_CHUNKS_MUT_A16_17_18, chunks_mut_a16::<17, 18> as fn() -> Out),
+    ("chunks_a16_17_19", C_CHUNKS_A16_17_19, chunks_a16::<17, 19> as fn() -> Out),
+    ("chunks_mut_a16_17_19", C_CHUNKS_MUT_A16_17_19, chunks_mut_a16::<17, 19> as fn() -> Out),
+    ("chunks_a16_17_20", C_CHUNKS_A16_17_20, chunks_a16::<17, 20> as fn() -> Out),
+    ("chunks_mut_a16_17_20", C_CHUNKS_MUT_A16_17_20, chunks_mut_a16::<17, 20> as fn() -> Out),
+    ("chunks_a16_17_21", C_CHUNKS_A16_17_21, chunks_a16::<17, 21> as fn() -> Out),
+    ("chunks_mut_a16_17_21", C_CHUNKS_MUT_A16_17_21, chunks_mut_a16::<17, 21> as fn() -> Out),
+    ("chunks_a16_17_22", C_CHUNKS_A16_17_22, chunks_a16::<17, 22> as fn() -> Out),
+    ("chunks_mut_a16_17_22", C_CHUNKS_MUT_A16_17_22, chunks_mut_a16::<17, 22> as fn() -> Out),
+    ("chunks_a16_17_23", C_CHUNKS_A16_17_23, chunks_a16::<17, 23> as fn() -> Out),
+    ("chunks_mut_a16_17_23", C_CHUNKS_MUT_A16_17_23, chunks_mut_a16::<17, 23> as fn() -> Out),
+    ("chunks_a16_17_24", C_CHUNKS_A16_17_24, chunks_a16::<17, 24> as fn() -> Out),
+    ("chunks_mut_a16_17_24", C_CHUNKS_MUT_A16_17_24, chunks_mut_a16::<17, 24> as fn() -> Out),
+    ("chunks_a16_17_25", C_CHUNKS_A16_17_25, chunks_a16::<17, 25> as fn() -> Out),
+    ("chunks_mut_a16_17_25", C_CHUNKS_MUT_A16_17_25, chunks_mut_a16::<17, 25> as fn() -> Out),
+    ("chunks_a16_17_26", C_CHUNKS_A16_17_26, chunks_a16::<17, 26> as fn() -> Out),
+    ("chunks_mut_a16_17_26", C_CHUNKS_MUT_A16_17_26, chunks_mut_a16::<17, 26> as fn() -> Out),
+    ("chunks_a16_17_27", C_CHUNKS_A16_17_27, chunks_a16::<17, 27> as fn() -> Out),
+    ("chunks_mut_a16_17_27", C_CHUNKS_MUT_A16_17_27, chunks_mut_a16::<17, 27> as fn() -> Out),
+    ("chunks_a16_17_28", C_CHUNKS_A16_17_28, chunks_a16::<17, 28> as fn() -> Out),
+    ("chunks_mut_a16_17_28", C_CHUNKS_MUT_A16_17_28, chunks_mut_a16::<17, 28> as fn() -> Out),
+    ("chunks_a16_17_29", C_CHUNKS_A16_17_29, chunks_a16::<17, 29> as fn() -> Out),
+    ("chunks_mut_a16_17_29", C_CHUNKS_MUT_A16_17_29, chunks_mut_a16::<17, 29> as fn() -> Out),
+    ("chunks_a16_17_30", C_CHUNKS_A16_17_30, chunks_a16::<17, 30> as fn() -> Out),
+    ("chunks_mut_a16_17_30", C_CHUNKS_MUT_A16_17_30, chunks_mut_a16::<17, 30> as fn() -> Out),
+    ("chunks_a16_17_31", C_CHUNKS_A16_17_31, chunks_a16::<17, 31> as fn() -> Out),
+    ("chunks_mut_a16_17_31", C_CHUNKS_MUT_A16_17_31, chunks_mut_a16::<17, 31> as fn() -> Out),
+    ("chunks_a16_17_32", C_CHUNKS_A16_17_32, chunks_a16::<17, 32> as fn() -> Out),
+    ("chunks_mut_a16_17_32", C_CHUNKS_MUT_A16_17_32, chunks_mut_a16::<17, 32> as fn() -> Out),
+    ("chunks_a16_17_33", C_CHUNKS_A16_17_33, chunks_a16::<17, 33> as fn() -> Out),
+    ("chunks_mut_a16_17_33", C_CHUNKS_MUT_A16_17_33, chunks_mut_a16::<17, 33> as fn() -> Out),
+    ("chunks_a16_17_34", C_CHUNKS_A16_17_34, chunks_a16::<17, 34> as fn() -> Out),
+    ("chunks_mut_a16_17_34", C_CHUNKS_MUT_A16_17_34, chunks_mut_a16::<17, 34> as fn() -> Out),
+    ("chunks_a16_17_35", C_CHUNKS_A16_17_35, chunks_a16::<17, 35> as fn() -> Out),
+    ("chunks_mut_a16_17_35", C_CHUNKS_MUT_A16_17_35, chunks_mut_a16::<17, 35> as fn() -> Out),
+    ("chunks_a16_17_36", C_CHUNKS_A16_17_36, chunks_a16::<17, 36> as fn() -> Out),
+    ("chunks_mut_a16_17_36", C_CHUNKS_MUT_A16_17_36, chunks_mut_a16::<17, 36> as fn() -> Out),
+    ("chunks_a16_17_37", C_CHUNKS_A16_17_37, chunks_a16::<17, 37> as fn() -> Out),
+    ("chunks_mut_a16_17_37", C_CHUNKS_MUT_A16_17_37, chunks_mut_a16::<17, 37> as fn() -> Out),
+    ("chunks_a16_17_38", C_CHUNKS_A16_17_38, chunks_a16::<17, 38> as fn() -> Out),
+    ("chunks_mut_a16_17_38", C_CHUNKS_MUT_A16_17_38, chunks_mut_a16::<17, 38> as fn() -> Out),
+    ("chunks_a16_17_39", C_CHUNKS_A16_17_39, chunks_a16::<17, 39> as fn() -> Out),
+    ("chunks_mut_a16_17_39", C_CHUNKS_MUT_A16_17_39, chunks_mut_a16::<17, 39> as fn() -> Out),
+    ("chunks_a16_17_40", C_CHUNKS_A16_17_40, chunks_a16::<17, 40> as fn() -> Out),
+    ("chunks_mut_a16_17_40", C_CHUNKS_MUT_A16_17_40, chunks_mut_a16::<17, 40> as fn() -> Out),
+    ("chunks_a16_17_41", C_CHUNKS_A16_17_41, chunks_a16::<17, 41> as fn() -> Out),
+    ("chunks_mut_a16_17_41", C_CHUNKS_MUT_A16_17_41, chunks_mut_a16::<17, 41> as fn() -> Out),
+    ("chunks_a16_17_42", C_CHUNKS_A16_17_42, chunks_a16::<17, 42> as fn() -> Out),
+    ("chunks_mut_a16_17_42", C_CHUNKS_MUT_A16_17_42, chunks_mut_a16::<17, 42> as fn() -> Out),
+    ("chunks_a16_17_43", C_CHUNKS_A16_17_43, chunks_a16::<17, 43> as fn() -> Out),
+    ("chunks_mut_a16_17_43", C_CHUNKS_MUT_A16_17_43, chunks_mut_a16::<17, 43> as fn() -> Out),
+    ("chunks_a16_17_44", C_CHUNKS_A16_17_44, chunks_a16::<17, 44> as fn() -> Out),
+    ("chunks_mut_a16_17_44", C_CHUNKS_MUT_A16_17_44, chunks_mut_a16::<17, 44> as fn() -> Out),
+    ("chunks_a16_17_45", C_CHUNKS_A16_17_45, chunks_a16::<17, 45> as fn() -> Out),
+    ("chunks_mut_a16_17_45", C_CHUNKS_MUT_A16_17_45, chunks_mut_a16::<17, 45> as fn() -> Out),
+    ("chunks_a16_17_46", C_CHUNKS_A16_17_46, chunks_a16::<17, 46> as fn() -> Out),
+    ("chunks_mut_a16_17_46", C_CHUNKS_MUT_A16_17_46, chunks_mut_a16::<17, 46> as fn() -> Out),
+    ("chunks_a16_17_47", C_CHUNKS_A16_17_47, chunks_a16::<17, 47> as fn() -> Out),
+    ("chunks_mut_a16_17_47", C_CHUNKS_MUT_A16_17_47, chunks_mut_a16::<17, 47> as fn() -> Out),
+    ("chunks_a16_17_48", C_CHUNKS_A16_17_48, chunks_a16::<17, 48> as fn() -> Out),
+    ("chunks_mut_a16_17_48", C_CHUNKS_MUT_A16_17_48, chunks_mut_a16::<17, 48> as fn() -> Out),
+    ("chunks_a16_17_49", C_CHUNKS_A16_17_49, chunks_a16::<17, 49> as fn() -> Out),
+    ("chunks_mut_a16_17_49", C_CHUNKS_MUT_A16_17_49, chunks_mut_a16::<17, 49> as fn() -> Out),
+    ("chunks_a16_17_50", C_CHUNKS_A16_17_50, chunks_a16::<17, 50> as fn() -> Out),
+    ("chunks_mut_a16_17_50", C_CHUNKS_MUT_A16_17_50, chunks_mut_a16::<17, 50> as fn() -> Out),
+    ("chunks_a16_17_51", C_CHUNKS_A16_17_51, chunks_a16::<17, 51> as fn() -> Out),
+    ("chunks_mut_a16_17_51", C_CHUNKS_MUT_A16_17_51, chunks_mut_a16::<17, 51> as fn() -> Out),
+    ("chunks_a16_17_52", C_CHUNKS_A16_17_52, chunks_a16::<17, 52> as fn() -> Out),
+    ("chunks_mut_a16_17_52", C_CHUNKS_MUT_A16_17_52, chunks_mut_a16::<17, 52> as fn() -> Out),
+    ("chunks_a16_17_53", C_CHUNKS_A16_17_53, chunks_a16::<17, 53> as fn() -> Out),
+    ("chunks_mut_a16_17_53", C_CHUNKS_MUT_A16_17_53, chunks_mut_a16::<17, 53> as fn() -> Out),
+    ("reinterpret_a16_17_0", C_REINTERPRET_A16_17_0, reinterpret_a16::<17, 0> as fn() -> Out),
+    ("reinterpret_a16_17_1", C_REINTERPRET_A16_17_1, reinterpret_a16::<17, 1> as fn() -> Out),
+    ("reinterpret_a16_17_16", C_REINTERPRET_A16_17_16, reinterpret_a16::<17, 16> as fn() -> Out),
+    ("reinterpret_a16_17_17", C_REINTERPRET_A16_17_17, reinterpret_a16::<17, 17> as fn() -> Out),
+    ("reinterpret_a16_17_18", C_REINTERPRET_A16_17_18, reinterpret_a16::<17, 18> as fn() -> Out),
+    ("reinterpret_a16_17_34", C_REINTERPRET_A16_17_34, reinterpret_a16::<17, 34> as fn() -> Out),
+    ("reinterpret_a16_17_53", C_REINTERPRET_A16_17_53, reinterpret_a16::<17, 53> as fn() -> Out),
+    ("byvalue_a16_17", C_BYVALUE_A16_17, byvalue_a16::<17> as fn() -> Out),
+    ("native_chunks_a16_17_0", C_NATIVE_CHUNKS_A16_17_0, native_chunks_a16::<17, 0> as fn() -> Out),
+    ("native_chunks_a16_17_1", C_NATIVE_CHUNKS_A16_17_1, native_chunks_a16::<17, 1> as fn() -> Out),
+    ("native_chunks_a16_17_2", C_NATIVE_CHUNKS_A16_17_2, native_chunks_a16::<17, 2> as fn() -> Out),
+    ("native_chunks_a16_17_3", C_NATIVE_CHUNKS_A16_17_3, native_chunks_a16::<17, 3> as fn() -> Out),
+    ("chunks_a16_33_0", C_CHUNKS_A16_33_0, chunks_a16::<33, 0> as fn() -> Out),
+    ("chunks_mut_a16_33_0", C_CHUNKS_MUT_A16_33_0, chunks_mut_a16::<33, 0> as fn() -> Out),
+    ("chunks_a16_33_1", C_CHUNKS_A16_33_1, chunks_a16::<33, 1> as fn() -> Out),
+    ("chunks_mut_a16_33_1", C_CHUNKS_MUT_A16_33_1, chunks_mut_a16::<33, 1> as fn() -> Out),
+    ("chunks_a16_33_32", C_CHUNKS_A16_33_32, chunks_a16::<33, 32> as fn() -> Out),
+    ("chunks_mut_a16_33_32", C_CHUNKS_MUT_A16_33_32, chunks_mut_a16::<33, 32> as fn() -> Out),
+    ("chunks_a16_33_33", C_CHUNKS_A16_33_33, chunks_a16::<33, 33> as fn() -> Out),
+    ("chunks_mut_a16_33_33", C_CHUNKS_MUT_A16_33_33, chunks_mut_a16::<33, 33> as fn() -> Out),
+    ("chunks_a16_33_34", C_CHUNKS_A16_33_34, chunks_a16::<33, 34> as fn() -> Out),
+    ("chunks_mut_a16_33_34", C_CHUNKS_MUT_A16_33_34, chunks_mut_a16::<33, 34> as fn() -> Out),
+    ("chunks_a16_33_65", C_CHUNKS_A16_33_65, chunks_a16::<33, 65> as fn() -> Out),
+    ("chunks_mut_a16_33_65", C_CHUNKS_MUT_A16_33_65, chunks_mut_a16::<33, 65> as fn() -> Out),
+    ("chunks_a16_33_66", C_CHUNKS_A16_33_66, chunks_a16::<33, 66> as fn() -> Out),
+    ("chunks_mut_a16_33_66", C_CHUNKS_MUT_A16_33_66, chunks_mut_a16::<33, 66> as fn() -> Out),
+    ("chunks_a16_33_67", C_CHUNKS_A16_33_67, chunks_a16::<33, 67> as fn() -> Out),
+    ("chunks_mut_a16_33_67", C_CHUNKS_MUT_A16_33_67, chunks_mut_a16::<33, 67> as fn() -> Out),
+    ("chunks_a16_33_98", C_CHUNKS_A16_33_98, chunks_a16::<33, 98> as fn() -> Out),
+    ("chunks_mut_a16_33_98", C_CHUNKS_MUT_A16_33_98, chunks_mut_a16::<33, 98> as fn() -> Out),
+    ("chunks_a16_33_99", C_CHUNKS_A16_33_99, chunks_a16::<33, 99> as fn() -> Out),
+    ("chunks_mut_a16_33_99", C_CHUNKS_MUT_A16_33_99, chunks_mut_a16::<33, 99> as fn() -> Out),
+    ("chunks_a16_33_100", C_CHUNKS_A16_33_100, chunks_a16::<33, 100> as fn() -> Out),
+    ("chunks_mut_a16_33_100", C_CHUNKS_MUT_A16_33_100, chunks_mut_a16::<33, 100> as fn() -> Out),
+    ("chunks_a16_33_101", C_CHUNKS_A16_33_101, chunks_a16::<33, 101> as fn() -> Out),
+    ("chunks_mut_a16_33_101", C_CHUNKS_MUT_A16_33_101, chunks_mut_a16::<33, 101> as fn() -> Out),
+    ("reinterpret_a16_33_0", C_REINTERPRET_A16_33_0, reinterpret_a16::<33, 0> as fn() -> Out),
+    ("reinterpret_a16_33_1", C_REINTERPRET_A16_33_1, reinterpret_a16::<33, 1> as fn() -> Out),
+    ("reinterpret_a16_33_32", C_REINTERPRET_A16_33_32, reinterpret_a16::<33, 32> as fn() -> Out),
+    ("reinterpret_a16_33_33", C_REINTERPRET_A16_33_33, reinterpret_a16::<33, 33> as fn() -> Out),
+    ("reinterpret_a16_33_34", C_REINTERPRET_A16_33_34, reinterpret_a16::<33, 34> as fn() -> Out),
+    ("reinterpret_a16_33_66", C_REINTERPRET_A16_33_66, reinterpret_a16::<33, 66> as fn() -> Out),
+    ("reinterpret_a16_33_101", C_REINTERPRET_A16_33_101, reinterpret_a16::<33, 101> as fn() -> Out),
+    ("byvalue_a16_33", C_BYVALUE_A16_33, byvalue_a16::<33> as fn() -> Out),
+    ("native_chunks_a16_33_0", C_NATIVE_CHUNKS_A16_33_0, native_chunks_a16::<33, 0> as fn() -> Out),
+    ("native_chunks_a16_33_1", C_NATIVE_CHUNKS_A16_33_1, native_chunks_a16::<33, 1> as fn() -> Out),
+    ("native_chunks_a16_33_2", C_NATIVE_CHUNKS_A16_33_2, native_chunks_a16::<33, 2> as fn() -> Out),
+    ("native_chunks_a16_33_3", C_NATIVE_CHUNKS_A16_33_3, native_chunks_a16::<33, 3> as fn() -> Out),
+    ("chunks_a16_64_0", C_CHUNKS_A16_64_0, chunks_a16::<64, 0> as fn() -> Out),
+    ("chunks_mut_a16_64_0", C_CHUNKS_MUT_A16_64_0, chunks_mut_a16::<64, 0> as fn() -> Out),
+    ("chunks_a16_64_1", C_CHUNKS_A16_64_1, chunks_a16::<64, 1> as fn() -> Out),
+    ("chunks_mut_a16_64_1", C_CHUNKS_MUT_A16_64_1, chunks_mut_a16::<64, 1> as fn() -> Out),
+    ("chunks_a16_64_63", C_CHUNKS_A16_64_63, chunks_a16::<64, 63> as fn() -> Out),
+    ("chunks_mut_a16_64_63", C_CHUNKS_MUT_A16_64_63, chunks_mut_a16::<64, 63> as fn() -> Out),
+    ("chunks_a16_64_64", C_CHUNKS_A16_64_64, chunks_a16::<64, 64> as fn() -> Out),
+    ("chunks_mut_a16_64_64", C_CHUNKS_MUT_A16_64_64, chunks_mut_a16::<64, 64> as fn() -> Out),
+    ("chunks_a16_64_65", C_CHUNKS_A16_64_65, chunks_a16::<64, 65> as fn() -> Out),
+    ("chunks_mut_a16_64_65", C_CHUNKS_MUT_A16_64_65, chunks_mut_a16::<64, 65> as fn() -> Out),
+    ("chunks_a16_64_127", C_CHUNKS_A16_64_127, chunks_a16::<64, 127> as fn() -> Out),
+    ("chunks_mut_a16_64_127", C_CHUNKS_MUT_A16_64_127, chunks_mut_a16::<64, 127> as fn() -> Out),
+    ("chunks_a16_64_128", C_CHUNKS_A16_64_128, chunks_a16::<64, 128> as fn() -> Out),
+    ("chunks_mut_a16_64_128", C_CHUNKS_MUT_A16_64_128, chunks_mut_a16::<64, 128> as fn() -> Out),
+    ("chunks_a16_64_129", C_CHUNKS_A16_64_129, chunks_a16::<64, 129> as fn() -> Out),
+    ("chunks_mut_a16_64_129", C_CHUNKS_MUT_A16_64_129, chunks_mut_a16::<64, 129> as fn() -> Out),
+    ("chunks_a16_64_191", C_CHUNKS_A16_64_191, chunks_a16::<64, 191> as fn() -> Out),
+    ("chunks_mut_a16_64_191", C_CHUNKS_MUT_A16_64_191, chunks_mut_a16::<64, 191> as fn() -> Out),
+    ("chunks_a16_64_192", C_CHUNKS_A16_64_192, chunks_a16::<64, 192> as fn() -> Out),
+    ("chunks_mut_a16_64_192", C_CHUNKS_MUT_A16_64_192, chunks_mut_a16::<64, 192> as fn() -> Out),
+    ("chunks_a16_64_193", C_CHUNKS_A16_64_193, chunks_a16::<64, 193> as fn() -> Out),
+    ("chunks_mut_a16_64_193", C_CHUNKS_MUT_A16_64_193, chunks_mut_a16::<64, 193> as fn() -> Out),
+    ("chunks_a16_64_194", C_CHUNKS_A16_64_194, chunks_a16::<64, 194> as fn() -> Out),
+    ("chunks_mut_a16_64_194", C_CHUNKS_MUT_A16_64_194, chunks_mut_a16::<64, 194> as fn() -> Out),
+    ("reinterpret_a16_64_0", C_REINTERPRET_A16_64_0, reinterpret_a16::<64, 0> as fn() -> Out),
+    ("reinterpret_a16_64_1", C_REINTERPRET_A16_64_1, reinterpret_a16::<64, 1> as fn() -> Out),
+    ("reinterpret_a16_64_63", C_REINTERPRET_A16_64_63, reinterpret_a16::<64, 63> as fn() -> Out),
+    ("reinterpret_a16_64_64", C_REINTERPRET_A16_64_64, reinterpret_a16::<64, 64> as fn() -> Out),
+    ("reinterpret_a16_64_65", C_REINTERPRET_A16_64_65, reinterpret_a16::<64, 65> as fn() -> Out),
+    ("reinterpret_a16_64_128", C_REINTERPRET_A16_64_128, reinterpret_a16::<64, 128> as fn() -> Out),
+    ("reinterpret_a16_64_194", C_REINTERPRET_A16_64_194, reinterpret_a16::<64, 194> as fn() -> Out),
+    ("byvalue_a16_64", C_BYVALUE_A16_64, byvalue_a16::<64> as fn() -> Out),
+    ("native_chunks_a16_64_0", C_NATIVE_CHUNKS_A16_64_0, native_chunks_a16::<64, 0> as fn() -> Out),
+    ("native_chunks_a16_64_1", C_NATIVE_CHUNKS_A16_64_1, native_chunks_a16::<64, 1> as fn() -> Out),
+    ("native_chunks_a16_64_2", C_NATIVE_CHUNKS_A16_64_2, native_chunks_a16::<64, 2> as fn() -> Out),
+    ("native_chunks_a16_64_3", C_NATIVE_CHUNKS_A16_64_3, native_chunks_a16::<64, 3> as fn() -> Out),
+    ("chunks_a16_100_0", C_CHUNKS_A16_100_0, chunks_a16::<100, 0> as fn() -> Out),
+    ("chunks_mut_a16_100_0", C_CHUNKS_MUT_A16_100_0, chunks_mut_a16::<100, 0> as fn() -> Out),
+    ("chunks_a16_100_1", C_CHUNKS_A16_100_1, chunks_a16::<100, 1> as fn() -> Out),
+    ("chunks_mut_a16_100_1", C_CHUNKS_MUT_A16_100_1, chunks_mut_a16::<100, 1> as fn() -> Out),
+    ("chunks_a16_100_99", C_CHUNKS_A16_100_99, chunks_a16::<100, 99> as fn() -> Out),
+    ("chunks_mut_a16_100_99", C_CHUNKS_MUT_A16_100_99, chunks_mut_a16::<100, 99> as fn() -> Out),
+    ("chunks_a16_100_100", C_CHUNKS_A16_100_100, chunks_a16::<100, 100> as fn() -> Out),
+    ("chunks_mut_a16_100_100", C_CHUNKS_MUT_A16_100_100, chunks_mut_a16::<100, 100> as fn() -> Out),
+    ("chunks_a16_100_101", C_CHUNKS_A16_100_101, chunks_a16::<100, 101> as fn() -> Out),
+    ("chunks_mut_a16_100_101", C_CHUNKS_MUT_A16_100_101, chunks_mut_a16::<100, 101> as fn() -> Out),
+    ("chunks_a16_100_199", C_CHUNKS_A16_100_199, chunks_a16::<100, 199> as fn() -> Out),
+    ("chunks_mut_a16_100_199", C_CHUNKS_MUT_A16_100_199, chunks_mut_a16::<100, 199> as fn() -> Out),
+    ("chunks_a16_100_200", C_CHUNKS_A16_100_200, chunks_a16::<100, 200> as fn() -> Out),
+    ("chunks_mut_a16_100_200", C_CHUNKS_MUT_A16_100_200, chunks_mut_a16::<100, 200> as fn() -> Out),
+    ("chunks_a16_100_201", C_CHUNKS_A16_100_201, chunks_a16::<100, 201> as fn() -> Out),
+    ("chunks_mut_a16_100_201", C_CHUNKS_MUT_A16_100_201, chunks_mut_a16::<100, 201> as fn() -> Out),
+    ("chunks_a16_100_302", C_CHUNKS_A16_100_302, chunks_a16::<100, 302> as fn() -> Out),
+    ("chunks_mut_a16_100_302", C_CHUNKS_MUT_A16_100_302, chunks_mut_a16::<100, 302> as fn() -> Out),
+    ("reinterpret_a16_100_0", C_REINTERPRET_A16_100_0, reinterpret_a16::<100, 0> as fn() -> Out),
+    ("reinterpret_a16_100_1", C_REINTERPRET_A16_100_1, reinterpret_a16::<100, 1> as fn() -> Out),
+    ("reinterpret_a16_100_99", C_REINTERPRET_A16_100_99, reinterpret_a16::<100, 99> as fn() -> Out),
+    ("reinterpret_a16_100_100", C_REINTERPRET_A16_100_100, reinterpret_a16::<100, 100> as fn() -> Out),
+    ("reinterpret_a16_100_101", C_REINTERPRET_A16_100_101, reinterpret_a16::<100, 101> as fn() -> Out),
+    ("reinterpret_a16_100_200", C_REINTERPRET_A16_100_200, reinterpret_a16::<100, 200> as fn() -> Out),
+    ("reinterpret_a16_100_302", C_REINTERPRET_A16_100_302, reinterpret_a16::<100, 302> as fn() -> Out),
+    ("byvalue_a16_100", C_BYVALUE_A16_100, byvalue_a16::<100> as fn() -> Out),
+    ("native_chunks_a16_100_0", C_NATIVE_CHUNKS_A16_100_0, native_chunks_a16::<100, 0> as fn() -> Out),
+    ("native_chunks_a16_100_1", C_NATIVE_CHUNKS_A16_100_1, native_chunks_a16::<100, 1> as fn() -> Out),
+    ("native_chunks_a16_100_2", C_NATIVE_CHUNKS_A16_100_2, native_chunks_a16::<100, 2> as fn() -> Out),
+    ("native_chunks_a16_100_3", C_NATIVE_CHUNKS_A16_100_3, native_chunks_a16::<100, 3> as fn() -> Out),
+    ("chunks_a16_1024_0", C_CHUNKS_A16_1024_0, chunks_a16::<1024, 0> as fn() -> Out),
+    ("chunks_mut_a16_1024_0", C_CHUNKS_MUT_A16_1024_0, chunks_mut_a16::<1024, 0> as fn() -> Out),
+    ("chunks_a16_1024_1", C_CHUNKS_A16_1024_1, chunks_a16::<1024, 1> as fn() -> Out),
+    ("chunks_mut_a16_1024_1", C_CHUNKS_MUT_A16_1024_1, chunks_mut_a16::<1024, 1> as fn() -> Out),
+    ("chunks_a16_1024_1023", C_CHUNKS_A16_1024_1023, chunks_a16::<1024, 1023> as fn() -> Out),
+    ("chunks_mut_a16_1024_1023", C_CHUNKS_MUT_A16_1024_1023, chunks_mut_a16::<1024, 1023> as fn() -> Out),
+    ("chunks_a16_1024_1024", C_CHUNKS_A16_1024_1024, chunks_a16::<1024, 1024> as fn() -> Out),
+    ("chunks_mut_a16_1024_1024", C_CHUNKS_MUT_A16_1024_1024, chunks_mut_a16::<1024, 1024> as fn() -> Out),
+    ("chunks_a16_1024_1025", C_CHUNKS_A16_1024_1025, chunks_a16::<1024, 1025> as fn() -> Out),
+    ("chunks_mut_a16_1024_1025", C_CHUNKS_MUT_A16_1024_1025, chunks_mut_a16::<1024, 1025> as fn() -> Out),
+    ("chunks_a16_1024_2047", C_CHUNKS_A16_1024_2047, chunks_a16::<1024, 2047> as fn() -> Out),
+    ("chunks_mut_a16_1024_2047", C_CHUNKS_MUT_A16_1024_2047, chunks_mut_a16::<1024, 2047> as fn() -> Out),
+    ("chunks_a16_1024_2048", C_CHUNKS_A16_1024_2048, chunks_a16::<1024, 2048> as fn() -> Out),
+    ("chunks_mut_a16_1024_2048", C_CHUNKS_MUT_A16_1024_2048, chunks_mut_a16::<1024, 2048> as fn() -> Out),
+    ("chunks_a16_1024_2049", C_CHUNKS_A16_1024_2049, chunks_a16::<1024, 2049> as fn() -> Out),
+    ("chunks_mut_a16_1024_2049", C_CHUNKS_MUT_A16_1024_2049, chunks_mut_a16::<1024, 2049> as fn() -> Out),
+    ("chunks_a16_1024_3074", C_CHUNKS_A16_1024_3074, chunks_a16::<1024, 3074> as fn() -> Out),
+    ("chunks_mut_a16_1024_3074", C_CHUNKS_MUT_A16_1024_3074, chunks_mut_a16::<1024, 3074> as fn() -> Out),
+    ("reinterpret_a16_1024_0", C_REINTERPRET_A16_1024_0, reinterpret_a16::<1024, 0> as fn() -> Out),
+    ("reinterpret_a16_1024_1", C_REINTERPRET_A16_1024_1, reinterpret_a16::<1024, 1> as fn() -> Out),
+    ("reinterpret_a16_1024_1023", C_REINTERPRET_A16_1024_1023, reinterpret_a16::<1024, 1023> as fn() -> Out),
+    ("reinterpret_a16_1024_1024", C_REINTERPRET_A16_1024_1024, reinterpret_a16::<1024, 1024> as fn() -> Out),
+    ("reinterpret_a16_1024_1025", C_REINTERPRET_A16_1024_1025, reinterpret_a16::<1024, 1025> as fn() -> Out),
+    ("reinterpret_a16_1024_2048", C_REINTERPRET_A16_1024_2048, reinterpret_a16::<1024, 2048> as fn() -> Out),
+    ("reinterpret_a16_1024_3074", C_REINTERPRET_A16_1024_3074, reinterpret_a16::<1024, 3074> as fn() -> Out),
+    ("byvalue_a16_1024", C_BYVALUE_A16_1024, byvalue_a16::<1024> as fn() -> Out),
+    ("native_chunks_a16_1024_0", C_NATIVE_CHUNKS_A16_1024_0, native_chunks_a16::<1024, 0> as fn() -> Out),
+    ("native_chunks_a16_1024_1", C_NATIVE_CHUNKS_A16_1024_1, native_chunks_a16::<1024, 1> as fn() -> Out),
+    ("native_chunks_a16_1024_2", C_NATIVE_CHUNKS_A16_1024_2, native_chunks_a16::<1024, 2> as fn() -> Out),
+    ("native_chunks_a16_1024_3", C_NATIVE_CHUNKS_A16_1024_3, native_chunks_a16::<1024, 3> as fn() -> Out),
+    ("chunks_b3_0_0", C_CHUNKS_B3_0_0, chunks_b3::<0, 0> as fn() -> Out),
+    ("chunks_mut_b3_0_0", C_CHUNKS_MUT_B3_0_0, chunks_mut_b3::<0, 0> as fn() -> Out),
+    ("reinterpret_b3_0_0", C_REINTERPRET_B3_0_0, reinterpret_b3::<0, 0> as fn() -> Out),
+    ("reinterpret_b3_0_1", C_REINTERPRET_B3_0_1, reinterpret_b3::<0, 1> as fn() -> Out),
+    ("reinterpret_b3_0_2", C_REINTERPRET_B3_0_2, reinterpret_b3::<0, 2> as fn() -> Out),
+    ("byvalue_b3_0", C_BYVALUE_B3_0, byvalue_b3::<0> as fn() -> Out),
+    ("native_chunks_b3_0_0", C_NATIVE_CHUNKS_B3_0_0, native_chunks_b3::<0, 0> as fn() -> Out),
+    ("native_chunks_b3_0_1", C_NATIVE_CHUNKS_B3_0_1, native_chunks_b3::<0, 1> as fn() -> Out),
+    ("native_chunks_b3_0_2", C_NATIVE_CHUNKS_B3_0_2, native_chunks_b3::<0, 2> as fn() -> Out),
+    ("native_chunks_b3_0_3", C_NATIVE_CHUNKS_B3_0_3, native_chunks_b3::<0, 3> as fn() -> Out),
+    ("chunks_b3_1_0", C_CHUNKS_B3_1_0, chunks_b3::<1, 0> as fn() -> Out),
+    ("chunks_mut_b3_1_0", C_CHUNKS_MUT_B3_1_0, chunks_mut_b3::<1, 0> as fn() -> Out),
+    ("chunks_b3_1_1", C_CHUNKS_B3_1_1, chunks_b3::<1, 1> as fn() -> Out),
+    ("chunks_mut_b3_1_1", C_CHUNKS_MUT_B3_1_1, chunks_mut_b3::<1, 1> as fn() -> Out),
+    ("chunks_b3_1_2", C_CHUNKS_B3_1_2, chunks_b3::<1, 2> as fn() -> Out),
+    ("chunks_mut_b3_1_2", C_CHUNKS_MUT_B3_1_2, chunks_mut_b3::<1, 2> as fn() -> Out),
+    ("chunks_b3_1_3", C_CHUNKS_B3_1_3, chunks_b3::<1, 3> as fn() -> Out),
+    ("chunks_mut_b3_1_3", C_CHUNKS_MUT_B3_1_3, chunks_mut_b3::<1, 3> as fn() -> Out),
+    ("chunks_b3_1_4", C_CHUNKS_B3_1_4, chunks_b3::<1, 4> as fn() -> Out),
+    ("chunks_mut_b3_1_4", C_CHUNKS_MUT_B3_1_4, chunks_mut_b3::<1, 4> as fn() -> Out),
+    ("chunks_b3_1_5", C_CHUNKS_B3_1_5, chunks_b3::<1, 5> as fn() -> Out),
+    ("chunks_mut_b3_1_5", C_CHUNKS_MUT_B3_1_5, chunks_mut_b3::<1, 5> as fn() -> Out),
+    ("reinterpret_b3_1_0", C_REINTERPRET_B3_1_0, reinterpret_b3::<1, 0> as fn() -> Out),
+    ("reinterpret_b3_1_1", C_REINTERPRET_B3_1_1, reinterpret_b3::<1, 1> as fn() -> Out),
+    ("reinterpret_b3_1_2", C_REINTERPRET_B3_1_2, reinterpret_b3::<1, 2> as fn() -> Out),
+    ("reinterpret_b3_1_5", C_REINTERPRET_B3_1_5, reinterpret_b3::<1, 5> as fn() -> Out),
+    ("byvalue_b3_1", C_BYVALUE_B3_1, byvalue_b3::<1> as fn() -> Out),
+    ("native_chunks_b3_1_0", C_NATIVE_CHUNKS_B3_1_0, native_chunks_b3::<1, 0> as fn() -> Out),
+    ("native_chunks_b3_1_1", C_NATIVE_CHUNKS_B3_1_1, native_chunks_b3::<1, 1> as fn() -> Out),
+    ("native_chunks_b3_1_2", C_NATIVE_CHUNKS_B3_1_2, native_chunks_b3::<1, 2> as fn() -> Out),
+    ("native_chunks_b3_1_3", C_NATIVE_CHUNKS_B3_1_3, native_chunks_b3::<1, 3> as fn() -> Out),
+    ("chunks_b3_2_0", C_CHUNKS_B3_2_0, chunks_b3::<2, 0> as fn() -> Out),
+    ("chunks_mut_b3_2_0", C_CHUNKS_MUT_B3_2_0, chunks_mut_b3::<2, 0> as fn() -> Out),
+    ("chunks_b3_2_1", C_CHUNKS_B3_2_1, chunks_b3::<2, 1> as fn() -> Out),
+    ("chunks_mut_b3_2_1", C_CHUNKS_MUT_B3_2_1, chunks_mut_b3::<2, 1> as fn() -> Out),
+    ("chunks_b3_2_2", C_CHUNKS_B3_2_2, chunks_b3::<2, 2> as fn() -> Out),
+    ("chunks_mut_b3_2_2", C_CHUNKS_MUT_B3_2_2, chunks_mut_b3::<2, 2> as fn() -> Out),
+    ("chunks_b3_2_3", C_CHUNKS_B3_2_3, chunks_b3::<2, 3> as fn() -> Out),
+    ("chunks_mut_b3_2_3", C_CHUNKS_MUT_B3_2_3, chunks_mut_b3::<2, 3> as fn() -> Out),
+    ("chunks_b3_2_4", C_CHUNKS_B3_2_4, chunks_b3::<2, 4> as fn() -> Out),
+    ("chunks_mut_b3_2_4", C_CHUNKS_MUT_B3_2_4, chunks_mut_b3::<2, 4> as fn() -> Out),
+    ("chunks_b3_2_5", C_CHUNKS_B3_2_5, chunks_b3::<2, 5> as fn() -> Out),
+    ("chunks_mut_b3_2_5", C_CHUNKS_MUT_B3_2_5, chunks_mut_b3::<2, 5> as fn() -> Out),
+    ("chunks_b3_2_6", C_CHUNKS_B3_2_6, chunks_b3::<2, 6> as fn() -> Out),
+    ("chunks_mut_b3_2_6", C_CHUNKS_MUT_B3_2_6, chunks_mut_b3::<2, 6> as fn() -> Out),
+    ("chunks_b3_2_7", C_CHUNKS_B3_2_7, chunks_b3::<2, 7> as fn() -> Out),
+    ("chunks_mut_b3_2_7", C_CHUNKS_MUT_B3_2_7, chunks_mut_b3::<2, 7> as fn() -> Out),
+    ("chunks_b3_2_8", C_CHUNKS_B3_2_8, chunks_b3::<2, 8> as fn() -> Out),
+    ("chunks_mut_b3_2_8", C_CHUNKS_MUT_B3_2_8, chunks_mut_b3::<2, 8> as fn() -> Out),
+    ("reinterpret_b3_2_0", C_REINTERPRET_B3_2_0, reinterpret_b3::<2, 0> as fn() -> Out),
+    ("reinterpret_b3_2_1", C_REINTERPRET_B3_2_1, reinterpret_b3::<2, 1> as fn() -> Out),
+    ("reinterpret_b3_2_2", C_REINTERPRET_B3_2_2, reinterpret_b3::<2, 2> as fn() -> Out),
+    ("reinterpret_b3_2_3", C_REINTERPRET_B3_2_3, reinterpret_b3::<2, 3> as fn() -> Out),
+    ("reinterpret_b3_2_4", C_REINTERPRET_B3_2_4, reinterpret_b3::<2, 4> as fn() -> Out),
+    ("reinterpret_b3_2_8", C_REINTERPRET_B3_2_8, reinterpret_b3::<2, 8> as fn() -> Out),
+    ("byvalue_b3_2", C_BYVALUE_B3_2, byvalue_b3::<2> as fn() -> Out),
+    ("native_chunks_b3_2_0", C_NATIVE_CHUNKS_B3_2_0, native_chunks_b3::<2, 0> as fn() -> Out),
+    ("native_chunks_b3_2_1", C_NATIVE_CHUNKS_B3_2_1, native_chunks_b3::<2, 1> as fn() -> Out),
+    ("native_chunks_b3_2_2", C_NATIVE_CHUNKS_B3_2_2, native_chunks_b3::<2, 2> as fn() -> Out),
+    ("native_chunks_b3_2_3", C_NATIVE_CHUNKS_B3_2_3, native_chunks_b3::<2, 3> as fn() -> Out),
+    ("chunks_b3_3_0", C_CHUNKS_B3_3_0, chunks_b3::<3, 0> as fn() -> Out),
+    ("chunks_mut_b3_3_0", C_CHUNKS_MUT_B3_3_0, chunks_mut_b3::<3, 0> as fn() -> Out),
+    ("chunks_b3_3_1", C_CHUNKS_B3_3_1, chunks_b3::<3, 1> as fn() -> Out),
+    ("chunks_mut_b3_3_1", C_CHUNKS_MUT_B3_3_1, chunks_mut_b3::<3, 1> as fn() -> Out),
+    ("chunks_b3_3_2", C_CHUNKS_B3_3_2, chunks_b3::<3, 2> as fn() -> Out),
+    ("chunks_mut_b3_3_2", C_CHUNKS_MUT_B3_3_2, chunks_mut_b3::<3, 2> as fn() -> Out),
+    ("chunks_b3_3_3", C_CHUNKS_B3_3_3, chunks_b3::<3, 3> as fn() -> Out),
+    ("chunks_mut_b3_3_3", C_CHUNKS_MUT_B3_3_3, chunks_mut_b3::<3, 3> as fn() -> Out),
+    ("chunks_b3_3_4", C_CHUNKS_B3_3_4, chunks_b3::<3, 4> as fn() -> Out),
+    ("chunks_mut_b3_3_4", C_CHUNKS_MUT_B3_3_4, chunks_mut_b3::<3, 4> as fn() -> Out),
+    ("chunks_b3_3_5", C_CHUNKS_B3_3_5, chunks_b3::<3, 5> as fn() -> Out),
+    ("chunks_mut_b3_3_5", C_CHUNKS_MUT_B3_3_5, chunks_mut_b3::<3, 5> as fn() -> Out),
+    ("chunks_b3_3_6", C_CHUNKS_B3_3_6, chunks_b3::<3, 6> as fn() -> Out),
+    ("chunks_mut_b3_3_6", C_CHUNKS_MUT_B3_3_6, chunks_mut_b3::<3, 6> as fn() -> Out),
+    ("chunks_b3_3_7", C_CHUNKS_B3_3_7, chunks_b3::<3, 7> as fn() -> Out),
+    ("chunks_mut_b3_3_7", C_CHUNKS_MUT_B3_3_7, chunks_mut_b3::<3, 7> as fn() -> Out),
+    ("chunks_b3_3_8", C_CHUNKS_B3_3_8, chunks_b3::<3, 8> as fn() -> Out),
+    ("chunks_mut_b3_3_8", C_CHUNKS_MUT_B3_3_8, chunks_mut_b3::<3, 8> as fn() -> Out),
+    ("chunks_b3_3_9", C_CHUNKS_B3_3_9, chunks_b3::<3, 9> as fn() -> Out),
+    ("chunks_mut_b3_3_9", C_CHUNKS_MUT_B3_3_9, chunks_mut_b3::<3, 9> as fn() -> Out),
+    ("chunks_b3_3_10", C_CHUNKS_B3_3_10, chunks_b3::<3, 10> as fn() -> Out),
+    ("chunks_mut_b3_3_10", C_CHUNKS_MUT_B3_3_10, chunks_mut_b3::<3, 10> as fn() -> Out),
+    ("chunks_b3_3_11", C_CHUNKS_B3_3_11, chunks_b3::<3, 11> as fn() -> Out),
+    ("chunks_mut_b3_3_11", C_CHUNKS_MUT_B3_3_11, chunks_mut_b3::<3, 11> as fn() -> Out),
+    ("reinterpret_b3_3_0", C_REINTERPRET_B3_3_0, reinterpret_b3::<3, 0> as fn() -> Out),
+    ("reinterpret_b3_3_1", C_REINTERPRET_B3_3_1, reinterpret_b3::<3, 1> as fn() -> Out),
+    ("reinterpret_b3_3_2", C_REINTERPRET_B3_3_2, reinterpret_b3::<3, 2> as fn() -> Out),
+    ("reinterpret_b3_3_3", C_REINTERPRET_B3_3_3, reinterpret_b3::<3, 3> as fn() -> Out),
+    ("reinterpret_b3_3_4", C_REINTERPRET_B3_3_4, reinterpret_b3::<3, 4> as fn() -> Out),
+    ("reinterpret_b3_3_6", C_REINTERPRET_B3_3_6, reinterpret_b3::<3, 6> as fn() -> Out),
+    ("reinterpret_b3_3_11", C_REINTERPRET_B3_3_11, reinterpret_b3::<3, 11> as fn() -> Out),
+    ("byvalue_b3_3", C_BYVALUE_B3_3, byvalue_b3::<3> as fn() -> Out),
+    ("native_chunks_b3_3_0", C_NATIVE_CHUNKS_B3_3_0, native_chunks_b3::<3, 0> as fn() -> Out),
+    ("native_chunks_b3_3_1", C_NATIVE_CHUNKS_B3_3_1, native_chunks_b3::<3, 1> as fn() -> Out),
+    ("native_chunks_b3_3_2", C_NATIVE_CHUNKS_B3_3_2, native_chunks_b3::<3, 2> as fn() -> Out),
+    ("native_chunks_b3_3_3", C_NATIVE_CHUNKS_B3_3_3, native_chunks_b3::<3, 3> as fn() -> Out),
+    ("chunks_b3_7_0", C_CHUNKS_B3_7_0, chunks_b3::<7, 0> as fn() -> Out),
+    ("chunks_mut_b3_7_0", C_CHUNKS_MUT_B3_7_0, chunks_mut_b3::<7, 0> as fn() -> Out),
+    ("chunks_b3_7_1", C_CHUNKS_B3_7_1, chunks_b3::<7, 1> as fn() -> Out),
+    ("chunks_mut_b3_7_1", C_CHUNKS_MUT_B3_7_1, chunks_mut_b3::<7, 1> as fn() -> Out),
+    ("chunks_b3_7_2", C_CHUNKS_B3_7_2, chunks_b3::<7, 2> as fn() -> Out),
+    ("chunks_mut_b3_7_2", C_CHUNKS_MUT_B3_7_2, chunks_mut_b3::<7, 2> as fn() -> Out),
+    ("chunks_b3_7_3", C_CHUNKS_B3_7_3, chunks_b3::<7, 3> as fn() -> Out),
+    ("chunks_mut_b3_7_3", C_CHUNKS_MUT_B3_7_3, chunks_mut_b3::<7, 3> as fn() -> Out),
+    ("chunks_b3_7_4", C_CHUNKS_B3_7_4, chunks_b3::<7, 4> as fn() -> Out),
+    ("chunks_mut_b3_7_4", C_CHUNKS_MUT_B3_7_4, chunks_mut_b3::<7, 4> as fn() -> Out),
+    ("chunks_b3_7_5", C_CHUNKS_B3_7_5, chunks_b3::<7, 5> as fn() -> Out),
+    ("chunks_mut_b3_7_5", C_CHUNKS_MUT_B3_7_5, chunks_mut_b3::<7, 5> as fn() -> Out),
+    ("chunks_b3_7_6", C_CHUNKS_B3_7_6, chunks_b3::<7, 6> as fn() -> Out),
+    ("chunks_mut_b3_7_6", C_CHUNKS_MUT_B3_7_6, chunks_mut_b3::<7, 6> as fn() -> Out),
+    ("chunks_b3_7_7", C_CHUNKS_B3_7_7, chunks_b3::<7, 7> as fn() -> Out),
+    ("chunks_mut_b3_7_7", C_CHUNKS_MUT_B3_7_7, chunks_mut_b3::<7, 7> as fn() -> Out),
+    ("chunks_b3_7_8", C_CHUNKS_B3_7_8, chunks_b3::<7, 8> as fn() -> Out),
+    ("chunks_mut_b3_7_8", C_CHUNKS_MUT_B3_7_8, chunks_mut_b3::<7, 8> as fn() -> Out),
+    ("chunks_b3_7_9", C_CHUNKS_B3_7_9, chunks_b3::<7, 9> as fn() -> Out),
+    ("chunks_mut_b3_7_9", C_CHUNKS_MUT_B3_7_9, chunks_mut_b3::<7, 9> as fn() -> Out),
+    ("chunks_b3_7_10", C_CHUNKS_B3_7_10, chunks_b3::<7, 10> as fn() -> Out),
+    ("chunks_mut_b3_7_10", C_CHUNKS_MUT_B3_7_10, chunks_mut_b3::<7, 10> as fn() -> Out),
+    ("chunks_b3_7_11", C_CHUNKS_B3_7_11, chunks_b3::<7, 11> as fn() -> Out),
+    ("chunks_mut_b3_7_11", C_CHUNKS_MUT_B3_7_11, chunks_mut_b3::<7, 11> as fn() -> Out),
+    ("chunks_b3_7_12", C_CHUNKS_B3_7_12, chunks_b3::<7, 12> as fn() -> Out),
+    ("chunks_mut_b3_7_12", C_CHUNKS_MUT_B3_7_12, chunks_mut_b3::<7, 12> as fn() -> Out),
+    ("chunks_b3_7_13", C_CHUNKS_B3_7_13, chunks_b3::<7, 13> as fn() -> Out),
+    ("chunks_mut_b3_7_13", C_CHUNKS_MUT_B3_7_13, chunks_mut_b3::<7, 13> as fn() -> Out),
+    ("chunks_b3_7_14", C_CHUNKS_B3_7_14, chunks_b3::<7, 14> as fn() -> Out),
+    ("chunks_mut_b3_7_14", C_CHUNKS_MUT_B3_7_14, chunks_mut_b3::<7, 14> as fn() -> Out),
+    ("chunks_b3_7_15", C_CHUNKS_B3_7_15, chunks_b3::<7, 15> as fn() -> Out),
+    ("chunks_mut_b3_7_15", C_CHUNKS_MUT_B3_7_15, chunks_mut_b3::<7, 15> as fn() -> Out),
+    ("chunks_b3_7_16", C_CHUNKS_B3_7_16, chunks_b3::<7, 16> as fn() -> Out),
+    ("chunks_mut_b3_7_16", C_CHUNKS_MUT_B3_7_16, chunks_mut_b3::<7, 16> as fn() -> Out),
+    ("chunks_b3_7_17", C_CHUNKS_B3_7_17, chunks_b3::<7, 17> as fn() -> Out),
+    ("chunks_mut_b3_7_17", C_CHUNKS_MUT_B3_7_17, chunks_mut_b3::<7, 17> as fn() -> Out),
+    ("chunks_b3_7_18", C_CHUNKS_B3_7_18, chunks_b3::<7, 18> as fn() -> Out),
+    ("chunks_mut_b3_7_18", C_CHUNKS_MUT_B3_7_18, chunks_mut_b3::<7, 18> as fn() -> Out),
+    ("chunks_b3_7_19", C_CHUNKS_B3_7_19, chunks_b3::<7, 19> as fn() -> Out),
+    ("chunks_mut_b3_7_19", C_CHUNKS_MUT_B3_7_19, chunks_mut_b3::<7, 19> as fn() -> Out),
+    ("chunks_b3_7_20", C_CHUNKS_B3_7_20, chunks_b3::<7, 20> as fn() -> Out),
+    ("chunks_mut_b3_7_20", C_CHUNKS_MUT_B3_7_20, chunks_mut_b3::<7, 20> as fn() -> Out),
+    ("chunks_b3_7_21", C_CHUNKS_B3_7_21, chunks_b3::<7, 21> as fn() -> Out),
+    ("chunks_mut_b3_7_21", C_CHUNKS_MUT_B3_7_21, chunks_mut_b3::<7, 21> as fn() -> Out),
+    ("chunks_b3_7_22", C_CHUNKS_B3_7_22, chunks_b3::<7, 22> as fn() -> Out),
+    ("chunks_mut_b3_7_22", C_CHUNKS_MUT_B3_7_22, chunks_mut_b3::<7, 22> as fn() -> Out),
+    ("chunks_b3_7_23", C_CHUNKS_B3_7_23, chunks_b3::<7, 23> as fn() -> Out),
+    ("chunks_mut_b3_7_23", C_CHUNKS_MUT_B3_7_23, chunks_mut_b3::<7, 23> as fn() -> Out),
+    ("reinterpret_b3_7_0", C_REINTERPRET_B3_7_0, reinterpret_b3::<7, 0> as fn() -> Out),
+    ("reinterpret_b3_7_1", C_REINTERPRET_B3_7_1, reinterpret_b3::<7, 1> as fn() -> Out),
+    ("reinterpret_b3_7_6", C_REINTERPRET_B3_7_6, reinterpret_b3::<7, 6> as fn() -> Out),
+    ("reinterpret_b3_7_7", C_REINTERPRET_B3_7_7, reinterpret_b3::<7, 7> as fn() -> Out),
+    ("reinterpret_b3_7_8", C_REINTERPRET_B3_7_8, reinterpret_b3::<7, 8> as fn() -> Out),
+    ("reinterpret_b3_7_14", C_REINTERPRET_B3_7_14, reinterpret_b3::<7, 14> as fn() -> Out),
+    ("reinterpret_b3_7_23", C_REINTERPRET_B3_7_23, reinterpret_b3::<7, 23> as fn() -> Out),
+    ("byvalue_b3_7", C_BYVALUE_B3_7, byvalue_b3::<7> as fn() -> Out),
+    ("native_chunks_b3_7_0", C_NATIVE_CHUNKS_B3_7_0, native_chunks_b3::<7, 0> as fn() -> Out),
+    ("native_chunks_b3_7_1", C_NATIVE_CHUNKS_B3_7_1, native_chunks_b3::<7, 1> as fn() -> Out),
+    ("native_chunks_b3_7_2", C_NATIVE_CHUNKS_B3_7_2, native_chunks_b3::<7, 2> as fn() -> Out),
+    ("native_chunks_b3_7_3", C_NATIVE_CHUNKS_B3_7_3, native_chunks_b3::<7, 3> as fn() -> Out),
+    ("chunks_b3_8_0", C_CHUNKS_B3_8_0, chunks_b3::<8, 0> as fn() -> Out),
+    ("chunks_mut_b3_8_0", C_CHUNKS_MUT_B3_8_0, chunks_mut_b3::<8, 0> as fn() -> Out),
+    ("chunks_b3_8_1", C_CHUNKS_B3_8_1, chunks_b3::<8, 1> as fn() -> Out),
+    ("chunks_mut_b3_8_1", C_CHUNKS_MUT_B3_8_1, chunks_mut_b3::<8, 1> as fn() -> Out),
+    ("chunks_b3_8_2", C_CHUNKS_B3_8_2, chunks_b3::<8, 2> as fn() -> Out),
+    ("chunks_mut_b3_8_2", C_CHUNKS_MUT_B3_8_2, chunks_mut_b3::<8, 2> as fn() -> Out),
+    ("chunks_b3_8_3", C_CHUNKS_B3_8_3, chunks_b3::<8, 3> as fn() -> Out),
+    ("chunks_mut_b3_8_3", C_CHUNKS_MUT_B3_8_3, chunks_mut_b3::<8, 3> as fn() -> Out),
+    ("chunks_b3_8_4", C_CHUNKS_B3_8_4, chunks_b3::<8, 4> as fn() -> Out),
+    ("chunks_mut_b3_8_4", C_CHUNKS_MUT_B3_8_4, chunks_mut_b3::<8, 4> as fn() -> Out),
+    ("chunks_b3_8_5", C_CHUNKS_B3_8_5, chunks_b3::<8, 5> as fn() -> Out),
+    ("chunks_mut_b3_8_5", C_CHUNKS_MUT_B3_8_5, chunks_mut_b3::<8, 5> as fn() -> Out),
+    ("chunks_b3_8_6", C_CHUNKS_B3_8_6, chunks_b3::<8, 6> as fn() -> Out),
+    ("chunks_mut_b3_8_6", C_CHUNKS_MUT_B3_8_6, chunks_mut_b3::<8, 6> as fn() -> Out),
+    ("chunks_b3_8_7", C_CHUNKS_B3_8_7, chunks_b3::<8, 7> as fn() -> Out),
+    ("chunks_mut_b3_8_7", C_CHUNKS_MUT_B3_8_7, chunks_mut_b3::<8, 7> as fn() -> Out),
+    ("chunks_b3_8_8", C_CHUNKS_B3_8_8, chunks_b3::<8, 8> as fn() -> Out),
+    ("chunks_mut_b3_8_8", C_CHUNKS_MUT_B3_8_8, chunks_mut_b3::<8, 8> as fn() -> Out),
+    ("chunks_b3_8_9", C_CHUNKS_B3_8_9, chunks_b3::<8, 9> as fn() -> Out),
+    ("chunks_mut_b3_8_9", C_CHUNKS_MUT_B3_8_9, chunks_mut_b3::<8, 9> as fn() -> Out),
+    ("chunks_b3_8_10", C_CHUNKS_B3_8_10, chunks_b3::<8, 10> as fn() -> Out),
+    ("chunks_mut_b3_8_10", C_CHUNKS_MUT_B3_8_10, chunks_mut_b3::<8, 10> as fn() -> Out),
+    ("chunks_b3_8_11", C_CHUNKS_B3_8_11, chunks_b3::<8, 11> as fn() -> Out),
+    ("chunks_mut_b3_8_11", C_CHUNKS_MUT_B3_8_11, chunks_mut_b3::<8, 11> as fn() -> Out),
+    ("chunks_b3_8_12", C_CHUNKS_B3_8_12, chunks_b3::<8, 12> as fn() -> Out),
+    ("chunks_mut_b3_8_12", C_CHUNKS_MUT_B3_8_12, chunks_mut_b3::<8, 12> as fn() -> Out),
+    ("chunks_b3_8_13", C_CHUNKS_B3_8_13, chunks_b3::<8, 13> as fn() -> Out),
+    ("chunks_mut_b3_8_13", C_CHUNKS_MUT_B3_8_13, chunks_mut_b3::<8, 13> as fn() -> Out),
+    ("chunks_b3_8_14", C_CHUNKS_B3_8_14, chunks_b3::<8, 14> as fn() -> Out),
+    ("chunks_mut_b3_8_14", C_CHUNKS_MUT_B3_8_14, chunks_mut_b3::<8, 14> as fn() -> Out),
+    ("chunks_b3_8_15", C_CHUNKS_B3_8_15, chunks_b3::<8, 15> as fn() -> Out),
+    ("chunks_mut_b3_8_15", C_CHUNKS_MUT_B3_8_15, chunks_mut_b3::<8, 15> as fn() -> Out),
+    ("chunks_b3_8_16", C_CHUNKS_B3_8_16, chunks_b3::<8, 16> as fn() -> Out),
+    ("chunks_mut_b3_8_16", C_CHUNKS_MUT_B3_8_16, chunks_mut_b3::<8, 16> as fn() -> Out),
+    ("chunks_b3_8_17", C_CHUNKS_B3_8_17, chunks_b3::<8, 17> as fn() -> Out),
+    ("chunks_mut_b3_8_17", C_CHUNKS_MUT_B3_8_17, chunks_mut_b3::<8, 17> as fn() -> Out),
+    ("chunks_b3_8_18", C_CHUNKS_B3_8_18, chunks_b3::<8, 18> as fn() -> Out),
+    ("chunks_mut_b3_8_18", C_CHUNKS_MUT_B3_8_18, chunks_mut_b3::<8, 18> as fn() -> Out),
+    ("chunks_b3_8_19", C_CHUNKS_B3_8_19, chunks_b3::<8, 19> as fn() -> Out),
+    ("chunks_mut_b3_8_19", C_CHUNKS_MUT_B3_8_19, chunks_mut_b3::<8, 19> as fn() -> Out),
+    ("chunks_b3_8_20", C_CHUNKS_B3_8_20, chunks_b3::<8, 20> as fn() -> Out),
+    ("chunks_mut_b3_8_20", C_CHUNKS_MUT_B3_8_20, chunks_mut_b3::<8, 20> as fn() -> Out),
+    ("chunks_b3_8_21", C_CHUNKS_B3_8_21, chunks_b3::<8, 21> as fn() -> Out),
+    ("chunks_mut_b3_8_21", C_CHUNKS_MUT_B3_8_21, chunks_mut_b3::<8, 21> as fn() -> Out),
+    ("chunks_b3_8_22", C_CHUNKS_B3_8_22, chunks_b3::<8, 22> as fn() -> Out),
+    ("chunks_mut_b3_8_22", C_CHUNKS_MUT_B3_8_22, chunks_mut_b3::<8, 22> as fn() -> Out),
+    ("chunks_b3_8_23", C_CHUNKS_B3_8_23, chunks_b3::<8, 23> as fn() -> Out),
+    ("chunks_mut_b3_8_23", C_CHUNKS_MUT_B3_8_23, chunks_mut_b3::<8, 23> as fn() -> Out),
+    ("chunks_b3_8_24", C_CHUNKS_B3_8_24, chunks_b3::<8, 24> as fn() -> Out),
+    ("chunks_mut_b3_8_24", C_CHUNKS_MUT_B3_8_24, chunks_mut_b3::<8, 24> as fn() -> Out),
+    ("chunks_b3_8_25", C_CHUNKS_B3_8_25, chunks_b3::<8, 25> as fn() -> Out),
+    ("chunks_mut_b3_8_25", C_CHUNKS_MUT_B3_8_25, chunks_mut_b3::<8, 25> as fn() -> Out),
+    ("chunks_b3_8_26", C_CHUNKS_B3_8_26, chunks_b3::<8, 26> as fn() -> Out),
+    ("chunks_mut_b3_8_26", C_CHUNKS_MUT_B3_8_26, chunks_mut_b3::<8, 26> as fn() -> Out),
+    ("reinterpret_b3_8_0", C_REINTERPRET_B3_8_0, reinterpret_b3::<8, 0> as fn() -> Out),
+    ("reinterpret_b3_8_1", C_REINTERPRET_B3_8_1, reinterpret_b3::<8, 1> as fn() -> Out),
+    ("reinterpret_b3_8_7", C_REINTERPRET_B3_8_7, reinterpret_b3::<8, 7> as fn() -> Out),
+    ("reinterpret_b3_8_8", C_REINTERPRET_B3_8_8, reinterpret_b3::<8, 8> as fn() -> Out),
+    ("reinterpret_b3_8_9", C_REINTERPRET_B3_8_9, reinterpret_b3::<8, 9> as fn() -> Out),
+    ("reinterpret_b3_8_16", C_REINTERPRET_B3_8_16, reinterpret_b3::<8, 16> as fn() -> Out),
+    ("reinterpret_b3_8_26", C_REINTERPRET_B3_8_26, reinterpret_b3::<8, 26> as fn() -> Out),
+    ("byvalue_b3_8", C_BYVALUE_B3_8, byvalue_b3::<8> as fn() -> Out),
+    ("native_chunks_b3_8_0", C_NATIVE_CHUNKS_B3_8_0, native_chunks_b3::<8, 0> as fn() -> Out),
+    ("native_chunks_b3_8_1", C_NATIVE_CHUNKS_B3_8_1, native_chunks_b3::<8, 1> as fn() -> Out),
+    ("native_chunks_b3_8_2", C_NATIVE_CHUNKS_B3_8_2, native_chunks_b3::<8, 2> as fn() -> Out),
+    ("native_chunks_b3_8_3", C_NATIVE_CHUNKS_B3_8_3, native_chunks_b3::<8, 3> as fn() -> Out),
+    ("chunks_b3_16_0", C_CHUNKS_B3_16_0, chunks_b3::<16, 0> as fn() -> Out),
+    ("chunks_mut_b3_16_0", C_CHUNKS_MUT_B3_16_0, chunks_mut_b3::<16, 0> as fn() -> Out),
+    ("chunks_b3_16_1", C_CHUNKS_B3_16_1, chunks_b3::<16, 1> as fn() -> Out),
+    ("chunks_mut_b3_16_1", C_CHUNKS_MUT_B3_16_1, chunks_mut_b3::<16, 1> as fn() -> Out),
+    ("chunks_b3_16_2", C_CHUNKS_B3_16_2, chunks_b3::<16, 2> as fn() -> Out),
+    ("chunks_mut_b3_16_2", C_CHUNKS_MUT_B3_16_2, chunks_mut_b3::<16, 2> as fn() -> Out),
+    ("chunks_b3_16_3", C_CHUNKS_B3_16_3, chunks_b3::<16, 3> as fn() -> Out),
+    ("chunks_mut_b3_16_3", C_CHUNKS_MUT_B3_16_3, chunks_mut_b3::<16, 3> as fn() -> Out),
+    ("chunks_b3_16_4", C_CHUNKS_B3_16_4, chunks_b3::<16, 4> as fn() -> Out),
+    ("chunks_mut_b3_16_4", C_CHUNKS_MUT_B3_16_4, chunks_mut_b3::<16, 4> as fn() -> Out),
+    ("chunks_b3_16_5", C_CHUNKS_B3_16_5, chunks_b3::<16, 5> as fn() -> Out),
+    ("chunks_mut_b3_16_5", C_CHUNKS_MUT_B3_16_5, chunks_mut_b3::<16, 5> as fn() -> Out),
+    ("chunks_b3_16_6", C_CHUNKS_B3_16_6, chunks_b3::<16, 6> as fn() -> Out),
+    ("chunks_mut_b3_16_6", C_CHUNKS_MUT_B3_16_6, chunks_mut_b3::<16, 6> as fn() -> Out),
+    ("chunks_b3_16_7", C_CHUNKS_B3_16_7, chunks_b3::<16, 7> as fn() -> Out),
+    ("chunks_mut_b3_16_7", C_CHUNKS_MUT_B3_16_7, chunks_mut_b3::<16, 7> as fn() -> Out),
+    ("chunks_b3_16_8", C_CHUNKS_B3_16_8, chunks_b3::<16, 8> as fn() -> Out),
+    ("chunks_mut_b3_16_8", C_CHUNKS_MUT_B3_16_8, chunks_mut_b3::<16, 8> as fn() -> Out),
+    ("chunks_b3_16_9", C_CHUNKS_B3_16_9, chunks_b3::<16, 9> as fn() -> Out),
+    ("chunks_mut_b3_16_9", C_CHUNKS_MUT_B3_16_9, chunks_mut_b3::<16, 9> as fn() -> Out),
+    ("chunks_b3_16_10", C_CHUNKS_B3_16_10, chunks_b3::<16, 10> as fn() -> Out),
+    ("chunks_mut_b3_16_10", C_CHUNKS_MUT_B3_16_10, chunks_mut_b3::<16, 10> as fn() -> Out),
+    ("chunks_b3_16_11", C_CHUNKS_B3_16_11, chunks_b3::<16, 11> as fn() -> Out),
+    ("chunks_mut_b3_16_11", C_CHUNKS_MUT_B3_16_11, chunks_mut_b3::<16, 11> as fn() -> Out),
+    ("chunks_b3_16_12", C_CHUNKS_B3_16_12, chunks_b3::<16, 12> as fn() -> Out),
+    ("chunks_mut_b3_16_12", C_CHUNKS_MUT_B3_16_12, chunks_mut_b3::<16, 12> as fn() -> Out),
+    ("chunks_b3_16_13", C_CHUNKS_B3_16_13, chunks_b3::<16, 13> as fn() -> Out),
+    ("chunks_mut_b3_16_13", C_CHUNKS_MUT_B3_16_13, chunks_mut_b3::<16, 13> as fn() -> Out),
+    ("chunks_b3_16_14", C_CHUNKS_B3_16_14, chunks_b3::<16, 14> as fn() -> Out),
+    ("chunks_mut_b3_16_14", C_CHUNKS_MUT_B3_16_14, chunks_mut_b3::<16, 14> as fn() -> Out),
+    ("chunks_b3_16_15", C_CHUNKS_B3_16_15, chunks_b3::<16, 15> as fn() -> Out),
+    ("chunks_mut_b3_16_15", C_CHUNKS_MUT_B3_16_15, chunks_mut_b3::<16, 15> as fn() -> Out),
+    ("chunks_b3_16_16", C_CHUNKS_B3_16_16, chunks_b3::<16, 16> as fn() -> Out),
+    ("chunks_mut_b3_16_16", C_CHUNKS_MUT_B3_16_16, chunks_mut_b3::<16, 16> as fn() -> Out),
+    ("chunks_b3_16_17", C_CHUNKS_B3_16_17, chunks_b3::<16, 17> as fn() -> Out),
+    ("chunks_mut_b3_16_17", C_CHUNKS_MUT_B3_16_17, chunks_mut_b3::<16, 17> as fn() -> Out),
+    ("chunks_b3_16_18", C_CHUNKS_B3_16_18, chunks_b3::<16, 18> as fn() -> Out),
+    ("chunks_mut_b3_16_18", C_CHUNKS_MUT_B3_16_18, chunks_mut_b3::<16, 18> as fn() -> Out),
+    ("chunks_b3_16_19", C_CHUNKS_B3_16_19, chunks_b3::<16, 19> as fn() -> Out),
+    ("chunks_mut_b3_16_19", C_CHUNKS_MUT_B3_16_19, chunks_mut_b3::<16, 19> as fn() -> Out),
+    ("chunks_b3_16_20", C_CHUNKS_B3_16_20, chunks_b3::<16, 20> as fn() -> Out),
+    ("chunks_mut_b3_16_20", C_CHUNKS_MUT_B3_16_20, chunks_mut_b3::<16, 20> as fn() -> Out),
+    ("chunks_b3_16_21", C_CHUNKS_B3_16_21, chunks_b3::<16, 21> as fn() -> Out),
+    ("chunks_mut_b3_16_21", C_CHUNKS_MUT_B3_16_21, chunks_mut_b3::<16, 21> as fn() -> Out),
+    ("chunks_b3_16_22", C_CHUNKS_B3_16_22, chunks_b3::<16, 22> as fn() -> Out),
+    ("chunks_mut_b3_16_22", C_CHUNKS_MUT_B3_16_22, chunks_mut_b3::<16, 22> as fn() -> Out),
+    ("chunks_b3_16_23", C_CHUNKS_B3_16_23, chunks_b3::<16, 23> as fn() -> Out),
+    ("chunks_mut_b3_16_23", C_CHUNKS_MUT_B3_16_23, chunks_mut_b3::<16, 23> as fn() -> Out),
+    ("chunks_b3_16_24", C_CHUNKS_B3_16_24, chunks_b3::<16, 24> as fn() -> Out),
+    ("chunks_mut_b3_16_24", C_CHUNKS_MUT_B3_16_24, chunks_mut_b3::<16, 24> as fn() -> Out),
+    ("chunks_b3_16_25", C_CHUNKS_B3_16_25, chunks_b3::<16, 25> as fn() -> Out),
+    ("chunks_mut_b3_16_25", C_CHUNKS_MUT_B3_16_25, chunks_mut_b3::<16, 25> as fn() -> Out),
+    ("chunks_b3_16_26", C_CHUNKS_B3_16_26, chunks_b3::<16, 26> as fn() -> Out),
+    ("chunks_mut_b3_16_26", C_CHUNKS_MUT_B3_16_26, chunks_mut_b3::<16, 26> as fn() -> Out),
+    ("chunks_b3_16_27", C_CHUNKS_B3_16_27, chunks_b3::<16, 27> as fn() -> Out),
+    ("chunks_mut_b3_16_27", C_CHUNKS_MUT_B3_16_27, chunks_mut_b3::<16, 27> as fn() -> Out),
+    ("chunks_b3_16_28", C_CHUNKS_B3_16_28, chunks_b3::<16, 28> as fn() -> Out),
+    ("chunks_mut_b3_16_28", C_CHUNKS_MUT_B3_16_28, chunks_mut_b3::<16, 28> as fn() -> Out),
+    ("chunks_b3_16_29", C_CHUNKS_B3_16_29, chunks_b3::<16, 29> as fn() -> Out),
+    ("chunks_mut_b3_16_29", C_CHUNKS_MUT_B3_16_29, chunks_mut_b3::<16, 29> as fn() -> Out),
+    ("chunks_b3_16_30", C_CHUNKS_B3_16_30, chunks_b3::<16, 30> as fn() -> Out),
+    ("chunks_mut_b3_16_30", C_CHUNKS_MUT_B3_16_30, chunks_mut_b3::<16, 30> as fn() -> Out),
+    ("chunks_b3_16_31", C_CHUNKS_B3_16_31, chunks_b3::<16, 31> as fn() -> Out),
+    ("chunks_mut_b3_16_31", C_CHUNKS_MUT_B3_16_31, chunks_mut_b3::<16, 31> as fn() -> Out),
+    ("chunks_b3_16_32", C_CHUNKS_B3_16_32, chunks_b3::<16, 32> as fn() -> Out),
+    ("chunks_mut_b3_16_32", C_CHUNKS_MUT_B3_16_32, chunks_mut_b3::<16, 32> as fn() -> Out),
+    ("chunks_b3_16_33", C_CHUNKS_B3_16_33, chunks_b3::<16, 33> as fn() -> Out),
+    ("chunks_mut_b3_16_33", C_CHUNKS_MUT_B3_16_33, chunks_mut_b3::<16, 33> as fn() -> Out),
+    ("chunks_b3_16_34", C_CHUNKS_B3_16_34, chunks_b3::<16, 34> as fn() -> Out),
+    ("chunks_mut_b3_16_34", C_CHUNKS_MUT_B3_16_34, chunks_mut_b3::<16, 34> as fn() -> Out),
+    ("chunks_b3_16_35", C_CHUNKS_B3_16_35, chunks_b3::<16, 35> as fn() -> Out),
+    ("chunks_mut_b3_16_35", C_CHUNKS_MUT_B3_16_35, chunks_mut_b3::<16, 35> as fn() -> Out),
+    ("chunks_b3_16_36", C_CHUNKS_B3_16_36, chunks_b3::<16, 36> as fn() -> Out),
+    ("chunks_mut_b3_16_36", C_CHUNKS_MUT_B3_16_36, chunks_mut_b3::<16, 36> as fn() -> Out),
+    ("chunks_b3_16_37", C_CHUNKS_B3_16_37, chunks_b3::<16, 37> as fn() -> Out),
+    ("chunks_mut_b3_16_37", C_CHUNKS_MUT_B3_16_37, chunks_mut_b3::<16, 37> as fn() -> Out),
+    ("chunks_b3_16_38", C_CHUNKS_B3_16_38, chunks_b3::<16, 38> as fn() -> Out),
+    ("chunks_mut_b3_16_38", C_CHUNKS_MUT_B3_16_38, chunks_mut_b3::<16, 38> as fn() -> Out),
+    ("chunks_b3_16_39", C_CHUNKS_B3_16_39, chunks_b3::<16, 39> as fn() -> Out),
+    ("chunks_mut_b3_16_39", C_CHUNKS_MUT_B3_16_39, chunks_mut_b3::<16, 39> as fn() -> Out),
+    ("chunks_b3_16_40", C_CHUNKS_B3_16_40, chunks_b3::<16, 40> as fn() -> Out),
+    ("chunks_mut_b3_16_40", C_CHUNKS_MUT_B3_16_40, chunks_mut_b3::<16, 40> as fn() -> Out),
+    ("chunks_b3_16_41", C_CHUNKS_B3_16_41, chunks_b3::<16, 41> as fn() -> Out),
+    ("chunks_mut_b3_16_41", C_CHUNKS_MUT_B3_16_41, chunks_mut_b3::<16, 41> as fn() -> Out),
+    ("chunks_b3_16_42", C_CHUNKS_B3_16_42, chunks_b3::<16, 42> as fn() -> Out),
+    ("chunks_mut_b3_16_42", C_CHUNKS_MUT_B3_16_42, chunks_mut_b3::<16, 42> as fn() -> Out),
+    ("chunks_b3_16_43", C_CHUNKS_B3_16_43, chunks_b3::<16, 43> as fn() -> Out),
+    ("chunks_mut_b3_16_43", C_CHUNKS_MUT_B3_16_43, chunks_mut_b3::<16, 43> as fn() -> Out),
+    ("chunks_b3_16_44", C_CHUNKS_B3_16_44, chunks_b3::<16, 44> as fn() -> Out),
+    ("chunks_mut_b3_16_44", C_CHUNKS_MUT_B3_16_44, chunks_mut_b3::<16, 44> as fn() -> Out),
+    ("chunks_b3_16_45", C_CHUNKS_B3_16_45, chunks_b3::<16, 45> as fn() -> Out),
+    ("chunks_mut_b3_16_45", C_CHUNKS_MUT_B3_16_45, chunks_mut_b3::<16, 45> as fn() -> Out),
+    ("chunks_b3_16_46", C_CHUNKS_B3_16_46, chunks_b3::<16, 46> as fn() -> Out),
+    ("chunks_mut_b3_16_46", C_CHUNKS_MUT_B3_16_46, chunks_mut_b3::<16, 46> as fn() -> Out),
+    ("chunks_b3_16_47", C_CHUNKS_B3_16_47, chunks_b3::<16, 47> as fn() -> Out),
+    ("chunks_mut_b3_16_47", C_CHUNKS_MUT_B3_16_47, chunks_mut_b3::<16, 47> as fn() -> Out),
+    ("chunks_b3_16_48", C_CHUNKS_B3_16_48, chunks_b3::<16, 48> as fn() -> Out),
+    ("chunks_mut_b3_16_48", C_CHUNKS_MUT_B3_16_48, chunks_mut_b3::<16, 48> as fn() -> Out),
+    ("chunks_b3_16_49", C_CHUNKS_B3_16_49, chunks_b3::<16, 49> as fn() -> Out),
+    ("chunks_mut_b3_16_49", C_CHUNKS_MUT_B3_16_49, chunks_mut_b3::<16, 49> as fn() -> Out),
+    ("chunks_b3_16_50", C_CHUNKS_B3_16_50, chunks_b3::<16, 50> as fn() -> Out),
+    ("chunks_mut_b3_16_50", C_CHUNKS_MUT_B3_16_50, chunks_mut_b3::<16, 50> as fn() -> Out),
+    ("reinterpret_b3_16_0", C_REINTERPRET_B3_16_0, reinterpret_b3::<16, 0> as fn() -> Out),
+    ("reinterpret_b3_16_1", C_REINTERPRET_B3_16_1, reinterpret_b3::<16, 1> as fn() -> Out),
+    ("reinterpret_b3_16_15", C_REINTERPRET_B3_16_15, reinterpret_b3::<16, 15> as fn() -> Out),
+    ("reinterpret_b3_16_16", C_REINTERPRET_B3_16_16, reinterpret_b3::<16, 16> as fn() -> Out),
+    ("reinterpret_b3_16_17", C_REINTERPRET_B3_16_17, reinterpret_b3::<16, 17> as fn() -> Out),
+    ("reinterpret_b3_16_32", C_REINTERPRET_B3_16_32, reinterpret_b3::<16, 32> as fn() -> Out),
+    ("reinterpret_b3_16_50", C_REINTERPRET_B3_16_50, reinterpret_b3::<16, 50> as fn() -> Out),
+    ("byvalue_b3_16", C_BYVALUE_B3_16, byvalue_b3::<16> as fn() -> Out),
+    ("native_chunks_b3_16_0", C_NATIVE_CHUNKS_B3_16_0, native_chunks_b3::<16, 0> as fn() -> Out),
+    ("native_chunks_b3_16_1", C_NATIVE_CHUNKS_B3_16_1, native_chunks_b3::<16, 1> as fn() -> Out),
+    ("native_chunks_b3_16_2", C_NATIVE_CHUNKS_B3_16_2, native_chunks_b3::<16, 2> as fn() -> Out),
+    ("native_chunks_b3_16_3", C_NATIVE_CHUNKS_B3_16_3, native_chunks_b3::<16, 3> as fn() -> Out),
+    ("chunks_b3_17_0", C_CHUNKS_B3_17_0, chunks_b3::<17, 0> as fn() -> Out),
+    ("chunks_mut_b3_17_0", C_CHUNKS_MUT_B3_17_0, chunks_mut_b3::<17, 0> as fn() -> Out),
+    ("chunks_b3_17_1", C_CHUNKS_B3_17_1, chunks_b3::<17, 1> as fn() -> Out),
+    ("chunks_mut_b3_17_1", C_CHUNKS_MUT_B3_17_1, chunks_mut_b3::<17, 1> as fn() -> Out),
+    ("chunks_b3_17_2", C_CHUNKS_B3_17_2, chunks_b3::<17, 2> as fn() -> Out),
+    ("chunks_mut_b3_17_2", C_CHUNKS_MUT_B3_17_2, chunks_mut_b3::<17, 2> as fn() -> Out),
+    ("chunks_b3_17_3", C_CHUNKS_B3_17_3, chunks_b3::<17, 3> as fn() -> Out),
+    ("chunks_mut_b3_17_3", C_CHUNKS_MUT_B3_17_3, chunks_mut_b3::<17, 3> as fn() -> Out),
+    ("chunks_b3_17_4", C_CHUNKS_B3_17_4, chunks_b3::<17, 4> as fn() -> Out),
+    ("chunks_mut_b3_17_4", C_CHUNKS_MUT_B3_17_4, chunks_mut_b3::<17, 4> as fn() -> Out),
+    ("chunks_b3_17_5", C_CHUNKS_B3_17_5, chunks_b3::<17, 5> as fn() -> Out),
+    ("chunks_mut_b3_17_5", C_CHUNKS_MUT_B3_17_5, chunks_mut_b3::<17, 5> as fn() -> Out),
+    ("chunks_b3_17_6", C_CHUNKS_B3_17_6, chunks_b3::<17, 6> as fn() -> Out),
+    ("chunks_mut_b3_17_6", C_CHUNKS_MUT_B3_17_6, chunks_mut_b3::<17, 6> as fn() -> Out),
+    ("chunks_b3_17_7", C_CHUNKS_B3_17_7, chunks_b3::<17, 7> as fn() -> Out),
+    ("chunks_mut_b3_17_7", C_CHUNKS_MUT_B3_17_7, chunks_mut_b3::<17, 7> as fn() -> Out),
+    ("chunks_b3_17_8", C_CHUNKS_B3_17_8, chunks_b3::<17, 8> as fn() -> Out),
+    ("chunks_mut_b3_17_8", C_CHUNKS_MUT_B3_17_8, chunks_mut_b3::<17, 8> as fn() -> Out),
+    ("chunks_b3_17_9", C_CHUNKS_B3_17_9, chunks_b3::<17, 9> as fn() -> Out),
+    ("chunks_mut_b3_17_9", C_CHUNKS_MUT_B3_17_9, chunks_mut_b3::<17, 9> as fn() -> Out),
+    ("chunks_b3_17_10", C_CHUNKS_B3_17_10, chunks_b3::<17, 10> as fn() -> Out),
+    ("chunks_mut_b3_17_10", C_CHUNKS_MUT_B3_17_10, chunks_mut_b3::<17, 10> as fn() -> Out),
+    ("chunks_b3_17_11", C_CHUNKS_B3_17_11, chunks_b3::<17, 11> as fn() -> Out),
+    ("chunks_mut_b3_17_11", C_CHUNKS_MUT_B3_17_11, chunks_mut_b3::<17, 11> as fn() -> Out),
+    ("chunks_b3_17_12", C_CHUNKS_B3_17_12, chunks_b3::<17, 12> as fn() -> Out),
+    ("chunks_mut_b3_17_12", C_CHUNKS_MUT_B3_17_12, chunks_mut_b3::<17, 12> as fn() -> Out),
+    ("chunks_b3_17_13", C_CHUNKS_B3_17_13, chunks_b3::<17, 13> as fn() -> Out),
+    ("chunks_mut_b3_17_13", C_CHUNKS_MUT_B3_17_13, chunks_mut_b3::<17, 13> as fn() -> Out),
+    ("chunks_b3_17_14", C_CHUNKS_B3_17_14, chunks_b3::<17, 14> as fn() -> Out),
+    ("chunks_mut_b3_17_14", C_CHUNKS_MUT_B3_17_14, chunks_mut_b3::<17, 14> as fn() -> Out),
+    ("chunks_b3_17_15", C_CHUNKS_B3_17_15, chunks_b3::<17, 15> as fn() -> Out),
+    ("chunks_mut_b3_17_15", C_CHUNKS_MUT_B3_17_15, chunks_mut_b3::<17, 15> as fn() -> Out),
+    ("chunks_b3_17_16", C_CHUNKS_B3_17_16, chunks_b3::<17, 16> as fn() -> Out),
+    ("chunks_mut_b3_17_16", C_CHUNKS_MUT_B3_17_16, chunks_mut_b3::<17, 16> as fn() -> Out),
+    ("chunks_b3_17_17", C_CHUNKS_B3_17_17, chunks_b3::<17, 17> as fn() -> Out),
+    ("chunks_mut_b3_17_17", C_CHUNKS_MUT_B3_17_17, chunks_mut_b3::<17, 17> as fn() -> Out),
+    ("chunks_b3_17_18", C_CHUNKS_B3_17_18, chunks_b3::<17, 18> as fn() -> Out),
+    ("chunks_mut_b3_17_18", C_CHUNKS_MUT_B3_17_18, chunks_mut_b3::<17, 18> as fn() -> Out),
+    ("chunks_b3_17_19", C_CHUNKS_B3_17_19, chunks_b3::<17, 19> as fn() -> Out),
+    ("chunks_mut_b3_17_19", C_CHUNKS_MUT_B3_17_19, chunks_mut_b3::<17, 19> as fn() -> Out),
+    ("chunks_b3_17_20", C_CHUNKS_B3_17_20, chunks_b3::<17, 20> as fn() -> Out),
+    ("chunks_mut_b3_17_20", C_CHUNKS_MUT_B3_17_20, chunks_mut_b3::<17, 20> as fn() -> Out),
+    ("chunks_b3_17_21", C_CHUNKS_B3_17_21, chunks_b3::<17, 21> as fn() -> Out),
+    ("chunks_mut_b3_17_21", C_CHUNKS_MUT_B3_17_21, chunks_mut_b3::<17, 21> as fn() -> Out),
+    ("chunks_b3_17_22", C_CHUNKS_B3_17_22, chunks_b3::<17, 22> as fn() -> Out),
+    ("chunks_mut_b3_17_22", C_CHUNKS_MUT_B3_17_22, chunks_mut_b3::<17, 22> as fn() -> Out),
+    ("chunks_b3_17_23", C_CHUNKS_B3_17_23, chunks_b3::<17, 23> as fn() -> Out),
+    ("chunks_mut_b3_17_23", C_CHUNKS_MUT_B3_17_23, chunks_mut_b3::<17, 23> as fn() -> Out),
+    ("chunks_b3_17_24", C_CHUNKS_B3_17_24, chunks_b3::<17, 24> as fn() -> Out),
+    ("chunks_mut_b3_17_24", C_CHUNKS_MUT_B3_17_24, chunks_mut_b3::<17, 24> as fn() -> Out),
+    ("chunks_b3_17_25", C_CHUNKS_B3_17_25, chunks_b3::<17, 25> as fn() -> Out),
+    ("chunks_mut_b3_17_25", C_CHUNKS_MUT_B3_17_25, chunks_mut_b3::<17, 25> as fn() -> Out),
+    ("chunks_b3_17_26", C_CHUNKS_B3_17_26, chunks_b3::<17, 26> as fn() -> Out),
+    ("chunks_mut_b3_17_26", C_CHUNKS_MUT_B3_17_26, chunks_mut_b3::<17, 26> as fn() -> Out),
+    ("chunks_b3_17_27", C_CHUNKS_B3_17_27, chunks_b3::<17, 27> as fn() -> Out),
+    ("chunks_mut_b3_17_27", C_CHUNKS_MUT_B3_17_27, chunks_mut_b3::<17, 27> as fn() -> Out),
+    ("chunks_b3_17_28", C_CHUNKS_B3_17_28, chunks_b3::<17, 28> as fn() -> Out),
+    ("chunks_mut_b3_17_28", C_CHUNKS_MUT_B3_17_28, chunks_mut_b3::<17, 28> as fn() -> Out),
+    ("chunks_b3_17_29", C_CHUNKS_B3_17_29, chunks_b3::<17, 29> as fn() -> Out),
+    ("chunks_mut_b3_17_29", C_CHUNKS_MUT_B3_17_29, chunks_mut_b3::<17, 29> as fn() -> Out),
+    ("chunks_b3_17_30", C_CHUNKS_B3_17_30, chunks_b3::<17, 30> as fn() -> Out),
+    ("chunks_mut_b3_17_30", C_CHUNKS_MUT_B3_17_30, chunks_mut_b3::<17, 30> as fn() -> Out),
+    ("chunks_b3_17_31", C_CHUNKS_B3_17_31, chunks_b3::<17, 31> as fn() -> Out),
+    ("chunks_mut_b3_17_31", C_CHUNKS_MUT_B3_17_31, chunks_mut_b3::<17, 31> as fn() -> Out),
+    ("chunks_b3_17_32", C_CHUNKS_B3_17_32, chunks_b3::<17, 32> as fn() -> Out),
+    ("chunks_mut_b3_17_32", C_CHUNKS_MUT_B3_17_32, chunks_mut_b3::<17, 32> as fn() -> Out),
+    ("chunks_b3_17_33", C_CHUNKS_B3_17_33, chunks_b3::<17, 33> as fn() -> Out),
+    ("chunks_mut_b3_17_33", C_CHUNKS_MUT_B3_17_33, chunks_mut_b3::<17, 33> as fn() -> Out),
+    ("chunks_b3_17_34", C_CHUNKS_B3_17_34, chunks_b3::<17, 34> as fn() -> Out),
+    ("chunks_mut_b3_17_34", C_CHUNKS_MUT_B3_17_34, chunks_mut_b3::<17, 34> as fn() -> Out),
+    ("chunks_b3_17_35", C_CHUNKS_B3_17_35, chunks_b3::<17, 35> as fn() -> Out),
+    ("chunks_mut_b3_17_35", C_CHUNKS_MUT_B3_17_35, chunks_mut_b3::<17, 35> as fn() -> Out),
+    ("chunks_b3_17_36", C_CHUNKS_B3_17_36, chunks_b3::<17, 36> as fn() -> Out),
+    ("chunks_mut_b3_17_36", C_CHUNKS_MUT_B3_17_36, chunks_mut_b3::<17, 36> as fn() -> Out),
+    ("chunks_b3_17_37", C_CHUNKS_B3_17_37, chunks_b3::<17, 37> as fn() -> Out),
+    ("chunks_mut_b3_17_37", C_CHUNKS_MUT_B3_17_37, chunks_mut_b3::<17, 37> as fn() -> Out),
+    ("chunks_b3_17_38", C_CHUNKS_B3_17_38, chunks_b3::<17, 38> as fn() -> Out),
+    ("chunks_mut_b3_17_38", C_CHUNKS_MUT_B3_17_38, chunks_mut_b3::<17, 38> as fn() -> Out),
+    ("chunks_b3_17_39", C_CHUNKS_B3_17_39, chunks_b3::<17, 39> as fn() -> Out),
+    ("chunks_mut_b3_17_39", C_CHUNKS_MUT_B3_17_39, chunks_mut_b3::<17, 39> as fn() -> Out),
+    ("chunks_b3_17_40", C_CHUNKS_B3_17_40, chunks_b3::<17, 40> as fn() -> Out),
+    ("chunks_mut_b3_17_40", C_CHUNKS_MUT_B3_17_40, chunks_mut_b3::<17, 40> as fn() -> Out),
+    ("chunks_b3_17_41", C_CHUNKS_B3_17_41, chunks_b3::<17, 41> as fn() -> Out),
+    ("chunks_mut_b3_17_41", C_CHUNKS_MUT_B3_17_41, chunks_mut_b3::<17, 41> as fn() -> Out),
+    ("chunks_b3_17_42", C_CHUNKS_B3_17_42, chunks_b3::<17, 42> as fn() -> Out),
+    ("chunks_mut_b3_17_42", C_CHUNKS_MUT_B3_17_42, chunks_mut_b3::<17, 42> as fn() -> Out),
+    ("chunks_b3_17_43", C_CHUNKS_B3_17_43, chunks_b3::<17, 43> as fn() -> Out),
+    ("chunks_mut_b3_17_43", C_CHUNKS_MUT_B3_17_43, chunks_mut_b3::<17, 43> as fn() -> Out),
+    ("chunks_b3_17_44", C_CHUNKS_B3_17_44, chunks_b3::<17, 44> as fn() -> Out),
+    ("chunks_mut_b3_17_44", C_CHUNKS_MUT_B3_17_44, chunks_mut_b3::<17, 44> as fn() -> Out),
+    ("chunks_b3_17_45", C_CHUNKS_B3_17_45, chunks_b3::<17, 45> as fn() -> Out),
+    ("chunks_mut_b3_17_45", C_CHUNKS_MUT_B3_17_45, chunks_mut_b3::<17, 45> as fn() -> Out),
+    ("chunks_b3_17_46", C_CHUNKS_B3_17_46, chunks_b3::<17, 46> as fn() -> Out),
+    ("chunks_mut_b3_17_46", C_CHUNKS_MUT_B3_17_46, chunks_mut_b3::<17, 46> as fn() -> Out),
+    ("chunks_b3_17_47", C_CHUNKS_B3_17_47, chunks_b3::<17, 47> as fn() -> Out),
+    ("chunks_mut_b3_17_47", C_CHUNKS_MUT_B3_17_47, chunks_mut_b3::<17, 47> as fn() -> Out),
+    ("chunks_b3_17_48", C_CHUNKS_B3_17_48, chunks_b3::<17, 48> as fn() -> Out),
+    ("chunks_mut_b3_17_48", C_CHUNKS_MUT_B3_17_48, chunks_mut_b3::<17, 48> as fn() -> Out),
+    ("chunks_b3_17_49", C_CHUNKS_B3_17_49, chunks_b3::<17, 49> as fn() -> Out),
+    ("chunks_mut_b3_17_49", C_CHUNKS_MUT_B3_17_49, chunks_mut_b3::<17, 49> as fn() -> Out),
+    ("chunks_b3_17_50", C_CHUNKS_B3_17_50, chunks_b3::<17, 50> as fn() -> Out),
+    ("chunks_mut_b3_17_50", C_CHUNKS_MUT_B3_17_50, chunks_mut_b3::<17, 50> as fn() -> Out),
+    ("chunks_b3_17_51", C_CHUNKS_B3_17_51, chunks_b3::<17, 51> as fn() -> Out),
+    ("chunks_mut_b3_17_51", C_CHUNKS_MUT_B3_17_51, chunks_mut_b3::<17, 51> as fn() -> Out),
+    ("chunks_b3_17_52", C_CHUNKS_B3_17_52, chunks_b3::<17, 52> as fn() -> Out),
+    ("chunks_mut_b3_17_52", C_CHUNKS_MUT_B3_17_52, chunks_mut_b3::<17, 52> as fn() -> Out),
+    ("chunks_b3_17_53", C_CHUNKS_B3_17_53, chunks_b3::<17, 53> as fn() -> Out),
+    ("chunks_mut_b3_17_53", C_CHUNKS_MUT_B3_17_53, chunks_mut_b3::<17, 53> as fn() -> Out),
+    ("reinterpret_b3_17_0", C_REINTERPRET_B3_17_0, reinterpret_b3::<17, 0> as fn() -> Out),
+    ("reinterpret_b3_17_1", C_REINTERPRET_B3_17_1, reinterpret_b3::<17, 1> as fn() -> Out),
+    ("reinterpret_b3_17_16", C_REINTERPRET_B3_17_16, reinterpret_b3::<17, 16> as fn() -> Out),
+    ("reinterpret_b3_17_17", C_REINTERPRET_B3_17_17, reinterpret_b3::<17, 17> as fn() -> Out),
+    ("reinterpret_b3_17_18", C_REINTERPRET_B3_17_18, reinterpret_b3::<17, 18> as fn() -> Out),
+    ("reinterpret_b3_17_34", C_REINTERPRET_B3_17_34, reinterpret_b3::<17, 34> as fn() -> Out),
+    ("reinterpret_b3_17_53", C_REINTERPRET_B3_17_53, reinterpret_b3::<17, 53> as fn() -> Out),
+    ("byvalue_b3_17", C_BYVALUE_B3_17, byvalue_b3::<17> as fn() -> Out),
+    ("native_chunks_b3_17_0", C_NATIVE_CHUNKS_B3_17_0, native_chunks_b3::<17, 0> as fn() -> Out),
+    ("native_chunks_b3_17_1", C_NATIVE_CHUNKS_B3_17_1, native_chunks_b3::<17, 1> as fn() -> Out),
+    ("native_chunks_b3_17_2", C_NATIVE_CHUNKS_B3_17_2, native_chunks_b3::<17, 2> as fn() -> Out),
+    ("native_chunks_b3_17_3", C_NATIVE_CHUNKS_B3_17_3, native_chunks_b3::<17, 3> as fn() -> Out),
+    ("chunks_b3_33_0", C_CHUNKS_B3_33_0, chunks_b3::<33, 0> as fn() -> Out),
+    ("chunks_mut_b3_33_0", C_CHUNKS_MUT_B3_33_0, chunks_mut_b3::<33, 0> as fn() -> Out),
+    ("chunks_b3_33_1", C_CHUNKS_B3_33_1, chunks_b3::<33, 1> as fn() -> Out),
+    ("chunks_mut_b3_33_1", C_CHUNKS_MUT_B3_33_1, chunks_mut_b3::<33, 1> as fn() -> Out),
+    ("chunks_b3_33_32", C_CHUNKS_B3_33_32, chunks_b3::<33, 32> as fn() -> Out),
+    ("chunks_mut_b3_33_32", C_CHUNKS_MUT_B3_33_32, chunks_mut_b3::<33, 32> as fn() -> Out),
+    ("chunks_b3_33_33", C_CHUNKS_B3_33_33, chunks_b3::<33, 33> as fn() -> Out),
+    ("chunks_mut_b3_33_33", C_CHUNKS_MUT_B3_33_33, chunks_mut_b3::<33, 33> as fn() -> Out),
+    ("chunks_b3_33_34", C_CHUNKS_B3_33_34, chunks_b3::<33, 34> as fn() -> Out),
+    ("chunks_mut_b3_33_34", C_CHUNKS_MUT_B3_33_34, chunks_mut_b3::<33, 34> as fn() -> Out),
+    ("chunks_b3_33_65", C_CHUNKS_B3_33_65, chunks_b3::<33, 65> as fn() -> Out),
+    ("chunks_mut_b3_33_65", C_CHUNKS_MUT_B3_33_65, chunks_mut_b3::<33, 65> as fn() -> Out),
+    ("chunks_b3_33_66", C_CHUNKS_B3_33_66, chunks_b3::<33, 66> as fn() -> Out),
+    ("chunks_mut_b3_33_66", C_CHUNKS_MUT_B3_33_66, chunks_mut_b3::<33, 66> as fn() -> Out),
+    ("chunks_b3_33_67", C_CHUNKS_B3_33_67, chunks_b3::<33, 67> as fn() -> Out),
+    ("chunks_mut_b3_33_67", C_CHUNKS_MUT_B3_33_67, chunks_mut_b3::<33, 67> as fn() -> Out),
+    ("chunks_b3_33_98", C_CHUNKS_B3_33_98, chunks_b3::<33, 98> as fn() -> Out),
+    ("chunks_mut_b3_33_98", C_CHUNKS_MUT_B3_33_98, chunks_mut_b3::<33, 98> as fn() -> Out),
+    ("chunks_b3_33_99", C_CHUNKS_B3_33_99, chunks_b3::<33, 99> as fn() -> Out),
+    ("chunks_mut_b3_33_99", C_CHUNKS_MUT_B3_33_99, chunks_mut_b3::<33, 99> as fn() -> Out),
+    ("chunks_b3_33_100", C_CHUNKS_B3_33_100, chunks_b3::<33, 100> as fn() -> Out),
+    ("chunks_mut_b3_33_100", C_CHUNKS_MUT_B3_33_100, chunks_mut_b3::<33, 100> as fn() -> Out),
+    ("chunks_b3_33_101", C_CHUNKS_B3_33_101, chunks_b3::<33, 101> as fn() -> Out),
+    ("chunks_mut_b3_33_101", C_CHUNKS_MUT_B3_33_101, chunks_mut_b3::<33, 101> as fn() -> Out),
+    ("reinterpret_b3_33_0", C_REINTERPRET_B3_33_0, reinterpret_b3::<33, 0> as fn() -> Out),
+    ("reinterpret_b3_33_1", C_REINTERPRET_B3_33_1, reinterpret_b3::<33, 1> as fn() -> Out),
+    ("reinterpret_b3_33_32", C_REINTERPRET_B3_33_32, reinterpret_b3::<33, 32> as fn() -> Out),
+    ("reinterpret_b3_33_33", C_REINTERPRET_B3_33_33, reinterpret_b3::<33, 33> as fn() -> Out),
+    ("reinterpret_b3_33_34", C_REINTERPRET_B3_33_34, reinterpret_b3::<33, 34> as fn() -> Out),
+    ("reinterpret_b3_33_66", C_REINTERPRET_B3_33_66, reinterpret_b3::<33, 66> as fn() -> Out),
+    ("reinterpret_b3_33_101", C_REINTERPRET_B3_33_101, reinterpret_b3::<33, 101> as fn() -> Out),
+    ("byvalue_b3_33", C_BYVALUE_B3_33, byvalue_b3::<33> as fn() -> Out),
+    ("native_chunks_b3_33_0", C_NATIVE_CHUNKS_B3_33_0, native_chunks_b3::<33, 0> as fn() -> Out),
+    ("native_chunks_b3_33_1", C_NATIVE_CHUNKS_B3_33_1, native_chunks_b3::<33, 1> as fn() -> Out),
+    ("native_chunks_b3_33_2", C_NATIVE_CHUNKS_B3_33_2, native_chunks_b3::<33, 2> as fn() -> Out),
+    ("native_chunks_b3_33_3", C_NATIVE_CHUNKS_B3_33_3, native_chunks_b3::<33, 3> as fn() -> Out),
+    ("chunks_b3_64_0", C_CHUNKS_B3_64_0, chunks_b3::<64, 0> as fn() -> Out),
+    ("chunks_mut_b3_64_0", C_CHUNKS_MUT_B3_64_0, chunks_mut_b3::<64, 0> as fn() -> Out),
+    ("chunks_b3_64_1", C_CHUNKS_B3_64_1, chunks_b3::<64, 1> as fn() -> Out),
+    ("chunks_mut_b3_64_1", C_CHUNKS_MUT_B3_64_1, chunks_mut_b3::<64, 1> as fn() -> Out),
+    ("chunks_b3_64_63", C_CHUNKS_B3_64_63, chunks_b3::<64, 63> as fn() -> Out),
+    ("chunks_mut_b3_64_63", C_CHUNKS_MUT_B3_64_63, chunks_mut_b3::<64, 63> as fn() -> Out),
+    ("chunks_b3_64_64", C_CHUNKS_B3_64_64, chunks_b3::<64, 64> as fn() -> Out),
+    ("chunks_mut_b3_64_64", C_CHUNKS_MUT_B3_64_64, chunks_mut_b3::<64, 64> as fn() -> Out),
+    ("chunks_b3_64_65", C_CHUNKS_B3_64_65, chunks_b3::<64, 65> as fn() -> Out),
+    ("chunks_mut_b3_64_65", C_CHUNKS_MUT_B3_64_65, chunks_mut_b3::<64, 65> as fn() -> Out),
+    ("chunks_b3_64_127", C_CHUNKS_B3_64_127, chunks_b3::<64, 127> as fn() -> Out),
+    ("chunks_mut_b3_64_127", C_CHUNKS_MUT_B3_64_127, chunks_mut_b3::<64, 127> as fn() -> Out),
+    ("chunks_b3_64_128", C_CHUNKS_B3_64_128, chunks_b3::<64, 128> as fn() -> Out),
+    ("chunks_mut_b3_64_128", C_CHUNKS_MUT_B3_64_128, chunks_mut_b3::<64, 128> as fn() -> Out),
+    ("chunks_b3_64_129", C_CHUNKS_B3_64_129, chunks_b3::<64, 129> as fn() -> Out),
+    ("chunks_mut_b3_64_129", C_CHUNKS_MUT_B3_64_129, chunks_mut_b3::<64, 129> as fn() -> Out),
+    ("chunks_b3_64_191", C_CHUNKS_B3_64_191, chunks_b3::<64, 191> as fn() -> Out),
+    ("chunks_mut_b3_64_191", C_CHUNKS_MUT_B3_64_191, chunks_mut_b3::<64, 191> as fn() -> Out),
+    ("chunks_b3_64_192", C_CHUNKS_B3_64_192, chunks_b3::<64, 192> as fn() -> Out),
+    ("chunks_mut_b3_64_192", C_CHUNKS_MUT_B3_64_192, chunks_mut_b3::<64, 192> as fn() -> Out),
+    ("chunks_b3_64_193", C_CHUNKS_B3_64_193, chunks_b3::<64, 193> as fn() -> Out),
+    ("chunks_mut_b3_64_193", C_CHUNKS_MUT_B3_64_193, chunks_mut_b3::<64, 193> as fn() -> Out),
+    ("chunks_b3_64_194", C_CHUNKS_B3_64_194, chunks_b3::<64, 194> as fn() -> Out),
+    ("chunks_mut_b3_64_194", C_CHUNKS_MUT_B3_64_194, chunks_mut_b3::<64, 194> as fn() -> Out),
+    ("reinterpret_b3_64_0", C_REINTERPRET_B3_64_0, reinterpret_b3::<64, 0> as fn() -> Out),
+    ("reinterpret_b3_64_1", C_REINTERPRET_B3_64_1, reinterpret_b3::<64, 1> as fn() -> Out),
+    ("reinterpret_b3_64_63", C_REINTERPRET_B3_64_63, reinterpret_b3::<64, 63> as fn() -> Out),
+    ("reinterpret_b3_64_64", C_REINTERPRET_B3_64_64, reinterpret_b3::<64, 64> as fn() -> Out),
+    ("reinterpret_b3_64_65", C_REINTERPRET_B3_64_65, reinterpret_b3::<64, 65> as fn() -> Out),
+    ("reinterpret_b3_64_128", C_REINTERPRET_B3_64_128, reinterpret_b3::<64, 128> as fn() -> Out),
+    ("reinterpret_b3_64_194", C_REINTERPRET_B3_64_194, reinterpret_b3::<64, 194> as fn() -> Out),
+    ("byvalue_b3_64", C_BYVALUE_B3_64, byvalue_b3::<64> as fn() -> Out),
+    ("native_chunks_b3_64_0", C_NATIVE_CHUNKS_B3_64_0, native_chunks_b3::<64, 0> as fn() -> Out),
+    ("native_chunks_b3_64_1", C_NATIVE_CHUNKS_B3_64_1, native_chunks_b3::<64, 1> as fn() -> Out),
+    ("native_chunks_b3_64_2", C_NATIVE_CHUNKS_B3_64_2, native_chunks_b3::<64, 2> as fn() -> Out),
+    ("native_chunks_b3_64_3", C_NATIVE_CHUNKS_B3_64_3, native_chunks_b3::<64, 3> as fn() -> Out),
+    ("chunks_b3_100_0", C_CHUNKS_B3_100_0, chunks_b3::<100, 0> as fn() -> Out),
+    ("chunks_mut_b3_100_0", C_CHUNKS_MUT_B3_100_0, chunks_mut_b3::<100, 0> as fn() -> Out),
+    ("chunks_b3_100_1", C_CHUNKS_B3_100_1, chunks_b3::<100, 1> as fn() -> Out),
+    ("chunks_mut_b3_100_1", C_CHUNKS_MUT_B3_100_1, chunks_mut_b3::<100, 1> as fn() -> Out),
+    ("chunks_b3_100_99", C_CHUNKS_B3_100_99, chunks_b3::<100, 99> as fn() -> Out),
+    ("chunks_mut_b3_100_99", C_CHUNKS_MUT_B3_100_99, chunks_mut_b3::<100, 99> as fn() -> Out),
+    ("chunks_b3_100_100", C_CHUNKS_B3_100_100, chunks_b3::<100, 100> as fn() -> Out),
+    ("chunks_mut_b3_100_100", C_CHUNKS_MUT_B3_100_100, chunks_mut_b3::<100, 100> as fn() -> Out),
+    ("chunks_b3_100_101", C_CHUNKS_B3_100_101, chunks_b3::<100, 101> as fn() -> Out),
+    ("chunks_mut_b3_100_101", C_CHUNKS_MUT_B3_100_101, chunks_mut_b3::<100, 101> as fn() -> Out),
+    ("chunks_b3_100_199", C_CHUNKS_B3_100_199, chunks_b3::<100, 199> as fn() -> Out),
+    ("chunks_mut_b3_100_199", C_CHUNKS_MUT_B3_100_199, chunks_mut_b3::<100, 199> as fn() -> Out),
+    ("chunks_b3_100_200", C_CHUNKS_B3_100_200, chunks_b3::<100, 200> as fn() -> Out),
+    ("chunks_mut_b3_100_200", C_CHUNKS_MUT_B3_100_200, chunks_mut_b3::<100, 200> as fn() -> Out),
+    ("chunks_b3_100_201", C_CHUNKS_B3_100_201, chunks_b3::<100, 201> as fn() -> Out),
+    ("chunks_mut_b3_100_201", C_CHUNKS_MUT_B3_100_201, chunks_mut_b3::<100, 201> as fn() -> Out),
+    ("chunks_b3_100_302", C_CHUNKS_B3_100_302, chunks_b3::<100, 302> as fn() -> Out),
+    ("chunks_mut_b3_100_302", C_CHUNKS_MUT_B3_100_302, chunks_mut_b3::<100, 302> as fn() -> Out),
+    ("reinterpret_b3_100_0", C_REINTERPRET_B3_100_0, reinterpret_b3::<100, 0> as fn() -> Out),
+    ("reinterpret_b3_100_1", C_REINTERPRET_B3_100_1, reinterpret_b3::<100, 1> as fn() -> Out),
+    ("reinterpret_b3_100_99", C_REINTERPRET_B3_100_99, reinterpret_b3::<100, 99> as fn() -> Out),
+    ("reinterpret_b3_100_100", C_REINTERPRET_B3_100_100, reinterpret_b3::<100, 100> as fn() -> Out),
+    ("reinterpret_b3_100_101", C_REINTERPRET_B3_100_101, reinterpret_b3::<100, 101> as fn() -> Out),
+    ("reinterpret_b3_100_200", C_REINTERPRET_B3_100_200, reinterpret_b3::<100, 200> as fn() -> Out),
+    ("reinterpret_b3_100_302", C_REINTERPRET_B3_100_302, reinterpret_b3::<100, 302> as fn() -> Out),
+    ("byvalue_b3_100", C_BYVALUE_B3_100, byvalue_b3::<100> as fn() -> Out),
+    ("native_chunks_b3_100_0", C_NATIVE_CHUNKS_B3_100_0, native_chunks_b3::<100, 0> as fn() -> Out),
+    ("native_chunks_b3_100_1", C_NATIVE_CHUNKS_B3_100_1, native_chunks_b3::<100, 1> as fn() -> Out),
+    ("native_chunks_b3_100_2", C_NATIVE_CHUNKS_B3_100_2, native_chunks_b3::<100, 2> as fn() -> Out),
+    ("native_chunks_b3_100_3", C_NATIVE_CHUNKS_B3_100_3, native_chunks_b3::<100, 3> as fn() -> Out),
+    ("chunks_b3_1024_0", C_CHUNKS_B3_1024_0, chunks_b3::<1024, 0> as fn() -> Out),
+    ("chunks_mut_b3_1024_0", C_CHUNKS_MUT_B3_1024_0, chunks_mut_b3::<1024, 0> as fn() -> Out),
+    ("chunks_b3_1024_1", C_CHUNKS_B3_1024_1, chunks_b3::<1024, 1> as fn() -> Out),
+    ("chunks_mut_b3_1024_1", C_CHUNKS_MUT_B3_1024_1, chunks_mut_b3::<1024, 1> as fn() -> Out),
+    ("chunks_b3_1024_1023", C_CHUNKS_B3_1024_1023, chunks_b3::<1024, 1023> as fn() -> Out),
+    ("chunks_mut_b3_1024_1023", C_CHUNKS_MUT_B3_1024_1023, chunks_mut_b3::<1024, 1023> as fn() -> Out),
+    ("chunks_b3_1024_1024", C_CHUNKS_B3_1024_1024, chunks_b3::<1024, 1024> as fn() -> Out),
+    ("chunks_mut_b3_1024_1024", C_CHUNKS_MUT_B3_1024_1024, chunks_mut_b3::<1024, 1024> as fn() -> Out),
+    ("chunks_b3_1024_1025", C_CHUNKS_B3_1024_1025, chunks_b3::<1024, 1025> as fn() -> Out),
+    ("chunks_mut_b3_1024_1025", C_CHUNKS_MUT_B3_1024_1025, chunks_mut_b3::<1024, 1025> as fn() -> Out),
+    ("chunks_b3_1024_2047", C_CHUNKS_B3_1024_2047, chunks_b3::<1024, 2047> as fn() -> Out),
+    ("chunks_mut_b3_1024_2047", C_CHUNKS_MUT_B3_1024_2047, chunks_mut_b3::<1024, 2047> as fn() -> Out),
+    ("chunks_b3_1024_2048", C_CHUNKS_B3_1024_2048, chunks_b3::<1024, 2048> as fn() -> Out),
+    ("chunks_mut_b3_1024_2048", C_CHUNKS_MUT_B3_1024_2048, chunks_mut_b3::<1024, 2048> as fn() -> Out),
+    ("chunks_b3_1024_2049", C_CHUNKS_B3_1024_2049, chunks_b3::<1024, 2049> as fn() -> Out),
+    ("chunks_mut_b3_1024_2049", C_CHUNKS_MUT_B3_1024_2049, chunks_mut_b3::<1024, 2049> as fn() -> Out),
+    ("chunks_b3_1024_3074", C_CHUNKS_B3_1024_3074, chunks_b3::<1024, 3074> as fn() -> Out),
+    ("chunks_mut_b3_1024_3074", C_CHUNKS_MUT_B3_1024_3074, chunks_mut_b3::<1024, 3074> as fn() -> Out),
+    ("reinterpret_b3_1024_0", C_REINTERPRET_B3_1024_0, reinterpret_b3::<1024, 0> as fn() -> Out),
+    ("reinterpret_b3_1024_1", C_REINTERPRET_B3_1024_1, reinterpret_b3::<1024, 1> as fn() -> Out),
+    ("reinterpret_b3_1024_1023", C_REINTERPRET_B3_1024_1023, reinterpret_b3::<1024, 1023> as fn() -> Out),
+    ("reinterpret_b3_1024_1024", C_REINTERPRET_B3_1024_1024, reinterpret_b3::<1024, 1024> as fn() -> Out),
+    ("reinterpret_b3_1024_1025", C_REINTERPRET_B3_1024_1025, reinterpret_b3::<1024, 1025> as fn() -> Out),
+    ("reinterpret_b3_1024_2048", C_REINTERPRET_B3_1024_2048, reinterpret_b3::<1024, 2048> as fn() -> Out),
+    ("reinterpret_b3_1024_3074", C_REINTERPRET_B3_1024_3074, reinterpret_b3::<1024, 3074> as fn() -> Out),
+    ("byvalue_b3_1024", C_BYVALUE_B3_1024, byvalue_b3::<1024> as fn() -> Out),
+    ("native_chunks_b3_1024_0", C_NATIVE_CHUNKS_B3_1024_0, native_chunks_b3::<1024, 0> as fn() -> Out),
+    ("native_chunks_b3_1024_1", C_NATIVE_CHUNKS_B3_1024_1, native_chunks_b3::<1024, 1> as fn() -> Out),
+    ("native_chunks_b3_1024_2", C_NATIVE_CHUNKS_B3_1024_2, native_chunks_b3::<1024, 2> as fn() -> Out),
+    ("native_chunks_b3_1024_3", C_NATIVE_CHUNKS_B3_1024_3, native_chunks_b3::<1024, 3> as fn() -> Out),
+    ("chunks_ch_0_0", C_CHUNKS_CH_0_0, chunks_ch::<0, 0> as fn() -> Out),
+    ("chunks_mut_ch_0_0", C_CHUNKS_MUT_CH_0_0, chunks_mut_ch::<0, 0> as fn() -> Out),
+    ("reinterpret_ch_0_0", C_REINTERPRET_CH_0_0, reinterpret_ch::<0, 0> as fn() -> Out),
+    ("reinterpret_ch_0_1", C_REINTERPRET_CH_0_1, reinterpret_ch::<0, 1> as fn() -> Out),
+    ("reinterpret_ch_0_2", C_REINTERPRET_CH_0_2, reinterpret_ch::<0, 2> as fn() -> Out),
+    ("byvalue_ch_0", C_BYVALUE_CH_0, byvalue_ch::<0> as fn() -> Out),
+    ("native_chunks_ch_0_0", C_NATIVE_CHUNKS_CH_0_0, native_chunks_ch::<0, 0> as fn() -> Out),
+    ("native_chunks_ch_0_1", C_NATIVE_CHUNKS_CH_0_1, native_chunks_ch::<0, 1> as fn() -> Out),
+    ("native_chunks_ch_0_2", C_NATIVE_CHUNKS_CH_0_2, native_chunks_ch::<0, 2> as fn() -> Out),
+    ("native_chunks_ch_0_3", C_NATIVE_CHUNKS_CH_0_3, native_chunks_ch::<0, 3> as fn() -> Out),
+    ("chunks_ch_1_0", C_CHUNKS_CH_1_0, chunks_ch::<1, 0> as fn() -> Out),
+    ("chunks_mut_ch_1_0", C_CHUNKS_MUT_CH_1_0, chunks_mut_ch::<1, 0> as fn() -> Out),
+    ("chunks_ch_1_1", C_CHUNKS_CH_1_1, chunks_ch::<1, 1> as fn() -> Out),
+    ("chunks_mut_ch_1_1", C_CHUNKS_MUT_CH_1_1, chunks_mut_ch::<1, 1> as fn() -> Out),
+    ("chunks_ch_1_2", C_CHUNKS_CH_1_2, chunks_ch::<1, 2> as fn() -> Out),
+    ("chunks_mut_ch_1_2", C_CHUNKS_MUT_CH_1_2, chunks_mut_ch::<1, 2> as fn() -> Out),
+    ("chunks_ch_1_3", C_CHUNKS_CH_1_3, chunks_ch::<1, 3> as fn() -> Out),
+    ("chunks_mut_ch_1_3", C_CHUNKS_MUT_CH_1_3, chunks_mut_ch::<1, 3> as fn() -> Out),
+    ("chunks_ch_1_4", C_CHUNKS_CH_1_4, chunks_ch::<1, 4> as fn() -> Out),
+    ("chunks_mut_ch_1_4", C_CHUNKS_MUT_CH_1_4, chunks_mut_ch::<1, 4> as fn() -> Out),
+    ("chunks_ch_1_5", C_CHUNKS_CH_1_5, chunks_ch::<1, 5> as fn() -> Out),
+    ("chunks_mut_ch_1_5", C_CHUNKS_MUT_CH_1_5, chunks_mut_ch::<1, 5> as fn() -> Out),
+    ("reinterpret_ch_1_0", C_REINTERPRET_CH_1_0, reinterpret_ch::<1, 0> as fn() -> Out),
+    ("reinterpret_ch_1_1", C_REINTERPRET_CH_1_1, reinterpret_ch::<1, 1> as fn() -> Out),
+    ("reinterpret_ch_1_2", C_REINTERPRET_CH_1_2, reinterpret_ch::<1, 2> as fn() -> Out),
+    ("reinterpret_ch_1_5", C_REINTERPRET_CH_1_5, reinterpret_ch::<1, 5> as fn() -> Out),
+    ("byvalue_ch_1", C_BYVALUE_CH_1, byvalue_ch::<1> as fn() -> Out),
+    ("native_chunks_ch_1_0", C_NATIVE_CHUNKS_CH_1_0, native_chunks_ch::<1, 0> as fn() -> Out),
+    ("native_chunks_ch_1_1", C_NATIVE_CHUNKS_CH_1_1, native_chunks_ch::<1, 1> as fn() -> Out),
+    ("native_chunks_ch_1_2", C_NATIVE_CHUNKS_CH_1_2, native_chunks_ch::<1, 2> as fn() -> Out),
+    ("native_chunks_ch_1_3", C_NATIVE_CHUNKS_CH_1_3, native_chunks_ch::<1, 3> as fn() -> Out),
+    ("chunks_ch_2_0", C_CHUNKS_CH_2_0, chunks_ch::<2, 0> as fn() -> Out),
+    ("chunks_mut_ch_2_0", C_CHUNKS_MUT_CH_2_0, chunks_mut_ch::<2, 0> as fn() -> Out),
+    ("chunks_ch_2_1", C_CHUNKS_CH_2_1, chunks_ch::<2, 1> as fn() -> Out),
+    ("chunks_mut_ch_2_1", C_CHUNKS_MUT_CH_2_1, chunks_mut_ch::<2, 1> as fn() -> Out),
+    ("chunks_ch_2_2", C_CHUNKS_CH_2_2, chunks_ch::<2, 2> as fn() -> Out),
+    ("chunks_mut_ch_2_2", C_CHUNKS_MUT_CH_2_2, chunks_mut_ch::<2, 2> as fn() -> Out),
+    ("chunks_ch_2_3", C_CHUNKS_CH_2_3, chunks_ch::<2, 3> as fn() -> Out),
+    ("chunks_mut_ch_2_3", C_CHUNKS_MUT_CH_2_3, chunks_mut_ch::<2, 3> as fn() -> Out),
+    ("chunks_ch_2_4", C_CHUNKS_CH_2_4, chunks_ch::<2, 4> as fn() -> Out),
+    ("chunks_mut_ch_2_4", C_CHUNKS_MUT_CH_2_4, chunks_mut_ch::<2, 4> as fn() -> Out),
+    ("chunks_ch_2_5", C_CHUNKS_CH_2_5, chunks_ch::<2, 5> as fn() -> Out),
+    ("chunks_mut_ch_2_5", C_CHUNKS_MUT_CH_2_5, chunks_mut_ch::<2, 5> as fn() -> Out),
+    ("chunks_ch_2_6", C_CHUNKS_CH_2_6, chunks_ch::<2, 6> as fn() -> Out),
+    ("chunks_mut_ch_2_6", C_CHUNKS_MUT_CH_2_6, chunks_mut_ch::<2, 6> as fn() -> Out),
+    ("chunks_ch_2_7", C_CHUNKS_CH_2_7, chunks_ch::<2, 7> as fn() -> Out),
+    ("chunks_mut_ch_2_7", C_CHUNKS_MUT_CH_2_7, chunks_mut_ch::<2, 7> as fn() -> Out),
+    ("chunks_ch_2_8", C_CHUNKS_CH_2_8, chunks_ch::<2, 8> as fn() -> Out),
+    ("chunks_mut_ch_2_8", C_CHUNKS_MUT_CH_2_8, chunks_mut_ch::<2, 8> as fn() -> Out),
+    ("reinterpret_ch_2_0", C_REINTERPRET_CH_2_0, reinterpret_ch::<2, 0> as fn() -> Out),
+    ("reinterpret_ch_2_1", C_REINTERPRET_CH_2_1, reinterpret_ch::<2, 1> as fn() -> Out),
+    ("reinterpret_ch_2_2", C_REINTERPRET_CH_2_2, reinterpret_ch::<2, 2> as fn() -> Out),
+    ("reinterpret_ch_2_3", C_REINTERPRET_CH_2_3, reinterpret_ch::<2, 3> as fn() -> Out),
+    ("reinterpret_ch_2_4", C_REINTERPRET_CH_2_4, reinterpret_ch::<2, 4> as fn() -> Out),
+    ("reinterpret_ch_2_8", C_REINTERPRET_CH_2_8, reinterpret_ch::<2, 8> as fn() -> Out),
+    ("byvalue_ch_2", C_BYVALUE_CH_2, byvalue_ch::<2> as fn() -> Out),
+    ("native_chunks_ch_2_0", C_NATIVE_CHUNKS_CH_2_0, native_chunks_ch::<2, 0> as fn() -> Out),
+    ("native_chunks_ch_2_1", C_NATIVE_CHUNKS_CH_2_1, native_chunks_ch::<2, 1> as fn() -> Out),
+    ("native_chunks_ch_2_2", C_NATIVE_CHUNKS_CH_2_2, native_chunks_ch::<2, 2> as fn() -> Out),
+    ("native_chunks_ch_2_3", C_NATIVE_CHUNKS_CH_2_3, native_chunks_ch::<2, 3> as fn() -> Out),
+    ("chunks_ch_3_0", C_CHUNKS_CH_3_0, chunks_ch::<3, 0> as fn() -> Out),
+    ("chunks_mut_ch_3_0", C_CHUNKS_MUT_CH_3_0, chunks_mut_ch::<3, 0> as fn() -> Out),
+    ("chunks_ch_3_1", C_CHUNKS_CH_3_1, chunks_ch::<3, 1> as fn() -> Out),
+    ("chunks_mut_ch_3_1", C_CHUNKS_MUT_CH_3_1, chunks_mut_ch::<3, 1> as fn() -> Out),
+    ("chunks_ch_3_2", C_CHUNKS_CH_3_2, chunks_ch::<3, 2> as fn() -> Out),
+    ("chunks_mut_ch_3_2", C_CHUNKS_MUT_CH_3_2, chunks_mut_ch::<3, 2> as fn() -> Out),
+    ("chunks_ch_3_3", C_CHUNKS_CH_3_3, chunks_ch::<3, 3> as fn() -> Out),
+    ("chunks_mut_ch_3_3", C_CHUNKS_MUT_CH_3_3, chunks_mut_ch::<3, 3> as fn() -> Out),
+    ("chunks_ch_3_4", C_CHUNKS_CH_3_4, chunks_ch::<3, 4> as fn() -> Out),
+    ("chunks_mut_ch_3_4", C_CHUNKS_MUT_CH_3_4, chunks_mut_ch::<3, 4> as fn() -> Out),
+    ("chunks_ch_3_5", C_CHUNKS_CH_3_5, chunks_ch::<3, 5> as fn() -> Out),
+    ("chunks_mut_ch_3_5", C_CHUNKS_MUT_CH_3_5, chunks_mut_ch::<3, 5> as fn() -> Out),
+    ("chunks_ch_3_6", C_CHUNKS_CH_3_6, chunks_ch::<3, 6> as fn() -> Out),
+    ("chunks_mut_ch_3_6", C_CHUNKS_MUT_CH_3_6, chunks_mut_ch::<3, 6> as fn() -> Out),
+    ("chunks_ch_3_7", C_CHUNKS_CH_3_7, chunks_ch::<3, 7> as fn() -> Out),
+    ("chunks_mut_ch_3_7", C_CHUNKS_MUT_CH_3_7, chunks_mut_ch::<3, 7> as fn() -> Out),
+    ("chunks_ch_3_8", C_CHUNKS_CH_3_8, chunks_ch::<3, 8> as fn() -> Out),
+    ("chunks_mut_ch_3_8", C_CHUNKS_MUT_CH_3_8, chunks_mut_ch::<3, 8> as fn() -> Out),
+    ("chunks_ch_3_9", C_CHUNKS_CH_3_9, chunks_ch::<3, 9> as fn() -> Out),
+    ("chunks_mut_ch_3_9", C_CHUNKS_MUT_CH_3_9, chunks_mut_ch::<3, 9> as fn() -> Out),
+    ("chunks_ch_3_10", C_CHUNKS_CH_3_10, chunks_ch::<3, 10> as fn() -> Out),
+    ("chunks_mut_ch_3_10", C_CHUNKS_MUT_CH_3_10, chunks_mut_ch::<3, 10> as fn() -> Out),
+    ("chunks_ch_3_11", C_CHUNKS_CH_3_11, chunks_ch::<3, 11> as fn() -> Out),
+    ("chunks_mut_ch_3_11", C_CHUNKS_MUT_CH_3_11, chunks_mut_ch::<3, 11> as fn() -> Out),
+    ("reinterpret_ch_3_0", C_REINTERPRET_CH_3_0, reinterpret_ch::<3, 0> as fn() -> Out),
+    ("reinterpret_ch_3_1", C_REINTERPRET_CH_3_1, reinterpret_ch::<3, 1> as fn() -> Out),
+    ("reinterpret_ch_3_2", C_REINTERPRET_CH_3_2, reinterpret_ch::<3, 2> as fn() -> Out),
+    ("reinterpret_ch_3_3", C_REINTERPRET_CH_3_3, reinterpret_ch::<3, 3> as fn() -> Out),
+    ("reinterpret_ch_3_4", C_REINTERPRET_CH_3_4, reinterpret_ch::<3, 4> as fn() -> Out),
+    ("reinterpret_ch_3_6", C_REINTERPRET_CH_3_6, reinterpret_ch::<3, 6> as fn() -> Out),
+    ("reinterpret_ch_3_11", C_REINTERPRET_CH_3_11, reinterpret_ch::<3, 11> as fn() -> Out),
+    ("byvalue_ch_3", C_BYVALUE_CH_3, byvalue_ch::<3> as fn() -> Out),
+    ("native_chunks_ch_3_0", C_NATIVE_CHUNKS_CH_3_0, native_chunks_ch::<3, 0> as fn() -> Out),
+    ("native_chunks_ch_3_1", C_NATIVE_CHUNKS_CH_3_1, native_chunks_ch::<3, 1> as fn() -> Out),
+    ("native_chunks_ch_3_2", C_NATIVE_CHUNKS_CH_3_2, native_chunks_ch::<3, 2> as fn() -> Out),
+    ("native_chunks_ch_3_3", C_NATIVE_CHUNKS_CH_3_3, native_chunks_ch::<3, 3> as fn() -> Out),
+    ("chunks_ch_7_0", C_CHUNKS_CH_7_0, chunks_ch::<7, 0> as fn() -> Out),
+    ("chunks_mut_ch_7_0", C_CHUNKS_MUT_CH_7_0, chunks_mut_ch::<7, 0> as fn() -> Out),
+    ("chunks_ch_7_1", C_CHUNKS_CH_7_1, chunks_ch::<7, 1> as fn() -> Out),
+    ("chunks_mut_ch_7_1", C_CHUNKS_MUT_CH_7_1, chunks_mut_ch::<7, 1> as fn() -> Out),
+    ("chunks_ch_7_2", C_CHUNKS_CH_7_2, chunks_ch::<7, 2> as fn() -> Out),
+    ("chunks_mut_ch_7_2", C_CHUNKS_MUT_CH_7_2, chunks_mut_ch::<7, 2> as fn() -> Out),
+    ("chunks_ch_7_3", C_CHUNKS_CH_7_3, chunks_ch::<7, 3> as fn() -> Out),
+    ("chunks_mut_ch_7_3", C_CHUNKS_MUT_CH_7_3, chunks_mut_ch::<7, 3> as fn() -> Out),
+    ("chunks_ch_7_4", C_CHUNKS_CH_7_4, chunks_ch::<7, 4> as fn() -> Out),
+    ("chunks_mut_ch_7_4", C_CHUNKS_MUT_CH_7_4, chunks_mut_ch::<7, 4> as fn() -> Out),
+    ("chunks_ch_7_5", C_CHUNKS_CH_7_5, chunks_ch::<7, 5> as fn() -> Out),
+    ("chunks_mut_ch_7_5", C_CHUNKS_MUT_CH_7_5, chunks_mut_ch::<7, 5> as fn() -> Out),
+    ("chunks_ch_7_6", C_CHUNKS_CH_7_6, chunks_ch::<7, 6> as fn() -> Out),
+    ("chunks_mut_ch_7_6", C_CHUNKS_MUT_CH_7_6, chunks_mut_ch::<7, 6> as fn() -> Out),
+    ("chunks_ch_7_7", C_CHUNKS_CH_7_7, chunks_ch::<7, 7> as fn() -> Out),
+    ("chunks_mut_ch_7_7", C_CHUNKS_MUT_CH_7_7, chunks_mut_ch::<7, 7> as fn() -> Out),
+    ("chunks_ch_7_8", C_CHUNKS_CH_7_8, chunks_ch::<7, 8> as fn() -> Out),
+    ("chunks_mut_ch_7_8", C_CHUNKS_MUT_CH_7_8, chunks_mut_ch::<7, 8> as fn() -> Out),
+    ("chunks_ch_7_9", C_CHUNKS_CH_7_9, chunks_ch::<7, 9> as fn() -> Out),
+    ("chunks_mut_ch_7_9", C_CHUNKS_MUT_CH_7_9, chunks_mut_ch::<7, 9> as fn() -> Out),
+    ("chunks_ch_7_10", C_CHUNKS_CH_7_10, chunks_ch::<7, 10> as fn() -> Out),
+    ("chunks_mut_ch_7_10", C_CHUNKS_MUT_CH_7_10, chunks_mut_ch::<7, 10> as fn() -> Out),
+    ("chunks_ch_7_11", C_CHUNKS_CH_7_11, chunks_ch::<7, 11> as fn() -> Out),
+    ("chunks_mut_ch_7_11", C_CHUNKS_MUT_CH_7_11, chunks_mut_ch::<7, 11> as fn() -> Out),
+    ("chunks_ch_7_12", C_CHUNKS_CH_7_12, chunks_ch::<7, 12> as fn() -> Out),
+    ("chunks_mut_ch_7_12", C_CHUNKS_MUT_CH_7_12, chunks_mut_ch::<7, 12> as fn() -> Out),
+    ("chunks_ch_7_13", C_CHUNKS_CH_7_13, chunks_ch::<7, 13> as fn() -> Out),
+    ("chunks_mut_ch_7_13", C_CHUNKS_MUT_CH_7_13, chunks_mut_ch::<7, 13> as fn() -> Out),
+    ("chunks_ch_7_14", C_CHUNKS_CH_7_14, chunks_ch::<7, 14> as fn() -> Out),
+    ("chunks_mut_ch_7_14", C_CHUNKS_MUT_CH_7_14, chunks_mut_ch::<7, 14> as fn() -> Out),
+    ("chunks_ch_7_15", C_CHUNKS_CH_7_15, chunks_ch::<7, 15> as fn() -> Out),
+    ("chunks_mut_ch_7_15", C_CHUNKS_MUT_CH_7_15, chunks_mut_ch::<7, 15> as fn() -> Out),
+    ("chunks_ch_7_16", C_CHUNKS_CH_7_16, chunks_ch::<7, 16> as fn() -> Out),
+    ("chunks_mut_ch_7_16", C_CHUNKS_MUT_CH_7_16, chunks_mut_ch::<7, 16> as fn() -> Out),
+    ("chunks_ch_7_17", C_CHUNKS_CH_7_17, chunks_ch::<7, 17> as fn() -> Out),
+    ("chunks_mut_ch_7_17", C_CHUNKS_MUT_CH_7_17, chunks_mut_ch::<7, 17> as fn() -> Out),
+    ("chunks_ch_7_18", C_CHUNKS_CH_7_18, chunks_ch::<7, 18> as fn() -> Out),
+    ("chunks_mut_ch_7_18", C_CHUNKS_MUT_CH_7_18, chunks_mut_ch::<7, 18> as fn() -> Out),
+    ("chunks_ch_7_19", C_CHUNKS_CH_7_19, chunks_ch::<7, 19> as fn() -> Out),
+    ("chunks_mut_ch_7_19", C_CHUNKS_MUT_CH_7_19, chunks_mut_ch::<7, 19> as fn() -> Out),
+    ("chunks_ch_7_20", C_CHUNKS_CH_7_20, chunks_ch::<7, 20> as fn() -> Out),
+    ("chunks_mut_ch_7_20", C_CHUNKS_MUT_CH_7_20, chunks_mut_ch::<7, 20> as fn() -> Out),
+    ("chunks_ch_7_21", C_CHUNKS_CH_7_21, chunks_ch::<7, 21> as fn() -> Out),
+    ("chunks_mut_ch_7_21", C_CHUNKS_MUT_CH_7_21, chunks_mut_ch::<7, 21> as fn() -> Out),
+    ("chunks_ch_7_22", C_CHUNKS_CH_7_22, chunks_ch::<7, 22> as fn() -> Out),
+    ("chunks_mut_ch_7_22", C_CHUNKS_MUT_CH_7_22, chunks_mut_ch::<7, 22> as fn() -> Out),
+    ("chunks_ch_7_23", C_CHUNKS_CH_7_23, chunks_ch::<7, 23> as fn() -> Out),
+    ("chunks_mut_ch_7_23", C_CHUNKS_MUT_CH_7_23, chunks_mut_ch::<7, 23> as fn() -> Out),
+    ("reinterpret_ch_7_0", C_REINTERPRET_CH_7_0, reinterpret_ch::<7, 0> as fn() -> Out),
+    ("reinterpret_ch_7_1", C_REINTERPRET_CH_7_1, reinterpret_ch::<7, 1> as fn() -> Out),
+    ("reinterpret_ch_7_6", C_REINTERPRET_CH_7_6, reinterpret_ch::<7, 6> as fn() -> Out),
+    ("reinterpret_ch_7_7", C_REINTERPRET_CH_7_7, reinterpret_ch::<7, 7> as fn() -> Out),
+    ("reinterpret_ch_7_8", C_REINTERPRET_CH_7_8, reinterpret_ch::<7, 8> as fn() -> Out),
+    ("reinterpret_ch_7_14", C_REINTERPRET_CH_7_14, reinterpret_ch::<7, 14> as fn() -> Out),
+    ("reinterpret_ch_7_23", C_REINTERPRET_CH_7_23, reinterpret_ch::<7, 23> as fn() -> Out),
+    ("byvalue_ch_7", C_BYVALUE_CH_7, byvalue_ch::<7> as fn() -> Out),
+    ("native_chunks_ch_7_0", C_NATIVE_CHUNKS_CH_7_0, native_chunks_ch::<7, 0> as fn() -> Out),
+    ("native_chunks_ch_7_1", C_NATIVE_CHUNKS_CH_7_1, native_chunks_ch::<7, 1> as fn() -> Out),
+    ("native_chunks_ch_7_2", C_NATIVE_CHUNKS_CH_7_2, native_chunks_ch::<7, 2> as fn() -> Out),
+    ("native_chunks_ch_7_3", C_NATIVE_CHUNKS_CH_7_3, native_chunks_ch::<7, 3> as fn() -> Out),
+    ("chunks_ch_8_0", C_CHUNKS_CH_8_0, chunks_ch::<8, 0> as fn() -> Out),
+    ("chunks_mut_ch_8_0", C_CHUNKS_MUT_CH_8_0, chunks_mut_ch::<8, 0> as fn() -> Out),
+    ("chunks_ch_8_1", C_CHUNKS_CH_8_1, chunks_ch::<8, 1> as fn() -> Out),
+    ("chunks_mut_ch_8_1", C_CHUNKS_MUT_CH_8_1, chunks_mut_ch::<8, 1> as fn() -> Out),
+    ("chunks_ch_8_2", C_CHUNKS_CH_8_2, chunks_ch::<8, 2> as fn() -> Out),
+    ("chunks_mut_ch_8_2", C_CHUNKS_MUT_CH_8_2, chunks_mut_ch::<8, 2> as fn() -> Out),
+    ("chunks_ch_8_3", C_CHUNKS_CH_8_3, chunks_ch::<8, 3> as fn() -> Out),
+    ("chunks_mut_ch_8_3", C_CHUNKS_MUT_CH_8_3, chunks_mut_ch::<8, 3> as fn() -> Out),
+    ("chunks_ch_8_4", C_CHUNKS_CH_8_4, chunks_ch::<8, 4> as fn() -> Out),
+    ("chunks_mut_ch_8_4", C_CHUNKS_MUT_CH_8_4, chunks_mut_ch::<8, 4> as fn() -> Out),
+    ("chunks_ch_8_5", C_CHUNKS_CH_8_5, chunks_ch::<8, 5> as fn() -> Out),
+    ("chunks_mut_ch_8_5", C_CHUNKS_MUT_CH_8_5, chunks_mut_ch::<8, 5> as fn() -> Out),
+    ("chunks_ch_8_6", C_CHUNKS_CH_8_6, chunks_ch::<8, 6> as fn() -> Out),
+    ("chunks_mut_ch_8_6", C_CHUNKS_MUT_CH_8_6, chunks_mut_ch::<8, 6> as fn() -> Out),
+    ("chunks_ch_8_7", C_CHUNKS_CH_8_7, chunks_ch::<8, 7> as fn() -> Out),
+    ("chunks_mut_ch_8_7", C_CHUNKS_MUT_CH_8_7, chunks_mut_ch::<8, 7> as fn() -> Out),
+    ("chunks_ch_8_8", C_CHUNKS_CH_8_8, chunks_ch::<8, 8> as fn() -> Out),
+    ("chunks_mut_ch_8_8", C_CHUNKS_MUT_CH_8_8, chunks_mut_ch::<8, 8> as fn() -> Out),
+    ("chunks_ch_8_9", C_CHUNKS_CH_8_9, chunks_ch::<8, 9> as fn() -> Out),
+    ("chunks_mut_ch_8_9", C_CHUNKS_MUT_CH_8_9, chunks_mut_ch::<8, 9> as fn() -> Out),
+    ("chunks_ch_8_10", C_CHUNKS_CH_8_10, chunks_ch::<8, 10> as fn() -> Out),
+    ("chunks_mut_ch_8_10", C_CHUNKS_MUT_CH_8_10, chunks_mut_ch::<8, 10> as fn() -> Out),
+    ("chunks_ch_8_11", C_CHUNKS_CH_8_11, chunks_ch::<8, 11> as fn() -> Out),
+    ("chunks_mut_ch_8_11", C_CHUNKS_MUT_CH_8_11, chunks_mut_ch::<8, 11> as fn() -> Out),
+    ("chunks_ch_8_12", C_CHUNKS_CH_8_12, chunks_ch::<8, 12> as fn() -> Out),
+    ("chunks_mut_ch_8_12", C_CHUNKS_MUT_CH_8_12, chunks_mut_ch::<8, 12> as fn() -> Out),
+    ("chunks_ch_8_13", C_CHUNKS_CH_8_13, chunks_ch::<8, 13> as fn() -> Out),
+    ("chunks_mut_ch_8_13", C_CHUNKS_MUT_CH_8_13, chunks_mut_ch::<8, 13> as fn() -> Out),
+    ("chunks_ch_8_14", C_CHUNKS_CH_8_14, chunks_ch::<8, 14> as fn() -> Out),
+    ("chunks_mut_ch_8_14", C_CHUNKS_MUT_CH_8_14, chunks_mut_ch::<8, 14> as fn() -> Out),
+    ("chunks_ch_8_15", C_CHUNKS_CH_8_15, chunks_ch::<8, 15> as fn() -> Out),
+    ("chunks_mut_ch_8_15", C_CHUNKS_MUT_CH_8_15, chunks_mut_ch::<8, 15> as fn() -> Out),
+    ("chunks_ch_8_16", C_CHUNKS_CH_8_16, chunks_ch::<8, 16> as fn() -> Out),
+    ("chunks_mut_ch_8_16", C_CHUNKS_MUT_CH_8_16, chunks_mut_ch::<8, 16> as fn() -> Out),
+    ("chunks_ch_8_17", C_CHUNKS_CH_8_17, chunks_ch::<8, 17> as fn() -> Out),
+    ("chunks_mut_ch_8_17", C_CHUNKS_MUT_CH_8_17, chunks_mut_ch::<8, 17> as fn() -> Out),
+    ("chunks_ch_8_18", C_CHUNKS_CH_8_18, chunks_ch::<8, 18> as fn() -> Out),
+    ("chunks_mut_ch_8_18", C_CHUNKS_MUT_CH_8_18, chunks_mut_ch::<8, 18> as fn() -> Out),
+    ("chunks_ch_8_19", C_CHUNKS_CH_8_19, chunks_ch::<8, 19> as fn() -> Out),
+    ("chunks_mut_ch_8_19", C_CHUNKS_MUT_CH_8_19, chunks_mut_ch::<8, 19> as fn() -> Out),
+    ("chunks_ch_8_20", C_CHUNKS_CH_8_20, chunks_ch::<8, 20> as fn() -> Out),
+    ("chunks_mut_ch_8_20", C_CHUNKS_MUT_CH_8_20, chunks_mut_ch::<8, 20> as fn() -> Out),
+    ("chunks_ch_8_21", C_CHUNKS_CH_8_21, chunks_ch::<8, 21> as fn() -> Out),
+    ("chunks_mut_ch_8_21", C_CHUNKS_MUT_CH_8_21, chunks_mut_ch::<8, 21> as fn() -> Out),
+    ("chunks_ch_8_22", C_CHUNKS_CH_8_22, chunks_ch::<8, 22> as fn() -> Out),
+    ("chunks_mut_ch_8_22", C_CHUNKS_MUT_CH_8_22, chunks_mut_ch::<8, 22> as fn() -> Out),
+    ("chunks_ch_8_23", C_CHUNKS_CH_8_23, chunks_ch::<8, 23> as fn() -> Out),
+    ("chunks_mut_ch_8_23", C_CHUNKS_MUT_CH_8_23, chunks_mut_ch::<8, 23> as fn() -> Out),
+    ("chunks_ch_8_24", C_CHUNKS_CH_8_24, chunks_ch::<8, 24> as fn() -> Out),
+    ("chunks_mut_ch_8_24", C_CHUNKS_MUT_CH_8_24, chunks_mut_ch::<8, 24> as fn() -> Out),
+    ("chunks_ch_8_25", C_CHUNKS_CH_8_25, chunks_ch::<8, 25> as fn() -> Out),
+    ("chunks_mut_ch_8_25", C_CHUNKS_MUT_CH_8_25, chunks_mut_ch::<8, 25> as fn() -> Out),
+    ("chunks_ch_8_26", C_CHUNKS_CH_8_26, chunks_ch::<8, 26> as fn() -> Out),
+    ("chunks_mut_ch_8_26", C_CHUNKS_MUT_CH_8_26, chunks_mut_ch::<8, 26> as fn() -> Out),
+    ("reinterpret_ch_8_0", C_REINTERPRET_CH_8_0, reinterpret_ch::<8, 0> as fn() -> Out),
+    ("reinterpret_ch_8_1", C_REINTERPRET_CH_8_1, reinterpret_ch::<8, 1> as fn() -> Out),
+    ("reinterpret_ch_8_7", C_REINTERPRET_CH_8_7, reinterpret_ch::<8, 7> as fn() -> Out),
+    ("reinterpret_ch_8_8", C_REINTERPRET_CH_8_8, reinterpret_ch::<8, 8> as fn() -> Out),
+    ("reinterpret_ch_8_9", C_REINTERPRET_CH_8_9, reinterpret_ch::<8, 9> as fn() -> Out),
+    ("reinterpret_ch_8_16", C_REINTERPRET_CH_8_16, reinterpret_ch::<8, 16> as fn() -> Out),
+    ("reinterpret_ch_8_26", C_REINTERPRET_CH_8_26, reinterpret_ch::<8, 26> as fn() -> Out),
+    ("byvalue_ch_8", C_BYVALUE_CH_8, byvalue_ch::<8> as fn() -> Out),
+    ("native_chunks_ch_8_0", C_NATIVE_CHUNKS_CH_8_0, native_chunks_ch::<8, 0> as fn() -> Out),
+    ("native_chunks_ch_8_1", C_NATIVE_CHUNKS_CH_8_1, native_chunks_ch::<8, 1> as fn() -> Out),
+    ("native_chunks_ch_8_2", C_NATIVE_CHUNKS_CH_8_2, native_chunks_ch::<8, 2> as fn() -> Out),
+    ("native_chunks_ch_8_3", C_NATIVE_CHUNKS_CH_8_3, native_chunks_ch::<8, 3> as fn() -> Out),
+    ("chunks_ch_16_0", C_CHUNKS_CH_16_0, chunks_ch::<16, 0> as fn() -> Out),
+    ("chunks_mut_ch_16_0", C_CHUNKS_MUT_CH_16_0, chunks_mut_ch::<16, 0> as fn() -> Out),
+    ("chunks_ch_16_1", C_CHUNKS_CH_16_1, chunks_ch::<16, 1> as fn() -> Out),
+    ("chunks_mut_ch_16_1", C_CHUNKS_MUT_CH_16_1, chunks_mut_ch::<16, 1> as fn() -> Out),
+    ("chunks_ch_16_2", C_CHUNKS_CH_16_2, chunks_ch::<16, 2> as fn() -> Out),
+    ("chunks_mut_ch_16_2", C_CHUNKS_MUT_CH_16_2, chunks_mut_ch::<16, 2> as fn() -> Out),
+    ("chunks_ch_16_3", C_CHUNKS_CH_16_3, chunks_ch::<16, 3> as fn() -> Out),
+    ("chunks_mut_ch_16_3", C_CHUNKS_MUT_CH_16_3, chunks_mut_ch::<16, 3> as fn() -> Out),
+    ("chunks_ch_16_4", C_CHUNKS_CH_16_4, chunks_ch::<16, 4> as fn() -> Out),
+    ("chunks_mut_ch_16_4", C_CHUNKS_MUT_CH_16_4, chunks_mut_ch::<16, 4> as fn() -> Out),
+    ("chunks_ch_16_5", C_CHUNKS_CH_16_5, chunks_ch::<16, 5> as fn() -> Out),
+    ("chunks_mut_ch_16_5", C_CHUNKS_MUT_CH_16_5, chunks_mut_ch::<16, 5> as fn() -> Out),
+    ("chunks_ch_16_6", C_CHUNKS_CH_16_6, chunks_ch::<16, 6> as fn() -> Out),
+    ("chunks_mut_ch_16_6", C_CHUNKS_MUT_CH_16_6, chunks_mut_ch::<16, 6> as fn() -> Out),
+    ("chunks_ch_16_7", C_CHUNKS_CH_16_7, chunks_ch::<16, 7> as fn() -> Out),
+    ("chunks_mut_ch_16_7", C_CHUNKS_MUT_CH_16_7, chunks_mut_ch::<16, 7> as fn() -> Out),
+    ("chunks_ch_16_8", C_CHUNKS_CH_16_8, chunks_ch::<16, 8> as fn() -> Out),
+    ("chunks_mut_ch_16_8", C_CHUNKS_MUT_CH_16_8, chunks_mut_ch::<16, 8> as fn() -> Out),
+    ("chunks_ch_16_9", C_CHUNKS_CH_16_9, chunks_ch::<16, 9> as fn() -> Out),
+    ("chunks_mut_ch_16_9", C_CHUNKS_MUT_CH_16_9, chunks_mut_ch::<16, 9> as fn() -> Out),
+    ("chunks_ch_16_10", C_CHUNKS_CH_16_10, chunks_ch::<16, 10> as fn() -> Out),
+    ("chunks_mut_ch_16_10", C_CHUNKS_MUT_CH_16_10, chunks_mut_ch::<16, 10> as fn() -> Out),
+    ("chunks_ch_16_11", C_CHUNKS_CH_16_11, chunks_ch::<16, 11> as fn() -> Out),
+    ("chunks_mut_ch_16_11", C_CHUNKS_MUT_CH_16_11, chunks_mut_ch::<16, 11> as fn() -> Out),
+    ("chunks_ch_16_12", C_CHUNKS_CH_16_12, chunks_ch::<16, 12> as fn() -> Out),
+    ("chunks_mut_ch_16_12", C_CHUNKS_MUT_CH_16_12, chunks_mut_ch::<16, 12> as fn() -> Out),
+    ("chunks_ch_16_13", C_CHUNKS_CH_16_13, chunks_ch::<16, 13> as fn() -> Out),
+    ("chunks_mut_ch_16_13", C_CHUNKS_MUT_CH_16_13, chunks_mut_ch::<16, 13> as fn() -> Out),
+    ("chunks_ch_16_14", C_CHUNKS_CH_16_14, chunks_ch::<16, 14> as fn() -> Out),
+    ("chunks_mut_ch_16_14", C_CHUNKS_MUT_CH_16_14, chunks_mut_ch::<16, 14> as fn() -> Out),
+    ("chunks_ch_16_15", C_CHUNKS_CH_16_15, chunks_ch::<16, 15> as fn() -> Out),
+    ("chunks_mut_ch_16_15", C_CHUNKS_MUT_CH_16_15, chunks_mut_ch::<16, 15> as fn() -> Out),
+    ("chunks_ch_16_16", C_CHUNKS_CH_16_16, chunks_ch::<16, 16> as fn() -> Out),
+    ("chunks_mut_ch_16_16", C_CHUNKS_MUT_CH_16_16, chunks_mut_ch::<16, 16> as fn() -> Out),
+    ("chunks_ch_16_17", C_CHUNKS_CH_16_17, chunks_ch::<16, 17> as fn() -> Out),
+    ("chunks_mut_ch_16_17", C_CHUNKS_MUT_CH_16_17, chunks_mut_ch::<16, 17> as fn() -> Out),
+    ("chunks_ch_16_18", C_CHUNKS_CH_16_18, chunks_ch::<16, 18> as fn() -> Out),
+    ("chunks_mut_ch_16_18", C_CHUNKS_MUT_CH_16_18, chunks_mut_ch::<16, 18> as fn() -> Out),
+    ("chunks_ch_16_19", C_CHUNKS_CH_16_19, chunks_ch::<16, 19> as fn() -> Out),
+    ("chunks_mut_ch_16_19", C_CHUNKS_MUT_CH_16_19, chunks_mut_ch::<16, 19> as fn() -> Out),
+    ("chunks_ch_16_20", C_CHUNKS_CH_16_20, chunks_ch::<16, 20> as fn() -> Out),
+    ("chunks_mut_ch_16_20", C_CHUNKS_MUT_CH_16_20, chunks_mut_ch::<16, 20> as fn() -> Out),
+    ("chunks_ch_16_21", C_CHUNKS_CH_16_21, chunks_ch::<16, 21> as fn() -> Out),
+    ("chunks_mut_ch_16_21", C_CHUNKS_MUT_CH_16_21, chunks_mut_ch::<16, 21> as fn() -> Out),
+    ("chunks_ch_16_22", C_CHUNKS_CH_16_22, chunks_ch::<16, 22> as fn() -> Out),
+    ("chunks_mut_ch_16_22", C_CHUNKS_MUT_CH_16_22, chunks_mut_ch::<16, 22> as fn() -> Out),
+    ("chunks_ch_16_23", C_CHUNKS_CH_16_23, chunks_ch::<16, 23> as fn() -> Out),
+    ("chunks_mut_ch_16_23", C_CHUNKS_MUT_CH_16_23, chunks_mut_ch::<16, 23> as fn() -> Out),
+    ("chunks_ch_16_24", C_CHUNKS_CH_16_24, chunks_ch::<16, 24> as fn() -> Out),
+    ("chunks_mut_ch_16_24", C_CHUNKS_MUT_CH_16_24, chunks_mut_ch::<16, 24> as fn() -> Out),
+    ("chunks_ch_16_25", C_CHUNKS_CH_16_25, chunks_ch::<16, 25> as fn() -> Out),
+    ("chunks_mut_ch_16_25", C_CHUNKS_MUT_CH_16_25, chunks_mut_ch::<16, 25> as fn() -> Out),
+    ("chunks_ch_16_26", C_CHUNKS_CH_16_26, chunks_ch::<16, 26> as fn() -> Out),
+    ("chunks_mut_ch_16_26", C_CHUNKS_MUT_CH_16_26, chunks_mut_ch::<16, 26> as fn() -> Out),
+    ("chunks_ch_16_27", C_CHUNKS_CH_16_27, chunks_ch::<16, 27> as fn() -> Out),
+    ("chunks_mut_ch_16_27", C_CHUNKS_MUT_CH_16_27, chunks_mut_ch::<16, 27> as fn() -> Out),
+    ("chunks_ch_16_28", C_CHUNKS_CH_16_28, chunks_ch::<16, 28> as fn() -> Out),
+    ("chunks_mut_ch_16_28", C_CHUNKS_MUT_CH_16_28, chunks_mut_ch::<16, 28> as fn() -> Out),
+    ("chunks_ch_16_29", C_CHUNKS_CH_16_29, chunks_ch::<16, 29> as fn() -> Out),
+    ("chunks_mut_ch_16_29", C_CHUNKS_MUT_CH_16_29, chunks_mut_ch::<16, 29> as fn() -> Out),
+    ("chunks_ch_16_30", C_CHUNKS_CH_16_30, chunks_ch::<16, 30> as fn() -> Out),
+    ("chunks_mut_ch_16_30", C_CHUNKS_MUT_CH_16_30, chunks_mut_ch::<16, 30> as fn() -> Out),
+    ("chunks_ch_16_31", C_CHUNKS_CH_16_31, chunks_ch::<16, 31> as fn() -> Out),
+    ("chunks_mut_ch_16_31", C_CHUNKS_MUT_CH_16_31, chunks_mut_ch::<16, 31> as fn() -> Out),
+    ("chunks_ch_16_32", C_CHUNKS_CH_16_32, chunks_ch::<16, 32> as fn() -> Out),
+    ("chunks_mut_ch_16_32", C_CHUNKS_MUT_CH_16_32, chunks_mut_ch::<16, 32> as fn() -> Out),
+    ("chunks_ch_16_33", C_CHUNKS_CH_16_33, chunks_ch::<16, 33> as fn() -> Out),
+    ("chunks_mut_ch_16_33", C_CHUNKS_MUT_CH_16_33, chunks_mut_ch::<16, 33> as fn() -> Out),
+    ("chunks_ch_16_34", C_CHUNKS_CH_16_34, chunks_ch::<16, 34> as fn() -> Out),
+    ("chunks_mut_ch_16_34", C_CHUNKS_MUT_CH_16_34, chunks_mut_ch::<16, 34> as fn() -> Out),
+    ("chunks_ch_16_35", C_CHUNKS_CH_16_35, chunks_ch::<16, 35> as fn() -> Out),
+    ("chunks_mut_ch_16_35", C_CHUNKS_MUT_CH_16_35, chunks_mut_ch::<16, 35> as fn() -> Out),
+    ("chunks_ch_16_36", C_CHUNKS_CH_16_36, chunks_ch::<16, 36> as fn() -> Out),
+    ("chunks_mut_ch_16_36", C_CHUNKS_MUT_CH_16_36, chunks_mut_ch::<16, 36> as fn() -> Out),
+    ("chunks_ch_16_37", C_CHUNKS_CH_16_37, chunks_ch::<16, 37> as fn() -> Out),
+    ("chunks_mut_ch_16_37", C_CHUNKS_MUT_CH_16_37, chunks_mut_ch::<16, 37> as fn() -> Out),
+    ("chunks_ch_16_38", C_CHUNKS_CH_16_38, chunks_ch::<16, 38> as fn() -> Out),
+    ("chunks_mut_ch_16_38", C_CHUNKS_MUT_CH_16_38, chunks_mut_ch::<16, 38> as fn() -> Out),
+    ("chunks_ch_16_39", C_CHUNKS_CH_16_39, chunks_ch::<16, 39> as fn() -> Out),
+    ("chunks_mut_ch_16_39", C_CHUNKS_MUT_CH_16_39, chunks_mut_ch::<16, 39> as fn() -> Out),
+    ("chunks_ch_16_40", C_CHUNKS_CH_16_40, chunks_ch::<16, 40> as fn() -> Out),
+    ("chunks_mut_ch_16_40", C_CHUNKS_MUT_CH_16_40, chunks_mut_ch::<16, 40> as fn() -> Out),
+    ("chunks_ch_16_41", C_CHUNKS_CH_16_41, chunks_ch::<16, 41> as fn() -> Out),
+    ("chunks_mut_ch_16_41", C_CHUNKS_MUT_CH_16_41, chunks_mut_ch::<16, 41> as fn() -> Out),
+    ("chunks_ch_16_42", C_CHUNKS_CH_16_42, chunks_ch::<16, 42> as fn() -> Out),
+    ("chunks_mut_ch_16_42", C_CHUNKS_MUT_CH_16_42, chunks_mut_ch::<16, 42> as fn() -> Out),
+    ("chunks_ch_16_43", C_CHUNKS_CH_16_43, chunks_ch::<16, 43> as fn() -> Out),
+    ("chunks_mut_ch_16_43", C_CHUNKS_MUT_CH_16_43, chunks_mut_ch::<16, 43> as fn() -> Out),
+    ("chunks_ch_16_44", C_CHUNKS_CH_16_44, chunks_ch::<16, 44> as fn() -> Out),
+    ("chunks_mut_ch_16_44", C_CHUNKS_MUT_CH_16_44, chunks_mut_ch::<16, 44> as fn() -> Out),
+    ("chunks_ch_16_45", C_CHUNKS_CH_16_45, chunks_ch::<16, 45> as fn() -> Out),
+    ("chunks_mut_ch_16_45", C_CHUNKS_MUT_CH_16_45, chunks_mut_ch::<16, 45> as fn() -> Out),
+    ("chunks_ch_16_46", C_CHUNKS_CH_16_46, chunks_ch::<16, 46> as fn() -> Out),
+    ("chunks_mut_ch_16_46", C_CHUNKS_MUT_CH_16_46, chunks_mut_ch::<16, 46> as fn() -> Out),
+    ("chunks_ch_16_47", C_CHUNKS_CH_16_47, chunks_ch::<16, 47> as fn() -> Out),
+    ("chunks_mut_ch_16_47", C_CHUNKS_MUT_CH_16_47, chunks_mut_ch::<16, 47> as fn() -> Out),
+    ("chunks_ch_16_48", C_CHUNKS_CH_16_48, chunks_ch::<16, 48> as fn() -> Out),
+    ("chunks_mut_ch_16_48", C_CHUNKS_MUT_CH_16_48, chunks_mut_ch::<16, 48> as fn() -> Out),
+    ("chunks_ch_16_49", C_CHUNKS_CH_16_49, chunks_ch::<16, 49> as fn() -> Out),
+    ("chunks_mut_ch_16_49", C_CHUNKS_MUT_CH_16_49, chunks_mut_ch::<16, 49> as fn() -> Out),
+    ("chunks_ch_16_50", C_CHUNKS_CH_16_50, chunks_ch::<16, 50> as fn() -> Out),
+    ("chunks_mut_ch_16_50", C_CHUNKS_MUT_CH_16_50, chunks_mut_ch::<16, 50> as fn() -> Out),
+    ("reinterpret_ch_16_0", C_REINTERPRET_CH_16_0, reinterpret_ch::<16, 0> as fn() -> Out),
+    ("reinterpret_ch_16_1", C_REINTERPRET_CH_16_1, reinterpret_ch::<16, 1> as fn() -> Out),
+    ("reinterpret_ch_16_15", C_REINTERPRET_CH_16_15, reinterpret_ch::<16, 15> as fn() -> Out),
+    ("reinterpret_ch_16_16", C_REINTERPRET_CH_16_16, reinterpret_ch::<16, 16> as fn() -> Out),
+    ("reinterpret_ch_16_17", C_REINTERPRET_CH_16_17, reinterpret_ch::<16, 17> as fn() -> Out),
+    ("reinterpret_ch_16_32", C_REINTERPRET_CH_16_32, reinterpret_ch::<16, 32> as fn() -> Out),
+    ("reinterpret_ch_16_50", C_REINTERPRET_CH_16_50, reinterpret_ch::<16, 50> as fn() -> Out),
+    ("byvalue_ch_16", C_BYVALUE_CH_16, byvalue_ch::<16> as fn() -> Out),
+    ("native_chunks_ch_16_0", C_NATIVE_CHUNKS_CH_16_0, native_chunks_ch::<16, 0> as fn() -> Out),
+    ("native_chunks_ch_16_1", C_NATIVE_CHUNKS_CH_16_1, native_chunks_ch::<16, 1> as fn() -> Out),
+    ("native_chunks_ch_16_2", C_NATIVE_CHUNKS_CH_16_2, native_chunks_ch::<16, 2> as fn() -> Out),
+    ("native_chunks_ch_16_3", C_NATIVE_CHUNKS_CH_16_3, native_chunks_ch::<16, 3> as fn() -> Out),
+    ("chunks_ch_17_0", C_CHUNKS_CH_17_0, chunks_ch::<17, 0> as fn() -> Out),
+    ("chunks_mut_ch_17_0", C_CHUNKS_MUT_CH_17_0, chunks_mut_ch::<17, 0> as fn() -> Out),
+    ("chunks_ch_17_1", C_CHUNKS_CH_17_1, chunks_ch::<17, 1> as fn() -> Out),
+    ("chunks_mut_ch_17_1", C_CHUNKS_MUT_CH_17_1, chunks_mut_ch::<17, 1> as fn() -> Out),
+    ("chunks_ch_17_2", C_CHUNKS_CH_17_2, chunks_ch::<17, 2> as fn() -> Out),
+    ("chunks_mut_ch_17_2", C_CHUNKS_MUT_CH_17_2, chunks_mut_ch::<17, 2> as fn() -> Out),
+    ("chunks_ch_17_3", C_CHUNKS_CH_17_3, chunks_ch::<17, 3> as fn() -> Out),
+    ("chunks_mut_ch_17_3", C_CHUNKS_MUT_CH_17_3, chunks_mut_ch::<17, 3> as fn() -> Out),
+    ("chunks_ch_17_4", C_CHUNKS_CH_17_4, chunks_ch::<17, 4> as fn() -> Out),
+    ("chunks_mut_ch_17_4", C_CHUNKS_MUT_CH_17_4, chunks_mut_ch::<17, 4> as fn() -> Out),
+    ("chunks_ch_17_5", C_CHUNKS_CH_17_5, chunks_ch::<17, 5> as fn() -> Out),
+    ("chunks_mut_ch_17_5", C_CHUNKS_MUT_CH_17_5, chunks_mut_ch::<17, 5> as fn() -> Out),
+    ("chunks_ch_17_6", C_CHUNKS_CH_17_6, chunks_ch::<17, 6> as fn() -> Out),
+    ("chunks_mut_ch_17_6", C_CHUNKS_MUT_CH_17_6, chunks_mut_ch::<17, 6> as fn() -> Out),
+    ("chunks_ch_17_7", C_CHUNKS_CH_17_7, chunks_ch::<17, 7> as fn() -> Out),
+    ("chunks_mut_ch_17_7", C_CHUNKS_MUT_CH_17_7, chunks_mut_ch::<17, 7> as fn() -> Out),
+    ("chunks_ch_17_8", C_CHUNKS_CH_17_8, chunks_ch::<17, 8> as fn() -> Out),
+    ("chunks_mut_ch_17_8", C_CHUNKS_MUT_CH_17_8, chunks_mut_ch::<17, 8> as fn() -> Out),
+    ("chunks_ch_17_9", C_CHUNKS_CH_17_9, chunks_ch::<17, 9> as fn() -> Out),
+    ("chunks_mut_ch_17_9", C_CHUNKS_MUT_CH_17_9, chunks_mut_ch::<17, 9> as fn() -> Out),
+    ("chunks_ch_17_10", C_CHUNKS_CH_17_10, chunks_ch::<17, 10> as fn() -> Out),
+    ("chunks_mut_ch_17_10", C_CHUNKS_MUT_CH_17_10, chunks_mut_ch::<17, 10> as fn() -> Out),
+    ("chunks_ch_17_11", C_CHUNKS_CH_17_11, chunks_ch::<17, 11> as fn() -> Out),
+    ("chunks_mut_ch_17_11", C_CHUNKS_MUT_CH_17_11, chunks_mut_ch::<17, 11> as fn() -> Out),
+    ("chunks_ch_17_12", C_CHUNKS_CH_17_12, chunks_ch::<17, 12> as fn() -> Out),
+    ("chunks_mut_ch_17_12", C_CHUNKS_MUT_CH_17_12, chunks_mut_ch::<17, 12> as fn() -> Out),
+    ("chunks_ch_17_13", C_CHUNKS_CH_17_13, chunks_ch::<17, 13> as fn() -> Out),
+    ("chunks_mut_ch_17_13", C_CHUNKS_MUT_CH_17_13, chunks_mut_ch::<17, 13> as fn() -> Out),
+    ("chunks_ch_17_14", C_CHUNKS_CH_17_14, chunks_ch::<17, 14> as fn() -> Out),
+    ("chunks_mut_ch_17_14", C_CHUNKS_MUT_CH_17_14, chunks_mut_ch::<17, 14> as fn() -> Out),
+    ("chunks_ch_17_15", C_CHUNKS_CH_17_15, chunks_ch::<17, 15> as fn() -> Out),
+    ("chunks_mut_ch_17_15", C_CHUNKS_MUT_CH_17_15, chunks_mut_ch::<17, 15> as fn() -> Out),
+    ("chunks_ch_17_16", C_CHUNKS_CH_17_16, chunks_ch::<17, 16> as fn() -> Out),
+    ("chunks_mut_ch_17_16", C_CHUNKS_MUT_CH_17_16, chunks_mut_ch::<17, 16> as fn() -> Out),
+    ("chunks_ch_17_17", C_CHUNKS_CH_17_17, chunks_ch::<17, 17> as fn() -> Out),
+    ("chunks_mut_ch_17_17", C_CHUNKS_MUT_CH_17_17, chunks_mut_ch::<17, 17> as fn() -> Out),
+    ("chunks_ch_17_18", C_CHUNKS_CH_17_18, chunks_ch::<17, 18> as fn() -> Out),
+    ("chunks_mut_ch_17_18", C_CHUNKS_MUT_CH_17_18, chunks_mut_ch::<17, 18> as fn() -> Out),
+    ("chunks_ch_17_19", C_CHUNKS_CH_17_19, chunks_ch::<17, 19> as fn() -> Out),
+    ("chunks_mut_ch_17_19", C_CHUNKS_MUT_CH_17_19, chunks_mut_ch::<17, 19> as fn() -> Out),
+    ("chunks_ch_17_20", C_CHUNKS_CH_17_20, chunks_ch::<17, 20> as fn() -> Out),
+    ("chunks_mut_ch_17_20", C_CHUNKS_MUT_CH_17_20, chunks_mut_ch::<17, 20> as fn() -> Out),
+    ("chunks_ch_17_21", C_CHUNKS_CH_17_21, chunks_ch::<17, 21> as fn() -> Out),
+    ("chunks_mut_ch_17_21", C_CHUNKS_MUT_CH_17_21, chunks_mut_ch::<17, 21> as fn() -> Out),
+    ("chunks_ch_17_22", C_CHUNKS_CH_17_22, chunks_ch::<17, 22> as fn() -> Out),
+    ("chunks_mut_ch_17_22", C_CHUNKS_MUT_CH_17_22, chunks_mut_ch::<17, 22> as fn() -> Out),
+    ("chunks_ch_17_23", C_CHUNKS_CH_17_23, chunks_ch::<17, 23> as fn() -> Out),
+    ("chunks_mut_ch_17_23", C_CHUNKS_MUT_CH_17_23, chunks_mut_ch::<17, 23> as fn() -> Out),
+    ("chunks_ch_17_24", C_CHUNKS_CH_17_24, chunks_ch::<17, 24> as fn() -> Out),
+    ("chunks_mut_ch_17_24", C_CHUNKS_MUT_CH_17_24, chunks_mut_ch::<17, 24> as fn() -> Out),
+    ("chunks_ch_17_25", C_CHUNKS_CH_17_25, chunks_ch::<17, 25> as fn() -> Out),
+    ("chunks_mut_ch_17_25", C_CHUNKS_MUT_CH_17_25, chunks_mut_ch::<17, 25> as fn() -> Out),
+    ("chunks_ch_17_26", C_CHUNKS_CH_17_26, chunks_ch::<17, 26> as fn() -> Out),
+    ("chunks_mut_ch_17_26", C_CHUNKS_MUT_CH_17_26, chunks_mut_ch::<17, 26> as fn() -> Out),
+    ("chunks_ch_17_27", C_CHUNKS_CH_17_27, chunks_ch::<17, 27> as fn() -> Out),
+    ("chunks_mut_ch_17_27", C_CHUNKS_MUT_CH_17_27, chunks_mut_ch::<17, 27> as fn() -> Out),
+    ("chunks_ch_17_28", C_CHUNKS_CH_17_28, chunks_ch::<17, 28> as fn() -> Out),
+    ("chunks_mut_ch_17_28", C_CHUNKS_MUT_CH_17_28, chunks_mut_ch::<17, 28> as fn() -> Out),
+    ("chunks_ch_17_29", C_CHUNKS_CH_17_29, chunks_ch::<17, 29> as fn() -> Out),
+    ("chunks_mut_ch_17_29", C_CHUNKS_MUT_CH_17_29, chunks_mut_ch::<17, 29> as fn() -> Out),
+    ("chunks_ch_17_30", C_CHUNKS_CH_17_30, chunks_ch::<17, 30> as fn() -> Out),
+    ("chunks_mut_ch_17_30", C_CHUNKS_MUT_CH_17_30, chunks_mut_ch::<17, 30> as fn() -> Out),
+    ("chunks_ch_17_31", C_CHUNKS_CH_17_31, chunks_ch::<17, 31> as fn() -> Out),
+    ("chunks_mut_ch_17_31", C_CHUNKS_MUT_CH_17_31, chunks_mut_ch::<17, 31> as fn() -> Out),
+    ("chunks_ch_17_32", C_CHUNKS_CH_17_32, chunks_ch::<17, 32> as fn() -> Out),
+    ("chunks_mut_ch_17_32", C_CHUNKS_MUT_CH_17_32, chunks_mut_ch::<17, 32> as fn() -> Out),
+    ("chunks_ch_17_33", C_CHUNKS_CH_17_33, chunks_ch::<17, 33> as fn() -> Out),
+    ("chunks_mut_ch_17_33", C_CHUNKS_MUT_CH_17_33, chunks_mut_ch::<17, 33> as fn() -> Out),
+    ("chunks_ch_17_34", C_CHUNKS_CH_17_34, chunks_ch::<17, 34> as fn() -> Out),
+    ("chunks_mut_ch_17_34", C_CHUNKS_MUT_CH_17_34, chunks_mut_ch::<17, 34> as fn() -> Out),
+    ("chunks_ch_17_35", C_CHUNKS_CH_17_35, chunks_ch::<17, 35> as fn() -> Out),
+    ("chunks_mut_ch_17_35", C_CHUNKS_MUT_CH_17_35, chunks_mut_ch::<17, 35> as fn() -> Out),
+    ("chunks_ch_17_36", C_CHUNKS_CH_17_36, chunks_ch::<17, 36> as fn() -> Out),
+    ("chunks_mut_ch_17_36", C_CHUNKS_MUT_CH_17_36, chunks_mut_ch::<17, 36> as fn() -> Out),
+    ("chunks_ch_17_37", C_CHUNKS_CH_17_37, chunks_ch::<17, 37> as fn() -> Out),
+    ("chunks_mut_ch_17_37", C_CHUNKS_MUT_CH_17_37, chunks_mut_ch::<17, 37> as fn() -> Out),
+    ("chunks_ch_17_38", C_CHUNKS_CH_17_38, chunks_ch::<17, 38> as fn() -> Out),
+    ("chunks_mut_ch_17_38", C_CHUNKS_MUT_CH_17_38, chunks_mut_ch::<17, 38> as fn() -> Out),
+    ("chunks_ch_17_39", C_CHUNKS_CH_17_39, chunks_ch::<17, 39> as fn() -> Out),
+    ("chunks_mut_ch_17_39", C_CHUNKS_MUT_CH_17_39, chunks_mut_ch::<17, 39> as fn() -> Out),
+    ("chunks_ch_17_40", C_CHUNKS_CH_17_40, chunks_ch::<17, 40> as fn() -> Out),
+    ("chunks_mut_ch_17_40", C_CHUNKS_MUT_CH_17_40, chunks_mut_ch::<17, 40> as fn() -> Out),
+    ("chunks_ch_17_41", C_CHUNKS_CH_17_41, chunks_ch::<17, 41> as fn() -> Out),
+    ("chunks_mut_ch_17_41", C_CHUNKS_MUT_CH_17_41, chunks_mut_ch::<17, 41> as fn() -> Out),
+    ("chunks_ch_17_42", C_CHUNKS_CH_17_42, chunks_ch::<17, 42> as fn() -> Out),
+    ("chunks_mut_ch_17_42", C_CHUNKS_MUT_CH_17_42, chunks_mut_ch::<17, 42> as fn() -> Out),
+    ("chunks_ch_17_43", C_CHUNKS_CH_17_43, chunks_ch::<17, 43> as fn() -> Out),
+    ("chunks_mut_ch_17_43", C_CHUNKS_MUT_CH_17_43, chunks_mut_ch::<17, 43> as fn() -> Out),
+    ("chunks_ch_17_44", C_CHUNKS_CH_17_44, chunks_ch::<17, 44> as fn() -> Out),
+    ("chunks_mut_ch_17_44", C_CHUNKS_MUT_CH_17_44, chunks_mut_ch::<17, 44> as fn() -> Out),
+    ("chunks_ch_17_45", C_CHUNKS_CH_17_45, chunks_ch::<17, 45> as fn() -> Out),
+    ("chunks_mut_ch_17_45", C_CHUNKS_MUT_CH_17_45, chunks_mut_ch::<17, 45> as fn() -> Out),
+    ("chunks_ch_17_46", C_CHUNKS_CH_17_46, chunks_ch::<17, 46> as fn() -> Out),
+    ("chunks_mut_ch_17_46", C_CHUNKS_MUT_CH_17_46, chunks_mut_ch::<17, 46> as fn() -> Out),
+    ("chunks_ch_17_47", C_CHUNKS_CH_17_47, chunks_ch::<17, 47> as fn() -> Out),
+    ("chunks_mut_ch_17_47", C_CHUNKS_MUT_CH_17_47, chunks_mut_ch::<17, 47> as fn() -> Out),
+    ("chunks_ch_17_48", C_CHUNKS_CH_17_48, chunks_ch::<17, 48> as fn() -> Out),
+    ("chunks_mut_ch_17_48", C_CHUNKS_MUT_CH_17_48, chunks_mut_ch::<17, 48> as fn() -> Out),
+    ("chunks_ch_17_49", C_CHUNKS_CH_17_49, chunks_ch::<17, 49> as fn() -> Out),
+    ("chunks_mut_ch_17_49", C_CHUNKS_MUT_CH_17_49, chunks_mut_ch::<17, 49> as fn() -> Out),
+    ("chunks_ch_17_50", C_CHUNKS_CH_17_50, chunks_ch::<17, 50> as fn() -> Out),
+    ("chunks_mut_ch_17_50", C_CHUNKS_MUT_CH_17_50, chunks_mut_ch::<17, 50> as fn() -> Out),
+    ("chunks_ch_17_51", C_CHUNKS_CH_17_51, chunks_ch::<17, 51> as fn() -> Out),
+    ("chunks_mut_ch_17_51", C_CHUNKS_MUT_CH_17_51, chunks_mut_ch::<17, 51> as fn() -> Out),
+    ("chunks_ch_17_52", C_CHUNKS_CH_17_52, chunks_ch::<17, 52> as fn() -> Out),
+    ("chunks_mut_ch_17_52", C_CHUNKS_MUT_CH_17_52, chunks_mut_ch::<17, 52> as fn() -> Out),
+    ("chunks_ch_17_53", C_CHUNKS_CH_17_53, chunks_ch::<17, 53> as fn() -> Out),
+    ("chunks_mut_ch_17_53", C_CHUNKS_MUT_CH_17_53, chunks_mut_ch::<17, 53> as fn() -> Out),
+    ("reinterpret_ch_17_0", C_REINTERPRET_CH_17_0, reinterpret_ch::<17, 0> as fn() -> Out),
+    ("reinterpret_ch_17_1", C_REINTERPRET_CH_17_1, reinterpret_ch::<17, 1> as fn() -> Out),
+    ("reinterpret_ch_17_16", C_REINTERPRET_CH_17_16, reinterpret_ch::<17, 16> as fn() -> Out),
+    ("reinterpret_ch_17_17", C_REINTERPRET_CH_17_17, reinterpret_ch::<17, 17> as fn() -> Out),
+    ("reinterpret_ch_17_18", C_REINTERPRET_CH_17_18, reinterpret_ch::<17, 18> as fn() -> Out),
+    ("reinterpret_ch_17_34", C_REINTERPRET_CH_17_34, reinterpret_ch::<17, 34> as fn() -> Out),
+    ("reinterpret_ch_17_53", C_REINTERPRET_CH_17_53, reinterpret_ch::<17, 53> as fn() -> Out),
+    ("byvalue_ch_17", C_BYVALUE_CH_17, byvalue_ch::<17> as fn() -> Out),
+    ("native_chunks_ch_17_0", C_NATIVE_CHUNKS_CH_17_0, native_chunks_ch::<17, 0> as fn() -> Out),
+    ("native_chunks_ch_17_1", C_NATIVE_CHUNKS_CH_17_1, native_chunks_ch::<17, 1> as fn() -> Out),
+    ("native_chunks_ch_17_2", C_NATIVE_CHUNKS_CH_17_2, native_chunks_ch::<17, 2> as fn() -> Out),
+    ("native_chunks_ch_17_3", C_NATIVE_CHUNKS_CH_17_3, native_chunks_ch::<17, 3> as fn() -> Out),
+    ("chunks_ch_33_0", C_CHUNKS_CH_33_0, chunks_ch::<33, 0> as fn() -> Out),
+    ("chunks_mut_ch_33_0", C_CHUNKS_MUT_CH_33_0, chunks_mut_ch::<33, 0> as fn() -> Out),
+    ("chunks_ch_33_1", C_CHUNKS_CH_33_1, chunks_ch::<33, 1> as fn() -> Out),
+    ("chunks_mut_ch_33_1", C_CHUNKS_MUT_CH_33_1, chunks_mut_ch::<33, 1> as fn() -> Out),
+    ("chunks_ch_33_32", C_CHUNKS_CH_33_32, chunks_ch::<33, 32> as fn() -> Out),
+    ("chunks_mut_ch_33_32", C_CHUNKS_MUT_CH_33_32, chunks_mut_ch::<33, 32> as fn() -> Out),
+    ("chunks_ch_33_33", C_CHUNKS_CH_33_33, chunks_ch::<33, 33> as fn() -> Out),
+    ("chunks_mut_ch_33_33", C_CHUNKS_MUT_CH_33_33, chunks_mut_ch::<33, 33> as fn() -> Out),
+    ("chunks_ch_33_34", C_CHUNKS_CH_33_34, chunks_ch::<33, 34> as fn() -> Out),
+    ("chunks_mut_ch_33_34", C_CHUNKS_MUT_CH_33_34, chunks_mut_ch::<33, 34> as fn() -> Out),
+    ("chunks_ch_33_65", C_CHUNKS_CH_33_65, chunks_ch::<33, 65> as fn() -> Out),
+    ("chunks_mut_ch_33_65", C_CHUNKS_MUT_CH_33_65, chunks_mut_ch::<33, 65> as fn() -> Out),
+    ("chunks_ch_33_66", C_CHUNKS_CH_33_66, chunks_ch::<33, 66> as fn() -> Out),
+    ("chunks_mut_ch_33_66", C_CHUNKS_MUT_CH_33_66, chunks_mut_ch::<33, 66> as fn() -> Out),
+    ("chunks_ch_33_67", C_CHUNKS_CH_33_67, chunks_ch::<33, 67> as fn() -> Out),
+    ("chunks_mut_ch_33_67", C_CHUNKS_MUT_CH_33_67, chunks_mut_ch::<33, 67> as fn() -> Out),
+    ("chunks_ch_33_98", C_CHUNKS_CH_33_98, chunks_ch::<33, 98> as fn() -> Out),
+    ("chunks_mut_ch_33_98", C_CHUNKS_MUT_CH_33_98, chunks_mut_ch::<33, 98> as fn() -> Out),
+    ("chunks_ch_33_99", C_CHUNKS_CH_33_99, chunks_ch::<33, 99> as fn() -> Out),
+    ("chunks_mut_ch_33_99", C_CHUNKS_MUT_CH_33_99, chunks_mut_ch::<33, 99> as fn() -> Out),
+    ("chunks_ch_33_100", C_CHUNKS_CH_33_100, chunks_ch::<33, 100> as fn() -> Out),
+    ("chunks_mut_ch_33_100", C_CHUNKS_MUT_CH_33_100, chunks_mut_ch::<33, 100> as fn() -> Out),
+    ("chunks_ch_33_101", C_CHUNKS_CH_33_101, chunks_ch::<33, 101> as fn() -> Out),
+    ("chunks_mut_ch_33_101", C_CHUNKS_MUT_CH_33_101, chunks_mut_ch::<33, 101> as fn() -> Out),
+    ("reinterpret_ch_33_0", C_REINTERPRET_CH_33_0, reinterpret_ch::<33, 0> as fn() -> Out),
+    ("reinterpret_ch_33_1", C_REINTERPRET_CH_33_1, reinterpret_ch::<33, 1> as fn() -> Out),
+    ("reinterpret_ch_33_32", C_REINTERPRET_CH_33_32, reinterpret_ch::<33, 32> as fn() -> Out),
+    ("reinterpret_ch_33_33", C_REINTERPRET_CH_33_33, reinterpret_ch::<33, 33> as fn() -> Out),
+    ("reinterpret_ch_33_34", C_REINTERPRET_CH_33_34, reinterpret_ch::<33, 34> as fn() -> Out),
+    ("reinterpret_ch_33_66", C_REINTERPRET_CH_33_66, reinterpret_ch::<33, 66> as fn() -> Out),
+    ("reinterpret_ch_33_101", C_REINTERPRET_CH_33_101, reinterpret_ch::<33, 101> as fn() -> Out),
+    ("byvalue_ch_33", C_BYVALUE_CH_33, byvalue_ch::<33> as fn() -> Out),
+    ("native_chunks_ch_33_0", C_NATIVE_CHUNKS_CH_33_0, native_chunks_ch::<33, 0> as fn() -> Out),
+    ("native_chunks_ch_33_1", C_NATIVE_CHUNKS_CH_33_1, native_chunks_ch::<33, 1> as fn() -> Out),
+    ("native_chunks_ch_33_2", C_NATIVE_CHUNKS_CH_33_2, native_chunks_ch::<33, 2> as fn() -> Out),
+    ("native_chunks_ch_33_3", C_NATIVE_CHUNKS_CH_33_3, native_chunks_ch::<33, 3> as fn() -> Out),
+    ("chunks_ch_64_0", C_CHUNKS_CH_64_0, chunks_ch::<64, 0> as fn() -> Out),
+    ("chunks_mut_ch_64_0", C_CHUNKS_MUT_CH_64_0, chunks_mut_ch::<64, 0> as fn() -> Out),
+    ("chunks_ch_64_1", C_CHUNKS_CH_64_1, chunks_ch::<64, 1> as fn() -> Out),
+    ("chunks_mut_ch_64_1", C_CHUNKS_MUT_CH_64_1, chunks_mut_ch::<64, 1> as fn() -> Out),
+    ("chunks_ch_64_63", C_CHUNKS_CH_64_63, chunks_ch::<64, 63> as fn() -> Out),
+    ("chunks_mut_ch_64_63", C_CHUNKS_MUT_CH_64_63, chunks_mut_ch::<64, 63> as fn() -> Out),
+    ("chunks_ch_64_64", C_CHUNKS_CH_64_64, chunks_ch::<64, 64> as fn() -> Out),
+    ("chunks_mut_ch_64_64", C_CHUNKS_MUT_CH_64_64, chunks_mut_ch::<64, 64> as fn() -> Out),
+    ("chunks_ch_64_65", C_CHUNKS_CH_64_65, chunks_ch::<64, 65> as fn() -> Out),
+    ("chunks_mut_ch_64_65", C_CHUNKS_MUT_CH_64_65, chunks_mut_ch::<64, 65> as fn() -> Out),
+    ("chunks_ch_64_127", C_CHUNKS_CH_64_127, chunks_ch::<64, 127> as fn() -> Out),
+    ("chunks_mut_ch_64_127", C_CHUNKS_MUT_CH_64_127, chunks_mut_ch::<64, 127> as fn() -> Out),
+    ("chunks_ch_64_128", C_CHUNKS_CH_64_128, chunks_ch::<64, 128> as fn() -> Out),
+    ("chunks_mut_ch_64_128", C_CHUNKS_MUT_CH_64_128, chunks_mut_ch::<64, 128> as fn() -> Out),
+    ("chunks_ch_64_129", C_CHUNKS_CH_64_129, chunks_ch::<64, 129> as fn() -> Out),
+    ("chunks_mut_ch_64_129", C_CHUNKS_MUT_CH_64_129, chunks_mut_ch::<64, 129> as fn() -> Out),
+    ("chunks_ch_64_191", C_CHUNKS_CH_64_191, chunks_ch::<64, 191> as fn() -> Out),
+    ("chunks_mut_ch_64_191", C_CHUNKS_MUT_CH_64_191, chunks_mut_ch::<64, 191> as fn() -> Out),
+    ("chunks_ch_64_192", C_CHUNKS_CH_64_192, chunks_ch::<64, 192> as fn() -> Out),
+    ("chunks_mut_ch_64_192", C_CHUNKS_MUT_CH_64_192, chunks_mut_ch::<64, 192> as fn() -> Out),
+    ("chunks_ch_64_193", C_CHUNKS_CH_64_193, chunks_ch::<64, 193> as fn() -> Out),
+    ("chunks_mut_ch_64_193", C_CHUNKS_MUT_CH_64_193, chunks_mut_ch::<64, 193> as fn() -> Out),
+    ("chunks_ch_64_194", C_CHUNKS_CH_64_194, chunks_ch::<64, 194> as fn() -> Out),
+    ("chunks_mut_ch_64_194", C_CHUNKS_MUT_CH_64_194, chunks_mut_ch::<64, 194> as fn() -> Out),
+    ("reinterpret_ch_64_0", C_REINTERPRET_CH_64_0, reinterpret_ch::<64, 0> as fn() -> Out),
+    ("reinterpret_ch_64_1", C_REINTERPRET_CH_64_1, reinterpret_ch::<64, 1> as fn() -> Out),
+    ("reinterpret_ch_64_63", C_REINTERPRET_CH_64_63, reinterpret_ch::<64, 63> as fn() -> Out),
+    ("reinterpret_ch_64_64", C_REINTERPRET_CH_64_64, reinterpret_ch::<64, 64> as fn() -> Out),
+    ("reinterpret_ch_64_65", C_REINTERPRET_CH_64_65, reinterpret_ch::<64, 65> as fn() -> Out),
+    ("reinterpret_ch_64_128", C_REINTERPRET_CH_64_128, reinterpret_ch::<64, 128> as fn() -> Out),
+    ("reinterpret_ch_64_194", C_REINTERPRET_CH_64_194, reinterpret_ch::<64, 194> as fn() -> Out),
+    ("byvalue_ch_64", C_BYVALUE_CH_64, byvalue_ch::<64> as fn() -> Out),
+    ("native_chunks_ch_64_0", C_NATIVE_CHUNKS_CH_64_0, native_chunks_ch::<64, 0> as fn() -> Out),
+    ("native_chunks_ch_64_1", C_NATIVE_CHUNKS_CH_64_1, native_chunks_ch::<64, 1> as fn() -> Out),
+    ("native_chunks_ch_64_2", C_NATIVE_CHUNKS_CH_64_2, native_chunks_ch::<64, 2> as fn() -> Out),
+    ("native_chunks_ch_64_3", C_NATIVE_CHUNKS_CH_64_3, native_chunks_ch::<64, 3> as fn() -> Out),
+    ("chunks_ch_100_0", C_CHUNKS_CH_100_0, chunks_ch::<100, 0> as fn() -> Out),
+    ("chunks_mut_ch_100_0", C_CHUNKS_MUT_CH_100_0, chunks_mut_ch::<100, 0> as fn() -> Out),
+    ("chunks_ch_100_1", C_CHUNKS_CH_100_1, chunks_ch::<100, 1> as fn() -> Out),
+    ("chunks_mut_ch_100_1", C_CHUNKS_MUT_CH_100_1, chunks_mut_ch::<100, 1> as fn() -> Out),
+    ("chunks_ch_100_99", C_CHUNKS_CH_100_99, chunks_ch::<100, 99> as fn() -> Out),
+    ("chunks_mut_ch_100_99", C_CHUNKS_MUT_CH_100_99, chunks_mut_ch::<100, 99> as fn() -> Out),
+    ("chunks_ch_100_100", C_CHUNKS_CH_100_100, chunks_ch::<100, 100> as fn() -> Out),
+    ("chunks_mut_ch_100_100", C_CHUNKS_MUT_CH_100_100, chunks_mut_ch::<100, 100> as fn() -> Out),
+    ("chunks_ch_100_101", C_CHUNKS_CH_100_101, chunks_ch::<100, 101> as fn() -> Out),
+    ("chunks_mut_ch_100_101", C_CHUNKS_MUT_CH_100_101, chunks_mut_ch::<100, 101> as fn() -> Out),
+    ("chunks_ch_100_199", C_CHUNKS_CH_100_199, chunks_ch::<100, 199> as fn() -> Out),
+    ("chunks_mut_ch_100_199", C_CHUNKS_MUT_CH_100_199, chunks_mut_ch::<100, 199> as fn() -> Out),
+    ("chunks_ch_100_200", C_CHUNKS_CH_100_200, chunks_ch::<100, 200> as fn() -> Out),
+    ("chunks_mut_ch_100_200", C_CHUNKS_MUT_CH_100_200, chunks_mut_ch::<100, 200> as fn() -> Out),
+    ("chunks_ch_100_201", C_CHUNKS_CH_100_201, chunks_ch::<100, 201> as fn() -> Out),
+    ("chunks_mut_ch_100_201", C_CHUNKS_MUT_CH_100_201, chunks_mut_ch::<100, 201> as fn() -> Out),
+    ("chunks_ch_100_302", C_CHUNKS_CH_100_302, chunks_ch::<100, 302> as fn() -> Out),
+    ("chunks_mut_ch_100_302", C_CHUNKS_MUT_CH_100_302, chunks_mut_ch::<100, 302> as fn() -> Out),
+    ("reinterpret_ch_100_0", C_REINTERPRET_CH_100_0, reinterpret_ch::<100, 0> as fn() -> Out),
+    ("reinterpret_ch_100_1", C_REINTERPRET_CH_100_1, reinterpret_ch::<100, 1> as fn() -> Out),
+    ("reinterpret_ch_100_99", C_REINTERPRET_CH_100_99, reinterpret_ch::<100, 99> as fn() -> Out),
+    ("reinterpret_ch_100_100", C_REINTERPRET_CH_100_100, reinterpret_ch::<100, 100> as fn() -> Out),
+    ("reinterpret_ch_100_101", C_REINTERPRET_CH_100_101, reinterpret_ch::<100, 101> as fn() -> Out),
+    ("reinterpret_ch_100_200", C_REINTERPRET_CH_100_200, reinterpret_ch::<100, 200> as fn() -> Out),
+    ("reinterpret_ch_100_302", C_REINTERPRET_CH_100_302, reinterpret_ch::<100, 302> as fn() -> Out),
+    ("byvalue_ch_100", C_BYVALUE_CH_100, byvalue_ch::<100> as fn() -> Out),
+    ("native_chunks_ch_100_0", C_NATIVE_CHUNKS_CH_100_0, native_chunks_ch::<100, 0> as fn() -> Out),
+    ("native_chunks_ch_100_1", C_NATIVE_CHUNKS_CH_100_1, native_chunks_ch::<100, 1> as fn() -> Out),
+    ("native_chunks_ch_100_2", C_NATIVE_CHUNKS_CH_100_2, native_chunks_ch::<100, 2> as fn() -> Out),
+    ("native_chunks_ch_100_3", C_NATIVE_CHUNKS_CH_100_3, native_chunks_ch::<100, 3> as fn() -> Out),
+    ("chunks_ch_1024_0", C_CHUNKS_CH_1024_0, chunks_ch::<1024, 0> as fn() -> Out),
+    ("chunks_mut_ch_1024_0", C_CHUNKS_MUT_CH_1024_0, chunks_mut_ch::<1024, 0> as fn() -> Out),
+    ("chunks_ch_1024_1", C_CHUNKS_CH_1024_1, chunks_ch::<1024, 1> as fn() -> Out),
+    ("chunks_mut_ch_1024_1", C_CHUNKS_MUT_CH_1024_1, chunks_mut_ch::<1024, 1> as fn() -> Out),
+    ("chunks_ch_1024_1023", C_CHUNKS_CH_1024_1023, chunks_ch::<1024, 1023> as fn() -> Out),
+    ("chunks_mut_ch_1024_1023", C_CHUNKS_MUT_CH_1024_1023, chunks_mut_ch::<1024, 1023> as fn() -> Out),
+    ("chunks_ch_1024_1024", C_CHUNKS_CH_1024_1024, chunks_ch::<1024, 1024> as fn() -> Out),
+    ("chunks_mut_ch_1024_1024", C_CHUNKS_MUT_CH_1024_1024, chunks_mut_ch::<1024, 1024> as fn() -> Out),
+    ("chunks_ch_1024_1025", C_CHUNKS_CH_1024_1025, chunks_ch::<1024, 1025> as fn() -> Out),
+    ("chunks_mut_ch_1024_1025", C_CHUNKS_MUT_CH_1024_1025, chunks_mut_ch::<1024, 1025> as fn() -> Out),
+    ("chunks_ch_1024_2047", C_CHUNKS_CH_1024_2047, chunks_ch::<1024, 2047> as fn() -> Out),
+    ("chunks_mut_ch_1024_2047", C_CHUNKS_MUT_CH_1024_2047, chunks_mut_ch::<1024, 2047> as fn() -> Out),
+    ("chunks_ch_1024_2048", C_CHUNKS_CH_1024_2048, chunks_ch::<1024, 2048> as fn() -> Out),
+    ("chunks_mut_ch_1024_2048", C_CHUNKS_MUT_CH_1024_2048, chunks_mut_ch::<1024, 2048> as fn() -> Out),
+    ("chunks_ch_1024_2049", C_CHUNKS_CH_1024_2049, chunks_ch::<1024, 2049> as fn() -> Out),
+    ("chunks_mut_ch_1024_2049", C_CHUNKS_MUT_CH_1024_2049, chunks_mut_ch::<1024, 2049> as fn() -> Out),
+    ("chunks_ch_1024_3074", C_CHUNKS_CH_1024_3074, chunks_ch::<1024, 3074> as fn() -> Out),
+    ("chunks_mut_ch_1024_3074", C_CHUNKS_MUT_CH_1024_3074, chunks_mut_ch::<1024, 3074> as fn() -> Out),
+    ("reinterpret_ch_1024_0", C_REINTERPRET_CH_1024_0, reinterpret_ch::<1024, 0> as fn() -> Out),
+    ("reinterpret_ch_1024_1", C_REINTERPRET_CH_1024_1, reinterpret_ch::<1024, 1> as fn() -> Out),
+    ("reinterpret_ch_1024_1023", C_REINTERPRET_CH_1024_1023, reinterpret_ch::<1024, 1023> as fn() -> Out),
+    ("reinterpret_ch_1024_1024", C_REINTERPRET_CH_1024_1024, reinterpret_ch::<1024, 1024> as fn() -> Out),
+    ("reinterpret_ch_1024_1025", C_REINTERPRET_CH_1024_1025, reinterpret_ch::<1024, 1025> as fn() -> Out),
+    ("reinterpret_ch_1024_2048", C_REINTERPRET_CH_1024_2048, reinterpret_ch::<1024, 2048> as fn() -> Out),
+    ("reinterpret_ch_1024_3074", C_REINTERPRET_CH_1024_3074, reinterpret_ch::<1024, 3074> as fn() -> Out),
+    ("byvalue_ch_1024", C_BYVALUE_CH_1024, byvalue_ch::<1024> as fn() -> Out),
+    ("native_chunks_ch_1024_0", C_NATIVE_CHUNKS_CH_1024_0, native_chunks_ch::<1024, 0> as fn() -> Out),
+    ("native_chunks_ch_1024_1", C_NATIVE_CHUNKS_CH_1024_1, native_chunks_ch::<1024, 1> as fn() -> Out),
+    ("native_chunks_ch_1024_2", C_NATIVE_CHUNKS_CH_1024_2, native_chunks_ch::<1024, 2> as fn() -> Out),
+    ("native_chunks_ch_1024_3", C_NATIVE_CHUNKS_CH_1024_3, native_chunks_ch::<1024, 3> as fn() -> Out),
     ("transmute", C_TRANSMUTE, transmute_case as fn() -> Out),
     ("builders_finish_empty", C_BUILDERS_FINISH_EMPTY, builders_finish_empty as fn() -> Out),
     ("builders_0", C_BUILDERS_0, builders_case::<0> as fn() -> Out),
